@@ -1,13 +1,20 @@
 (* Proofs/FragmentProofs.v — the grammar model on a fragment of well-formed Delphi (Model/Fragment.v):
-   for EVERY program of the fragment (any nesting depth, any number of statements) the model ends without
-   error and produces exactly the expected logical lines.  Proof: symbolic execution of `run` on states of
-   the shape `ST` (finished lines, one current line that is the last line, on top of a fixed rest `stk` of
-   the current_line stack: the "frame") and, where the current line is not the last line (after a child
-   line context has returned to its header line), of the shape `GS`; effect lemmas for the primitives; an
-   induction over the syntax tree for the statement-list loop, generic in the kind of the enclosing block
-   (begin/end, repeat/until, try/finally, try/except, the arms and the else part of a case statement), in the frame and in the parent of the enclosing
-   child line context.  The bodies of `if`/`while` are child lines: `child_run` crosses from the frame of
-   the header line to the frame of its child lines and back. *)
+   for EVERY well-formed program of the fragment (any nesting depth, any number of statements) the model ends
+   without error and produces exactly the expected logical lines.  Proof: symbolic execution of `run` on
+   states of the shape `ST` (finished lines, one current line that is the last line, on top of a fixed rest
+   `stk` of the current_line stack: the "frame") and, where the current line is not the last line (after a
+   child line context has returned to its header line, on the arm lines of a case statement), of the shape
+   `GS`; effect lemmas for the primitives.  A statement is executed at a POSITION: a context stack X with the
+   context-ending test as a function E of the current token (`Pos`); `Pcore c` says what parse_structures does
+   on the statement c at any position, up to its finished last line, by induction on c — the body of an
+   if/while/case arm is the same statement at the position with a child line context on top (`pos_child`,
+   `child_run` crosses from the frame of the header line to the frame of its child lines and back).  `Plist`
+   is the statement-list loop of a block (generic in the kind of the block), `Parms` the loop over the arms
+   of a case statement, `Phand` the loop over the handlers of an except block.  Tokens: while the pass index is k the
+   state holds `mix k` (final types before k, lexed types from k on); re-typed tokens: `on` of a handler, and in the
+   declaration sections `var`/`const` (DeclKind Section) and the `=` of a constant (EqKind Decl).
+   Declaration sections in front of the main block (`member_run`, `members_run`, `section_run`, `decls_run`,
+   `unit_run`, at the end of Section Frag): the theorems about units are in Proofs/FragmentUnitProofs.v. *)
 From PasfmtVerif Require Import Model.Fragment Model.DirectiveTree Proofs.DirectiveTreeProofs Proofs.ParserKernelProofs Proofs.ParserGrammarProofs
   Proofs.ParserGrammarTypesProofs Proofs.ParserGrammarCoverProofs Proofs.ParserGrammarEofProofs.
 Local Open Scope nat_scope.
@@ -17,7 +24,8 @@ Definition plain (t : RawTokenType) : Prop :=
   | RTT_Identifier | RTT_Op OK_Semicolon | RTT_Op OK_Assign | RTT_Op OK_Dot | RTT_Keyword KK_Begin | RTT_Keyword KK_End
   | RTT_Keyword KK_Repeat | RTT_Keyword KK_Until | RTT_Keyword KK_Try | RTT_Keyword KK_Finally | RTT_Keyword KK_Except
   | RTT_Keyword KK_If | RTT_Keyword KK_Then | RTT_Keyword KK_Else | RTT_Keyword KK_While | RTT_Keyword KK_Do
-  | RTT_Keyword KK_Case | RTT_Keyword KK_Of | RTT_Op OK_Colon | RTT_Eof => True
+  | RTT_Keyword KK_Case | RTT_Keyword KK_Of | RTT_Op OK_Colon | RTT_IdentifierOrKeyword KK_On | RTT_Keyword KK_On
+  | RTT_Keyword (KK_Var _) | RTT_Keyword (KK_Const _) | RTT_Op (OK_Equal _) | RTT_Eof => True
   | _ => False
   end.
 
@@ -37,8 +45,8 @@ Proof.
 Qed.
 
 Ltac len_tac := repeat (first [rewrite app_length | rewrite map_length | progress cbn [length]]); lia.
-Scheme stmts_mut := Induction for stmts Sort Prop with tbody_mut := Induction for tbody Sort Prop
-  with arms_mut := Induction for arms Sort Prop.
+Scheme stmt_mut := Induction for stmt Sort Prop with stmts_mut := Induction for stmts Sort Prop
+  with arms_mut := Induction for arms Sort Prop with handlers_mut := Induction for handlers Sort Prop.
 
 (* the lines of the arms of a case statement (Fragment.arms_lines) split at the `end`/`else` line: the lines
    before it, the index of that line, and the child lines owed by the last arm *)
@@ -46,23 +54,23 @@ Fixpoint arms_pre (par : option (nat * nat)) (d : Z) (k li : nat) (a : arms) (pe
   match a with
   | ANil => []
   | ACons c a' =>
-      let e := k + 2 + length (render_body c) in
+      let e := k + 2 + length (render_stmt c) in
       mkLine LLT_CaseArm (lvl (d + 1)) par [k; k + 1] :: pend (li + 1)
-      ++ arms_pre par d (e + 1) (li + 1 + length (pend (li + 1))) a' (fun i => pexpected_body (Some (li, k + 1)) (k + 2) i (Some e) c)
+      ++ arms_pre par d (e + 1) (li + 1 + length (pend (li + 1))) a' (fun i => sexpected (Some (li, k + 1)) 1 (k + 2) i [e] c ++ [stray])
   end.
 Fixpoint arms_li (k li : nat) (a : arms) (pend : nat -> list lline) : nat :=
   match a with
   | ANil => li
   | ACons c a' =>
-      let e := k + 2 + length (render_body c) in
-      arms_li (e + 1) (li + 1 + length (pend (li + 1))) a' (fun i => pexpected_body (Some (li, k + 1)) (k + 2) i (Some e) c)
+      let e := k + 2 + length (render_stmt c) in
+      arms_li (e + 1) (li + 1 + length (pend (li + 1))) a' (fun i => sexpected (Some (li, k + 1)) 1 (k + 2) i [e] c ++ [stray])
   end.
 Fixpoint arms_pend (k li : nat) (a : arms) (pend : nat -> list lline) : nat -> list lline :=
   match a with
   | ANil => pend
   | ACons c a' =>
-      let e := k + 2 + length (render_body c) in
-      arms_pend (e + 1) (li + 1 + length (pend (li + 1))) a' (fun i => pexpected_body (Some (li, k + 1)) (k + 2) i (Some e) c)
+      let e := k + 2 + length (render_stmt c) in
+      arms_pend (e + 1) (li + 1 + length (pend (li + 1))) a' (fun i => sexpected (Some (li, k + 1)) 1 (k + 2) i [e] c ++ [stray])
   end.
 Lemma arms_lines_eq : forall a par d k li pend tail,
   arms_lines par d k li a pend tail
@@ -79,6 +87,7 @@ Proof.
   rewrite (IH par d). rewrite app_length. lia.
 Qed.
 
+
 Section Frag.
 Variable T : list RawTokenType.
 Hypothesis Tplain : Forall plain T.
@@ -92,6 +101,34 @@ Definition restv (s : pstate) :=
    (ps_paren pass s, ps_brack pass s, ps_generic pass s), ps_attr pass s, ps_err pass s).
 Definition levels := (N * N * N)%type.
 
+(* the tokens the parser re-types (contextual keywords in keyword position): `fin` is the final type; while the
+   pass index is k the tokens before k have their final types, the tokens from k on are as lexed *)
+Definition fin (t : RawTokenType) : RawTokenType := retype t.
+Definition mix (r : nat) : list RawTokenType := map fin (firstn r T) ++ skipn r T.
+Definition tokfin (k : nat) : Prop := exists t, nth_error T k = Some t /\ fin t = t.
+Lemma tokfin_lt k : tokfin k -> k < n.
+Proof. intros (t & H & _). apply nth_error_Some. congruence. Qed.
+Lemma mix_nth_ge r i : r <= i -> nth_error (mix r) i = nth_error T i.
+Proof.
+  intros H. unfold mix. rewrite <- (firstn_skipn r T) at 3.
+  assert (Hl : length (firstn r T) <= i) by (rewrite firstn_length; lia).
+  rewrite !nth_error_app2 by (rewrite ?map_length; exact Hl). rewrite map_length. reflexivity.
+Qed.
+Lemma fin_plain t : plain t -> plain (fin t).
+Proof.
+  destruct t as [o| |k0|k0| | | | | | |]; try exact (fun H => H).
+  - destruct o; try exact (fun H => H). destruct k; exact (fun H => H).
+  - destruct k0; exact (fun H => H).
+  - destruct k0; try exact (fun H => H); match goal with d : DeclKind |- _ => destruct d; exact (fun H => H) end.
+Qed.
+Lemma mix_step k : tokfin k -> mix (S k) = mix k.
+Proof.
+  intros (t & Ht & Hf). unfold mix. revert k Ht. generalize T as l.
+  induction l as [|a l IH]; intros [|k] Ht; cbn in Ht; try discriminate.
+  - injection Ht as ->. cbn. rewrite Hf. reflexivity.
+  - cbn [firstn skipn map app]. f_equal. apply IH, Ht.
+Qed.
+
 (* the frame: the rest of the current_line stack below the current line, and the parent of the child line
    context we are in (None outside child lines); both are constant along a statement list *)
 Section Frame.
@@ -103,11 +140,11 @@ Variable par : option (nat * nat).
 Definition ST (s : pstate) (k : nat) (L : list (list nat)) (c : list nat) (M : list lmeta) (mc : lmeta) (last : nat)
            (cx : list (pctx * bool)) (lv : levels) (at_ : list nat) : Prop :=
   kst pass s = mkK (L ++ [c]) (length L :: stk) k last /\ metas pass s = M ++ [mc] /\ length M = length L
-  /\ restv s = (T, cx, [], false, lv, at_, None).
+  /\ restv s = (mix k, cx, [], false, lv, at_, None).
 
 Lemma ST_err s k L c M mc last cx lv a : ST s k L c M mc last cx lv a -> has_err pass s = false.
 Proof. intros (_ & _ & _ & R). unfold restv in R. unfold has_err. injection R as _ _ _ _ _ _ E. rewrite E. reflexivity. Qed.
-Lemma ST_toks s k L c M mc last cx lv a : ST s k L c M mc last cx lv a -> ps_toks pass s = T.
+Lemma ST_toks s k L c M mc last cx lv a : ST s k L c M mc last cx lv a -> ps_toks pass s = mix k.
 Proof. intros (_ & _ & _ & R). unfold restv in R. congruence. Qed.
 Lemma ST_ctx s k L c M mc last cx lv a : ST s k L c M mc last cx lv a -> ps_ctx pass s = cx.
 Proof. intros (_ & _ & _ & R). unfold restv in R. congruence. Qed.
@@ -131,8 +168,8 @@ Lemma ST_cur_tt s k L c M mc last cx lv a t : ST s k L c M mc last cx lv a -> nt
 Proof.
   intros H Ht. assert (Hk : k < n) by (apply nth_error_Some; congruence).
   pose proof (ST_toks _ _ _ _ _ _ _ _ _ _ H) as Tk.
-  unfold cur_tt, idx0. rewrite (ST_cur_index _ _ _ _ _ _ _ _ _ _ H Hk). unfold tt_at. rewrite Tk, Ht.
-  destruct t; cbn [bind]; try reflexivity; exact Ht.
+  unfold cur_tt, idx0. rewrite (ST_cur_index _ _ _ _ _ _ _ _ _ _ H Hk). unfold tt_at. rewrite Tk, (mix_nth_ge k k (le_n k)), Ht.
+  destruct t; cbn [bind]; try reflexivity; rewrite (mix_nth_ge k k (le_n k)); exact Ht.
 Qed.
 Lemma ST_cur_tt_end s k L c M mc last cx lv a : ST s k L c M mc last cx lv a -> n <= k -> cur_tt pass s = None.
 Proof. intros H Hk. apply cur_tt_past_end. rewrite seq_length, (ST_pidx _ _ _ _ _ _ _ _ _ _ H). exact Hk. Qed.
@@ -158,9 +195,9 @@ Proof. intros E. unfold p_emit, guard. rewrite E. unfold metas. cbn [ps_core set
 
 (* next_token on a token of the fragment *)
 Lemma next_token_ST s k L c M mc last cx lv a :
-  ST s k L c M mc last cx lv a -> k < n -> ST (next_token pass s) (S k) L (c ++ [k]) M mc last cx lv a.
+  ST s k L c M mc last cx lv a -> tokfin k -> ST (next_token pass s) (S k) L (c ++ [k]) M mc last cx lv a.
 Proof.
-  intros H Hk. pose proof (ST_err _ _ _ _ _ _ _ _ _ _ H) as E.
+  intros H Hkf. pose proof (tokfin_lt k Hkf) as Hk. pose proof (ST_err _ _ _ _ _ _ _ _ _ _ H) as E.
   destruct (nth_error T k) as [t|] eqn:Et; [|apply nth_error_None in Et; lia].
   pose proof (plain_nth _ _ Et) as P.
   assert (B : next_token_body pass s = p_emit pass KT lm0 s).
@@ -174,7 +211,7 @@ Proof.
       rewrite (nth_error_seq0 _ _ Hk). rewrite upd_nth_app_last. reflexivity.
     - rewrite (metas_p_emit _ _ _ E). exact Mt.
     - exact Ml.
-    - rewrite restv_p_emit. exact R. }
+    - rewrite restv_p_emit, (mix_step k Hkf). exact R. }
   unfold next_token. replace (remaining pass s + 2) with (S (remaining pass s + 1)) by lia.
   cbn [next_token_go]. rewrite E, B. rewrite (ST_not_inline _ _ _ _ _ _ _ _ _ _ S1). exact S1.
 Qed.
@@ -223,14 +260,20 @@ Proof.
 Qed.
 
 (* no token of the fragment is a portability keyword candidate: consolidate_portability_directives changes nothing *)
-Lemma portability_go_noop : forall li (s : pstate), ps_toks pass s = T -> portability_go pass li s = s.
+Lemma mix_plain r : Forall plain (mix r).
+Proof.
+  unfold mix. pose proof Tplain as TP. rewrite <- (firstn_skipn r T) in TP. apply Forall_app in TP. destruct TP as [P1 P2].
+  apply Forall_app. split; [|exact P2]. apply Forall_map. eapply Forall_impl; [intros a Ha; apply fin_plain, Ha|exact P1].
+Qed.
+Lemma portability_go_noop : forall li (s : pstate), Forall plain (ps_toks pass s) -> portability_go pass li s = s.
 Proof.
   induction li as [|p IH]; intros s Tk; cbn [portability_go]; (destruct (nth_error (cur_toks pass s) _) as [ti|]; [|reflexivity]); cbv zeta.
   all: repeat match goal with |- (if ?c then _ else _) = _ => destruct c; [reflexivity|] end.
-  all: unfold tt_at; rewrite Tk; destruct (nth_error T ti) as [t|] eqn:E; try reflexivity; try (apply IH, Tk).
-  all: pose proof (plain_nth _ _ E) as P; destruct t; try contradiction; try reflexivity; try (apply IH, Tk).
+  all: unfold tt_at; destruct (nth_error (ps_toks pass s) ti) as [t|] eqn:E; try reflexivity; try (apply IH, Tk).
+  all: pose proof (proj1 (Forall_forall _ _) Tk t (nth_error_In _ _ E)) as P; destruct t as [o| |k0|k0| | | | | | |]; try contradiction; try reflexivity; try (apply IH, Tk).
+  all: destruct k0; try contradiction; try reflexivity; try (apply IH, Tk).
 Qed.
-Lemma portability_noop_G (s : pstate) : ps_toks pass s = T -> consolidate_portability_directives pass s = s.
+Lemma portability_noop_G (s : pstate) : Forall plain (ps_toks pass s) -> consolidate_portability_directives pass s = s.
 Proof.
   intros Tk. unfold consolidate_portability_directives.
   destruct (cur_toks pass s) as [|t0 r] eqn:Ec; [unfold cur_line_tts; rewrite Ec; reflexivity|].
@@ -241,7 +284,7 @@ Proof.
 Qed.
 Lemma portability_noop s k L c M mc last cx lv a :
   ST s k L c M mc last cx lv a -> consolidate_portability_directives pass s = s.
-Proof. intros H. apply portability_noop_G, (ST_toks _ _ _ _ _ _ _ _ _ _ H). Qed.
+Proof. intros H. apply portability_noop_G. rewrite (ST_toks _ _ _ _ _ _ _ _ _ _ H). apply mix_plain. Qed.
 Lemma inline_noop s f : is_inline_comment (cur_tt pass s) = false -> inline_comments_go pass (S f) s = s.
 Proof.
   intros H. cbn [inline_comments_go]. destruct (has_err pass s); [reflexivity|].
@@ -293,40 +336,55 @@ Qed.
 (* ---------------- general versions (any line-stack shape), for take_separators_on_last_line *)
 Lemma cur_index_G (s : pstate) k : pidx pass s = k -> k < n -> cur_index pass s = Some k.
 Proof. intros P Hk. unfold cur_index. rewrite P. apply nth_error_seq0, Hk. Qed.
-Lemma cur_tt_G (s : pstate) k t : ps_toks pass s = T -> pidx pass s = k -> nth_error T k = Some t ->
+Lemma cur_tt_G (s : pstate) Tc k t : ps_toks pass s = Tc -> pidx pass s = k -> k < n -> nth_error Tc k = Some t ->
   cur_tt pass s = match t with RTT_Eof => None | _ => Some t end.
 Proof.
-  intros Tk P Ht. assert (Hk : k < n) by (apply nth_error_Some; congruence).
+  intros Tk P Hk Ht.
   unfold cur_tt, idx0. rewrite (cur_index_G s k P Hk). unfold tt_at. rewrite Tk, Ht.
   destruct t; cbn [bind]; try reflexivity; exact Ht.
 Qed.
-Lemma not_inline_G (s : pstate) k : ps_toks pass s = T -> pidx pass s = k -> is_inline_comment (cur_tt pass s) = false.
+Lemma not_inline_G (s : pstate) Tc k : ps_toks pass s = Tc -> Forall plain Tc -> pidx pass s = k -> is_inline_comment (cur_tt pass s) = false.
 Proof.
-  intros Tk P. destruct (nth_error T k) as [t|] eqn:E.
-  - rewrite (cur_tt_G s k t Tk P E). pose proof (plain_nth _ _ E) as Pl. destruct t; try reflexivity; contradiction.
-  - rewrite cur_tt_past_end; [reflexivity|]. rewrite seq_length, P. apply nth_error_None, E.
+  intros Tk TP P. destruct (Nat.lt_ge_cases k n) as [Hk|Hk].
+  - destruct (nth_error Tc k) as [t|] eqn:E.
+    + rewrite (cur_tt_G s Tc k t Tk P Hk E). pose proof (proj1 (Forall_forall _ _) TP t (nth_error_In _ _ E)) as Pl. destruct t; try reflexivity; contradiction.
+    + unfold cur_tt, idx0. rewrite (cur_index_G s k P Hk). unfold tt_at. rewrite Tk, E. reflexivity.
+  - rewrite cur_tt_past_end; [reflexivity|]. rewrite seq_length, P. exact Hk.
 Qed.
-Lemma next_token_G (s : pstate) k :
-  has_err pass s = false -> ps_toks pass s = T -> pidx pass s = k -> k < n ->
+Lemma next_token_G (s : pstate) Tc k :
+  has_err pass s = false -> ps_toks pass s = Tc -> Forall plain Tc -> pidx pass s = k -> k < n -> length Tc = n ->
   kst pass (next_token pass s) = k_step pass (kst pass s) KT /\ metas pass (next_token pass s) = metas pass s
   /\ restv (next_token pass s) = restv s.
 Proof.
-  intros E Tk P Hk.
-  destruct (nth_error T k) as [t|] eqn:Et; [|apply nth_error_None in Et; lia].
-  pose proof (plain_nth _ _ Et) as Pl.
+  intros E Tk TP P Hk Hlen.
+  destruct (nth_error Tc k) as [t|] eqn:Et; [|apply nth_error_None in Et; lia].
+  pose proof (proj1 (Forall_forall _ _) TP t (nth_error_In _ _ Et)) as Pl.
   assert (B : next_token_body pass s = p_emit pass KT lm0 s).
-  { unfold next_token_body. rewrite (cur_index_G s k P Hk). pose proof (cur_tt_G s k t Tk P Et) as Ct.
+  { unfold next_token_body. rewrite (cur_index_G s k P Hk). pose proof (cur_tt_G s Tc k t Tk P Hk Et) as Ct.
     destruct t as [o| |k0|k0| | | | | | |]; try contradiction; try (destruct o; try contradiction); try (destruct k0; try contradiction);
       rewrite Ct; unfold track_levels; rewrite Ct; reflexivity. }
   set (s1 := p_emit pass KT lm0 s).
   assert (K1 : kst pass s1 = k_step pass (kst pass s) KT) by (apply kst_p_emit, E).
   assert (R1 : restv s1 = restv s) by apply restv_p_emit.
   assert (N1 : is_inline_comment (cur_tt pass s1) = false).
-  { apply (not_inline_G s1 (S k)); [unfold restv in R1; congruence|]. unfold pidx. rewrite K1, k_pi_KT. fold (pidx pass s). rewrite P. reflexivity. }
+  { apply (not_inline_G s1 Tc (S k)); [unfold restv in R1; congruence|exact TP|]. unfold pidx. rewrite K1, k_pi_KT. fold (pidx pass s). rewrite P. reflexivity. }
   unfold next_token. replace (remaining pass s + 2) with (S (remaining pass s + 1)) by lia.
   cbn [next_token_go]. rewrite E, B. fold s1. rewrite N1. split; [exact K1|]. split; [|exact R1].
   subst s1. rewrite (metas_p_emit _ _ _ E). reflexivity.
 Qed.
+Lemma toks_plain_G (s : pstate) r : ps_toks pass s = mix r -> Forall plain (ps_toks pass s).
+Proof. intros ->. apply mix_plain. Qed.
+Lemma mix_length r : length (mix r) = n.
+Proof. unfold mix. rewrite app_length, map_length, <- app_length, firstn_skipn. reflexivity. Qed.
+Lemma mix_all : mix n = map fin T.
+Proof. unfold mix. rewrite firstn_all, skipn_all, app_nil_r. reflexivity. Qed.
+Lemma mix_0 : mix 0 = T.
+Proof. reflexivity. Qed.
+Lemma tokfin_semi k : nth_error T k = Some tSemi -> tokfin k.
+Proof. intros H. exists tSemi. split; [exact H|reflexivity]. Qed.
+Ltac tokfin_tac :=
+  match goal with |- tokfin ?k =>
+    match goal with H : nth_error T k = Some ?t |- _ => exists t; split; [exact H|try reflexivity] end end.
 
 (* take_separators_on_last_line in front of one `;`: the `;` is appended to the last finished line *)
 Lemma take_separators_ST lvl_ s k L M mc last cx lv a t' :
@@ -342,44 +400,47 @@ Proof.
   set (s1 := p_emit pass KR lm0 s).
   assert (K1 : kst pass s1 = mkK (L ++ [[]]) (last :: length L :: stk) k last) by (subst s1; rewrite (kst_p_emit pass KR lm0 s E), K; reflexivity).
   assert (M1 : metas pass s1 = M ++ [mc]) by (subst s1; rewrite (metas_p_emit _ _ _ E); exact Mt).
-  assert (R1 : restv s1 = (T, cx, [], false, lv, a, None)) by (subst s1; rewrite restv_p_emit; exact R).
+  assert (R1 : restv s1 = (mix k, cx, [], false, lv, a, None)) by (subst s1; rewrite restv_p_emit; exact R).
   assert (A1 : at_start pass s1 = false).
   { unfold at_start, cur_toks, cur_ref. rewrite K1. cbn [k_top k_cur hd k_lines]. rewrite app_nth1 by exact Hl.
     destruct (nth last L []); [contradiction|reflexivity]. }
   rewrite A1.
   set (s2 := push_ctx pass (mkCtx CT_Utility true P_never lvl_) s1).
   assert (E1 : has_err pass s1 = false) by (unfold has_err; unfold restv in R1; injection R1 as _ _ _ _ _ _ X; rewrite X; reflexivity).
-  assert (F2 : kst pass s2 = kst pass s1 /\ metas pass s2 = metas pass s1 /\ restv s2 = (T, (mkCtx CT_Utility true P_never lvl_, false) :: cx, [], false, lv, a, None)).
+  assert (F2 : kst pass s2 = kst pass s1 /\ metas pass s2 = metas pass s1 /\ restv s2 = (mix k, (mkCtx CT_Utility true P_never lvl_, false) :: cx, [], false, lv, a, None)).
   { subst s2. unfold push_ctx, guard. rewrite E1. repeat split. unfold restv in *. cbn.
     injection R1 as X1 X2 X3 X4 X5 X6 X7. rewrite X1, X2, X3, X4, X5, X6, X7. reflexivity. }
   destruct F2 as (K2 & M2 & R2).
-  assert (T2 : ps_toks pass s2 = T) by (unfold restv in R2; congruence).
+  assert (T2 : ps_toks pass s2 = mix k) by (unfold restv in R2; congruence).
+  assert (Hk' : nth_error (mix k) k = Some tSemi) by (rewrite mix_nth_ge by lia; exact Hk).
+  assert (Hkn1 : S k < n) by (apply nth_error_Some; congruence).
+  assert (Hk1' : nth_error (mix k) (S k) = Some t') by (rewrite mix_nth_ge by lia; exact Hk1).
   assert (P2 : pidx pass s2 = k) by (unfold pidx; rewrite K2, K1; reflexivity).
   assert (E2 : has_err pass s2 = false) by (unfold has_err; unfold restv in R2; injection R2 as _ _ _ _ _ _ X; rewrite X; reflexivity).
   (* take_until: exactly one next_token *)
-  destruct (next_token_G s2 k E2 T2 P2 Hkn) as (K3 & M3 & R3). set (s3 := next_token pass s2) in *.
-  assert (T3 : ps_toks pass s3 = T) by (unfold restv in R3, R2; congruence).
+  destruct (next_token_G s2 (mix k) k E2 T2 (mix_plain k) P2 Hkn (mix_length k)) as (K3 & M3 & R3). set (s3 := next_token pass s2) in *.
+  assert (T3 : ps_toks pass s3 = mix k) by (unfold restv in R3, R2; congruence).
   assert (P3 : pidx pass s3 = S k) by (unfold pidx; rewrite K3, k_pi_KT; fold (pidx pass s2); rewrite P2; reflexivity).
   assert (TU : take_until pass (no_more_separators pass) s2 = s3).
   { unfold take_until, simple_op_until, op_until.
     assert (Hrem : remaining pass s2 + 2 = S (S (remaining pass s2))) by lia. rewrite Hrem.
-    cbn [op_until_go]. rewrite E2, (cur_tt_G s2 k tSemi T2 P2 Hk). cbn [tSemi].
-    unfold no_more_separators at 1. rewrite (cur_tt_G s2 k tSemi T2 P2 Hk). cbn [tSemi o_semicolon negb].
+    cbn [op_until_go]. rewrite E2, (cur_tt_G s2 (mix k) k tSemi T2 P2 Hkn Hk'). cbn [tSemi].
+    unfold no_more_separators at 1. rewrite (cur_tt_G s2 (mix k) k tSemi T2 P2 Hkn Hk'). cbn [tSemi o_semicolon negb].
     assert (IE : is_ending pass s2 = false).
     { unfold is_ending, ending_ctx. assert (C2 : ps_ctx pass s2 = (mkCtx CT_Utility true P_never lvl_, false) :: cx) by (unfold restv in R2; congruence).
       rewrite C2. reflexivity. }
     rewrite IE. fold s3.
     assert (E3 : has_err pass s3 = false).
     { unfold has_err. unfold restv in R3, R2. assert (X : ps_err pass s3 = None) by congruence. rewrite X. reflexivity. }
-    rewrite E3. rewrite (cur_tt_G s3 (S k) t' T3 P3 Hk1).
+    rewrite E3. rewrite (cur_tt_G s3 (mix k) (S k) t' T3 P3 Hkn1 Hk1').
     destruct t' as [o| |k0|k0| | | | | | |]; try reflexivity;
-      unfold no_more_separators; rewrite (cur_tt_G s3 (S k) _ T3 P3 Hk1); try reflexivity.
+      unfold no_more_separators; rewrite (cur_tt_G s3 (mix k) (S k) _ T3 P3 Hkn1 Hk1'); try reflexivity.
     destruct o; try reflexivity. exfalso. apply Hne. reflexivity. }
   rewrite TU.
   assert (E3 : has_err pass s3 = false).
   { unfold has_err. unfold restv in R3, R2. assert (X : ps_err pass s3 = None) by congruence. rewrite X. reflexivity. }
   set (s4 := pop_ctx pass s3).
-  assert (F4 : kst pass s4 = kst pass s3 /\ metas pass s4 = metas pass s3 /\ restv s4 = (T, cx, [], false, lv, a, None)).
+  assert (F4 : kst pass s4 = kst pass s3 /\ metas pass s4 = metas pass s3 /\ restv s4 = (mix k, cx, [], false, lv, a, None)).
   { subst s4. unfold pop_ctx, guard. rewrite E3. repeat split. unfold restv in *. cbn.
     rewrite R2 in R3. injection R3 as X1 X2 X3 X4 X5 X6 X7. rewrite X1, X2, X3, X4, X5, X6, X7. reflexivity. }
   destruct F4 as (K4 & M4 & R4).
@@ -390,7 +451,7 @@ Proof.
     rewrite upd_nth_len. reflexivity.
   - rewrite (metas_p_emit _ _ _ E4). cbn [appends]. rewrite M4, M3, M2. exact M1.
   - rewrite upd_nth_len. exact Ml.
-  - rewrite restv_p_emit. exact R4.
+  - rewrite restv_p_emit, (mix_step k (tokfin_semi k Hk)). exact R4.
 Qed.
 (* ... and it does nothing in front of another token *)
 Lemma take_separators_noop lvl_ s k L c M mc last cx lv a t :
@@ -503,67 +564,15 @@ Proof.
   assert (Sk : exists r, skipn (S k) pass = S k :: r).
   { rewrite skipn_seq. cbn [Nat.add]. destruct (length T - S k) eqn:Z; [lia|]. cbn [seq]. eauto. }
   destruct Sk as [r Sk].
-  rewrite Sk. cbn [find]. unfold filt_at, tt_at. rewrite (ST_toks _ _ _ _ _ _ _ _ _ _ H), Ht.
+  rewrite Sk. cbn [find]. unfold filt_at, tt_at. rewrite (ST_toks _ _ _ _ _ _ _ _ _ _ H), (mix_nth_ge k (S k)) by lia. rewrite Ht.
   pose proof (plain_nth _ _ Ht) as P.
   assert (F : tok_filter t = true) by (destruct t; try reflexivity; try contradiction; exfalso; apply Hne; reflexivity).
-  rewrite F. cbn [bind]. exact Ht.
+  rewrite F. cbn [bind]. rewrite (mix_nth_ge k (S k)) by lia. exact Ht.
 Qed.
 
 (* ---------------- parse_statement / parse_structures on `Identifier ;` *)
 Lemma last_ctx_ST s k L c M mc last x fl r lv a : ST s k L c M mc last ((x, fl) :: r) lv a -> last_ctx pass s = Some x.
 Proof. intros H. unfold last_ctx. rewrite (ST_ctx _ _ _ _ _ _ _ _ _ _ H). reflexivity. Qed.
-Lemma prelude_continue s k L c M mc last C lv a t :
-  sk_of bk <> SK_Case ->
-  ST s k L c M mc last (((cStk bk), false) :: (cSB, false) :: C) lv a -> nth_error T k = Some t ->
-  t <> tSemi -> is_term bk t = false -> statement_prelude pass s = (s, true).
-Proof.
-  intros Hsk H Ht N1 N2. unfold statement_prelude. rewrite (last_ctx_ST _ _ _ _ _ _ _ _ _ _ _ _ H), (ending_St_SB _ _ _ _ _ _ _ _ _ _ _ H Ht), N2.
-  pose proof (plain_nth _ _ Ht) as P.
-  assert (Hb : c_type (cStk bk) = CT_Statement SK_Normal \/ c_type (cStk bk) = CT_Statement SK_Except)
-    by (clear -Hsk; destruct bk; try (left; reflexivity); try (right; reflexivity); exfalso; apply Hsk; reflexivity).
-  destruct t as [o| |k0|k0| | | | | | |]; try contradiction; try (destruct (at_start pass s); [destruct Hb as [-> | ->]|]; reflexivity).
-  destruct o; try contradiction; try (destruct (at_start pass s); [destruct Hb as [-> | ->]|]; reflexivity).
-Qed.
-Lemma prelude_semicolon s k L c M mc last C lv a :
-  ST s k L c M mc last (((cStk bk), false) :: (cSB, false) :: C) lv a -> nth_error T k = Some tSemi ->
-  statement_prelude pass s = (update_statuses pass 1 s, false).
-Proof.
-  intros H Ht. unfold statement_prelude. rewrite (last_ctx_ST _ _ _ _ _ _ _ _ _ _ _ _ H), (ending_St_SB _ _ _ _ _ _ _ _ _ _ _ H Ht). reflexivity.
-Qed.
-
-(* parse_structures on `Identifier ;` inside a statement context: the identifier is consumed, the
-   statement context is marked as ended in front of the `;` *)
-Lemma structures_simple f s k L M mc last C lv a :
-  sk_of bk <> SK_Case ->
-  ST s k L [] M mc last (((cStk bk), false) :: (cSB, false) :: C) lv a ->
-  nth_error T k = Some tI -> nth_error T (S k) = Some tSemi -> 3 <= f ->
-  ST (RUN f C_structures s) (S k) L [k] M mc last (((cStk bk), true) :: (cSB, false) :: C) lv a.
-Proof.
-  intros Hsk H Hk Hk1 Hf. destruct f as [|[|[|f]]]; try lia.
-  assert (Hkn : k < n) by (apply nth_error_Some; congruence).
-  rewrite (run_S _ _ _ (ST_err _ _ _ _ _ _ _ _ _ _ H)).
-  unfold arm_structures. rewrite (ST_cur_tt _ _ _ _ _ _ _ _ _ _ _ H Hk). cbn [tI].
-  rewrite (ending_St_SB _ _ _ _ _ _ _ _ _ _ _ H Hk). cbn [tI sarm_of].
-  unfold sa_other, s_other, s_loop.
-  (* parse_statement, first round: the identifier *)
-  rewrite (run_S (S f) C_statement _ (ST_err _ _ _ _ _ _ _ _ _ _ H)).
-  unfold arm_statement. rewrite (ST_cur_tt _ _ _ _ _ _ _ _ _ _ _ H Hk). cbn [tI].
-  rewrite (prelude_continue _ _ _ _ _ _ _ _ _ _ _ Hsk H Hk) by (discriminate || reflexivity). cbn [negb starm_of tI].
-  unfold st_label_cand, label_or_other. rewrite (ST_at_start _ _ _ _ _ _ _ _ _ _ H).
-  rewrite (next_tt_ST _ _ _ _ _ _ _ _ _ _ _ H Hk1) by discriminate. cbn [tSemi o_colon andb].
-  unfold t_other, t_loop.
-  pose proof (next_token_ST _ _ _ _ _ _ _ _ _ _ H Hkn) as H1. cbn [app] in H1.
-  (* second round: the `;` ends the statement context *)
-  rewrite (run_S f C_statement _ (ST_err _ _ _ _ _ _ _ _ _ _ H1)).
-  unfold arm_statement. rewrite (ST_cur_tt _ _ _ _ _ _ _ _ _ _ _ H1 Hk1). cbn [tSemi].
-  rewrite (prelude_semicolon _ _ _ _ _ _ _ _ _ _ H1 Hk1). cbn [negb].
-  pose proof (update_statuses_ST 1 _ _ _ _ _ _ _ _ _ _ H1) as H2. cbn [mark_ended] in H2.
-  (* back in parse_structures: the ended context makes it return *)
-  rewrite (run_S (S f) C_structures _ (ST_err _ _ _ _ _ _ _ _ _ _ H2)).
-  unfold arm_structures. rewrite (ST_cur_tt _ _ _ _ _ _ _ _ _ _ _ H2 Hk1). cbn [tSemi].
-  rewrite (ending_St_ended _ _ _ _ _ _ _ _ _ _ H2).
-  pose proof (update_statuses_ST 1 _ _ _ _ _ _ _ _ _ _ H2) as H3. cbn [mark_ended] in H3. exact H3.
-Qed.
 
 (* ---------------- do_with_context with a Level context *)
 Lemma with_ctx_structures f cx s : has_err pass s = false -> clevel_parent (c_level cx) = None ->
@@ -579,105 +588,6 @@ Lemma stmt_list_unfold f t op p s : has_err pass s = false ->
   if is_ending pass s3 || match cur_tt pass s3 with None => true | Some _ => false end then s3
   else RUN f (C_stmt_list t op p) s3.
 Proof. intros E. rewrite (run_S _ _ _ E). reflexivity. Qed.
-
-(* one iteration of the statement-list loop on `Identifier ;` *)
-Lemma iter_simple f s k L M mc last C lv a t' :
-  sk_of bk <> SK_Case ->
-  ST s k L [] M mc last ((cSB, false) :: C) lv a -> first_parent C = par ->
-  nth_error T k = Some tI -> nth_error T (S k) = Some tSemi -> nth_error T (S (S k)) = Some t' -> t' <> tSemi ->
-  4 <= f ->
-  ST (take_separators_on_last_line pass (CL_Level 0%Z) (finish_logical_line pass (RUN f (C_with_ctx (cStk bk) A_structures) s)))
-     (S (S k)) (L ++ [[k; S k]]) [] (M ++ [mkLM par (lvl (1 + plain_sum C)) LLT_Unknown])
-     (mkLM None (lvl (1 + plain_sum C)) LLT_Unknown) (length L) ((cSB, false) :: C) lv a.
-Proof.
-  intros Hsk H HC Hk Hk1 Hk2 Hne Hf. destruct f as [|f]; [lia|].
-  rewrite (with_ctx_structures f (cStk bk) s (ST_err _ _ _ _ _ _ _ _ _ _ H) eq_refl).
-  pose proof (finish_empty_ST _ _ _ _ _ _ _ _ _ H) as H0.
-  pose proof (push_ctx_ST (cStk bk) _ _ _ _ _ _ _ _ _ _ H0) as H1.
-  pose proof (structures_simple f _ _ _ _ _ _ _ _ _ Hsk H1 Hk Hk1 ltac:(lia)) as H2.
-  pose proof (pop_ctx_ST _ _ _ _ _ _ _ _ _ _ _ H2) as H3.
-  pose proof (finish_ST _ _ _ _ _ _ _ _ _ _ H3 ltac:(discriminate)) as H4.
-  rewrite first_parent_blk, plain_sum_blk, HC in H4. cbn [lm_type] in H4.
-  pose proof (take_separators_ST (CL_Level 0%Z) _ _ _ _ _ _ _ _ _ t' H4 Hk1 Hk2 Hne) as H5.
-  rewrite app_length in H5. cbn [length] in H5. rewrite nth_app_last in H5.
-  specialize (H5 ltac:(lia) ltac:(discriminate)). rewrite upd_nth_app_last in H5. cbn [app] in H5.
-  unfold lvl. exact H5.
-Qed.
-
-
-(* ---------------- `Identifier := Identifier ;` *)
-Lemma structures_assign f s k Ls M mc last C lv a :
-  sk_of bk <> SK_Case ->
-  ST s k Ls [] M mc last (((cStk bk), false) :: (cSB, false) :: C) lv a -> lm_type mc = LLT_Unknown ->
-  nth_error T k = Some tI -> nth_error T (S k) = Some tAssign -> nth_error T (S (S k)) = Some tI ->
-  nth_error T (S (S (S k))) = Some tSemi -> 5 <= f ->
-  ST (RUN f C_structures s) (S (S (S k))) Ls [k; S k; S (S k)] M (mkLM (lm_parent mc) (lm_level mc) LLT_Assignment) last
-     (((cStk bk), true) :: (cSB, false) :: C) lv a.
-Proof.
-  intros Hsk H Hty Hk Hk1 Hk2 Hk3 Hf. destruct f as [|[|[|[|[|f]]]]]; try lia.
-  assert (Hkn : k < n) by (apply nth_error_Some; congruence).
-  assert (Hkn1 : S k < n) by (apply nth_error_Some; congruence).
-  assert (Hkn2 : S (S k) < n) by (apply nth_error_Some; congruence).
-  rewrite (run_S _ _ _ (ST_err _ _ _ _ _ _ _ _ _ _ H)).
-  unfold arm_structures. rewrite (ST_cur_tt _ _ _ _ _ _ _ _ _ _ _ H Hk). cbn [tI].
-  rewrite (ending_St_SB _ _ _ _ _ _ _ _ _ _ _ H Hk). cbn [tI sarm_of].
-  unfold sa_other, s_other, s_loop.
-  (* round 1: identifier *)
-  rewrite (run_S _ C_statement _ (ST_err _ _ _ _ _ _ _ _ _ _ H)).
-  unfold arm_statement. rewrite (ST_cur_tt _ _ _ _ _ _ _ _ _ _ _ H Hk). cbn [tI].
-  rewrite (prelude_continue _ _ _ _ _ _ _ _ _ _ _ Hsk H Hk) by (discriminate || reflexivity). cbn [negb starm_of tI].
-  unfold st_label_cand, label_or_other. rewrite (ST_at_start _ _ _ _ _ _ _ _ _ _ H).
-  rewrite (next_tt_ST _ _ _ _ _ _ _ _ _ _ _ H Hk1) by discriminate. cbn [tAssign o_colon andb].
-  unfold t_other, t_loop.
-  pose proof (next_token_ST _ _ _ _ _ _ _ _ _ _ H Hkn) as H1. cbn [app] in H1.
-  (* round 2: `:=` sets the line type *)
-  rewrite (run_S _ C_statement _ (ST_err _ _ _ _ _ _ _ _ _ _ H1)).
-  unfold arm_statement. rewrite (ST_cur_tt _ _ _ _ _ _ _ _ _ _ _ H1 Hk1). cbn [tAssign].
-  rewrite (prelude_continue _ _ _ _ _ _ _ _ _ _ _ Hsk H1 Hk1) by (discriminate || reflexivity). cbn [negb starm_of tAssign].
-  cbv delta [st_assign t_loop] beta zeta.
-  pose proof (next_token_ST _ _ _ _ _ _ _ _ _ _ H1 Hkn1) as H2. cbn [app] in H2.
-  rewrite (ST_cur_type _ _ _ _ _ _ _ _ _ _ H2), Hty. cbn [llt_is LogicalLineType_eqb LogicalLineType_idx Nat.eqb].
-  pose proof (set_line_type_ST LLT_Assignment _ _ _ _ _ _ _ _ _ _ H2) as H3.
-  (* round 3: identifier, not at the start of the line *)
-  rewrite (run_S _ C_statement _ (ST_err _ _ _ _ _ _ _ _ _ _ H3)).
-  unfold arm_statement. rewrite (ST_cur_tt _ _ _ _ _ _ _ _ _ _ _ H3 Hk2). cbn [tI].
-  rewrite (prelude_continue _ _ _ _ _ _ _ _ _ _ _ Hsk H3 Hk2) by (discriminate || reflexivity). cbn [negb starm_of tI].
-  unfold st_label_cand, label_or_other. rewrite (ST_at_start _ _ _ _ _ _ _ _ _ _ H3). cbn [andb].
-  unfold t_other, t_loop.
-  pose proof (next_token_ST _ _ _ _ _ _ _ _ _ _ H3 Hkn2) as H4. cbn [app] in H4.
-  (* round 4: `;` *)
-  rewrite (run_S _ C_statement _ (ST_err _ _ _ _ _ _ _ _ _ _ H4)).
-  unfold arm_statement. rewrite (ST_cur_tt _ _ _ _ _ _ _ _ _ _ _ H4 Hk3). cbn [tSemi].
-  rewrite (prelude_semicolon _ _ _ _ _ _ _ _ _ _ H4 Hk3). cbn [negb].
-  pose proof (update_statuses_ST 1 _ _ _ _ _ _ _ _ _ _ H4) as H5. cbn [mark_ended] in H5.
-  rewrite (run_S _ C_structures _ (ST_err _ _ _ _ _ _ _ _ _ _ H5)).
-  unfold arm_structures. rewrite (ST_cur_tt _ _ _ _ _ _ _ _ _ _ _ H5 Hk3). cbn [tSemi].
-  rewrite (ending_St_ended _ _ _ _ _ _ _ _ _ _ H5).
-  pose proof (update_statuses_ST 1 _ _ _ _ _ _ _ _ _ _ H5) as H6. cbn [mark_ended] in H6. exact H6.
-Qed.
-Lemma iter_assign f s k Ls M mc last C lv a t' :
-  sk_of bk <> SK_Case ->
-  ST s k Ls [] M mc last ((cSB, false) :: C) lv a -> first_parent C = par ->
-  nth_error T k = Some tI -> nth_error T (S k) = Some tAssign -> nth_error T (S (S k)) = Some tI ->
-  nth_error T (S (S (S k))) = Some tSemi -> nth_error T (S (S (S (S k)))) = Some t' -> t' <> tSemi ->
-  6 <= f ->
-  ST (take_separators_on_last_line pass (CL_Level 0%Z) (finish_logical_line pass (RUN f (C_with_ctx (cStk bk) A_structures) s)))
-     (S (S (S (S k)))) (Ls ++ [[k; S k; S (S k); S (S (S k))]]) [] (M ++ [mkLM par (lvl (1 + plain_sum C)) LLT_Assignment])
-     (mkLM None (lvl (1 + plain_sum C)) LLT_Unknown) (length Ls) ((cSB, false) :: C) lv a.
-Proof.
-  intros Hsk H HC Hk Hk1 Hk2 Hk3 Hk4 Hne Hf. destruct f as [|f]; [lia|].
-  rewrite (with_ctx_structures f (cStk bk) s (ST_err _ _ _ _ _ _ _ _ _ _ H) eq_refl).
-  pose proof (finish_empty_ST _ _ _ _ _ _ _ _ _ H) as H0.
-  pose proof (push_ctx_ST (cStk bk) _ _ _ _ _ _ _ _ _ _ H0) as H1.
-  pose proof (structures_assign f _ _ _ _ _ _ _ _ _ Hsk H1 eq_refl Hk Hk1 Hk2 Hk3 ltac:(lia)) as H2.
-  pose proof (pop_ctx_ST _ _ _ _ _ _ _ _ _ _ _ H2) as H3.
-  pose proof (finish_ST _ _ _ _ _ _ _ _ _ _ H3 ltac:(discriminate)) as H4.
-  rewrite first_parent_blk, plain_sum_blk, HC in H4. cbn [lm_type] in H4.
-  pose proof (take_separators_ST (CL_Level 0%Z) _ _ _ _ _ _ _ _ _ t' H4 Hk3 Hk4 Hne) as H5.
-  rewrite app_length in H5. cbn [length] in H5. rewrite nth_app_last in H5.
-  specialize (H5 ltac:(lia) ltac:(discriminate)). rewrite upd_nth_app_last in H5. cbn [app] in H5.
-  unfold lvl. exact H5.
-Qed.
 
 (* ---------------- nested blocks *)
 Definition meta_of (l : lline) : lmeta := mkLM (ll_parent l) (ll_level l) (ll_type l).
@@ -706,12 +616,14 @@ Lemma ST_lists s k Ls Ls' c M M' mc last cx lv a :
   ST s k Ls c M mc last cx lv a -> Ls = Ls' -> M = M' -> ST s k Ls' c M' mc last cx lv a.
 Proof. intros H -> ->. exact H. Qed.
 
-Lemma head_tok r : exists t', nth_error (render r ++ [tTerm bk]) 0 = Some t' /\ t' <> tSemi
-  /\ (r = SNil -> t' = tTerm bk) /\ (r <> SNil -> is_term bk t' = false /\ t' <> RTT_Eof).
+Lemma head_tok r : exists t', nth_error (render r ++ [tTerm bk]) 0 = Some t' /\ t' <> tSemi /\ t' <> RTT_Eof
+  /\ (r = SNil -> t' = tTerm bk) /\ (r <> SNil -> is_term bk t' = false).
 Proof.
-  destruct r; cbn; eexists; (split; [reflexivity|]); repeat split; try discriminate; try congruence.
-  all: try (destruct bk; discriminate).
+  destruct r as [|c r]; cbn [render app].
+  - exists (tTerm bk). split; [reflexivity|]. repeat split; try congruence; destruct bk; discriminate.
+  - destruct c; cbn; eexists; (split; [reflexivity|]); repeat split; try discriminate; try congruence; destruct bk; reflexivity.
 Qed.
+
 Lemma toks_at_0 k l t : toks_at k l -> nth_error l 0 = Some t -> nth_error T k = Some t.
 Proof. intros H H0. specialize (H 0 t H0). rewrite Nat.add_0_r in H. exact H. Qed.
 Lemma toks_at_shift k m l1 l2 : toks_at k (l1 ++ l2) -> length l1 = m -> toks_at (k + m) l2.
@@ -731,383 +643,28 @@ Lemma loop_tail r C : IHfor r C ->
        (M2 ++ map meta_of (pexpected par (1 + plain_sum C) k2 li r)) mc' last' ((cSB, fl) :: C) lv a.
 Proof.
   intros IHr f s3 k2 L2 M2 mc2 last2 lv a li Hf Hli Hty H Ht.
-  destruct (head_tok r) as (t' & H0 & N1 & E1 & E2).
+  destruct (head_tok r) as (t' & H0 & N1 & NE & E1 & E2).
   pose proof (toks_at_0 _ _ _ Ht H0) as Hk. rewrite (is_ending_SB _ _ _ _ _ _ _ _ _ _ _ H Hk).
-  destruct r as [|r'|r'|b' r'|b' r'|b' c' r'|b' c' r'|c' r'|c1' c2' r'|c' r'|a' r'|a' e' r'] eqn:Er.
+  destruct r as [|c' r'] eqn:Er.
   - rewrite (E1 eq_refl), is_term_term. cbn [orb render length pexpected map]. rewrite !app_nil_r, Nat.add_0_r. eauto.
-  - destruct (E2 ltac:(discriminate)) as [F1 F2]. rewrite F1.
-    assert (X : t' = tI) by (cbn in H0; congruence). subst t'.
-    rewrite (ST_cur_tt _ _ _ _ _ _ _ _ _ _ _ H Hk). cbn [tI orb]. exact (IHr _ _ _ _ _ _ _ _ _ _ Hf Hli H Ht).
-  - destruct (E2 ltac:(discriminate)) as [F1 F2]. rewrite F1.
-    assert (X : t' = tI) by (cbn in H0; congruence). subst t'.
-    rewrite (ST_cur_tt _ _ _ _ _ _ _ _ _ _ _ H Hk). cbn [tI orb]. exact (IHr _ _ _ _ _ _ _ _ _ _ Hf Hli H Ht).
-  - destruct (E2 ltac:(discriminate)) as [F1 F2]. rewrite F1.
-    assert (X : t' = tBegin) by (cbn in H0; congruence). subst t'.
-    rewrite (ST_cur_tt _ _ _ _ _ _ _ _ _ _ _ H Hk). cbn [tBegin orb]. exact (IHr _ _ _ _ _ _ _ _ _ _ Hf Hli H Ht).
-  - destruct (E2 ltac:(discriminate)) as [F1 F2]. rewrite F1.
-    assert (X : t' = tRepeat) by (cbn in H0; congruence). subst t'.
-    rewrite (ST_cur_tt _ _ _ _ _ _ _ _ _ _ _ H Hk). cbn [tRepeat orb]. exact (IHr _ _ _ _ _ _ _ _ _ _ Hf Hli H Ht).
-  - destruct (E2 ltac:(discriminate)) as [F1 F2]. rewrite F1.
-    assert (X : t' = tTry) by (cbn in H0; congruence). subst t'.
-    rewrite (ST_cur_tt _ _ _ _ _ _ _ _ _ _ _ H Hk). cbn [tTry orb]. exact (IHr _ _ _ _ _ _ _ _ _ _ Hf Hli H Ht).
-  - destruct (E2 ltac:(discriminate)) as [F1 F2]. rewrite F1.
-    assert (X : t' = tTry) by (cbn in H0; congruence). subst t'.
-    rewrite (ST_cur_tt _ _ _ _ _ _ _ _ _ _ _ H Hk). cbn [tTry orb]. exact (IHr _ _ _ _ _ _ _ _ _ _ Hf Hli H Ht).
-  - destruct (E2 ltac:(discriminate)) as [F1 F2]. rewrite F1.
-    assert (X : t' = tIf) by (cbn in H0; congruence). subst t'.
-    rewrite (ST_cur_tt _ _ _ _ _ _ _ _ _ _ _ H Hk). cbn [tIf orb]. exact (IHr _ _ _ _ _ _ _ _ _ _ Hf Hli H Ht).
-  - destruct (E2 ltac:(discriminate)) as [F1 F2]. rewrite F1.
-    assert (X : t' = tIf) by (cbn in H0; congruence). subst t'.
-    rewrite (ST_cur_tt _ _ _ _ _ _ _ _ _ _ _ H Hk). cbn [tIf orb]. exact (IHr _ _ _ _ _ _ _ _ _ _ Hf Hli H Ht).
-  - destruct (E2 ltac:(discriminate)) as [F1 F2]. rewrite F1.
-    assert (X : t' = tWhile) by (cbn in H0; congruence). subst t'.
-    rewrite (ST_cur_tt _ _ _ _ _ _ _ _ _ _ _ H Hk). cbn [tWhile orb]. exact (IHr _ _ _ _ _ _ _ _ _ _ Hf Hli H Ht).
-  - destruct (E2 ltac:(discriminate)) as [F1 F2]. rewrite F1.
-    assert (X : t' = tCase) by (cbn in H0; congruence). subst t'.
-    rewrite (ST_cur_tt _ _ _ _ _ _ _ _ _ _ _ H Hk). cbn [tCase orb]. exact (IHr _ _ _ _ _ _ _ _ _ _ Hf Hli H Ht).
-  - destruct (E2 ltac:(discriminate)) as [F1 F2]. rewrite F1.
-    assert (X : t' = tCase) by (cbn in H0; congruence). subst t'.
-    rewrite (ST_cur_tt _ _ _ _ _ _ _ _ _ _ _ H Hk). cbn [tCase orb]. exact (IHr _ _ _ _ _ _ _ _ _ _ Hf Hli H Ht).
+  - rewrite (E2 ltac:(discriminate)).
+    assert (Ct : cur_tt pass s3 = Some t').
+    { rewrite (ST_cur_tt _ _ _ _ _ _ _ _ _ _ _ H Hk). destruct t'; try reflexivity. contradiction NE; reflexivity. }
+    rewrite Ct. cbn [orb]. exact (IHr _ _ _ _ _ _ _ _ _ _ Hf Hli H Ht).
 Qed.
+
 
 (* level bookkeeping under a statement context on top of a block *)
 Lemma first_parent_St_blk f1 f2 C : first_parent (((cStk bk), f1) :: (cSB, f2) :: C) = first_parent C.
 Proof. destruct bk; reflexivity. Qed.
 Lemma plain_sum_St_blk f1 f2 C : plain_sum (((cStk bk), f1) :: (cSB, f2) :: C) = (0 + (1 + plain_sum C))%Z.
 Proof. destruct bk; reflexivity. Qed.
-
-(* `until Identifier` : parse_statement inside the BlockClause context *)
-Definition cBC : pctx := ctx CT_BlockClause false P_never (ParserGrammar.L 0).
-Lemma ending_BC s k Ls c M mc last C lv a t :
-  ST s k Ls c M mc last ((cBC, false) :: ((cStk bk), false) :: (cSB, false) :: C) lv a -> nth_error T k = Some t ->
-  ending_ctx pass s = match t with RTT_Op OK_Semicolon => Some 2 | _ => if is_term bk t then Some 3 else None end.
-Proof.
-  intros H Ht. unfold ending_ctx. rewrite (ST_ctx _ _ _ _ _ _ _ _ _ _ H). cbn [ending_go cBC cStk ctx c_pred c_opaque eval_pred].
-  rewrite (blk_pred_eval bk _ _ _ _ _ _ _ _ _ _ _ H Ht), cBlk_opaque.
-  rewrite (ST_cur_tt _ _ _ _ _ _ _ _ _ _ _ H Ht). pose proof (plain_nth _ _ Ht) as P.
-  destruct t as [o| |k0|k0| | | | | | |]; try contradiction; try reflexivity.
-  all: try (destruct o; try contradiction; reflexivity).
-  all: try (destruct k0; try contradiction; cbn [o_semicolon]; destruct (is_term bk _); reflexivity).
-Qed.
-Lemma statement_in_clause f s k Ls c M mc last C lv a :
-  ST s k Ls c M mc last ((cBC, false) :: ((cStk bk), false) :: (cSB, false) :: C) lv a -> c <> [] ->
-  nth_error T k = Some tI -> nth_error T (S k) = Some tSemi -> 2 <= f ->
-  ST (RUN f C_statement s) (S k) Ls (c ++ [k]) M mc last ((cBC, true) :: ((cStk bk), true) :: (cSB, false) :: C) lv a.
-Proof.
-  intros H Hc Hk Hk1 Hf. destruct f as [|[|f]]; try lia.
-  assert (Hkn : k < n) by (apply nth_error_Some; congruence).
-  rewrite (run_S _ C_statement _ (ST_err _ _ _ _ _ _ _ _ _ _ H)).
-  unfold arm_statement. rewrite (ST_cur_tt _ _ _ _ _ _ _ _ _ _ _ H Hk). cbn [tI].
-  assert (P1 : statement_prelude pass s = (s, true)).
-  { unfold statement_prelude. rewrite (last_ctx_ST _ _ _ _ _ _ _ _ _ _ _ _ H), (ending_BC _ _ _ _ _ _ _ _ _ _ _ H Hk). cbn [tI is_term].
-    rewrite (ST_at_start _ _ _ _ _ _ _ _ _ _ H). destruct c; [contradiction|reflexivity]. }
-  rewrite P1. cbn [negb starm_of tI]. unfold st_label_cand, label_or_other. rewrite (ST_at_start _ _ _ _ _ _ _ _ _ _ H).
-  destruct c as [|c0 cr]; [contradiction|]. cbn [andb]. unfold t_other, t_loop.
-  pose proof (next_token_ST _ _ _ _ _ _ _ _ _ _ H Hkn) as H1.
-  rewrite (run_S _ C_statement _ (ST_err _ _ _ _ _ _ _ _ _ _ H1)).
-  unfold arm_statement. rewrite (ST_cur_tt _ _ _ _ _ _ _ _ _ _ _ H1 Hk1). cbn [tSemi].
-  assert (P2 : statement_prelude pass (next_token pass s) = (update_statuses pass 2 (next_token pass s), false)).
-  { unfold statement_prelude. rewrite (last_ctx_ST _ _ _ _ _ _ _ _ _ _ _ _ H1), (ending_BC _ _ _ _ _ _ _ _ _ _ _ H1 Hk1). reflexivity. }
-  rewrite P2. cbn [negb].
-  pose proof (update_statuses_ST 2 _ _ _ _ _ _ _ _ _ _ H1) as H2. cbn [mark_ended] in H2. exact H2.
-Qed.
-
-(* the end of an iteration of the statement-list loop: the statement context has just ended in front of
-   the `;` that follows the last finished line `ln`; the `;` is appended to that line *)
-Lemma iter_close sX e' Ly ln Mx mcX C lv a t' :
-  ST sX (S e') (Ly ++ [ln]) [] Mx mcX (length Ly) (((cStk bk), true) :: (cSB, false) :: C) lv a -> ln <> [] ->
-  nth_error T (S e') = Some tSemi -> nth_error T (S (S e')) = Some t' -> t' <> tSemi ->
-  ST (take_separators_on_last_line pass (CL_Level 0%Z) (finish_logical_line pass (pop_ctx pass sX)))
-     (S (S e')) (Ly ++ [ln ++ [S e']]) [] Mx (mkLM (lm_parent mcX) (lm_level mcX) LLT_Unknown) (length Ly) ((cSB, false) :: C) lv a.
-Proof.
-  intros H Hln Hs Hs1 Hne.
-  pose proof (pop_ctx_ST _ _ _ _ _ _ _ _ _ _ _ H) as H1.
-  pose proof (finish_empty_ST _ _ _ _ _ _ _ _ _ H1) as H2.
-  pose proof (take_separators_ST (CL_Level 0%Z) _ _ _ _ _ _ _ _ _ t' H2 Hs Hs1 Hne) as H3.
-  rewrite app_length in H3. cbn [length] in H3. rewrite nth_app_last in H3.
-  specialize (H3 ltac:(lia) Hln). rewrite upd_nth_app_last in H3. exact H3.
-Qed.
-(* a closing keyword (`end`) followed by `;` inside a statement context: the keyword makes a line of its
-   own, parse_structures returns in front of the `;` with the statement context marked as ended *)
-Lemma close_keyword f s e Lx Mx mcb lastb C lv a tk :
-  ST s e Lx [] Mx mcb lastb (((cStk bk), false) :: (cSB, false) :: C) lv a -> lm_type mcb = LLT_Unknown ->
-  first_parent C = par -> nth_error T e = Some tk -> nth_error T (S e) = Some tSemi -> 1 <= f ->
-  ST (RUN f C_structures (finish_logical_line pass (take_until pass (no_more_separators pass) (next_token pass s))))
-     (S e) (Lx ++ [[e]]) [] (Mx ++ [mkLM par (lvl (1 + plain_sum C)) LLT_Unknown])
-     (mkLM None (lvl (1 + plain_sum C)) LLT_Unknown) (length Lx) (((cStk bk), true) :: (cSB, false) :: C) lv a.
-Proof.
-  intros H Ty HC He Hs Hf. destruct f as [|f]; [lia|].
-  assert (Hen : e < n) by (apply nth_error_Some; congruence).
-  pose proof (next_token_ST _ _ _ _ _ _ _ _ _ _ H Hen) as H7. cbn [app] in H7.
-  rewrite (take_until_ending _ _ (ST_err _ _ _ _ _ _ _ _ _ _ H7)).
-  2: { rewrite (ST_cur_tt _ _ _ _ _ _ _ _ _ _ _ H7 Hs). discriminate. }
-  2: { unfold no_more_separators. rewrite (ST_cur_tt _ _ _ _ _ _ _ _ _ _ _ H7 Hs). reflexivity. }
-  2: { unfold is_ending. rewrite (ending_St_SB _ _ _ _ _ _ _ _ _ _ _ H7 Hs). reflexivity. }
-  pose proof (finish_ST _ _ _ _ _ _ _ _ _ _ H7 ltac:(discriminate)) as H8.
-  rewrite first_parent_St_blk, plain_sum_St_blk, HC, Ty in H8.
-  replace (clamp_u16 (0 + (1 + plain_sum C))) with (lvl (1 + plain_sum C)) in H8 by (unfold lvl; f_equal; lia).
-  rewrite (run_S _ C_structures _ (ST_err _ _ _ _ _ _ _ _ _ _ H8)).
-  unfold arm_structures. rewrite (ST_cur_tt _ _ _ _ _ _ _ _ _ _ _ H8 Hs). cbn [tSemi].
-  rewrite (ending_St_SB _ _ _ _ _ _ _ _ _ _ _ H8 Hs). cbn [tSemi].
-  pose proof (update_statuses_ST 1 _ _ _ _ _ _ _ _ _ _ H8) as H9. cbn [mark_ended] in H9. exact H9.
-Qed.
-(* entering a nested block after its opening keyword: the keyword makes a line at the statement level,
-   the block context is pushed *)
-Lemma open_block f s k Ls M mc last C lv a bk' :
-  ST s k Ls [] M mc last (((cStk bk), false) :: (cSB, false) :: C) lv a -> lm_type mc = LLT_Unknown ->
-  first_parent C = par -> k < n ->
-  let s1 := push_ctx pass (cBlk bk') (finish_logical_line pass (next_token pass s)) in
-  RUN (S (S f)) (C_stmt_block (cBlk bk') (sk_of bk')) (next_token pass s) = pop_ctx pass (RUN f (slc bk') s1)
-  /\ ST s1 (S k) (Ls ++ [[k]]) [] (M ++ [mkLM par (lvl (1 + plain_sum C)) LLT_Unknown])
-        (mkLM None (lvl (1 + plain_sum C)) LLT_Unknown) (length Ls)
-        ((cBlk bk', false) :: ((cStk bk), false) :: (cSB, false) :: C) lv a.
-Proof.
-  intros H Ty HC Hkn s1.
-  pose proof (next_token_ST _ _ _ _ _ _ _ _ _ _ H Hkn) as H2. cbn [app] in H2.
-  split.
-  - rewrite (run_S _ (C_stmt_block (cBlk bk') (sk_of bk')) _ (ST_err _ _ _ _ _ _ _ _ _ _ H2)). unfold arm_stmt_block.
-    rewrite (with_ctx_stmt_list _ (cBlk bk') _ _ (ST_err _ _ _ _ _ _ _ _ _ _ H2) (cBlk_level bk')). reflexivity.
-  - pose proof (finish_ST _ _ _ _ _ _ _ _ _ _ H2 ltac:(discriminate)) as H3.
-    rewrite first_parent_St_blk, plain_sum_St_blk, HC, Ty in H3.
-    replace (clamp_u16 (0 + (1 + plain_sum C))) with (lvl (1 + plain_sum C)) in H3 by (unfold lvl; f_equal; lia).
-    exact (push_ctx_ST (cBlk bk') _ _ _ _ _ _ _ _ _ _ H3).
-Qed.
 End Blk.
+
 
 (* ================================================================== *)
 (* the nested constructs; the outer block kind bk is arbitrary *)
 Notation RUN := (run pass []).
-
-Lemma iter_block bk b f s k Ls M mc last C lv a t' :
-  IHfor KBegin b (((cStk bk), false) :: (cBlk bk, false) :: C) ->
-  ST s k Ls [] M mc last ((cBlk bk, false) :: C) lv a -> first_parent C = par ->
-  nth_error T k = Some tBegin -> toks_at (S k) (render b ++ [tEnd]) ->
-  nth_error T (S (S k + length (render b))) = Some tSemi ->
-  nth_error T (S (S (S k + length (render b)))) = Some t' -> t' <> tSemi ->
-  8 + need b <= f ->
-  let e := S k + length (render b) in
-  exists mc3, lm_type mc3 = LLT_Unknown /\
-  ST (take_separators_on_last_line pass (CL_Level 0%Z) (finish_logical_line pass (RUN f (C_with_ctx (cStk bk) A_structures) s)))
-     (S (S e)) (Ls ++ [k] :: map ll_toks (pexpected par (1 + plain_sum C + 1) (S k) (S (length Ls)) b) ++ [[e; S e]]) []
-     (M ++ mkLM par (lvl (1 + plain_sum C)) LLT_Unknown :: map meta_of (pexpected par (1 + plain_sum C + 1) (S k) (S (length Ls)) b)
-        ++ [mkLM par (lvl (1 + plain_sum C)) LLT_Unknown])
-     mc3 (length Ls + S (length (pexpected par (1 + plain_sum C + 1) (S k) (S (length Ls)) b))) ((cBlk bk, false) :: C) lv a.
-Proof.
-  intros IHb H HC Hk Hb Hse Hse1 Hne Hf e.
-  assert (Hkn : k < n) by (apply nth_error_Some; congruence).
-  destruct f as [|[|[|[|f]]]]; try lia.
-  rewrite (with_ctx_structures _ (cStk bk) s (ST_err _ _ _ _ _ _ _ _ _ _ H) eq_refl).
-  pose proof (finish_empty_ST _ _ _ _ _ _ _ _ _ H) as H0.
-  pose proof (push_ctx_ST (cStk bk) _ _ _ _ _ _ _ _ _ _ H0) as H1.
-  rewrite (run_S _ C_structures _ (ST_err _ _ _ _ _ _ _ _ _ _ H1)).
-  unfold arm_structures. rewrite (ST_cur_tt _ _ _ _ _ _ _ _ _ _ _ H1 Hk). cbn [tBegin].
-  rewrite (ending_St_SB bk _ _ _ _ _ _ _ _ _ _ _ H1 Hk). cbn [tBegin is_term sarm_of].
-  cbv delta [sa_begin stmt_block] beta.
-  change (ctx (CT_StatementBlock BK_Begin) true P_end (ParserGrammar.L 1)) with (cBlk KBegin).
-  destruct (open_block bk f _ _ _ _ _ _ _ _ _ KBegin H1 eq_refl HC Hkn) as [Eq H4]. cbn [sk_of] in Eq. rewrite Eq. clear Eq.
-  pose proof (fun Hli => IHb f _ _ _ _ _ _ _ _ (S (length Ls)) ltac:(lia) Hli H4 Hb) as IHb'.
-  destruct (IHb' ltac:(rewrite app_length; cbn [length]; lia)) as (mcb & lastb & flb & Tyb & H5).
-  rewrite plain_sum_St_blk in H5. replace (1 + (0 + (1 + plain_sum C)))%Z with (1 + plain_sum C + 1)%Z in H5 by lia.
-  pose proof (pop_ctx_ST _ _ _ _ _ _ _ _ _ _ _ H5) as H6. fold e in H6.
-  match type of H6 with ST ?x _ _ _ _ _ _ _ _ _ => set (sB := x) in * end.
-  assert (He : nth_error T e = Some tEnd).
-  { specialize (Hb (length (render b)) tEnd). rewrite nth_error_app2, Nat.sub_diag in Hb by lia. exact (Hb eq_refl). }
-  assert (Hen : e < n) by (apply nth_error_Some; congruence).
-  cbv zeta. rewrite (ST_cur_tt _ _ _ _ _ _ _ _ _ _ _ H6 He). cbn [tEnd o_kw_end].
-  pose proof (next_token_ST _ _ _ _ _ _ _ _ _ _ H6 Hen) as H7.
-  rewrite (ST_cur_tt _ _ _ _ _ _ _ _ _ _ _ H7 Hse). cbn [tSemi o_dot]. unfold s_loop.
-  pose proof (close_keyword bk (S (S f)) _ _ _ _ _ _ _ _ _ tEnd H6 Tyb HC He Hse ltac:(lia)) as H9.
-  pose proof (iter_close bk _ _ _ _ _ _ _ _ _ t' H9 ltac:(discriminate) Hse Hse1 Hne) as H12.
-  assert (EL : length ((Ls ++ [[k]]) ++ map ll_toks (pexpected par (1 + plain_sum C + 1) (S k) (S (length Ls)) b)) = length Ls + S (length (pexpected par (1 + plain_sum C + 1) (S k) (S (length Ls)) b)))
-    by (rewrite !app_length, map_length; cbn [length]; lia).
-  rewrite EL in H12.
-  eexists. split; [|eapply ST_lists; [exact H12| |]].
-  - reflexivity.
-  - cbn [app]. repeat (progress (cbn [app]; rewrite <- ?app_assoc)). reflexivity.
-  - repeat (progress (cbn [app]; rewrite <- ?app_assoc)). reflexivity.
-Qed.
-
-Lemma iter_repeat bk b f s k Ls M mc last C lv a t' :
-  IHfor KRepeat b (((cStk bk), false) :: (cBlk bk, false) :: C) ->
-  ST s k Ls [] M mc last ((cBlk bk, false) :: C) lv a -> first_parent C = par ->
-  nth_error T k = Some tRepeat -> toks_at (S k) (render b ++ [tUntil]) ->
-  nth_error T (S (S k + length (render b))) = Some tI ->
-  nth_error T (S (S (S k + length (render b)))) = Some tSemi ->
-  nth_error T (S (S (S (S k + length (render b))))) = Some t' -> t' <> tSemi ->
-  8 + need b <= f ->
-  let e := S k + length (render b) in
-  exists mc3 last3, lm_type mc3 = LLT_Unknown /\
-  ST (take_separators_on_last_line pass (CL_Level 0%Z) (finish_logical_line pass (RUN f (C_with_ctx (cStk bk) A_structures) s)))
-     (S (S (S e))) (Ls ++ [k] :: map ll_toks (pexpected par (1 + plain_sum C + 1) (S k) (S (length Ls)) b) ++ [[e; S e; S (S e)]]) []
-     (M ++ mkLM par (lvl (1 + plain_sum C)) LLT_Unknown :: map meta_of (pexpected par (1 + plain_sum C + 1) (S k) (S (length Ls)) b)
-        ++ [mkLM par (lvl (1 + plain_sum C)) LLT_Unknown])
-     mc3 last3 ((cBlk bk, false) :: C) lv a.
-Proof.
-  intros IHb H HC Hk Hb Hi Hse Hse1 Hne Hf e.
-  assert (Hkn : k < n) by (apply nth_error_Some; congruence).
-  destruct f as [|[|[|[|f]]]]; try lia.
-  rewrite (with_ctx_structures _ (cStk bk) s (ST_err _ _ _ _ _ _ _ _ _ _ H) eq_refl).
-  pose proof (finish_empty_ST _ _ _ _ _ _ _ _ _ H) as H0.
-  pose proof (push_ctx_ST (cStk bk) _ _ _ _ _ _ _ _ _ _ H0) as H1.
-  rewrite (run_S _ C_structures _ (ST_err _ _ _ _ _ _ _ _ _ _ H1)).
-  unfold arm_structures. rewrite (ST_cur_tt _ _ _ _ _ _ _ _ _ _ _ H1 Hk). cbn [tRepeat].
-  rewrite (ending_St_SB bk _ _ _ _ _ _ _ _ _ _ _ H1 Hk). cbn [tRepeat is_term sarm_of].
-  cbv delta [sa_repeat stmt_block] beta.
-  change (ctx (CT_StatementBlock BK_Repeat) true P_until (ParserGrammar.L 1)) with (cBlk KRepeat).
-  destruct (open_block bk f _ _ _ _ _ _ _ _ _ KRepeat H1 eq_refl HC Hkn) as [Eq H4]. cbn [sk_of] in Eq. rewrite Eq. clear Eq.
-  pose proof (fun Hli => IHb f _ _ _ _ _ _ _ _ (S (length Ls)) ltac:(lia) Hli H4 Hb) as IHb'.
-  destruct (IHb' ltac:(rewrite app_length; cbn [length]; lia)) as (mcb & lastb & flb & Tyb & H5).
-  rewrite plain_sum_St_blk in H5. replace (1 + (0 + (1 + plain_sum C)))%Z with (1 + plain_sum C + 1)%Z in H5 by lia.
-  pose proof (pop_ctx_ST _ _ _ _ _ _ _ _ _ _ _ H5) as H6. fold e in H6.
-  match type of H6 with ST ?x _ _ _ _ _ _ _ _ _ => set (sB := x) in * end.
-  assert (He : nth_error T e = Some tUntil).
-  { specialize (Hb (length (render b)) tUntil). rewrite nth_error_app2, Nat.sub_diag in Hb by lia. exact (Hb eq_refl). }
-  assert (Hen : e < n) by (apply nth_error_Some; congruence).
-  cbv zeta.
-  (* `until` Identifier *)
-  pose proof (next_token_ST _ _ _ _ _ _ _ _ _ _ H6 Hen) as H7. cbn [app] in H7.
-  change (ctx CT_BlockClause false P_never (ParserGrammar.L 0)) with cBC.
-  pose proof (push_ctx_ST cBC _ _ _ _ _ _ _ _ _ _ H7) as H8.
-  pose proof (statement_in_clause bk (S (S f)) _ _ _ _ _ _ _ _ _ _ H8 ltac:(discriminate) Hi Hse ltac:(lia)) as H9. cbn [app] in H9.
-  pose proof (pop_ctx_ST _ _ _ _ _ _ _ _ _ _ _ H9) as H10.
-  rewrite (take_until_ending _ _ (ST_err _ _ _ _ _ _ _ _ _ _ H10)).
-  2: { rewrite (ST_cur_tt _ _ _ _ _ _ _ _ _ _ _ H10 Hse). discriminate. }
-  2: { unfold no_more_separators. rewrite (ST_cur_tt _ _ _ _ _ _ _ _ _ _ _ H10 Hse). reflexivity. }
-  2: { unfold is_ending. rewrite (ending_St_ended bk _ _ _ _ _ _ _ _ _ _ H10). reflexivity. }
-  pose proof (finish_ST _ _ _ _ _ _ _ _ _ _ H10 ltac:(discriminate)) as H11.
-  rewrite (first_parent_St_blk bk), (plain_sum_St_blk bk), HC, Tyb in H11.
-  replace (clamp_u16 (0 + (1 + plain_sum C))) with (lvl (1 + plain_sum C)) in H11 by (unfold lvl; f_equal; lia).
-  unfold s_loop.
-  rewrite (run_S _ C_structures _ (ST_err _ _ _ _ _ _ _ _ _ _ H11)).
-  unfold arm_structures. rewrite (ST_cur_tt _ _ _ _ _ _ _ _ _ _ _ H11 Hse). cbn [tSemi].
-  rewrite (ending_St_ended bk _ _ _ _ _ _ _ _ _ _ H11).
-  pose proof (update_statuses_ST 1 _ _ _ _ _ _ _ _ _ _ H11) as H12. cbn [mark_ended] in H12.
-  pose proof (iter_close bk _ _ _ _ _ _ _ _ _ t' H12 ltac:(discriminate) Hse Hse1 Hne) as H13.
-  eexists _, _. split; [|eapply ST_lists; [exact H13| |]].
-  - reflexivity.
-  - cbn [app]. repeat (progress (cbn [app]; rewrite <- ?app_assoc)). reflexivity.
-  - repeat (progress (cbn [app]; rewrite <- ?app_assoc)). reflexivity.
-Qed.
-
-Lemma iter_try bk b c f s k Ls M mc last C lv a t' :
-  IHfor KTry b (((cStk bk), false) :: (cBlk bk, false) :: C) -> IHfor KFinally c (((cStk bk), false) :: (cBlk bk, false) :: C) ->
-  ST s k Ls [] M mc last ((cBlk bk, false) :: C) lv a -> first_parent C = par ->
-  nth_error T k = Some tTry -> toks_at (S k) (render b ++ [tFinally]) ->
-  toks_at (S (S k + length (render b))) (render c ++ [tEnd]) ->
-  nth_error T (S (S (S k + length (render b)) + length (render c))) = Some tSemi ->
-  nth_error T (S (S (S (S k + length (render b)) + length (render c)))) = Some t' -> t' <> tSemi ->
-  8 + need b + need c <= f ->
-  let m := S k + length (render b) in
-  let e := S m + length (render c) in
-  exists mc3 last3, lm_type mc3 = LLT_Unknown /\
-  ST (take_separators_on_last_line pass (CL_Level 0%Z) (finish_logical_line pass (RUN f (C_with_ctx (cStk bk) A_structures) s)))
-     (S (S e))
-     (Ls ++ [k] :: map ll_toks (pexpected par (1 + plain_sum C + 1) (S k) (S (length Ls)) b) ++ [m] :: map ll_toks (pexpected par (1 + plain_sum C + 1) (S m) (S (length Ls) + length (pexpected par (1 + plain_sum C + 1) (S k) (S (length Ls)) b) + 1) c) ++ [[e; S e]]) []
-     (M ++ mkLM par (lvl (1 + plain_sum C)) LLT_Unknown :: map meta_of (pexpected par (1 + plain_sum C + 1) (S k) (S (length Ls)) b)
-        ++ mkLM par (lvl (1 + plain_sum C)) LLT_Unknown :: map meta_of (pexpected par (1 + plain_sum C + 1) (S m) (S (length Ls) + length (pexpected par (1 + plain_sum C + 1) (S k) (S (length Ls)) b) + 1) c)
-        ++ [mkLM par (lvl (1 + plain_sum C)) LLT_Unknown])
-     mc3 last3 ((cBlk bk, false) :: C) lv a.
-Proof.
-  intros IHb IHc H HC Hk Hb Hcn Hse Hse1 Hne Hf m e.
-  assert (Hkn : k < n) by (apply nth_error_Some; congruence).
-  destruct f as [|[|[|[|f]]]]; try lia.
-  rewrite (with_ctx_structures _ (cStk bk) s (ST_err _ _ _ _ _ _ _ _ _ _ H) eq_refl).
-  pose proof (finish_empty_ST _ _ _ _ _ _ _ _ _ H) as H0.
-  pose proof (push_ctx_ST (cStk bk) _ _ _ _ _ _ _ _ _ _ H0) as H1.
-  rewrite (run_S _ C_structures _ (ST_err _ _ _ _ _ _ _ _ _ _ H1)).
-  unfold arm_structures. rewrite (ST_cur_tt _ _ _ _ _ _ _ _ _ _ _ H1 Hk). cbn [tTry].
-  rewrite (ending_St_SB bk _ _ _ _ _ _ _ _ _ _ _ H1 Hk). cbn [tTry is_term sarm_of].
-  cbv delta [sa_try stmt_block] beta.
-  change (ctx (CT_StatementBlock BK_Try) true P_except_finally (ParserGrammar.L 1)) with (cBlk KTry).
-  destruct (open_block bk f _ _ _ _ _ _ _ _ _ KTry H1 eq_refl HC Hkn) as [Eq H4]. cbn [sk_of] in Eq. rewrite Eq. clear Eq.
-  pose proof (fun Hli => IHb f _ _ _ _ _ _ _ _ (S (length Ls)) ltac:(lia) Hli H4 Hb) as IHb'.
-  destruct (IHb' ltac:(rewrite app_length; cbn [length]; lia)) as (mcb & lastb & flb & Tyb & H5).
-  rewrite plain_sum_St_blk in H5. replace (1 + (0 + (1 + plain_sum C)))%Z with (1 + plain_sum C + 1)%Z in H5 by lia.
-  pose proof (pop_ctx_ST _ _ _ _ _ _ _ _ _ _ _ H5) as H6. fold m in H6.
-  match type of H6 with ST ?x _ _ _ _ _ _ _ _ _ => set (sB := x) in * end.
-  assert (Hm : nth_error T m = Some tFinally).
-  { specialize (Hb (length (render b)) tFinally). rewrite nth_error_app2, Nat.sub_diag in Hb by lia. exact (Hb eq_refl). }
-  assert (Hmn : m < n) by (apply nth_error_Some; congruence).
-  cbv zeta. rewrite (ST_cur_tt _ _ _ _ _ _ _ _ _ _ _ H6 Hm). cbn [tFinally].
-  change (ctx (CT_StatementBlock BK_Finally) true P_else_end (ParserGrammar.L 1)) with (cBlk KFinally).
-  (* `finally` and its block *)
-  destruct (open_block bk f _ _ _ _ _ _ _ _ _ KFinally H6 Tyb HC Hmn) as [Eq2 H4'].
-  fold m in Hcn. cbn [sk_of] in Eq2. rewrite Eq2. clear Eq2.
-  pose proof (fun Hli => IHc f _ _ _ _ _ _ _ _ (S (length Ls) + length (pexpected par (1 + plain_sum C + 1) (S k) (S (length Ls)) b) + 1) ltac:(lia) Hli H4' Hcn) as IHc'.
-  destruct (IHc' ltac:(rewrite !app_length, map_length; cbn [length]; lia)) as (mcc & lastc & flc & Tyc & H5').
-  rewrite plain_sum_St_blk in H5'. replace (1 + (0 + (1 + plain_sum C)))%Z with (1 + plain_sum C + 1)%Z in H5' by lia.
-  pose proof (pop_ctx_ST _ _ _ _ _ _ _ _ _ _ _ H5') as H6'. fold e in H6'.
-  match type of H6' with ST ?x _ _ _ _ _ _ _ _ _ => set (sC := x) in * end.
-  assert (He : nth_error T e = Some tEnd).
-  { specialize (Hcn (length (render c)) tEnd). rewrite nth_error_app2, Nat.sub_diag in Hcn by lia. exact (Hcn eq_refl). }
-  rewrite (ST_cur_tt _ _ _ _ _ _ _ _ _ _ _ H6' He). cbn [tEnd o_kw_else]. unfold s_loop.
-  pose proof (close_keyword bk (S (S f)) _ _ _ _ _ _ _ _ _ tEnd H6' Tyc HC He Hse ltac:(lia)) as H9.
-  pose proof (iter_close bk _ _ _ _ _ _ _ _ _ t' H9 ltac:(discriminate) Hse Hse1 Hne) as H12.
-  eexists _, _. split; [|eapply ST_lists; [exact H12| |]].
-  - reflexivity.
-  - cbn [app]. repeat (progress (cbn [app]; rewrite <- ?app_assoc)). reflexivity.
-  - repeat (progress (cbn [app]; rewrite <- ?app_assoc)). reflexivity.
-Qed.
-
-Lemma iter_tryexcept bk b c f s k Ls M mc last C lv a t' :
-  IHfor KTryE b (((cStk bk), false) :: (cBlk bk, false) :: C) -> IHfor KExcept c (((cStk bk), false) :: (cBlk bk, false) :: C) ->
-  ST s k Ls [] M mc last ((cBlk bk, false) :: C) lv a -> first_parent C = par ->
-  nth_error T k = Some tTry -> toks_at (S k) (render b ++ [tExcept]) ->
-  toks_at (S (S k + length (render b))) (render c ++ [tEnd]) ->
-  nth_error T (S (S (S k + length (render b)) + length (render c))) = Some tSemi ->
-  nth_error T (S (S (S (S k + length (render b)) + length (render c)))) = Some t' -> t' <> tSemi ->
-  8 + need b + need c <= f ->
-  let m := S k + length (render b) in
-  let e := S m + length (render c) in
-  exists mc3 last3, lm_type mc3 = LLT_Unknown /\
-  ST (take_separators_on_last_line pass (CL_Level 0%Z) (finish_logical_line pass (RUN f (C_with_ctx (cStk bk) A_structures) s)))
-     (S (S e))
-     (Ls ++ [k] :: map ll_toks (pexpected par (1 + plain_sum C + 1) (S k) (S (length Ls)) b) ++ [m] :: map ll_toks (pexpected par (1 + plain_sum C + 1) (S m) (S (length Ls) + length (pexpected par (1 + plain_sum C + 1) (S k) (S (length Ls)) b) + 1) c) ++ [[e; S e]]) []
-     (M ++ mkLM par (lvl (1 + plain_sum C)) LLT_Unknown :: map meta_of (pexpected par (1 + plain_sum C + 1) (S k) (S (length Ls)) b)
-        ++ mkLM par (lvl (1 + plain_sum C)) LLT_Unknown :: map meta_of (pexpected par (1 + plain_sum C + 1) (S m) (S (length Ls) + length (pexpected par (1 + plain_sum C + 1) (S k) (S (length Ls)) b) + 1) c)
-        ++ [mkLM par (lvl (1 + plain_sum C)) LLT_Unknown])
-     mc3 last3 ((cBlk bk, false) :: C) lv a.
-Proof.
-  intros IHb IHc H HC Hk Hb Hcn Hse Hse1 Hne Hf m e.
-  assert (Hkn : k < n) by (apply nth_error_Some; congruence).
-  destruct f as [|[|[|[|f]]]]; try lia.
-  rewrite (with_ctx_structures _ (cStk bk) s (ST_err _ _ _ _ _ _ _ _ _ _ H) eq_refl).
-  pose proof (finish_empty_ST _ _ _ _ _ _ _ _ _ H) as H0.
-  pose proof (push_ctx_ST (cStk bk) _ _ _ _ _ _ _ _ _ _ H0) as H1.
-  rewrite (run_S _ C_structures _ (ST_err _ _ _ _ _ _ _ _ _ _ H1)).
-  unfold arm_structures. rewrite (ST_cur_tt _ _ _ _ _ _ _ _ _ _ _ H1 Hk). cbn [tTry].
-  rewrite (ending_St_SB bk _ _ _ _ _ _ _ _ _ _ _ H1 Hk). cbn [tTry is_term sarm_of].
-  cbv delta [sa_try stmt_block] beta.
-  change (ctx (CT_StatementBlock BK_Try) true P_except_finally (ParserGrammar.L 1)) with (cBlk KTryE).
-  destruct (open_block bk f _ _ _ _ _ _ _ _ _ KTryE H1 eq_refl HC Hkn) as [Eq H4]. cbn [sk_of] in Eq. rewrite Eq. clear Eq.
-  pose proof (fun Hli => IHb f _ _ _ _ _ _ _ _ (S (length Ls)) ltac:(lia) Hli H4 Hb) as IHb'.
-  destruct (IHb' ltac:(rewrite app_length; cbn [length]; lia)) as (mcb & lastb & flb & Tyb & H5).
-  rewrite plain_sum_St_blk in H5. replace (1 + (0 + (1 + plain_sum C)))%Z with (1 + plain_sum C + 1)%Z in H5 by lia.
-  pose proof (pop_ctx_ST _ _ _ _ _ _ _ _ _ _ _ H5) as H6. fold m in H6.
-  match type of H6 with ST ?x _ _ _ _ _ _ _ _ _ => set (sB := x) in * end.
-  assert (Hm : nth_error T m = Some tExcept).
-  { specialize (Hb (length (render b)) tExcept). rewrite nth_error_app2, Nat.sub_diag in Hb by lia. exact (Hb eq_refl). }
-  assert (Hmn : m < n) by (apply nth_error_Some; congruence).
-  cbv zeta. rewrite (ST_cur_tt _ _ _ _ _ _ _ _ _ _ _ H6 Hm). cbn [tExcept].
-  change (ctx (CT_StatementBlock BK_Except) true P_else_end (ParserGrammar.L 1)) with (cBlk KExcept).
-  (* `finally` and its block *)
-  destruct (open_block bk f _ _ _ _ _ _ _ _ _ KExcept H6 Tyb HC Hmn) as [Eq2 H4'].
-  fold m in Hcn. cbn [sk_of] in Eq2. rewrite Eq2. clear Eq2.
-  pose proof (fun Hli => IHc f _ _ _ _ _ _ _ _ (S (length Ls) + length (pexpected par (1 + plain_sum C + 1) (S k) (S (length Ls)) b) + 1) ltac:(lia) Hli H4' Hcn) as IHc'.
-  destruct (IHc' ltac:(rewrite !app_length, map_length; cbn [length]; lia)) as (mcc & lastc & flc & Tyc & H5').
-  rewrite plain_sum_St_blk in H5'. replace (1 + (0 + (1 + plain_sum C)))%Z with (1 + plain_sum C + 1)%Z in H5' by lia.
-  pose proof (pop_ctx_ST _ _ _ _ _ _ _ _ _ _ _ H5') as H6'. fold e in H6'.
-  match type of H6' with ST ?x _ _ _ _ _ _ _ _ _ => set (sC := x) in * end.
-  assert (He : nth_error T e = Some tEnd).
-  { specialize (Hcn (length (render c)) tEnd). rewrite nth_error_app2, Nat.sub_diag in Hcn by lia. exact (Hcn eq_refl). }
-  rewrite (ST_cur_tt _ _ _ _ _ _ _ _ _ _ _ H6' He). cbn [tEnd o_kw_else]. unfold s_loop.
-  pose proof (close_keyword bk (S (S f)) _ _ _ _ _ _ _ _ _ tEnd H6' Tyc HC He Hse ltac:(lia)) as H9.
-  pose proof (iter_close bk _ _ _ _ _ _ _ _ _ t' H9 ltac:(discriminate) Hse Hse1 Hne) as H12.
-  eexists _, _. split; [|eapply ST_lists; [exact H12| |]].
-  - reflexivity.
-  - cbn [app]. repeat (progress (cbn [app]; rewrite <- ?app_assoc)). reflexivity.
-  - repeat (progress (cbn [app]; rewrite <- ?app_assoc)). reflexivity.
-Qed.
 
 (* ================================================================== *)
 (* generic steps of parse_statement / parse_structures (any context on top) *)
@@ -1115,13 +672,15 @@ Lemma ending_top_ended s k L c M mc last x r lv a :
   ST s k L c M mc last ((x, true) :: r) lv a -> ending_ctx pass s = Some 1.
 Proof. intros H. unfold ending_ctx. rewrite (ST_ctx _ _ _ _ _ _ _ _ _ _ H). reflexivity. Qed.
 
-Definition stmt_ctype (x : pctx) : Prop := c_type x = CT_Statement SK_Normal \/ c_type x = CT_Utility.
+Definition stmt_ctype (x : pctx) : Prop :=
+  match c_type x with CT_Statement (SK_Normal | SK_Except) | CT_Utility | CT_BlockClause => True | _ => False end.
 
 Lemma prelude_none s k L c M mc last x fl r lv a :
   ST s k L c M mc last ((x, fl) :: r) lv a -> ending_ctx pass s = None -> stmt_ctype x -> statement_prelude pass s = (s, true).
 Proof.
   intros H E Hx. unfold statement_prelude. rewrite (last_ctx_ST _ _ _ _ _ _ _ _ _ _ _ _ H), E.
-  destruct (at_start pass s); [|reflexivity]. destruct Hx as [-> | ->]; reflexivity.
+  destruct (at_start pass s); [|reflexivity]. unfold stmt_ctype in Hx. destruct (c_type x) as [| | | | | | | | | | | | | |bb|sk| | | |]; try contradiction; try reflexivity.
+  destruct sk; try contradiction; reflexivity.
 Qed.
 Lemma prelude_some s k L c M mc last x fl r lv a j :
   ST s k L c M mc last ((x, fl) :: r) lv a -> ending_ctx pass s = Some j ->
@@ -1145,7 +704,7 @@ Lemma statement_assign f s k L c M mc last x fl r lv a :
   ending_ctx pass s = None -> stmt_ctype x ->
   RUN (S f) C_statement s = RUN f C_statement (set_line_type pass LLT_Assignment (next_token pass s)).
 Proof.
-  intros H Hk Hty E Hx. assert (Hkn : k < n) by (apply nth_error_Some; congruence).
+  intros H Hk Hty E Hx. assert (Hkn : tokfin (k)) by tokfin_tac.
   rewrite (run_S _ C_statement _ (ST_err _ _ _ _ _ _ _ _ _ _ H)).
   unfold arm_statement. rewrite (ST_cur_tt _ _ _ _ _ _ _ _ _ _ _ H Hk). cbn [tAssign].
   rewrite (prelude_none _ _ _ _ _ _ _ _ _ _ _ _ H E Hx). cbn [negb starm_of tAssign].
@@ -1186,7 +745,7 @@ Qed.
 
 (* entering a nested block after its opening keyword, in any context *)
 Lemma open_block_G f s k Ls M mc last Y lv a bk' :
-  ST s k Ls [] M mc last Y lv a -> k < n ->
+  ST s k Ls [] M mc last Y lv a -> tokfin k ->
   let s1 := push_ctx pass (cBlk bk') (finish_logical_line pass (next_token pass s)) in
   RUN (S (S f)) (C_stmt_block (cBlk bk') (sk_of bk')) (next_token pass s) = pop_ctx pass (RUN f (slc bk') s1)
   /\ ST s1 (S k) (Ls ++ [[k]]) [] (M ++ [mkLM (first_parent Y) (clamp_u16 (plain_sum Y)) (lm_type mc)])
@@ -1226,11 +785,11 @@ Lemma line_section_run th f s k L c M mc last r lv a :
   ST (RUN f (C_line_section (cUtp th)) s) (S k) L (c ++ [k]) M mc last r lv a.
 Proof.
   intros H Hk Hk1 Hf. destruct f as [|[|[|f]]]; try lia.
-  assert (Hkn : k < n) by (apply nth_error_Some; congruence).
+  assert (Hkn : tokfin (k)) by tokfin_tac.
   rewrite (run_S _ (C_line_section _) _ (ST_err _ _ _ _ _ _ _ _ _ _ H)). unfold arm_line_section.
   pose proof (push_ctx_ST (cUtp th) _ _ _ _ _ _ _ _ _ _ H) as H1.
   assert (E0 : ending_ctx pass (push_ctx pass (cUtp th) s) = None) by (rewrite (ending_Ut _ _ _ _ _ _ _ _ _ _ _ _ H1 Hk); reflexivity).
-  rewrite (statement_ident _ _ _ _ _ _ _ _ _ _ _ _ _ _ H1 Hk Hk1 ltac:(destruct th; discriminate) ltac:(destruct th; reflexivity) E0 (or_intror eq_refl)).
+  rewrite (statement_ident _ _ _ _ _ _ _ _ _ _ _ _ _ _ H1 Hk Hk1 ltac:(destruct th; discriminate) ltac:(destruct th; reflexivity) E0 I).
   pose proof (next_token_ST _ _ _ _ _ _ _ _ _ _ H1 Hkn) as H2.
   assert (E1 : ending_ctx pass (next_token pass (push_ctx pass (cUtp th) s)) = Some 1)
     by (rewrite (ending_Ut _ _ _ _ _ _ _ _ _ _ _ _ H2 Hk1); destruct th; reflexivity).
@@ -1242,135 +801,255 @@ Qed.
 (* ---------------- the body of a child line context (parse_block with a parent) *)
 Definition cCh (pe : bool) (p : nat * nat) : pctx :=
   ctx (CT_Statement SK_Normal) false (if pe then P_else else P_never) (CL_Parent p 1%N).
-Definition tFol (el : bool) : RawTokenType := if el then tElse else tSemi.
-Definition Xc bk pe p (C : list (pctx * bool)) := (cCh pe p, false) :: ((cStk bk), false) :: (cBlk bk, false) :: C.
-Definition Xe bk pe p (C : list (pctx * bool)) (el : bool) := (cCh pe p, true) :: ((cStk bk), negb el) :: (cBlk bk, false) :: C.
-Lemma first_parent_Xc bk pe p C : first_parent (Xc bk pe p C) = Some p. Proof. reflexivity. Qed.
-Lemma plain_sum_Xc bk pe p C : plain_sum (Xc bk pe p C) = 1%Z. Proof. reflexivity. Qed.
-Lemma first_parent_Xe bk pe p C el : first_parent (Xe bk pe p C el) = Some p. Proof. reflexivity. Qed.
-Lemma plain_sum_Xe bk pe p C el : plain_sum (Xe bk pe p C el) = 1%Z. Proof. reflexivity. Qed.
 
-Lemma ending_Ch bk pe p s k L c M mc last C lv a t :
-  ST s k L c M mc last (Xc bk pe p C) lv a -> nth_error T k = Some t ->
-  ending_ctx pass s = if pe && o_kw_else (Some t) then Some 1
-                      else match t with RTT_Op OK_Semicolon => Some 2 | _ => if is_term bk t then Some 3 else None end.
+(* ================================================================== *)
+(* statement positions: a context stack X on which a statement starts at the start of a line, with the
+   context-ending test E as a function of the current token *)
+Definition cur_is (s : pstate) (t : RawTokenType) : Prop := cur_tt pass s = match t with RTT_Eof => None | _ => Some t end.
+Lemma ST_cur_is s k L c M mc last cx lv a t : ST s k L c M mc last cx lv a -> nth_error T k = Some t -> cur_is s t.
+Proof. exact (ST_cur_tt s k L c M mc last cx lv a t). Qed.
+Definition ends_as (X : list (pctx * bool)) (E : RawTokenType -> option nat) : Prop :=
+  forall (s : pstate) t, cur_is s t -> plain t -> ending_go pass s X 0 = E t.
+Definition starter (t : RawTokenType) : bool :=
+  match t with
+  | RTT_Identifier | RTT_Op OK_Assign | RTT_Keyword (KK_Begin | KK_Repeat | KK_Try | KK_If | KK_While | KK_Case) => true
+  | _ => false
+  end.
+(* no type declaration context below (parse_structures asks for it at `case`) *)
+Definition notd (C : list (pctx * bool)) : Prop :=
+  existsb (fun c => match c_type (fst c) with CT_TypeDeclaration => true | _ => false end) C = false.
+Lemma notd_St_blk bk f1 f2 C : notd C -> notd ((cStk bk, f1) :: (cBlk bk, f2) :: C).
+Proof. unfold notd. intros H. destruct bk; cbn; exact H. Qed.
+Record Pos0 (X : list (pctx * bool)) (E : RawTokenType -> option nat) : Prop := mkPos0 {
+  pos_ends : ends_as X E;
+  pos_start : forall t, starter t = true -> E t = None;
+  pos_notd : notd X }.
+Record Pos (X : list (pctx * bool)) (E : RawTokenType -> option nat) : Prop := mkPos {
+  pos_0 : Pos0 X E;
+  pos_top : exists x r, X = (x, false) :: r /\ stmt_ctype x }.
+Lemma pos_ending X E s k L c M mc last lv a t : Pos0 X E -> ST s k L c M mc last X lv a -> nth_error T k = Some t ->
+  ending_ctx pass s = E t.
 Proof.
-  intros H Ht. unfold ending_ctx. rewrite (ST_ctx _ _ _ _ _ _ _ _ _ _ H). unfold Xc. cbn [ending_go cCh cStk ctx c_pred c_opaque].
-  rewrite (blk_pred_eval bk _ _ _ _ _ _ _ _ _ _ _ H Ht), cBlk_opaque.
-  pose proof (ST_cur_tt _ _ _ _ _ _ _ _ _ _ _ H Ht) as Ct. pose proof (plain_nth _ _ Ht) as P.
-  destruct pe; cbn [eval_pred andb]; rewrite ?Ct.
-  all: destruct t as [o| |k0|k0| | | | | | |]; try contradiction; try reflexivity.
+  intros P H Ht. unfold ending_ctx. rewrite (ST_ctx _ _ _ _ _ _ _ _ _ _ H).
+  exact (pos_ends X E P s t (ST_cur_is _ _ _ _ _ _ _ _ _ _ _ H Ht) (plain_nth _ _ Ht)).
+Qed.
+Lemma ending_go_shift (s : pstate) : forall l d, ending_go pass s l (S d) = option_map S (ending_go pass s l d).
+Proof.
+  induction l as [|[c e] r IH]; intros d; cbn [ending_go]; [reflexivity|].
+  destruct e; [reflexivity|]. destruct (eval_pred pass (c_pred c) s); [reflexivity|]. destruct (c_opaque c); [reflexivity|]. apply IH.
+Qed.
+
+(* the position of the statements of a block *)
+Definition Xl (bk : blk) (C : list (pctx * bool)) := (cStk bk, false) :: (cBlk bk, false) :: C.
+Definition El (bk : blk) (t : RawTokenType) : option nat :=
+  match t with RTT_Op OK_Semicolon => Some 1 | _ => if is_term bk t then Some 2 else None end.
+Lemma blk_pred_eval_G b (s : pstate) t : cur_is s t -> plain t -> eval_pred pass (c_pred (cBlk b)) s = is_term b t.
+Proof.
+  intros Ct P. unfold cur_is in Ct.
+  destruct b; cbn [cBlk ctx c_pred eval_pred]; unfold o_kw_end; rewrite Ct;
+    (destruct t as [o| |k0|k0| | | | | | |]; try contradiction; try reflexivity; destruct k0; try contradiction; reflexivity).
+Qed.
+Lemma ends_list bk C : ends_as (Xl bk C) (El bk).
+Proof.
+  intros s t Ct P. unfold Xl. cbn [ending_go cStk ctx c_pred c_opaque eval_pred].
+  rewrite (blk_pred_eval_G bk s t Ct P), cBlk_opaque. unfold cur_is in Ct. rewrite Ct. unfold El.
+  destruct t as [o| |k0|k0| | | | | | |]; try contradiction; try reflexivity.
   all: try (destruct o; try contradiction; reflexivity).
-  all: destruct k0; try contradiction; cbn [o_semicolon o_kw_else]; try reflexivity; destruct (is_term bk _); reflexivity.
+  all: try (destruct k0; try contradiction; cbn [o_semicolon]; destruct (is_term bk _); reflexivity).
 Qed.
-
-Lemma body_simple bk pe el p f s k L M mc last C lv a :
-  ST s k L [] M mc last (Xc bk pe p C) lv a -> (el = true -> pe = true) ->
-  nth_error T k = Some tI -> nth_error T (S k) = Some (tFol el) -> 4 <= f ->
-  ST (finish_logical_line pass (RUN f C_structures s)) (S k) (L ++ [[k]]) []
-     (M ++ [mkLM (Some p) (lvl 1) (lm_type mc)]) (mkLM None (lvl 1) LLT_Unknown) (length L) (Xe bk pe p C el) lv a.
+Lemma pos0_list bk C : notd C -> Pos0 (Xl bk C) (El bk).
 Proof.
-  intros H Hel Hk Hk1 Hf. destruct f as [|[|[|[|f]]]]; try lia.
-  assert (Hkn : k < n) by (apply nth_error_Some; congruence).
-  assert (E0 : ending_ctx pass s = None) by (rewrite (ending_Ch _ _ _ _ _ _ _ _ _ _ _ _ _ _ H Hk); destruct pe; reflexivity).
-  rewrite (structures_ident _ _ _ _ _ _ _ _ _ _ _ H Hk E0).
-  rewrite (statement_ident _ _ _ _ _ _ _ _ _ _ _ _ _ _ H Hk Hk1 ltac:(destruct el; discriminate) ltac:(destruct el; reflexivity) E0 (or_introl eq_refl)).
-  pose proof (next_token_ST _ _ _ _ _ _ _ _ _ _ H Hkn) as H1. cbn [app] in H1.
-  assert (E1 : ending_ctx pass (next_token pass s) = Some (if el then 1 else 2)).
-  { rewrite (ending_Ch _ _ _ _ _ _ _ _ _ _ _ _ _ _ H1 Hk1). destruct el; [rewrite (Hel eq_refl)|destruct pe]; reflexivity. }
-  rewrite (statement_stop _ _ _ _ _ _ _ _ _ _ _ _ _ _ _ H1 Hk1 ltac:(destruct el; discriminate) E1).
-  pose proof (update_statuses_ST (if el then 1 else 2) _ _ _ _ _ _ _ _ _ _ H1) as H2.
-  assert (MX : mark_ended (if el then 1 else 2) (Xc bk pe p C) = Xe bk pe p C el) by (destruct el; reflexivity). rewrite MX in H2.
-  rewrite (structures_stop _ _ _ _ _ _ _ _ _ _ _ _ _ H2 Hk1 ltac:(destruct el; discriminate) (ending_top_ended _ _ _ _ _ _ _ _ _ _ _ H2)).
-  pose proof (update_statuses_ST 1 _ _ _ _ _ _ _ _ _ _ H2) as H3.
-  change (mark_ended 1 (Xe bk pe p C el)) with (Xe bk pe p C el) in H3.
-  pose proof (finish_ST _ _ _ _ _ _ _ _ _ _ H3 ltac:(discriminate)) as H4.
-  rewrite first_parent_Xe, plain_sum_Xe in H4. exact H4.
+  intros Hnd. split; [apply ends_list| |apply notd_St_blk, Hnd].
+  intros t St. unfold El. destruct t as [o| |k0|k0| | | | | | |]; try discriminate.
+  all: try (destruct o; try discriminate); try (destruct k0; try discriminate); destruct bk; reflexivity.
+Qed.
+Lemma pos_list bk C : sk_of bk <> SK_Case -> notd C -> Pos (Xl bk C) (El bk).
+Proof.
+  intros Hsk Hnd. split; [apply pos0_list, Hnd|]. exists (cStk bk), ((cBlk bk, false) :: C). split; [reflexivity|].
+  unfold stmt_ctype. cbn [cStk ctx c_type]. destruct bk; try exact I; exfalso; apply Hsk; reflexivity.
+Qed.
+(* a child line context on top of a position *)
+Definition Ec (pe : bool) (E : RawTokenType -> option nat) (t : RawTokenType) : option nat :=
+  if pe && o_kw_else (Some t) then Some 1 else option_map S (E t).
+Lemma ends_child pe p X E : ends_as X E -> ends_as ((cCh pe p, false) :: X) (Ec pe E).
+Proof.
+  intros H s t Ct P. cbn [ending_go cCh ctx c_pred c_opaque]. rewrite ending_go_shift, (H s t Ct P). unfold Ec.
+  unfold cur_is in Ct.
+  destruct pe; cbn [eval_pred andb]; [|reflexivity]. rewrite Ct.
+  destruct t as [o| |k0|k0| | | | | | |]; try contradiction; reflexivity.
+Qed.
+Lemma pos_child pe p X E : Pos0 X E -> Pos ((cCh pe p, false) :: X) (Ec pe E).
+Proof.
+  intros [H1 H2 H3]. split; [split|].
+  - apply ends_child, H1.
+  - intros t St. unfold Ec. rewrite (H2 t St). destruct t as [o| |k0|k0| | | | | | |]; try discriminate.
+    all: try (destruct o; try discriminate); try (destruct k0; try discriminate); destruct pe; reflexivity.
+  - unfold notd in *. cbn. exact H3.
+  - exists (cCh pe p), X. split; [reflexivity|]. exact I.
+Qed.
+(* a transparent context that never ends by itself (BlockClause) on top of a position *)
+Lemma ends_never x X E : c_pred x = P_never -> c_opaque x = false -> ends_as X E -> ends_as ((x, false) :: X) (fun t => option_map S (E t)).
+Proof. intros Hp Ho H s t Ct P. cbn [ending_go]. rewrite Hp, Ho. cbn [eval_pred]. rewrite ending_go_shift, (H s t Ct P). reflexivity. Qed.
+
+(* levels: marking contexts as ended and popping a level-0 context do not change the level of a line *)
+Lemma first_parent_mark : forall j X, first_parent (mark_ended j X) = first_parent X.
+Proof. induction j as [|j IH]; intros [|[c e] r]; cbn [mark_ended first_parent]; try reflexivity. rewrite IH. reflexivity. Qed.
+Lemma plain_sum_mark : forall j X, plain_sum (mark_ended j X) = plain_sum X.
+Proof. induction j as [|j IH]; intros [|[c e] r]; cbn [mark_ended plain_sum]; try reflexivity. rewrite IH. reflexivity. Qed.
+Lemma mark_ended_cons j x fl r : mark_ended (S j) ((x, fl) :: r) = (x, true) :: mark_ended j r.
+Proof. reflexivity. Qed.
+Lemma mark_ended_idem j X : mark_ended 1 (mark_ended (S j) X) = mark_ended (S j) X.
+Proof. destruct X as [|[c e] r]; reflexivity. Qed.
+Definition lvl0 (X : list (pctx * bool)) : Prop := exists x fl r, X = (x, fl) :: r /\ c_level x = CL_Level 0%Z.
+Definition optpop (pp : bool) (s : pstate) : pstate := if pp then pop_ctx pass s else s.
+Definition optpopc (pp : bool) (cx : list (pctx * bool)) : list (pctx * bool) := if pp then tl cx else cx.
+Lemma optpop_level pp j X : (pp = true -> lvl0 X) ->
+  first_parent (optpopc pp (mark_ended j X)) = first_parent X /\ plain_sum (optpopc pp (mark_ended j X)) = plain_sum X.
+Proof.
+  intros Hl. destruct pp; cbn [optpopc]; [|split; [apply first_parent_mark|apply plain_sum_mark]].
+  destruct (Hl eq_refl) as (x & fl & r & -> & Hx). destruct j as [|j]; cbn [mark_ended tl first_parent plain_sum]; rewrite Hx;
+    rewrite ?first_parent_mark, ?plain_sum_mark; split; reflexivity.
+Qed.
+Lemma lvl0_list bk C : lvl0 (Xl bk C).
+Proof. exists (cStk bk), false, ((cBlk bk, false) :: C). split; reflexivity. Qed.
+(* finishing the line of a statement, after an optional pop of the statement context *)
+Lemma fin_open pp X j s k L c M mc last lv a : (pp = true -> lvl0 X) -> ST s k L c M mc last (mark_ended j X) lv a -> c <> [] ->
+  ST (finish_logical_line pass (optpop pp s)) k (L ++ [c]) []
+     (M ++ [mkLM (first_parent X) (clamp_u16 (plain_sum X)) (lm_type mc)]) (mkLM None (clamp_u16 (plain_sum X)) LLT_Unknown) (length L)
+     (optpopc pp (mark_ended j X)) lv a.
+Proof.
+  intros Hl H Hc. destruct (optpop_level pp j X Hl) as [E1 E2]. rewrite <- E1, <- E2.
+  destruct pp; cbn [optpop optpopc] in *.
+  - destruct (Hl eq_refl) as (x & fl & r & -> & _). destruct j; cbn [mark_ended] in H |- *;
+      exact (finish_ST _ _ _ _ _ _ _ _ _ _ (pop_ctx_ST _ _ _ _ _ _ _ _ _ _ _ H) Hc).
+  - exact (finish_ST _ _ _ _ _ _ _ _ _ _ H Hc).
+Qed.
+Lemma fin_closed pp X j s k L M mc last lv a : (pp = true -> lvl0 X) -> ST s k L [] M mc last (mark_ended j X) lv a ->
+  ST (finish_logical_line pass (optpop pp s)) k L [] M (mkLM (lm_parent mc) (lm_level mc) LLT_Unknown) last (optpopc pp (mark_ended j X)) lv a.
+Proof.
+  intros Hl H. destruct pp; cbn [optpop optpopc] in *.
+  - destruct (Hl eq_refl) as (x & fl & r & -> & _). destruct j; cbn [mark_ended] in H |- *;
+      exact (finish_empty_ST _ _ _ _ _ _ _ _ _ (pop_ctx_ST _ _ _ _ _ _ _ _ _ _ _ H)).
+  - exact (finish_empty_ST _ _ _ _ _ _ _ _ _ H).
 Qed.
 
-Lemma body_assign bk pe el p f s k L M mc last C lv a :
-  ST s k L [] M mc last (Xc bk pe p C) lv a -> lm_type mc = LLT_Unknown -> (el = true -> pe = true) ->
+(* ---------------- the statements without child lines, at any position *)
+Lemma core_simple X E pp f s k L M mc last lv a tf j :
+  Pos X E -> (pp = true -> lvl0 X) -> ST s k L [] M mc last X lv a ->
+  nth_error T k = Some tI -> nth_error T (S k) = Some tf -> E tf = Some (S j) -> tf <> RTT_Eof -> o_colon (Some tf) = false -> 4 <= f ->
+  ST (finish_logical_line pass (optpop pp (RUN f C_structures s))) (S k) (L ++ [[k]]) []
+     (M ++ [mkLM (first_parent X) (clamp_u16 (plain_sum X)) (lm_type mc)]) (mkLM None (clamp_u16 (plain_sum X)) LLT_Unknown) (length L)
+     (optpopc pp (mark_ended (S j) X)) lv a.
+Proof.
+  intros [P0 (x & r & -> & Hx)] Hl H Hk Hk1 Ej HnE Oc Hf. destruct f as [|[|[|[|f]]]]; try lia.
+  assert (Hkn : tokfin (k)) by tokfin_tac.
+  assert (E0 : ending_ctx pass s = None) by (rewrite (pos_ending _ _ _ _ _ _ _ _ _ _ _ _ P0 H Hk); apply (pos_start _ _ P0); reflexivity).
+  rewrite (structures_ident _ _ _ _ _ _ _ _ _ _ _ H Hk E0).
+  rewrite (statement_ident _ _ _ _ _ _ _ _ _ _ _ _ _ _ H Hk Hk1 HnE Oc E0 Hx).
+  pose proof (next_token_ST _ _ _ _ _ _ _ _ _ _ H Hkn) as H1. cbn [app] in H1.
+  assert (E1 : ending_ctx pass (next_token pass s) = Some (S j)) by (rewrite (pos_ending _ _ _ _ _ _ _ _ _ _ _ _ P0 H1 Hk1); exact Ej).
+  rewrite (statement_stop _ _ _ _ _ _ _ _ _ _ _ _ _ _ _ H1 Hk1 HnE E1).
+  pose proof (update_statuses_ST (S j) _ _ _ _ _ _ _ _ _ _ H1) as H2.
+  assert (Et : ending_ctx pass (update_statuses pass (S j) (next_token pass s)) = Some 1) by (cbn [mark_ended] in H2; exact (ending_top_ended _ _ _ _ _ _ _ _ _ _ _ H2)).
+  rewrite (structures_stop _ _ _ _ _ _ _ _ _ _ _ _ _ H2 Hk1 HnE Et).
+  pose proof (update_statuses_ST 1 _ _ _ _ _ _ _ _ _ _ H2) as H3. rewrite mark_ended_idem in H3.
+  exact (fin_open pp _ _ _ _ _ _ _ _ _ _ _ Hl H3 ltac:(discriminate)).
+Qed.
+
+Lemma core_assign X E pp f s k L M mc last lv a tf j :
+  Pos X E -> (pp = true -> lvl0 X) -> ST s k L [] M mc last X lv a -> lm_type mc = LLT_Unknown ->
   nth_error T k = Some tI -> nth_error T (S k) = Some tAssign -> nth_error T (S (S k)) = Some tI ->
-  nth_error T (S (S (S k))) = Some (tFol el) -> 6 <= f ->
-  ST (finish_logical_line pass (RUN f C_structures s)) (S (S (S k))) (L ++ [[k; S k; S (S k)]]) []
-     (M ++ [mkLM (Some p) (lvl 1) LLT_Assignment]) (mkLM None (lvl 1) LLT_Unknown) (length L) (Xe bk pe p C el) lv a.
+  nth_error T (S (S (S k))) = Some tf -> E tf = Some (S j) -> tf <> RTT_Eof -> o_colon (Some tf) = false -> 6 <= f ->
+  ST (finish_logical_line pass (optpop pp (RUN f C_structures s))) (S (S (S k))) (L ++ [[k; S k; S (S k)]]) []
+     (M ++ [mkLM (first_parent X) (clamp_u16 (plain_sum X)) LLT_Assignment]) (mkLM None (clamp_u16 (plain_sum X)) LLT_Unknown) (length L)
+     (optpopc pp (mark_ended (S j) X)) lv a.
 Proof.
-  intros H Hty Hel Hk Hk1 Hk2 Hk3 Hf. destruct f as [|[|[|[|[|[|f]]]]]]; try lia.
-  assert (Hkn : k < n) by (apply nth_error_Some; congruence).
-  assert (Hkn1 : S k < n) by (apply nth_error_Some; congruence).
-  assert (Hkn2 : S (S k) < n) by (apply nth_error_Some; congruence).
-  assert (E0 : ending_ctx pass s = None) by (rewrite (ending_Ch _ _ _ _ _ _ _ _ _ _ _ _ _ _ H Hk); destruct pe; reflexivity).
+  intros [P0 (x & r & -> & Hx)] Hl H Hty Hk Hk1 Hk2 Hk3 Ej HnE Oc Hf. destruct f as [|[|[|[|[|[|f]]]]]]; try lia.
+  assert (Hkn : tokfin (k)) by tokfin_tac.
+  assert (Hkn1 : tokfin (S k)) by tokfin_tac.
+  assert (Hkn2 : tokfin (S (S k))) by tokfin_tac.
+  assert (E0 : ending_ctx pass s = None) by (rewrite (pos_ending _ _ _ _ _ _ _ _ _ _ _ _ P0 H Hk); apply (pos_start _ _ P0); reflexivity).
   rewrite (structures_ident _ _ _ _ _ _ _ _ _ _ _ H Hk E0).
-  rewrite (statement_ident _ _ _ _ _ _ _ _ _ _ _ _ _ _ H Hk Hk1 ltac:(discriminate) eq_refl E0 (or_introl eq_refl)).
+  rewrite (statement_ident _ _ _ _ _ _ _ _ _ _ _ _ _ _ H Hk Hk1 ltac:(discriminate) eq_refl E0 Hx).
   pose proof (next_token_ST _ _ _ _ _ _ _ _ _ _ H Hkn) as H1. cbn [app] in H1.
-  assert (E1 : ending_ctx pass (next_token pass s) = None) by (rewrite (ending_Ch _ _ _ _ _ _ _ _ _ _ _ _ _ _ H1 Hk1); destruct pe; reflexivity).
-  rewrite (statement_assign _ _ _ _ _ _ _ _ _ _ _ _ _ H1 Hk1 Hty E1 (or_introl eq_refl)).
+  assert (E1 : ending_ctx pass (next_token pass s) = None) by (rewrite (pos_ending _ _ _ _ _ _ _ _ _ _ _ _ P0 H1 Hk1); apply (pos_start _ _ P0); reflexivity).
+  rewrite (statement_assign _ _ _ _ _ _ _ _ _ _ _ _ _ H1 Hk1 Hty E1 Hx).
   pose proof (next_token_ST _ _ _ _ _ _ _ _ _ _ H1 Hkn1) as H2. cbn [app] in H2.
   pose proof (set_line_type_ST LLT_Assignment _ _ _ _ _ _ _ _ _ _ H2) as H3.
-  match type of H3 with ST ?x _ _ _ _ _ _ _ _ _ => set (s3 := x) in * end.
-  assert (E2 : ending_ctx pass s3 = None) by (rewrite (ending_Ch _ _ _ _ _ _ _ _ _ _ _ _ _ _ H3 Hk2); destruct pe; reflexivity).
-  rewrite (statement_ident _ _ _ _ _ _ _ _ _ _ _ _ _ _ H3 Hk2 Hk3 ltac:(destruct el; discriminate) ltac:(destruct el; reflexivity) E2 (or_introl eq_refl)).
+  match type of H3 with ST ?y _ _ _ _ _ _ _ _ _ => set (s3 := y) in * end.
+  assert (E2 : ending_ctx pass s3 = None) by (rewrite (pos_ending _ _ _ _ _ _ _ _ _ _ _ _ P0 H3 Hk2); apply (pos_start _ _ P0); reflexivity).
+  rewrite (statement_ident _ _ _ _ _ _ _ _ _ _ _ _ _ _ H3 Hk2 Hk3 HnE Oc E2 Hx).
   pose proof (next_token_ST _ _ _ _ _ _ _ _ _ _ H3 Hkn2) as H4. cbn [app] in H4.
-  assert (E3 : ending_ctx pass (next_token pass s3) = Some (if el then 1 else 2)).
-  { rewrite (ending_Ch _ _ _ _ _ _ _ _ _ _ _ _ _ _ H4 Hk3). destruct el; [rewrite (Hel eq_refl)|destruct pe]; reflexivity. }
-  rewrite (statement_stop _ _ _ _ _ _ _ _ _ _ _ _ _ _ _ H4 Hk3 ltac:(destruct el; discriminate) E3).
-  pose proof (update_statuses_ST (if el then 1 else 2) _ _ _ _ _ _ _ _ _ _ H4) as H5.
-  assert (MX : mark_ended (if el then 1 else 2) (Xc bk pe p C) = Xe bk pe p C el) by (destruct el; reflexivity). rewrite MX in H5.
-  rewrite (structures_stop _ _ _ _ _ _ _ _ _ _ _ _ _ H5 Hk3 ltac:(destruct el; discriminate) (ending_top_ended _ _ _ _ _ _ _ _ _ _ _ H5)).
-  pose proof (update_statuses_ST 1 _ _ _ _ _ _ _ _ _ _ H5) as H6.
-  change (mark_ended 1 (Xe bk pe p C el)) with (Xe bk pe p C el) in H6.
-  pose proof (finish_ST _ _ _ _ _ _ _ _ _ _ H6 ltac:(discriminate)) as H7.
-  rewrite first_parent_Xe, plain_sum_Xe in H7. exact H7.
+  assert (E3 : ending_ctx pass (next_token pass s3) = Some (S j)) by (rewrite (pos_ending _ _ _ _ _ _ _ _ _ _ _ _ P0 H4 Hk3); exact Ej).
+  rewrite (statement_stop _ _ _ _ _ _ _ _ _ _ _ _ _ _ _ H4 Hk3 HnE E3).
+  pose proof (update_statuses_ST (S j) _ _ _ _ _ _ _ _ _ _ H4) as H5.
+  assert (Et : ending_ctx pass (update_statuses pass (S j) (next_token pass s3)) = Some 1) by (cbn [mark_ended] in H5; exact (ending_top_ended _ _ _ _ _ _ _ _ _ _ _ H5)).
+  rewrite (structures_stop _ _ _ _ _ _ _ _ _ _ _ _ _ H5 Hk3 HnE Et).
+  pose proof (update_statuses_ST 1 _ _ _ _ _ _ _ _ _ _ H5) as H6. rewrite mark_ended_idem in H6.
+  exact (fin_open pp _ _ _ _ _ _ _ _ _ _ _ Hl H6 ltac:(discriminate)).
 Qed.
 
-Lemma body_block bk pe el p b f s k L M mc last C lv a :
-  IHfor KBegin b (Xc bk pe p C) -> par = Some p ->
-  ST s k L [] M mc last (Xc bk pe p C) lv a -> lm_type mc = LLT_Unknown -> (el = true -> pe = true) ->
+
+(* ---------------- begin/end, repeat/until, try/finally|except/end at any position *)
+(* a closing keyword on a line of its own, in front of the token that ends the statement *)
+Lemma close_kw X E f s e Lx Mx mcb lastb lv a tf j tk :
+  Pos0 X E -> ST s e Lx [] Mx mcb lastb X lv a -> lm_type mcb = LLT_Unknown ->
+  nth_error T e = Some tk -> fin tk = tk -> nth_error T (S e) = Some tf -> E tf = Some (S j) -> tf <> RTT_Eof -> 1 <= f ->
+  ST (RUN f C_structures (finish_logical_line pass (take_until pass (no_more_separators pass) (next_token pass s))))
+     (S e) (Lx ++ [[e]]) [] (Mx ++ [mkLM (first_parent X) (clamp_u16 (plain_sum X)) LLT_Unknown])
+     (mkLM None (clamp_u16 (plain_sum X)) LLT_Unknown) (length Lx) (mark_ended (S j) X) lv a.
+Proof.
+  intros P0 H Ty He Hfk Hs Ej HnE Hf. destruct f as [|f]; [lia|].
+  assert (Hen : tokfin e) by (exists tk; split; [exact He|exact Hfk]).
+  pose proof (next_token_ST _ _ _ _ _ _ _ _ _ _ H Hen) as H7. cbn [app] in H7.
+  assert (Ct : cur_tt pass (next_token pass s) = Some tf).
+  { rewrite (ST_cur_tt _ _ _ _ _ _ _ _ _ _ _ H7 Hs). destruct tf; try reflexivity. contradiction HnE; reflexivity. }
+  assert (E7 : ending_ctx pass (next_token pass s) = Some (S j)) by (rewrite (pos_ending _ _ _ _ _ _ _ _ _ _ _ _ P0 H7 Hs); exact Ej).
+  rewrite (take_until_stop _ _ (ST_err _ _ _ _ _ _ _ _ _ _ H7)).
+  2: { rewrite Ct. discriminate. }
+  2: { right. unfold is_ending. rewrite E7. reflexivity. }
+  pose proof (finish_ST _ _ _ _ _ _ _ _ _ _ H7 ltac:(discriminate)) as H8. rewrite Ty in H8.
+  assert (E8 : ending_ctx pass (finish_logical_line pass (next_token pass s)) = Some (S j)) by (rewrite (pos_ending _ _ _ _ _ _ _ _ _ _ _ _ P0 H8 Hs); exact Ej).
+  rewrite (structures_stop _ _ _ _ _ _ _ _ _ _ _ _ _ H8 Hs HnE E8).
+  exact (update_statuses_ST (S j) _ _ _ _ _ _ _ _ _ _ H8).
+Qed.
+
+Lemma core_block X E pp b f s k L M mc last lv a tf j :
+  Pos X E -> (pp = true -> lvl0 X) -> IHfor KBegin b X -> first_parent X = par ->
+  ST s k L [] M mc last X lv a -> lm_type mc = LLT_Unknown ->
   nth_error T k = Some tBegin -> toks_at (S k) (render b ++ [tEnd]) ->
-  nth_error T (S (S k + length (render b))) = Some (tFol el) ->
+  nth_error T (S (S k + length (render b))) = Some tf -> E tf = Some (S j) -> tf <> RTT_Eof -> o_dot (Some tf) = false ->
   8 + need b <= f ->
   let e := S k + length (render b) in
-  let lb := pexpected par 2 (S k) (S (length L)) b in
-  ST (finish_logical_line pass (RUN f C_structures s)) (S e) (L ++ [k] :: map ll_toks lb ++ [[e]]) []
-     (M ++ mkLM par (lvl 1) LLT_Unknown :: map meta_of lb ++ [mkLM par (lvl 1) LLT_Unknown])
-     (mkLM None (lvl 1) LLT_Unknown) (length L + S (length lb)) (Xe bk pe p C el) lv a.
+  let lb := pexpected par (1 + plain_sum X) (S k) (S (length L)) b in
+  ST (finish_logical_line pass (optpop pp (RUN f C_structures s))) (S e) (L ++ [k] :: map ll_toks lb ++ [[e]]) []
+     (M ++ mkLM par (lvl (plain_sum X)) LLT_Unknown :: map meta_of lb ++ [mkLM par (lvl (plain_sum X)) LLT_Unknown])
+     (mkLM None (lvl (plain_sum X)) LLT_Unknown) (length L + S (length lb)) (optpopc pp (mark_ended (S j) X)) lv a.
 Proof.
-  intros IHb Hp H Hty Hel Hk Hb Hfo Hf e lb.
-  assert (Hkn : k < n) by (apply nth_error_Some; congruence).
+  intros [P0 _] Hl IHb Hp H Hty Hk Hb Hfo Ej HnE Od Hf e lb.
+  assert (Hkn : tokfin (k)) by tokfin_tac.
   destruct f as [|[|[|[|f]]]]; try lia.
-  assert (E0 : ending_ctx pass s = None) by (rewrite (ending_Ch _ _ _ _ _ _ _ _ _ _ _ _ _ _ H Hk); destruct pe, bk; reflexivity).
+  assert (E0 : ending_ctx pass s = None) by (rewrite (pos_ending _ _ _ _ _ _ _ _ _ _ _ _ P0 H Hk); apply (pos_start _ _ P0); reflexivity).
   rewrite (run_S _ C_structures _ (ST_err _ _ _ _ _ _ _ _ _ _ H)).
   unfold arm_structures. rewrite (ST_cur_tt _ _ _ _ _ _ _ _ _ _ _ H Hk), E0. cbn [tBegin sarm_of].
   cbv delta [sa_begin stmt_block] beta.
   change (ctx (CT_StatementBlock BK_Begin) true P_end (ParserGrammar.L 1)) with (cBlk KBegin).
   destruct (open_block_G (S f) _ _ _ _ _ _ _ _ _ KBegin H Hkn) as [Eq H4]. cbn [sk_of] in Eq. rewrite Eq. clear Eq.
-  rewrite first_parent_Xc, plain_sum_Xc, Hty, <- Hp in H4.
+  rewrite Hty, Hp in H4.
   pose proof (fun Hli => IHb (S f) _ _ _ _ _ _ _ _ (S (length L)) ltac:(lia) Hli H4 Hb) as IHb'.
-  destruct (IHb' ltac:(rewrite app_length; cbn [length]; lia)) as (mcb & lastb & flb & Tyb & H5).
-  rewrite plain_sum_Xc in H5. change (1 + 1)%Z with 2%Z in H5. fold lb in H5.
+  destruct (IHb' ltac:(rewrite app_length; cbn [length]; lia)) as (mcb & lastb & flb & Tyb & H5). fold lb in H5.
   pose proof (pop_ctx_ST _ _ _ _ _ _ _ _ _ _ _ H5) as H6. fold e in H6.
   match type of H6 with ST ?x _ _ _ _ _ _ _ _ _ => set (sB := x) in * end.
   assert (He : nth_error T e = Some tEnd).
   { specialize (Hb (length (render b)) tEnd). rewrite nth_error_app2, Nat.sub_diag in Hb by lia. exact (Hb eq_refl). }
-  assert (Hen : e < n) by (apply nth_error_Some; congruence).
+  assert (Hen : tokfin (e)) by tokfin_tac.
   cbv zeta. rewrite (ST_cur_tt _ _ _ _ _ _ _ _ _ _ _ H6 He). cbn [tEnd o_kw_end].
-  pose proof (next_token_ST _ _ _ _ _ _ _ _ _ _ H6 Hen) as H7. cbn [app] in H7.
-  assert (Ct7 : cur_tt pass (next_token pass sB) = Some (tFol el)) by (rewrite (ST_cur_tt _ _ _ _ _ _ _ _ _ _ _ H7 Hfo); destruct el; reflexivity).
-  assert (E7 : ending_ctx pass (next_token pass sB) = Some (if el then 1 else 2)).
-  { rewrite (ending_Ch _ _ _ _ _ _ _ _ _ _ _ _ _ _ H7 Hfo). destruct el; [rewrite (Hel eq_refl)|destruct pe]; reflexivity. }
-  assert (OD : o_dot (cur_tt pass (next_token pass sB)) = false) by (rewrite Ct7; destruct el; reflexivity). rewrite OD.
-  rewrite (take_until_stop _ _ (ST_err _ _ _ _ _ _ _ _ _ _ H7)).
-  2: { rewrite Ct7. discriminate. }
-  2: { right. unfold is_ending. rewrite E7. reflexivity. }
-  pose proof (finish_ST _ _ _ _ _ _ _ _ _ _ H7 ltac:(discriminate)) as H8.
-  rewrite first_parent_Xc, plain_sum_Xc, Tyb, <- Hp in H8.
-  unfold s_loop.
-  assert (E8 : ending_ctx pass (finish_logical_line pass (next_token pass sB)) = Some (if el then 1 else 2)).
-  { rewrite (ending_Ch _ _ _ _ _ _ _ _ _ _ _ _ _ _ H8 Hfo). destruct el; [rewrite (Hel eq_refl)|destruct pe]; reflexivity. }
-  rewrite (structures_stop _ _ _ _ _ _ _ _ _ _ _ _ _ H8 Hfo ltac:(destruct el; discriminate) E8).
-  pose proof (update_statuses_ST (if el then 1 else 2) _ _ _ _ _ _ _ _ _ _ H8) as H9.
-  assert (MX : mark_ended (if el then 1 else 2) (Xc bk pe p C) = Xe bk pe p C el) by (destruct el; reflexivity). rewrite MX in H9.
-  pose proof (finish_empty_ST _ _ _ _ _ _ _ _ _ H9) as H10. cbn [lm_parent lm_level] in H10.
+  pose proof (next_token_ST _ _ _ _ _ _ _ _ _ _ H6 Hen) as H7.
+  assert (Ct7 : cur_tt pass (next_token pass sB) = Some tf).
+  { rewrite (ST_cur_tt _ _ _ _ _ _ _ _ _ _ _ H7 Hfo). destruct tf; try reflexivity. contradiction HnE; reflexivity. }
+  rewrite Ct7, Od. unfold s_loop.
+  pose proof (close_kw X E (S (S (S f))) _ _ _ _ _ _ _ _ _ _ tEnd P0 H6 Tyb He eq_refl Hfo Ej HnE ltac:(lia)) as H9. rewrite Hp in H9.
+  pose proof (fin_closed pp _ _ _ _ _ _ _ _ _ _ Hl H9) as H10. cbn [lm_parent lm_level] in H10.
   assert (EL : length ((L ++ [[k]]) ++ map ll_toks lb) = length L + S (length lb)) by (rewrite !app_length, map_length; cbn [length]; lia).
   rewrite EL in H10.
   eapply ST_lists; [exact H10| |].
@@ -1378,54 +1057,174 @@ Proof.
   - repeat (progress (cbn [app]; rewrite <- ?app_assoc)). reflexivity.
 Qed.
 
-(* the lines of a body without the `;` and without the empty line that follows *)
-Definition body_init (p : option (nat * nat)) (k li : nat) (c : tbody) : list lline :=
-  match c with TBlock b => mkLine LLT_Unknown (lvl 1) p [k] :: pexpected p 2 (k + 1) (li + 1) b | _ => [] end.
-Definition body_last (k : nat) (c : tbody) : list nat :=
-  match c with TSimple => [k] | TAssign => [k; k + 1; k + 2] | TBlock b => [k + 1 + length (render b)] end.
-Definition body_ty (c : tbody) : LogicalLineType := match c with TAssign => LLT_Assignment | _ => LLT_Unknown end.
-Lemma pexpected_body_eq p k li semi c :
-  pexpected_body p k li semi c
-  = body_init p k li c ++ [mkLine (body_ty c) (lvl 1) p (body_last k c ++ match semi with Some e => [e] | None => [] end);
-                           mkLine LLT_Unknown (lvl 1) None []].
-Proof. destruct c; cbn [pexpected_body body_init body_last body_ty app]; try reflexivity. Qed.
-
-Lemma body_run bk pe el p c f s k L M mc last C lv a :
-  (forall b, c = TBlock b -> IHfor KBegin b (Xc bk pe p C)) -> par = Some p ->
-  ST s k L [] M mc last (Xc bk pe p C) lv a -> lm_type mc = LLT_Unknown -> (el = true -> pe = true) ->
-  toks_at k (render_body c ++ [tFol el]) -> 8 + 10 * length (render_body c) <= f ->
-  ST (finish_logical_line pass (RUN f C_structures s)) (k + length (render_body c))
-     (L ++ map ll_toks (body_init par k (length L) c) ++ [body_last k c]) []
-     (M ++ map meta_of (body_init par k (length L) c) ++ [mkLM par (lvl 1) (body_ty c)])
-     (mkLM None (lvl 1) LLT_Unknown) (length L + length (body_init par k (length L) c)) (Xe bk pe p C el) lv a.
+Definition cBC : pctx := ctx CT_BlockClause false P_never (ParserGrammar.L 0).
+Lemma core_repeat X E pp b f s k L M mc last lv a tf j :
+  Pos X E -> (pp = true -> lvl0 X) -> IHfor KRepeat b X -> first_parent X = par ->
+  ST s k L [] M mc last X lv a -> lm_type mc = LLT_Unknown ->
+  nth_error T k = Some tRepeat -> toks_at (S k) (render b ++ [tUntil]) ->
+  nth_error T (S (S k + length (render b))) = Some tI ->
+  nth_error T (S (S (S k + length (render b)))) = Some tf -> E tf = Some (S j) -> tf <> RTT_Eof -> o_colon (Some tf) = false ->
+  8 + need b <= f ->
+  let e := S k + length (render b) in
+  let lb := pexpected par (1 + plain_sum X) (S k) (S (length L)) b in
+  ST (finish_logical_line pass (optpop pp (RUN f C_structures s))) (S (S e)) (L ++ [k] :: map ll_toks lb ++ [[e; S e]]) []
+     (M ++ mkLM par (lvl (plain_sum X)) LLT_Unknown :: map meta_of lb ++ [mkLM par (lvl (plain_sum X)) LLT_Unknown])
+     (mkLM None (lvl (plain_sum X)) LLT_Unknown) (length L + S (length lb)) (optpopc pp (mark_ended (S j) X)) lv a.
 Proof.
-  intros IH Hp H Hty Hel Ht Hf. destruct c as [| |b]; cbn [render_body length body_init body_last body_ty map] in *.
-  - pose proof (Ht 0 _ eq_refl) as Hk. rewrite Nat.add_0_r in Hk.
-    pose proof (Ht 1 _ eq_refl) as Hk1. replace (k + 1) with (S k) in * by lia.
-    pose proof (body_simple bk pe el p f _ _ _ _ _ _ _ _ _ H Hel Hk Hk1 ltac:(lia)) as H1.
-    rewrite Hty, <- Hp in H1. rewrite Nat.add_0_r. cbn [app]. exact H1.
-  - pose proof (Ht 0 _ eq_refl) as Hk. rewrite Nat.add_0_r in Hk.
-    pose proof (Ht 1 _ eq_refl) as Hk1. pose proof (Ht 2 _ eq_refl) as Hk2. pose proof (Ht 3 _ eq_refl) as Hk3.
-    replace (k + 1) with (S k) in * by lia. replace (k + 2) with (S (S k)) in * by lia. replace (k + 3) with (S (S (S k))) in * by lia.
-    pose proof (body_assign bk pe el p f _ _ _ _ _ _ _ _ _ H Hty Hel Hk Hk1 Hk2 Hk3 ltac:(lia)) as H1.
-    rewrite <- Hp in H1. rewrite Nat.add_0_r. cbn [app]. exact H1.
-  - rewrite app_length in Hf. cbn [length] in Hf.
-    assert (Eq : (tBegin :: render b ++ [tEnd]) ++ [tFol el] = [tBegin] ++ (render b ++ [tEnd]) ++ [tFol el])
-      by (cbn [app]; rewrite <- !app_assoc; reflexivity).
-    rewrite Eq in Ht.
-    pose proof (Ht 0 _ eq_refl) as Hk. rewrite Nat.add_0_r in Hk.
-    assert (Htb : toks_at (S k) (render b ++ [tEnd])).
-    { replace (S k) with (k + 1) by lia. eapply toks_at_prefix. apply (toks_at_shift k 1 [tBegin]); [exact Ht|reflexivity]. }
-    assert (Hts : toks_at (S (S k + length (render b))) [tFol el]).
-    { replace (S (S k + length (render b))) with (k + 1 + length (render b ++ [tEnd])) by (rewrite app_length; cbn [length]; lia).
-      apply (toks_at_shift (k + 1) _ (render b ++ [tEnd])); [|reflexivity]. apply (toks_at_shift k 1 [tBegin]); [exact Ht|reflexivity]. }
-    pose proof (toks_at_0 _ _ _ Hts eq_refl) as Hfo.
-    pose proof (body_block bk pe el p b f _ _ _ _ _ _ _ _ _ (IH b eq_refl) Hp H Hty Hel Hk Htb Hfo ltac:(unfold need; lia)) as H1.
-    cbv zeta in H1. replace (k + 1) with (S k) by lia. replace (length L + 1) with (S (length L)) by lia.
-    replace (k + S (length (render b ++ [tEnd]))) with (S (S k + length (render b))) by (rewrite app_length; cbn [length]; lia).
-    eapply ST_lists; [exact H1| |]; repeat (progress (cbn [app]; rewrite <- ?app_assoc)); reflexivity.
+  intros [P0 (x0 & r0 & EX & Hx0)] Hl IHb Hp H Hty Hk Hb Hi Hfo Ej HnE Oc Hf e lb.
+  assert (Hkn : tokfin (k)) by tokfin_tac.
+  destruct f as [|[|[|[|f]]]]; try lia.
+  assert (E0 : ending_ctx pass s = None) by (rewrite (pos_ending _ _ _ _ _ _ _ _ _ _ _ _ P0 H Hk); apply (pos_start _ _ P0); reflexivity).
+  rewrite (run_S _ C_structures _ (ST_err _ _ _ _ _ _ _ _ _ _ H)).
+  unfold arm_structures. rewrite (ST_cur_tt _ _ _ _ _ _ _ _ _ _ _ H Hk), E0. cbn [tRepeat sarm_of].
+  cbv delta [sa_repeat stmt_block] beta.
+  change (ctx (CT_StatementBlock BK_Repeat) true P_until (ParserGrammar.L 1)) with (cBlk KRepeat).
+  destruct (open_block_G (S f) _ _ _ _ _ _ _ _ _ KRepeat H Hkn) as [Eq H4]. cbn [sk_of] in Eq. rewrite Eq. clear Eq.
+  rewrite Hty, Hp in H4.
+  pose proof (fun Hli => IHb (S f) _ _ _ _ _ _ _ _ (S (length L)) ltac:(lia) Hli H4 Hb) as IHb'.
+  destruct (IHb' ltac:(rewrite app_length; cbn [length]; lia)) as (mcb & lastb & flb & Tyb & H5). fold lb in H5.
+  pose proof (pop_ctx_ST _ _ _ _ _ _ _ _ _ _ _ H5) as H6. fold e in H6.
+  match type of H6 with ST ?x _ _ _ _ _ _ _ _ _ => set (sB := x) in * end.
+  assert (He : nth_error T e = Some tUntil).
+  { specialize (Hb (length (render b)) tUntil). rewrite nth_error_app2, Nat.sub_diag in Hb by lia. exact (Hb eq_refl). }
+  assert (Hen : tokfin (e)) by tokfin_tac.
+  assert (Hen1 : tokfin (S e)) by (exists tI; split; [exact Hi|reflexivity]).
+  cbv zeta.
+  (* `until` Identifier, inside a BlockClause context *)
+  pose proof (next_token_ST _ _ _ _ _ _ _ _ _ _ H6 Hen) as H7. cbn [app] in H7.
+  change (ctx CT_BlockClause false P_never (ParserGrammar.L 0)) with cBC.
+  pose proof (push_ctx_ST cBC _ _ _ _ _ _ _ _ _ _ H7) as H8.
+  match type of H8 with ST ?x _ _ _ _ _ _ _ _ _ => set (s8 := x) in * end.
+  assert (EB : ends_as ((cBC, false) :: X) (fun t => option_map S (E t))) by (apply ends_never; [reflexivity|reflexivity|exact (pos_ends _ _ P0)]).
+  assert (E8 : ending_ctx pass s8 = None).
+  { unfold ending_ctx. rewrite (ST_ctx _ _ _ _ _ _ _ _ _ _ H8), (EB s8 tI (ST_cur_is _ _ _ _ _ _ _ _ _ _ _ H8 Hi) I).
+    rewrite (pos_start _ _ P0 tI eq_refl). reflexivity. }
+  rewrite (statement_ident _ _ _ _ _ _ _ _ _ _ _ _ _ _ H8 Hi Hfo HnE Oc E8 I).
+  pose proof (next_token_ST _ _ _ _ _ _ _ _ _ _ H8 Hen1) as H9. cbn [app] in H9.
+  assert (E9 : ending_ctx pass (next_token pass s8) = Some (S (S j))).
+  { unfold ending_ctx. rewrite (ST_ctx _ _ _ _ _ _ _ _ _ _ H9), (EB _ tf (ST_cur_is _ _ _ _ _ _ _ _ _ _ _ H9 Hfo) (plain_nth _ _ Hfo)), Ej. reflexivity. }
+  rewrite (statement_stop _ _ _ _ _ _ _ _ _ _ _ _ _ _ _ H9 Hfo HnE E9).
+  pose proof (update_statuses_ST (S (S j)) _ _ _ _ _ _ _ _ _ _ H9) as H10. rewrite mark_ended_cons in H10.
+  pose proof (pop_ctx_ST _ _ _ _ _ _ _ _ _ _ _ H10) as H11.
+  match type of H11 with ST ?x _ _ _ _ _ _ _ _ _ => set (s11 := x) in * end.
+  assert (Top : exists r1, mark_ended (S j) X = (x0, true) :: r1) by (rewrite EX; cbn [mark_ended]; eauto).
+  destruct Top as [r1 Top].
+  assert (Ct : cur_tt pass s11 = Some tf).
+  { rewrite (ST_cur_tt _ _ _ _ _ _ _ _ _ _ _ H11 Hfo). destruct tf; try reflexivity. contradiction HnE; reflexivity. }
+  assert (E11 : ending_ctx pass s11 = Some 1) by (rewrite Top in H11; exact (ending_top_ended _ _ _ _ _ _ _ _ _ _ _ H11)).
+  rewrite (take_until_stop _ _ (ST_err _ _ _ _ _ _ _ _ _ _ H11)).
+  2: { rewrite Ct. discriminate. }
+  2: { right. unfold is_ending. rewrite E11. reflexivity. }
+  pose proof (finish_ST _ _ _ _ _ _ _ _ _ _ H11 ltac:(discriminate)) as H12.
+  rewrite first_parent_mark, plain_sum_mark, Tyb, Hp in H12.
+  unfold s_loop.
+  assert (E12 : ending_ctx pass (finish_logical_line pass s11) = Some 1) by (rewrite Top in H12; exact (ending_top_ended _ _ _ _ _ _ _ _ _ _ _ H12)).
+  rewrite (structures_stop _ _ _ _ _ _ _ _ _ _ _ _ _ H12 Hfo HnE E12).
+  pose proof (update_statuses_ST 1 _ _ _ _ _ _ _ _ _ _ H12) as H13. rewrite mark_ended_idem in H13.
+  pose proof (fin_closed pp _ _ _ _ _ _ _ _ _ _ Hl H13) as H14. cbn [lm_parent lm_level] in H14.
+  assert (EL : length ((L ++ [[k]]) ++ map ll_toks lb) = length L + S (length lb)) by (rewrite !app_length, map_length; cbn [length]; lia).
+  rewrite EL in H14.
+  eapply ST_lists; [exact H14| |].
+  - repeat (progress (cbn [app]; rewrite <- ?app_assoc)). reflexivity.
+  - repeat (progress (cbn [app]; rewrite <- ?app_assoc)). reflexivity.
 Qed.
+
+(* try b finally|except c end: the two variants differ in the block kinds only *)
+Lemma core_try (ex : bool) X E pp b (rc : list RawTokenType) (needc : nat) (lcf : nat -> nat -> list lline) f s k L M mc last lv a tf j :
+  let k1 := if ex then KTryE else KTry in let k2 := if ex then KExcept else KFinally in
+  Pos X E -> (pp = true -> lvl0 X) -> IHfor k1 b X ->
+  (forall f s k Ls M mc last lv a li, needc <= f -> li = length Ls -> ST s k Ls [] M mc last ((cBlk k2, false) :: X) lv a ->
+     toks_at k (rc ++ [tTerm k2]) ->
+     exists mc' last' fl, lm_type mc' = LLT_Unknown /\
+       ST (RUN f (slc k2) s) (k + length rc) (Ls ++ map ll_toks (lcf k li)) [] (M ++ map meta_of (lcf k li)) mc' last' ((cBlk k2, fl) :: X) lv a) ->
+  first_parent X = par ->
+  ST s k L [] M mc last X lv a -> lm_type mc = LLT_Unknown ->
+  nth_error T k = Some tTry -> toks_at (S k) (render b ++ [tTerm k1]) ->
+  toks_at (S (S k + length (render b))) (rc ++ [tEnd]) ->
+  nth_error T (S (S (S k + length (render b)) + length rc)) = Some tf -> E tf = Some (S j) -> tf <> RTT_Eof ->
+  8 + need b + needc <= f ->
+  let m := S k + length (render b) in
+  let e := S m + length rc in
+  let lb := pexpected par (1 + plain_sum X) (S k) (S (length L)) b in
+  let lc := lcf (S m) (S (length L) + length lb + 1) in
+  ST (finish_logical_line pass (optpop pp (RUN f C_structures s))) (S e)
+     (L ++ [k] :: map ll_toks lb ++ [m] :: map ll_toks lc ++ [[e]]) []
+     (M ++ mkLM par (lvl (plain_sum X)) LLT_Unknown :: map meta_of lb ++ mkLM par (lvl (plain_sum X)) LLT_Unknown :: map meta_of lc
+        ++ [mkLM par (lvl (plain_sum X)) LLT_Unknown])
+     (mkLM None (lvl (plain_sum X)) LLT_Unknown) (length L + S (length lb) + S (length lc)) (optpopc pp (mark_ended (S j) X)) lv a.
+Proof.
+  intros k1 k2 [P0 _] Hl IHb IHc Hp H Hty Hk Hb Hcn Hfo Ej HnE Hf m e lb lc.
+  assert (Hkn : tokfin (k)) by tokfin_tac.
+  destruct f as [|[|[|[|f]]]]; try lia.
+  assert (E0 : ending_ctx pass s = None) by (rewrite (pos_ending _ _ _ _ _ _ _ _ _ _ _ _ P0 H Hk); apply (pos_start _ _ P0); reflexivity).
+  rewrite (run_S _ C_structures _ (ST_err _ _ _ _ _ _ _ _ _ _ H)).
+  unfold arm_structures. rewrite (ST_cur_tt _ _ _ _ _ _ _ _ _ _ _ H Hk), E0. cbn [tTry sarm_of].
+  cbv delta [sa_try stmt_block] beta.
+  destruct ex; subst k1 k2.
+  all: match goal with |- context [cBlk ?K] => idtac | _ => idtac end.
+  - (* try … except … end *)
+    change (ctx (CT_StatementBlock BK_Try) true P_except_finally (ParserGrammar.L 1)) with (cBlk KTryE).
+    destruct (open_block_G (S f) _ _ _ _ _ _ _ _ _ KTryE H Hkn) as [Eq H4]. cbn [sk_of] in Eq. rewrite Eq. clear Eq.
+    rewrite Hty, Hp in H4.
+    pose proof (fun Hli => IHb (S f) _ _ _ _ _ _ _ _ (S (length L)) ltac:(lia) Hli H4 Hb) as IHb'.
+    destruct (IHb' ltac:(rewrite app_length; cbn [length]; lia)) as (mcb & lastb & flb & Tyb & H5). fold lb in H5.
+    pose proof (pop_ctx_ST _ _ _ _ _ _ _ _ _ _ _ H5) as H6. fold m in H6.
+    match type of H6 with ST ?x _ _ _ _ _ _ _ _ _ => set (sB := x) in * end.
+    assert (Hm : nth_error T m = Some tExcept).
+    { specialize (Hb (length (render b)) tExcept). rewrite nth_error_app2, Nat.sub_diag in Hb by lia. exact (Hb eq_refl). }
+    assert (Hmn : tokfin (m)) by tokfin_tac.
+    cbv zeta. rewrite (ST_cur_tt _ _ _ _ _ _ _ _ _ _ _ H6 Hm). cbn [tExcept].
+    change (ctx (CT_StatementBlock BK_Except) true P_else_end (ParserGrammar.L 1)) with (cBlk KExcept).
+    destruct (open_block_G (S f) _ _ _ _ _ _ _ _ _ KExcept H6 Hmn) as [Eq2 H4']. cbn [sk_of] in Eq2. rewrite Eq2. clear Eq2.
+    rewrite Tyb, Hp in H4'. fold m in Hcn.
+    pose proof (fun Hli => IHc (S f) _ _ _ _ _ _ _ _ (S (length L) + length lb + 1) ltac:(lia) Hli H4' Hcn) as IHc'.
+    destruct (IHc' ltac:(rewrite !app_length, map_length; cbn [length]; lia)) as (mcc & lastc & flc & Tyc & H5'). fold lc in H5'.
+    pose proof (pop_ctx_ST _ _ _ _ _ _ _ _ _ _ _ H5') as H6'. fold e in H6'.
+    match type of H6' with ST ?x _ _ _ _ _ _ _ _ _ => set (sC := x) in * end.
+    assert (He : nth_error T e = Some tEnd).
+    { specialize (Hcn (length rc) tEnd). rewrite nth_error_app2, Nat.sub_diag in Hcn by lia. exact (Hcn eq_refl). }
+    rewrite (ST_cur_tt _ _ _ _ _ _ _ _ _ _ _ H6' He). cbn [tEnd o_kw_else]. unfold s_loop.
+    pose proof (close_kw X E (S (S (S f))) _ _ _ _ _ _ _ _ _ _ tEnd P0 H6' Tyc He eq_refl Hfo Ej HnE ltac:(lia)) as H9. rewrite Hp in H9.
+    pose proof (fin_closed pp _ _ _ _ _ _ _ _ _ _ Hl H9) as H10. cbn [lm_parent lm_level] in H10.
+    assert (EL : length ((((L ++ [[k]]) ++ map ll_toks lb) ++ [[m]]) ++ map ll_toks lc) = length L + S (length lb) + S (length lc))
+      by (rewrite !app_length, !map_length; cbn [length]; lia).
+    rewrite EL in H10.
+    eapply ST_lists; [exact H10| |]; repeat (progress (cbn [app]; rewrite <- ?app_assoc)); reflexivity.
+  - (* try … finally … end *)
+    change (ctx (CT_StatementBlock BK_Try) true P_except_finally (ParserGrammar.L 1)) with (cBlk KTry).
+    destruct (open_block_G (S f) _ _ _ _ _ _ _ _ _ KTry H Hkn) as [Eq H4]. cbn [sk_of] in Eq. rewrite Eq. clear Eq.
+    rewrite Hty, Hp in H4.
+    pose proof (fun Hli => IHb (S f) _ _ _ _ _ _ _ _ (S (length L)) ltac:(lia) Hli H4 Hb) as IHb'.
+    destruct (IHb' ltac:(rewrite app_length; cbn [length]; lia)) as (mcb & lastb & flb & Tyb & H5). fold lb in H5.
+    pose proof (pop_ctx_ST _ _ _ _ _ _ _ _ _ _ _ H5) as H6. fold m in H6.
+    match type of H6 with ST ?x _ _ _ _ _ _ _ _ _ => set (sB := x) in * end.
+    assert (Hm : nth_error T m = Some tFinally).
+    { specialize (Hb (length (render b)) tFinally). rewrite nth_error_app2, Nat.sub_diag in Hb by lia. exact (Hb eq_refl). }
+    assert (Hmn : tokfin (m)) by tokfin_tac.
+    cbv zeta. rewrite (ST_cur_tt _ _ _ _ _ _ _ _ _ _ _ H6 Hm). cbn [tFinally].
+    change (ctx (CT_StatementBlock BK_Finally) true P_else_end (ParserGrammar.L 1)) with (cBlk KFinally).
+    destruct (open_block_G (S f) _ _ _ _ _ _ _ _ _ KFinally H6 Hmn) as [Eq2 H4']. cbn [sk_of] in Eq2. rewrite Eq2. clear Eq2.
+    rewrite Tyb, Hp in H4'. fold m in Hcn.
+    pose proof (fun Hli => IHc (S f) _ _ _ _ _ _ _ _ (S (length L) + length lb + 1) ltac:(lia) Hli H4' Hcn) as IHc'.
+    destruct (IHc' ltac:(rewrite !app_length, map_length; cbn [length]; lia)) as (mcc & lastc & flc & Tyc & H5'). fold lc in H5'.
+    pose proof (pop_ctx_ST _ _ _ _ _ _ _ _ _ _ _ H5') as H6'. fold e in H6'.
+    match type of H6' with ST ?x _ _ _ _ _ _ _ _ _ => set (sC := x) in * end.
+    assert (He : nth_error T e = Some tEnd).
+    { specialize (Hcn (length rc) tEnd). rewrite nth_error_app2, Nat.sub_diag in Hcn by lia. exact (Hcn eq_refl). }
+    rewrite (ST_cur_tt _ _ _ _ _ _ _ _ _ _ _ H6' He). cbn [tEnd o_kw_else]. unfold s_loop.
+    pose proof (close_kw X E (S (S (S f))) _ _ _ _ _ _ _ _ _ _ tEnd P0 H6' Tyc He eq_refl Hfo Ej HnE ltac:(lia)) as H9. rewrite Hp in H9.
+    pose proof (fin_closed pp _ _ _ _ _ _ _ _ _ _ Hl H9) as H10. cbn [lm_parent lm_level] in H10.
+    assert (EL : length ((((L ++ [[k]]) ++ map ll_toks lb) ++ [[m]]) ++ map ll_toks lc) = length L + S (length lb) + S (length lc))
+      by (rewrite !app_length, !map_length; cbn [length]; lia).
+    rewrite EL in H10.
+    eapply ST_lists; [exact H10| |]; repeat (progress (cbn [app]; rewrite <- ?app_assoc)); reflexivity.
+Qed.
+
 End Frame.
+Ltac tokfin_tac :=
+  match goal with |- tokfin ?k =>
+    match goal with H : nth_error T k = Some ?t |- _ => exists t; split; [exact H|try reflexivity] end end.
+
 
 (* ================================================================== *)
 (* states of any line-stack shape: lines Ls, current_line stack cs (the current line need not be the last
@@ -1433,7 +1232,7 @@ End Frame.
 Notation RUN := (run pass []).
 Definition GS (s : pstate) (k : nat) (Ls : list (list nat)) (cs : list nat) (M : list lmeta) (last : nat)
            (cx : list (pctx * bool)) (lv : levels) (at_ : list nat) : Prop :=
-  kst pass s = mkK Ls cs k last /\ metas pass s = M /\ length M = length Ls /\ restv s = (T, cx, [], false, lv, at_, None).
+  kst pass s = mkK Ls cs k last /\ metas pass s = M /\ length M = length Ls /\ restv s = (mix k, cx, [], false, lv, at_, None).
 Lemma ST_GS stk s k L c M mc last cx lv a :
   ST stk s k L c M mc last cx lv a -> GS s k (L ++ [c]) (length L :: stk) (M ++ [mc]) last cx lv a.
 Proof. intros (K & Mt & Ml & R). split; [exact K|split; [exact Mt|split; [|exact R]]]. rewrite !app_length, Ml. reflexivity. Qed.
@@ -1448,7 +1247,7 @@ Lemma GS_lists s k Ls Ls' cs M M' last cx lv a :
 Proof. intros H -> ->. exact H. Qed.
 Lemma GS_err s k Ls cs M last cx lv a : GS s k Ls cs M last cx lv a -> has_err pass s = false.
 Proof. intros (_ & _ & _ & R). unfold restv in R. unfold has_err. injection R as _ _ _ _ _ _ E. rewrite E. reflexivity. Qed.
-Lemma GS_toks s k Ls cs M last cx lv a : GS s k Ls cs M last cx lv a -> ps_toks pass s = T.
+Lemma GS_toks s k Ls cs M last cx lv a : GS s k Ls cs M last cx lv a -> ps_toks pass s = mix k.
 Proof. intros (_ & _ & _ & R). unfold restv in R. congruence. Qed.
 Lemma GS_ctx s k Ls cs M last cx lv a : GS s k Ls cs M last cx lv a -> ps_ctx pass s = cx.
 Proof. intros (_ & _ & _ & R). unfold restv in R. congruence. Qed.
@@ -1458,7 +1257,10 @@ Lemma GS_cur_ref s k Ls h cs M last cx lv a : GS s k Ls (h :: cs) M last cx lv a
 Proof. intros (K & _). unfold cur_ref. rewrite K. reflexivity. Qed.
 Lemma GS_cur_tt s k Ls cs M last cx lv a t : GS s k Ls cs M last cx lv a -> nth_error T k = Some t ->
   cur_tt pass s = match t with RTT_Eof => None | _ => Some t end.
-Proof. intros H Ht. exact (cur_tt_G s k t (GS_toks _ _ _ _ _ _ _ _ _ H) (GS_pidx _ _ _ _ _ _ _ _ _ H) Ht). Qed.
+Proof.
+  intros H Ht. assert (Hk : k < n) by (apply nth_error_Some; congruence).
+  apply (cur_tt_G s (mix k) k t (GS_toks _ _ _ _ _ _ _ _ _ H) (GS_pidx _ _ _ _ _ _ _ _ _ H) Hk). rewrite mix_nth_ge by lia. exact Ht.
+Qed.
 
 Lemma emit_KC_GS m s k Ls cs M last cx lv a : GS s k Ls cs M last cx lv a ->
   GS (p_emit pass KC m s) k (Ls ++ [[]]) (length Ls :: cs) (M ++ [m]) (length Ls) cx lv a.
@@ -1478,16 +1280,16 @@ Proof.
   - exact Ml.
   - rewrite restv_p_emit. exact R.
 Qed.
-Lemma next_token_GS s k Ls h cs M last cx lv a : GS s k Ls (h :: cs) M last cx lv a -> k < n ->
+Lemma next_token_GS s k Ls h cs M last cx lv a : GS s k Ls (h :: cs) M last cx lv a -> tokfin k ->
   GS (next_token pass s) (S k) (upd_nth h (fun l => l ++ [k]) Ls) (h :: cs) M last cx lv a.
 Proof.
-  intros H Hk.
-  destruct (next_token_G s k (GS_err _ _ _ _ _ _ _ _ _ H) (GS_toks _ _ _ _ _ _ _ _ _ H) (GS_pidx _ _ _ _ _ _ _ _ _ H) Hk) as (K1 & M1 & R1).
+  intros H Hkf. pose proof (tokfin_lt k Hkf) as Hk.
+  destruct (next_token_G s (mix k) k (GS_err _ _ _ _ _ _ _ _ _ H) (GS_toks _ _ _ _ _ _ _ _ _ H) (mix_plain k) (GS_pidx _ _ _ _ _ _ _ _ _ H) Hk (mix_length k)) as (K1 & M1 & R1).
   destruct H as (K & Mt & Ml & R). split; [|split; [|split]].
   - rewrite K1, K. cbn [k_step k_pi k_lines k_cur k_last k_top hd]. rewrite (nth_error_seq0 _ _ Hk). reflexivity.
   - rewrite M1. exact Mt.
   - rewrite upd_nth_len. exact Ml.
-  - rewrite R1. exact R.
+  - rewrite R1, (mix_step k Hkf). exact R.
 Qed.
 
 (* take_separators_on_last_line in front of one `;`, any line-stack shape *)
@@ -1504,43 +1306,46 @@ Proof.
   set (s1 := p_emit pass KR lm0 s).
   assert (K1 : kst pass s1 = mkK Ls (last :: h :: cs) k last) by (subst s1; rewrite (kst_p_emit pass KR lm0 s E), K; reflexivity).
   assert (M1 : metas pass s1 = M) by (subst s1; rewrite (metas_p_emit _ _ _ E); exact Mt).
-  assert (R1 : restv s1 = (T, cx, [], false, lv, a, None)) by (subst s1; rewrite restv_p_emit; exact R).
+  assert (R1 : restv s1 = (mix k, cx, [], false, lv, a, None)) by (subst s1; rewrite restv_p_emit; exact R).
   assert (A1 : at_start pass s1 = false).
   { unfold at_start, cur_toks, cur_ref. rewrite K1. cbn [k_top k_cur hd k_lines].
     destruct (nth last Ls []); [contradiction|reflexivity]. }
   rewrite A1.
   set (s2 := push_ctx pass (mkCtx CT_Utility true P_never lvl_) s1).
   assert (E1 : has_err pass s1 = false) by (unfold has_err; unfold restv in R1; injection R1 as _ _ _ _ _ _ X; rewrite X; reflexivity).
-  assert (F2 : kst pass s2 = kst pass s1 /\ metas pass s2 = metas pass s1 /\ restv s2 = (T, (mkCtx CT_Utility true P_never lvl_, false) :: cx, [], false, lv, a, None)).
+  assert (F2 : kst pass s2 = kst pass s1 /\ metas pass s2 = metas pass s1 /\ restv s2 = (mix k, (mkCtx CT_Utility true P_never lvl_, false) :: cx, [], false, lv, a, None)).
   { subst s2. unfold push_ctx, guard. rewrite E1. repeat split. unfold restv in *. cbn.
     injection R1 as X1 X2 X3 X4 X5 X6 X7. rewrite X1, X2, X3, X4, X5, X6, X7. reflexivity. }
   destruct F2 as (K2 & M2 & R2).
-  assert (T2 : ps_toks pass s2 = T) by (unfold restv in R2; congruence).
+  assert (T2 : ps_toks pass s2 = mix k) by (unfold restv in R2; congruence).
+  assert (Hk' : nth_error (mix k) k = Some tSemi) by (rewrite mix_nth_ge by lia; exact Hk).
+  assert (Hkn1 : S k < n) by (apply nth_error_Some; congruence).
+  assert (Hk1' : nth_error (mix k) (S k) = Some t') by (rewrite mix_nth_ge by lia; exact Hk1).
   assert (P2 : pidx pass s2 = k) by (unfold pidx; rewrite K2, K1; reflexivity).
   assert (E2 : has_err pass s2 = false) by (unfold has_err; unfold restv in R2; injection R2 as _ _ _ _ _ _ X; rewrite X; reflexivity).
-  destruct (next_token_G s2 k E2 T2 P2 Hkn) as (K3 & M3 & R3). set (s3 := next_token pass s2) in *.
-  assert (T3 : ps_toks pass s3 = T) by (unfold restv in R3, R2; congruence).
+  destruct (next_token_G s2 (mix k) k E2 T2 (mix_plain k) P2 Hkn (mix_length k)) as (K3 & M3 & R3). set (s3 := next_token pass s2) in *.
+  assert (T3 : ps_toks pass s3 = mix k) by (unfold restv in R3, R2; congruence).
   assert (P3 : pidx pass s3 = S k) by (unfold pidx; rewrite K3, k_pi_KT; fold (pidx pass s2); rewrite P2; reflexivity).
   assert (TU : take_until pass (no_more_separators pass) s2 = s3).
   { unfold take_until, simple_op_until, op_until.
     assert (Hrem : remaining pass s2 + 2 = S (S (remaining pass s2))) by lia. rewrite Hrem.
-    cbn [op_until_go]. rewrite E2, (cur_tt_G s2 k tSemi T2 P2 Hk). cbn [tSemi].
-    unfold no_more_separators at 1. rewrite (cur_tt_G s2 k tSemi T2 P2 Hk). cbn [tSemi o_semicolon negb].
+    cbn [op_until_go]. rewrite E2, (cur_tt_G s2 (mix k) k tSemi T2 P2 Hkn Hk'). cbn [tSemi].
+    unfold no_more_separators at 1. rewrite (cur_tt_G s2 (mix k) k tSemi T2 P2 Hkn Hk'). cbn [tSemi o_semicolon negb].
     assert (IE : is_ending pass s2 = false).
     { unfold is_ending, ending_ctx. assert (C2 : ps_ctx pass s2 = (mkCtx CT_Utility true P_never lvl_, false) :: cx) by (unfold restv in R2; congruence).
       rewrite C2. reflexivity. }
     rewrite IE. fold s3.
     assert (E3 : has_err pass s3 = false).
     { unfold has_err. unfold restv in R3, R2. assert (X : ps_err pass s3 = None) by congruence. rewrite X. reflexivity. }
-    rewrite E3. rewrite (cur_tt_G s3 (S k) t' T3 P3 Hk1).
+    rewrite E3. rewrite (cur_tt_G s3 (mix k) (S k) t' T3 P3 Hkn1 Hk1').
     destruct t' as [o| |k0|k0| | | | | | |]; try reflexivity;
-      unfold no_more_separators; rewrite (cur_tt_G s3 (S k) _ T3 P3 Hk1); try reflexivity.
+      unfold no_more_separators; rewrite (cur_tt_G s3 (mix k) (S k) _ T3 P3 Hkn1 Hk1'); try reflexivity.
     destruct o; try reflexivity. exfalso. apply Hne. reflexivity. }
   rewrite TU.
   assert (E3 : has_err pass s3 = false).
   { unfold has_err. unfold restv in R3, R2. assert (X : ps_err pass s3 = None) by congruence. rewrite X. reflexivity. }
   set (s4 := pop_ctx pass s3).
-  assert (F4 : kst pass s4 = kst pass s3 /\ metas pass s4 = metas pass s3 /\ restv s4 = (T, cx, [], false, lv, a, None)).
+  assert (F4 : kst pass s4 = kst pass s3 /\ metas pass s4 = metas pass s3 /\ restv s4 = (mix k, cx, [], false, lv, a, None)).
   { subst s4. unfold pop_ctx, guard. rewrite E3. repeat split. unfold restv in *. cbn.
     rewrite R2 in R3. injection R3 as X1 X2 X3 X4 X5 X6 X7. rewrite X1, X2, X3, X4, X5, X6, X7. reflexivity. }
   destruct F4 as (K4 & M4 & R4).
@@ -1550,7 +1355,7 @@ Proof.
     rewrite (nth_error_seq0 _ _ Hkn). reflexivity.
   - rewrite (metas_p_emit _ _ _ E4). cbn [appends]. rewrite M4, M3, M2. exact M1.
   - rewrite upd_nth_len. exact Ml.
-  - rewrite restv_p_emit. exact R4.
+  - rewrite restv_p_emit, (mix_step k (tokfin_semi k Hk)). exact R4.
 Qed.
 
 (* finish_logical_line on a non-empty current line, any line-stack shape *)
@@ -1564,9 +1369,9 @@ Proof.
   assert (A : at_start pass s = false).
   { unfold at_start, cur_toks. rewrite Rf. destruct H as (K & _). rewrite K. cbn [k_lines]. destruct (nth h Ls []); [contradiction|reflexivity]. }
   unfold finish_logical_line, guard. rewrite E, A.
-  rewrite (portability_noop_G s (GS_toks _ _ _ _ _ _ _ _ _ H)).
+  rewrite (portability_noop_G s (toks_plain_G s k (GS_toks _ _ _ _ _ _ _ _ _ H))).
   replace (remaining pass s + 2) with (S (remaining pass s + 1)) by lia.
-  rewrite (inline_noop s _ (not_inline_G s k (GS_toks _ _ _ _ _ _ _ _ _ H) (GS_pidx _ _ _ _ _ _ _ _ _ H))).
+  rewrite (inline_noop s _ (not_inline_G s (mix k) k (GS_toks _ _ _ _ _ _ _ _ _ H) (mix_plain k) (GS_pidx _ _ _ _ _ _ _ _ _ H))).
   assert (GL : get_context_level pass s = (first_parent cx, clamp_u16 (plain_sum cx))).
   { unfold get_context_level. rewrite (GS_ctx _ _ _ _ _ _ _ _ _ H), ctx_level_go_spec. reflexivity. }
   rewrite GL.
@@ -1600,87 +1405,6 @@ Proof.
   destruct j as [|j]; destruct i as [|i]; cbn in *; try exact H.
   - destruct y; [contradiction|discriminate].
   - apply IH, H.
-Qed.
-Lemma body_last_ne k c : body_last k c <> []. Proof. destruct c; discriminate. Qed.
-
-(* ---------------- parse_block with a parent: the child lines of one body *)
-Lemma child_run stk bk pe el p c f s k LL h MM last0 C lv a li :
-  (forall b, c = TBlock b -> IHfor (h :: stk) (Some p) KBegin b (Xc bk pe p C)) ->
-  GS s k LL (h :: stk) MM last0 (((cStk bk), false) :: (cBlk bk, false) :: C) lv a -> li = length LL ->
-  (el = true -> pe = true) -> toks_at k (render_body c ++ [tFol el]) -> 10 + 10 * length (render_body c) <= f ->
-  GS (RUN f (C_block (cCh pe p)) s) (k + length (render_body c))
-     (LL ++ map ll_toks (body_init (Some p) k li c) ++ [body_last k c; []]) (h :: stk)
-     (MM ++ map meta_of (body_init (Some p) k li c) ++ [mkLM (Some p) (lvl 1) (body_ty c); mkLM None (lvl 1) LLT_Unknown])
-     (li + length (body_init (Some p) k li c)) (((cStk bk), negb el) :: (cBlk bk, false) :: C) lv a.
-Proof.
-  intros IH H -> Hel Ht Hf. destruct f as [|[|f]]; try lia.
-  rewrite (run_S _ (C_block _) _ (GS_err _ _ _ _ _ _ _ _ _ H)). unfold arm_block.
-  rewrite (run_S _ (C_with_ctx _ _) _ (GS_err _ _ _ _ _ _ _ _ _ H)). unfold arm_with_ctx.
-  cbn [cCh ctx c_level clevel_parent]. fold (cCh pe p).
-  pose proof (emit_KC_GS (mkLM (Some p) 0%N LLT_Unknown) _ _ _ _ _ _ _ _ _ H) as G1.
-  pose proof (GS_ST (h :: stk) _ _ _ _ _ _ _ _ _ LL [] MM _ G1 eq_refl eq_refl eq_refl) as S1.
-  pose proof (push_ctx_ST (h :: stk) (cCh pe p) _ _ _ _ _ _ _ _ _ _ S1) as S2.
-  pose proof (body_run (h :: stk) (Some p) bk pe el p c f _ _ _ _ _ _ _ _ _ IH eq_refl S2 eq_refl Hel Ht ltac:(lia)) as S3.
-  pose proof (pop_ctx_ST (h :: stk) _ _ _ _ _ _ _ _ _ _ _ S3) as S4.
-  pose proof (emit_Kc_GS _ _ _ _ _ _ _ _ _ (ST_GS _ _ _ _ _ _ _ _ _ _ _ S4)) as G5.
-  cbn [pop_keep] in G5.
-  eapply GS_lists; [exact G5| |]; repeat (progress (cbn [app]; rewrite <- ?app_assoc)); reflexivity.
-Qed.
-
-(* ... and the end of the statement that owns the child lines: the `;` goes to the last child line, the
-   header line is finished, the statement context (already ended) is left *)
-Lemma child_tail stk bk lvl_ f s e LL h M last C lv a t' :
-  GS s e LL (h :: stk) M last (((cStk bk), true) :: (cBlk bk, false) :: C) lv a ->
-  nth_error T e = Some tSemi -> nth_error T (S e) = Some t' -> t' <> tSemi -> t' <> RTT_Eof ->
-  nth last LL [] <> [] -> nth h LL [] <> [] ->
-  ST stk (take_separators_on_last_line pass (CL_Level 0%Z) (finish_logical_line pass (pop_ctx pass
-           (RUN (S f) C_structures (finish_logical_line pass (take_separators_on_last_line pass lvl_ s))))))
-     (S e) (upd_nth last (fun l => l ++ [e]) LL) []
-     (upd_nth h (fun m => mkLM (first_parent C) (lvl (1 + plain_sum C)) (lm_type m)) M)
-     (mkLM None (lvl (1 + plain_sum C)) LLT_Unknown) h ((cBlk bk, false) :: C) lv a.
-Proof.
-  intros H He He1 Hne HnE Hnl Hnh.
-  pose proof (take_separators_GS lvl_ _ _ _ _ _ _ _ _ _ _ t' H He He1 Hne Hnl) as G1.
-  pose proof (finish_GS _ _ _ _ _ _ _ _ _ _ G1 (nth_upd_nth_ne _ _ _ _ Hnh)) as G2.
-  rewrite (first_parent_St_blk bk), (plain_sum_St_blk bk) in G2.
-  pose proof (GS_ST stk _ _ _ _ _ _ _ _ _ _ _ _ _ G2 eq_refl eq_refl eq_refl) as S2.
-  rewrite (structures_stop stk f _ _ _ _ _ _ _ _ _ _ _ _ S2 He1 HnE (ending_top_ended stk _ _ _ _ _ _ _ _ _ _ _ S2)).
-  pose proof (update_statuses_ST stk 1 _ _ _ _ _ _ _ _ _ _ S2) as S3. cbn [mark_ended] in S3.
-  pose proof (pop_ctx_ST stk _ _ _ _ _ _ _ _ _ _ _ S3) as S4.
-  pose proof (finish_empty_ST stk _ _ _ _ _ _ _ _ _ S4) as S5. cbn [lm_parent lm_level] in S5.
-  rewrite (take_separators_noop stk _ _ _ _ _ _ _ _ _ _ _ t' S5 He1 Hne).
-  exact S5.
-Qed.
-
-Lemma child_final stk bk pe lvl_ p c f f1 s k LL h MM last0 C lv a t' li :
-  (forall b, c = TBlock b -> IHfor (h :: stk) (Some p) KBegin b (Xc bk pe p C)) ->
-  GS s k LL (h :: stk) MM last0 (((cStk bk), false) :: (cBlk bk, false) :: C) lv a -> li = length LL ->
-  nth h LL [] <> [] -> h < length LL ->
-  toks_at k (render_body c ++ [tSemi]) -> nth_error T (S (k + length (render_body c))) = Some t' -> t' <> tSemi -> t' <> RTT_Eof ->
-  10 + 10 * length (render_body c) <= f ->
-  let e := k + length (render_body c) in
-  ST stk (take_separators_on_last_line pass (CL_Level 0%Z) (finish_logical_line pass (pop_ctx pass
-           (RUN (S f1) C_structures (finish_logical_line pass (take_separators_on_last_line pass lvl_ (RUN f (C_block (cCh pe p)) s)))))))
-     (S e) (LL ++ map ll_toks (pexpected_body (Some p) k li (Some e) c)) []
-     (upd_nth h (fun m => mkLM (first_parent C) (lvl (1 + plain_sum C)) (lm_type m)) MM ++ map meta_of (pexpected_body (Some p) k li (Some e) c))
-     (mkLM None (lvl (1 + plain_sum C)) LLT_Unknown) h ((cBlk bk, false) :: C) lv a.
-Proof.
-  intros IH H Hli Hnh Hh Ht He1 Hne HnE Hf e.
-  pose proof (child_run stk bk pe false p c f _ _ _ _ _ _ _ _ _ li IH H Hli ltac:(discriminate) Ht Hf) as G1. fold e in G1. cbn [negb] in G1.
-  assert (He : nth_error T e = Some tSemi).
-  { specialize (Ht (length (render_body c)) tSemi). rewrite nth_error_app2, Nat.sub_diag in Ht by lia. exact (Ht eq_refl). }
-  assert (Ml : length MM = length LL) by (destruct H as (_ & _ & Ml & _); exact Ml).
-  set (BI := body_init (Some p) k li c) in *.
-  pose proof (child_tail stk bk lvl_ f1 _ _ _ _ _ _ _ _ _ t' G1 He He1 Hne HnE) as S1.
-  assert (N1 : nth (li + length BI) (LL ++ map ll_toks BI ++ [body_last k c; []]) [] = body_last k c).
-  { apply (nth_mid_eq _ _ (LL ++ map ll_toks BI) _ [[]]); [rewrite <- app_assoc; reflexivity|rewrite app_length, map_length; lia]. }
-  rewrite N1 in S1. specialize (S1 (body_last_ne _ _)).
-  rewrite app_nth1 in S1 by exact Hh. specialize (S1 Hnh).
-  rewrite (upd_nth_mid_eq _ _ _ (LL ++ map ll_toks BI) (body_last k c) [[]]) in S1
-    by (try (rewrite <- app_assoc; reflexivity); rewrite app_length, map_length; lia).
-  rewrite upd_nth_app_l in S1 by lia.
-  rewrite pexpected_body_eq. fold BI. rewrite !map_app. cbn [map ll_toks meta_of ll_parent ll_level ll_type].
-  eapply ST_lists; [exact S1| |]; repeat (progress (cbn [app]; rewrite <- ?app_assoc)); reflexivity.
 Qed.
 
 (* ================================================================== *)
@@ -1737,39 +1461,22 @@ Proof.
   assert (Sk : exists r, skipn (S k) pass = S k :: r).
   { rewrite skipn_seq. cbn [Nat.add]. destruct (length T - S k) eqn:Z; [lia|]. cbn [seq]. eauto. }
   destruct Sk as [r Sk].
-  rewrite Sk. cbn [find]. unfold filt_at, tt_at. rewrite (GS_toks _ _ _ _ _ _ _ _ _ H), Ht.
+  rewrite Sk. cbn [find]. unfold filt_at, tt_at. rewrite (GS_toks _ _ _ _ _ _ _ _ _ H), (mix_nth_ge k (S k)) by lia. rewrite Ht.
   pose proof (plain_nth _ _ Ht) as P.
   assert (F : tok_filter t = true) by (destruct t; try reflexivity; try contradiction; exfalso; apply Hne; reflexivity).
-  rewrite F. cbn [bind]. exact Ht.
+  rewrite F. cbn [bind]. rewrite (mix_nth_ge k (S k)) by lia. exact Ht.
 Qed.
 Lemma take_separators_noop_G lvl_ (s : pstate) : o_semicolon (cur_tt pass s) = false -> take_separators_on_last_line pass lvl_ s = s.
 Proof. intros H. unfold take_separators_on_last_line, guard. destruct (has_err pass s); [reflexivity|]. rewrite H. reflexivity. Qed.
-Lemma caret_noop_G (s : pstate) : ps_toks pass s = T -> consolidate_current_caret_to_type pass s = s.
+Lemma caret_noop_G (s : pstate) : Forall plain (ps_toks pass s) -> consolidate_current_caret_to_type pass s = s.
 Proof.
   intros Tk. unfold consolidate_current_caret_to_type, upd_cur. destruct (idx0 pass s) as [i|]; [|reflexivity].
-  unfold tt_at. rewrite Tk. destruct (nth_error T i) as [t|] eqn:E; [|reflexivity]. pose proof (plain_nth _ _ E) as P.
+  unfold tt_at. destruct (nth_error (ps_toks pass s) i) as [t|] eqn:E; [|reflexivity].
+  pose proof (proj1 (Forall_forall _ _) Tk t (nth_error_In _ _ E)) as P.
   destruct t as [o| | | | | | | | | |]; try reflexivity. destruct o; try reflexivity; contradiction.
 Qed.
-
-(* the context-ending test and the steps of parse_statement / parse_structures from the raw facts *)
-Definition cur_is (s : pstate) (t : RawTokenType) : Prop := cur_tt pass s = match t with RTT_Eof => None | _ => Some t end.
 Lemma GS_cur_is s k Ls cs M last cx lv a t : GS s k Ls cs M last cx lv a -> nth_error T k = Some t -> cur_is s t.
 Proof. exact (GS_cur_tt s k Ls cs M last cx lv a t). Qed.
-Lemma blk_pred_eval_G b (s : pstate) t : cur_is s t -> plain t -> eval_pred pass (c_pred (cBlk b)) s = is_term b t.
-Proof.
-  intros Ct P. unfold cur_is in Ct.
-  destruct b; cbn [cBlk ctx c_pred eval_pred]; unfold o_kw_end; rewrite Ct;
-    (destruct t as [o| |k0|k0| | | | | | |]; try contradiction; try reflexivity; destruct k0; try contradiction; reflexivity).
-Qed.
-Lemma ending_G_St bk0 (s : pstate) fl C t : ps_ctx pass s = (cStk bk0, false) :: (cBlk bk0, fl) :: C -> fl = false -> cur_is s t -> plain t ->
-  ending_ctx pass s = match t with RTT_Op OK_Semicolon => Some 1 | _ => if is_term bk0 t then Some 2 else None end.
-Proof.
-  intros Hc -> Ct P. unfold ending_ctx. rewrite Hc. cbn [ending_go cStk ctx c_pred c_opaque eval_pred].
-  rewrite (blk_pred_eval_G bk0 s t Ct P), cBlk_opaque. unfold cur_is in Ct. rewrite Ct.
-  destruct t as [o| |k0|k0| | | | | | |]; try contradiction; try reflexivity.
-  all: try (destruct o; try contradiction; reflexivity).
-  all: try (destruct k0; try contradiction; cbn [o_semicolon]; destruct (is_term bk0 _); reflexivity).
-Qed.
 Lemma is_ending_G_blk bk0 (s : pstate) C t : ps_ctx pass s = (cBlk bk0, false) :: C -> cur_is s t -> plain t ->
   is_ending pass s = is_term bk0 t.
 Proof.
@@ -1796,228 +1503,400 @@ Qed.
 (* ---------------- if Identifier then body ; *)
 Lemma GS_last_is_ended s k Ls cs M last x fl r lv a : GS s k Ls cs M last ((x, fl) :: r) lv a -> last_is_ended pass s = Some fl.
 Proof. intros H. unfold last_is_ended. rewrite (GS_ctx _ _ _ _ _ _ _ _ _ H). reflexivity. Qed.
+Lemma GS_cs s k Ls cs cs' M last cx lv a : GS s k Ls cs M last cx lv a -> cs = cs' -> GS s k Ls cs' M last cx lv a.
+Proof. intros H <-. exact H. Qed.
 
-Lemma iter_if stk par bk c f s k Ls M mc last C lv a t' :
-  (forall b, c = TBlock b -> IHfor (length Ls :: stk) (Some (length Ls, S (S k))) KBegin b (Xc bk true (length Ls, S (S k)) C)) ->
-  ST stk s k Ls [] M mc last ((cBlk bk, false) :: C) lv a -> first_parent C = par ->
-  nth_error T k = Some tIf -> nth_error T (S k) = Some tI -> nth_error T (S (S k)) = Some tThen ->
-  toks_at (S (S (S k))) (render_body c ++ [tSemi]) ->
-  nth_error T (S (S (S (S k)) + length (render_body c))) = Some t' -> t' <> tSemi -> t' <> RTT_Eof ->
-  20 + 10 * length (render_body c) <= f ->
-  let e := S (S (S k)) + length (render_body c) in
-  let pb := pexpected_body (Some (length Ls, S (S k))) (S (S (S k))) (S (length Ls)) (Some e) c in
-  ST stk (take_separators_on_last_line pass (CL_Level 0%Z) (finish_logical_line pass (RUN f (C_with_ctx (cStk bk) A_structures) s)))
-     (S e) (Ls ++ [k; S k; S (S k)] :: map ll_toks pb) []
-     (M ++ mkLM par (lvl (1 + plain_sum C)) LLT_Unknown :: map meta_of pb)
-     (mkLM None (lvl (1 + plain_sum C)) LLT_Unknown) (length Ls) ((cBlk bk, false) :: C) lv a.
+(* ================================================================== *)
+(* what parse_structures does on one statement at a position, up to the finished last line (Pcore), by
+   induction on the statement; self-terminating statements (if/while) take the `;` that follows them *)
+Definition selfterm (c : stmt) : bool := match c with TIf _ | TIfElse _ _ | TWhile _ => true | _ => false end.
+Definition is_semi (t : RawTokenType) : bool := match t with RTT_Op OK_Semicolon => true | _ => false end.
+Definition need_stmt (c : stmt) : nat := 10 + 10 * length (render_stmt c).
+(* the line of the statement that takes the `;` *)
+Definition splits (par : option (nat * nat)) (d : Z) (k li : nat) (c : stmt) (lastf : nat) (L : list (list nat)) : Prop :=
+  exists init ty l post, l <> [] /\ (forall sm, sexpected par d k li sm c = init ++ mkLine ty (lvl d) par (l ++ sm) :: post)
+  /\ lastf = length L + length init.
+Lemma splits_upd par d k li c lastf (L R : list (list nat)) e : splits par d k li c lastf L ->
+  upd_nth lastf (fun l => l ++ [e]) (L ++ map ll_toks (sexpected par d k li [] c) ++ R) = L ++ map ll_toks (sexpected par d k li [e] c) ++ R
+  /\ nth lastf (L ++ map ll_toks (sexpected par d k li [] c) ++ R) [] <> []
+  /\ map meta_of (sexpected par d k li [] c) = map meta_of (sexpected par d k li [e] c).
 Proof.
-  intros IHc H HC Hk Hk1 Hk2 Hb He1 Hne HnE Hf e pb.
-  assert (Hkn : k < n) by (apply nth_error_Some; congruence).
-  assert (Hkn1 : S k < n) by (apply nth_error_Some; congruence).
-  assert (Hkn2 : S (S k) < n) by (apply nth_error_Some; congruence).
-  assert (Ml : length M = length Ls) by (destruct H as (_ & _ & Ml & _); exact Ml).
+  intros (init & ty & l & post & Hl & Hs & ->). rewrite (Hs []), (Hs [e]), app_nil_r. rewrite !map_app. cbn [map ll_toks meta_of ll_parent ll_level ll_type].
+  split; [|split; [|reflexivity]].
+  - rewrite (upd_nth_mid_eq _ _ _ (L ++ map ll_toks init) l (map ll_toks post ++ R)).
+    + repeat (progress (cbn [app]; rewrite <- ?app_assoc)). reflexivity.
+    + repeat (progress (cbn [app]; rewrite <- ?app_assoc)). reflexivity.
+    + rewrite app_length, map_length. reflexivity.
+  - rewrite (nth_mid_eq _ _ (L ++ map ll_toks init) l (map ll_toks post ++ R)); [exact Hl| |].
+    + repeat (progress (cbn [app]; rewrite <- ?app_assoc)). reflexivity.
+    + rewrite app_length, map_length. reflexivity.
+Qed.
+
+Definition Pcore (c : stmt) : Prop :=
+  forall stk X E pp f s k L M mc last lv a tf j t2,
+  Pos X E -> (pp = true -> lvl0 X) -> ST stk s k L [] M mc last X lv a -> lm_type mc = LLT_Unknown ->
+  wf_stmt c = true -> (tf = tElse -> closed c = true) ->
+  toks_at k (render_stmt c ++ [tf]) -> tf = tSemi \/ tf = tElse -> E tf = Some (S j) ->
+  (tf = tSemi -> nth_error T (S (k + length (render_stmt c))) = Some t2 /\ t2 <> tSemi /\ t2 <> RTT_Eof) ->
+  need_stmt c <= f ->
+  let cons := selfterm c && is_semi tf in
+  let e := k + length (render_stmt c) in
+  let SL := sexpected (first_parent X) (plain_sum X) k (length L) (if cons then [e] else []) c in
+  exists lastf,
+  ST stk (finish_logical_line pass (optpop pp (RUN f C_structures s))) (if cons then S e else e)
+     (L ++ map ll_toks SL) [] (M ++ map meta_of SL) (mkLM None (lvl (plain_sum X)) LLT_Unknown) lastf
+     (optpopc pp (mark_ended (S j) X)) lv a
+  /\ (selfterm c = false -> splits (first_parent X) (plain_sum X) k (length L) c lastf L).
+
+(* ---------------- parse_block with a parent: the child lines of one body *)
+Lemma child_run stk pe p c X E f s k LL h MM last0 lv a tf j' t2 :
+  Pcore c -> Pos0 X E -> GS s k LL (h :: stk) MM last0 X lv a ->
+  wf_stmt c = true -> (tf = tElse -> closed c = true) ->
+  toks_at k (render_stmt c ++ [tf]) -> tf = tSemi \/ tf = tElse -> Ec pe E tf = Some (S j') ->
+  (tf = tSemi -> nth_error T (S (k + length (render_stmt c))) = Some t2 /\ t2 <> tSemi /\ t2 <> RTT_Eof) ->
+  2 + need_stmt c <= f ->
+  let cons := selfterm c && is_semi tf in
+  let e := k + length (render_stmt c) in
+  let SL := sexpected (Some p) 1 k (length LL) (if cons then [e] else []) c in
+  exists lastf,
+  GS (RUN f (C_block (cCh pe p)) s) (if cons then S e else e)
+     (LL ++ map ll_toks SL ++ [[]]) (h :: stk) (MM ++ map meta_of SL ++ [mkLM None (lvl 1) LLT_Unknown]) lastf (mark_ended j' X) lv a
+  /\ (selfterm c = false -> splits (Some p) 1 k (length LL) c lastf LL).
+Proof.
+  intros IH P0 H Hwf Hcl Ht Htf Ej Hn Hf cons e SL. destruct f as [|[|f]]; try lia.
+  rewrite (run_S _ (C_block _) _ (GS_err _ _ _ _ _ _ _ _ _ H)). unfold arm_block.
+  rewrite (run_S _ (C_with_ctx _ _) _ (GS_err _ _ _ _ _ _ _ _ _ H)). unfold arm_with_ctx.
+  cbn [cCh ctx c_level clevel_parent]. fold (cCh pe p).
+  pose proof (emit_KC_GS (mkLM (Some p) 0%N LLT_Unknown) _ _ _ _ _ _ _ _ _ H) as G1.
+  pose proof (GS_ST (h :: stk) _ _ _ _ _ _ _ _ _ LL [] MM _ G1 eq_refl eq_refl eq_refl) as S1.
+  pose proof (push_ctx_ST (h :: stk) (cCh pe p) _ _ _ _ _ _ _ _ _ _ S1) as S2.
+  destruct (IH (h :: stk) _ _ false f _ _ _ _ _ _ _ _ tf j' t2 (pos_child pe p X E P0) ltac:(discriminate) S2 eq_refl Hwf Hcl Ht Htf Ej Hn ltac:(lia))
+    as (lastf & S3 & Hsp).
+  cbv zeta in S3. cbn [optpop optpopc first_parent plain_sum cCh ctx c_level mark_ended] in S3, Hsp.
+  change (Z.of_N 1) with 1%Z in S3, Hsp. fold cons e in S3. fold SL in S3.
+  pose proof (pop_ctx_ST (h :: stk) _ _ _ _ _ _ _ _ _ _ _ S3) as S4.
+  pose proof (emit_Kc_GS _ _ _ _ _ _ _ _ _ (ST_GS _ _ _ _ _ _ _ _ _ _ _ S4)) as G5.
+  cbn [pop_keep] in G5.
+  exists lastf. split; [|exact Hsp].
+  eapply GS_lists; [exact G5| |]; repeat (progress (cbn [app]; rewrite <- ?app_assoc)); reflexivity.
+Qed.
+
+(* ... followed by take_separators_on_last_line: the `;` (if it follows and has not been taken by the body)
+   goes to the last line of the body *)
+Lemma child_sep stk pe lvl_ p c X E f s k LL h MM last0 lv a tf j' t2 :
+  Pcore c -> Pos0 X E -> GS s k LL (h :: stk) MM last0 X lv a ->
+  wf_stmt c = true -> (tf = tElse -> closed c = true) ->
+  toks_at k (render_stmt c ++ [tf]) -> tf = tSemi \/ tf = tElse -> Ec pe E tf = Some (S j') ->
+  (tf = tSemi -> nth_error T (S (k + length (render_stmt c))) = Some t2 /\ t2 <> tSemi /\ t2 <> RTT_Eof) ->
+  2 + need_stmt c <= f ->
+  let e := k + length (render_stmt c) in
+  let SL := sexpected (Some p) 1 k (length LL) (if is_semi tf then [e] else []) c in
+  exists lastf,
+  GS (take_separators_on_last_line pass lvl_ (RUN f (C_block (cCh pe p)) s)) (if is_semi tf then S e else e)
+     (LL ++ map ll_toks SL ++ [[]]) (h :: stk) (MM ++ map meta_of SL ++ [mkLM None (lvl 1) LLT_Unknown]) lastf (mark_ended j' X) lv a.
+Proof.
+  intros IH P0 H Hwf Hcl Ht Htf Ej Hn Hf e SL.
+  destruct (child_run stk pe p c X E f _ _ _ _ _ _ _ _ tf j' t2 IH P0 H Hwf Hcl Ht Htf Ej Hn Hf) as (lastf & G1 & Hsp).
+  cbv zeta in G1. fold e in G1.
+  assert (Hte : nth_error T e = Some tf).
+  { specialize (Ht (length (render_stmt c)) tf). rewrite nth_error_app2, Nat.sub_diag in Ht by lia. exact (Ht eq_refl). }
+  exists lastf. subst SL.
+  destruct Htf as [-> | ->]; cbn [is_semi tSemi tElse] in *.
+  - destruct (Hn eq_refl) as (Ht2 & N2 & _).
+    destruct (selfterm c) eqn:Sf; cbn [andb] in G1.
+    + rewrite take_separators_noop_G; [exact G1|].
+      rewrite (GS_cur_tt _ _ _ _ _ _ _ _ _ _ G1 Ht2). destruct t2 as [o| | | | | | | | | |]; try reflexivity. destruct o; try reflexivity. contradiction N2; reflexivity.
+    + destruct (splits_upd _ _ _ _ _ _ LL [[]] e (Hsp eq_refl)) as (U1 & U2 & U3).
+      pose proof (take_separators_GS lvl_ _ _ _ _ _ _ _ _ _ _ t2 G1 Hte Ht2 N2 U2) as G2. rewrite U1, U3 in G2. exact G2.
+  - rewrite andb_false_r in G1. rewrite take_separators_noop_G; [exact G1|].
+    rewrite (GS_cur_tt _ _ _ _ _ _ _ _ _ _ G1 Hte). reflexivity.
+Qed.
+
+(* ... and the end of the statement that owns the child lines: the `;` (if it follows and has not been taken
+   by the body) goes to the last line of the body, the header line is finished, parse_structures returns *)
+Lemma child_final stk pe lvl_ p c X E pp f f1 s k LL h MM last0 lv a tf j t2 :
+  Pcore c -> Pos X E -> (pp = true -> lvl0 X) ->
+  GS s k LL (h :: stk) MM last0 X lv a -> nth h LL [] <> [] -> h < length LL ->
+  wf_stmt c = true -> (tf = tElse -> closed c = true) ->
+  toks_at k (render_stmt c ++ [tf]) -> tf = tSemi \/ tf = tElse -> E tf = Some (S j) -> (pe = true -> tf = tSemi) ->
+  (tf = tSemi -> nth_error T (S (k + length (render_stmt c))) = Some t2 /\ t2 <> tSemi /\ t2 <> RTT_Eof) ->
+  2 + need_stmt c <= f ->
+  let e := k + length (render_stmt c) in
+  let SL := sexpected (Some p) 1 k (length LL) (if is_semi tf then [e] else []) c in
+  ST stk (finish_logical_line pass (optpop pp (RUN (S f1) C_structures
+            (finish_logical_line pass (take_separators_on_last_line pass lvl_ (RUN f (C_block (cCh pe p)) s))))))
+     (if is_semi tf then S e else e) (LL ++ map ll_toks SL ++ [[]]) []
+     (upd_nth h (fun m => mkLM (first_parent X) (lvl (plain_sum X)) (lm_type m)) MM ++ map meta_of SL ++ [mkLM None (lvl 1) LLT_Unknown])
+     (mkLM None (lvl (plain_sum X)) LLT_Unknown) h (optpopc pp (mark_ended (S j) X)) lv a.
+Proof.
+  intros IH [P0 (x0 & r0 & EX & _)] Hl H Hnh Hh Hwf Hcl Ht Htf Ej Hpe Hn Hf e SL.
+  assert (Ml : length MM = length LL) by (destruct H as (_ & _ & Ml & _); exact Ml).
+  assert (Ej' : Ec pe E tf = Some (S (S j))).
+  { unfold Ec. rewrite Ej. destruct pe; [rewrite (Hpe eq_refl)|]; reflexivity. }
+  destruct (child_sep stk pe lvl_ p c X E f _ _ _ _ _ _ _ _ tf (S j) t2 IH P0 H Hwf Hcl Ht Htf Ej' Hn Hf) as (lastf & G2).
+  cbv zeta in G2. fold e in G2.
+  assert (Hte : nth_error T e = Some tf).
+  { specialize (Ht (length (render_stmt c)) tf). rewrite nth_error_app2, Nat.sub_diag in Ht by lia. exact (Ht eq_refl). }
+  pose proof (finish_GS _ _ _ _ _ _ _ _ _ _ G2) as G3.
+  rewrite app_nth1 in G3 by exact Hh. specialize (G3 Hnh).
+  rewrite first_parent_mark, plain_sum_mark in G3.
+  rewrite upd_nth_app_l in G3 by lia.
+  pose proof (GS_ST stk _ _ _ _ _ _ _ _ _ _ _ _ _ G3 eq_refl eq_refl eq_refl) as S3.
+  (* back in parse_structures: the statement context (or the child context around) has ended *)
+  assert (Hcur : exists tc, nth_error T (if is_semi tf then S e else e) = Some tc /\ tc <> RTT_Eof).
+  { destruct Htf as [-> | ->]; cbn [is_semi tSemi tElse].
+    - destruct (Hn eq_refl) as (Ht2 & _ & N3). exists t2. split; assumption.
+    - exists tElse. split; [exact Hte|discriminate]. }
+  destruct Hcur as (tc & Htc & HnE).
+  assert (Et : ending_ctx pass (finish_logical_line pass (take_separators_on_last_line pass lvl_ (RUN f (C_block (cCh pe p)) s))) = Some 1).
+  { rewrite EX in S3. cbn [mark_ended] in S3. exact (ending_top_ended stk _ _ _ _ _ _ _ _ _ _ _ S3). }
+  rewrite (structures_stop stk _ _ _ _ _ _ _ _ _ _ _ _ _ S3 Htc HnE Et).
+  pose proof (update_statuses_ST stk 1 _ _ _ _ _ _ _ _ _ _ S3) as S4. rewrite mark_ended_idem in S4.
+  pose proof (fin_closed stk pp _ _ _ _ _ _ _ _ _ _ Hl S4) as S5. cbn [lm_parent lm_level] in S5.
+  eapply (ST_lists stk); [exact S5| |]; repeat (progress (cbn [app]; rewrite <- ?app_assoc)); reflexivity.
+Qed.
+
+
+(* ---------------- if Identifier then c *)
+Lemma Pcore_if c : Pcore c -> Pcore (TIf c).
+Proof.
+  intros IH stk X E pp f s k L M mc last lv a tf j t2 HP Hl H Hty Hwf Hcl Ht Htf Ej Hn Hf cons e SL.
+  destruct Htf as [-> | ->]; [|specialize (Hcl eq_refl); discriminate].
+  destruct (Hn eq_refl) as (Ht2 & N2 & N3).
+  pose proof HP as [P0 (x0 & r0 & EX & _)].
+  cbn [render_stmt] in Ht. unfold need_stmt in Hf. cbn [render_stmt length] in Hf, e.
+  assert (Eq : (tIf :: tI :: tThen :: render_stmt c) ++ [tSemi] = [tIf; tI; tThen] ++ (render_stmt c ++ [tSemi])) by reflexivity.
+  rewrite Eq in Ht.
+  pose proof (Ht 0 _ eq_refl) as Hk. rewrite Nat.add_0_r in Hk.
+  pose proof (Ht 1 _ eq_refl) as Hk1. replace (k + 1) with (S k) in Hk1 by lia.
+  pose proof (Ht 2 _ eq_refl) as Hk2. replace (k + 2) with (S (S k)) in Hk2 by lia.
+  assert (Hb : toks_at (S (S (S k))) (render_stmt c ++ [tSemi])).
+  { replace (S (S (S k))) with (k + 3) by lia. apply (toks_at_shift k 3 [tIf; tI; tThen]); [exact Ht|reflexivity]. }
+  assert (Hkn : tokfin (k)) by tokfin_tac.
+  assert (Hkn2 : tokfin (S (S k))) by tokfin_tac.
+  assert (Ml : length M = length L) by (destruct H as (_ & _ & Ml & _); exact Ml).
   destruct f as [|[|[|[|f]]]]; try lia.
-  rewrite (with_ctx_structures _ (cStk bk) s (ST_err stk _ _ _ _ _ _ _ _ _ _ H) eq_refl).
-  pose proof (finish_empty_ST stk _ _ _ _ _ _ _ _ _ H) as H0.
-  pose proof (push_ctx_ST stk (cStk bk) _ _ _ _ _ _ _ _ _ _ H0) as H1.
-  rewrite (run_S _ C_structures _ (ST_err stk _ _ _ _ _ _ _ _ _ _ H1)).
-  unfold arm_structures. rewrite (ST_cur_tt stk _ _ _ _ _ _ _ _ _ _ _ H1 Hk). cbn [tIf].
-  rewrite (ending_St_SB stk bk _ _ _ _ _ _ _ _ _ _ _ H1 Hk). cbn [tIf is_term sarm_of].
+  assert (E0 : ending_ctx pass s = None) by (rewrite (pos_ending stk _ _ _ _ _ _ _ _ _ _ _ _ P0 H Hk); apply (pos_start _ _ P0); reflexivity).
+  rewrite (run_S _ C_structures _ (ST_err stk _ _ _ _ _ _ _ _ _ _ H)).
+  unfold arm_structures. rewrite (ST_cur_tt stk _ _ _ _ _ _ _ _ _ _ _ H Hk), E0. cbn [tIf sarm_of].
   unfold sa_if, s_loop.
-  rewrite (run_S _ C_if_then _ (ST_err stk _ _ _ _ _ _ _ _ _ _ H1)). unfold arm_if_then.
+  rewrite (run_S _ C_if_then _ (ST_err stk _ _ _ _ _ _ _ _ _ _ H)). unfold arm_if_then.
   change (ctx CT_Utility true P_then (ParserGrammar.L 0)) with (cUtp HThen).
-  pose proof (next_token_ST stk _ _ _ _ _ _ _ _ _ _ H1 Hkn) as H2. cbn [app] in H2.
-  pose proof (line_section_run stk HThen (S f) _ _ _ _ _ _ _ _ _ _ H2 Hk1 Hk2 ltac:(lia)) as H3. cbn [app] in H3.
+  pose proof (next_token_ST stk _ _ _ _ _ _ _ _ _ _ H Hkn) as H2. cbn [app] in H2.
+  pose proof (line_section_run stk HThen (S (S f)) _ _ _ _ _ _ _ _ _ _ H2 Hk1 Hk2 ltac:(lia)) as H3. cbn [app] in H3.
   match type of H3 with ST _ ?x _ _ _ _ _ _ _ _ _ => set (s3 := x) in * end.
   cbv zeta.
   assert (CK : cur_kk pass s3 = Some KK_Then) by (unfold cur_kk; rewrite (ST_cur_tt stk _ _ _ _ _ _ _ _ _ _ _ H3 Hk2); reflexivity).
   rewrite CK.
-  assert (LP : line_parent_of_current pass s3 = Some (length Ls, S (S k))).
-  { unfold line_parent_of_current. rewrite (ST_cur_index stk _ _ _ _ _ _ _ _ _ _ H3 Hkn2), (ST_cur_ref stk _ _ _ _ _ _ _ _ _ _ H3). reflexivity. }
+  assert (LP : line_parent_of_current pass s3 = Some (length L, S (S k))).
+  { unfold line_parent_of_current. rewrite (ST_cur_index stk _ _ _ _ _ _ _ _ _ _ H3 (tokfin_lt _ Hkn2)), (ST_cur_ref stk _ _ _ _ _ _ _ _ _ _ H3). reflexivity. }
   rewrite LP.
   pose proof (next_token_ST stk _ _ _ _ _ _ _ _ _ _ H3 Hkn2) as H4. cbn [app] in H4.
-  change (ctx (CT_Statement SK_Normal) false P_else (CL_Parent (length Ls, S (S k)) 1%N)) with (cCh true (length Ls, S (S k))).
+  change (ctx (CT_Statement SK_Normal) false P_else (CL_Parent (length L, S (S k)) 1%N)) with (cCh true (length L, S (S k))).
   pose proof (ST_GS stk _ _ _ _ _ _ _ _ _ _ H4) as G4.
   set (s4 := next_token pass s3) in *.
-  (* no else branch: the statement context has ended at the `;` *)
-  assert (Ht0 : toks_at (S (S (S k))) (render_body c ++ [tFol false])) by exact Hb.
-  pose proof (child_run stk bk true false _ c (S f) _ _ _ _ _ _ _ _ _ (S (length Ls)) IHc G4
-                ltac:(rewrite app_length; cbn [length]; lia) ltac:(discriminate) Ht0 ltac:(lia)) as G5.
-  rewrite (GS_last_is_ended _ _ _ _ _ _ _ _ _ _ _ G5). cbn [negb].
-  pose proof (child_final stk bk true (CL_Parent (length Ls, S (S k)) 1%N) _ c (S f) (S f) _ _ _ _ _ _ _ _ _ t' (S (length Ls)) IHc G4
-                ltac:(rewrite app_length; cbn [length]; lia)) as CF.
-  rewrite nth_app_last in CF. specialize (CF ltac:(discriminate) ltac:(rewrite app_length; cbn [length]; lia) Hb He1 Hne HnE ltac:(lia)).
-  cbv zeta in CF. fold e in CF. fold pb in CF.
-  rewrite <- Ml, upd_nth_app_last in CF. cbn [lm_type] in CF. rewrite HC in CF.
-  rewrite Ml in CF.
-  eapply ST_lists; [exact CF| |]; repeat (progress (cbn [app]; rewrite <- ?app_assoc)); reflexivity.
+  assert (Hn' : tSemi = tSemi -> nth_error T (S (S (S (S k)) + length (render_stmt c))) = Some t2 /\ t2 <> tSemi /\ t2 <> RTT_Eof).
+  { intros _. replace (S (S (S (S k)) + length (render_stmt c))) with (S (k + S (S (S (length (render_stmt c)))))) by lia. repeat split; assumption. }
+  (* no else branch: the context of the statement has ended at the `;` *)
+  destruct (child_run stk true (length L, S (S k)) c X E (S (S f)) _ _ _ _ _ _ _ _ tSemi (S j) t2 IH P0 G4 Hwf ltac:(discriminate) Hb (or_introl eq_refl)
+              ltac:(unfold Ec; rewrite Ej; reflexivity) Hn' ltac:(unfold need_stmt; lia)) as (lastc & G5 & _).
+  rewrite EX, mark_ended_cons in G5.
+  rewrite (GS_last_is_ended _ _ _ _ _ _ _ _ _ _ _ G5). clear G5.
+  pose proof (child_final stk true (CL_Parent (length L, S (S k)) 1%N) (length L, S (S k)) c X E pp (S (S f)) (S (S f)) _ _ _ _ _ _ _ _ tSemi j t2
+                IH HP Hl G4) as CF.
+  rewrite nth_app_last in CF.
+  specialize (CF ltac:(discriminate) ltac:(rewrite app_length; cbn [length]; lia) Hwf ltac:(discriminate) Hb (or_introl eq_refl) Ej (fun _ => eq_refl) Hn'
+                ltac:(unfold need_stmt; lia)).
+  cbv zeta in CF. cbn [is_semi tSemi] in CF.
+  rewrite <- Ml, upd_nth_app_last in CF. cbn [lm_type] in CF. rewrite Ml in CF.
+  exists (length L). split; [|discriminate].
+  subst cons SL. cbn [selfterm is_semi tSemi andb sexpected].
+  replace (k + 1) with (S k) by lia. replace (k + 2) with (S (S k)) by lia. replace (k + 3) with (S (S (S k))) by lia.
+  replace (length L + 1) with (length (L ++ [[k; S k; S (S k)]])) by (rewrite app_length; reflexivity).
+  replace e with (S (S (S k)) + length (render_stmt c)) by (unfold e; lia).
+  eapply (ST_lists stk); [exact CF| |].
+  - cbn [map ll_toks]. rewrite map_app. cbn [map ll_toks stray]. repeat (progress (cbn [app]; rewrite <- ?app_assoc)). reflexivity.
+  - cbn [map meta_of ll_parent ll_level ll_type]. rewrite map_app. cbn [map meta_of stray ll_parent ll_level ll_type].
+    rewrite Hty. repeat (progress (cbn [app]; rewrite <- ?app_assoc)). reflexivity.
 Qed.
 
-(* ---------------- while Identifier do body ; *)
-Lemma iter_while stk par bk c f s k Ls M mc last C lv a t' :
-  (forall b, c = TBlock b -> IHfor (length Ls :: stk) (Some (length Ls, S (S k))) KBegin b (Xc bk false (length Ls, S (S k)) C)) ->
-  ST stk s k Ls [] M mc last ((cBlk bk, false) :: C) lv a -> first_parent C = par ->
-  nth_error T k = Some tWhile -> nth_error T (S k) = Some tI -> nth_error T (S (S k)) = Some tDo ->
-  toks_at (S (S (S k))) (render_body c ++ [tSemi]) ->
-  nth_error T (S (S (S (S k)) + length (render_body c))) = Some t' -> t' <> tSemi -> t' <> RTT_Eof ->
-  20 + 10 * length (render_body c) <= f ->
-  let e := S (S (S k)) + length (render_body c) in
-  let pb := pexpected_body (Some (length Ls, S (S k))) (S (S (S k))) (S (length Ls)) (Some e) c in
-  ST stk (take_separators_on_last_line pass (CL_Level 0%Z) (finish_logical_line pass (RUN f (C_with_ctx (cStk bk) A_structures) s)))
-     (S e) (Ls ++ [k; S k; S (S k)] :: map ll_toks pb) []
-     (M ++ mkLM par (lvl (1 + plain_sum C)) LLT_Unknown :: map meta_of pb)
-     (mkLM None (lvl (1 + plain_sum C)) LLT_Unknown) (length Ls) ((cBlk bk, false) :: C) lv a.
+
+(* ---------------- while Identifier do c *)
+Lemma Pcore_while c : Pcore c -> Pcore (TWhile c).
 Proof.
-  intros IHc H HC Hk Hk1 Hk2 Hb He1 Hne HnE Hf e pb.
-  assert (Hkn : k < n) by (apply nth_error_Some; congruence).
-  assert (Hkn1 : S k < n) by (apply nth_error_Some; congruence).
-  assert (Hkn2 : S (S k) < n) by (apply nth_error_Some; congruence).
-  assert (Ml : length M = length Ls) by (destruct H as (_ & _ & Ml & _); exact Ml).
+  intros IH stk X E pp f s k L M mc last lv a tf j t2 HP Hl H Hty Hwf Hcl Ht Htf Ej Hn Hf cons e SL.
+  pose proof HP as [P0 (x0 & r0 & EX & _)].
+  cbn [render_stmt] in Ht. unfold need_stmt in Hf. cbn [render_stmt length] in Hf, e.
+  assert (Eq : (tWhile :: tI :: tDo :: render_stmt c) ++ [tf] = [tWhile; tI; tDo] ++ (render_stmt c ++ [tf])) by reflexivity.
+  rewrite Eq in Ht.
+  pose proof (Ht 0 _ eq_refl) as Hk. rewrite Nat.add_0_r in Hk.
+  pose proof (Ht 1 _ eq_refl) as Hk1. replace (k + 1) with (S k) in Hk1 by lia.
+  pose proof (Ht 2 _ eq_refl) as Hk2. replace (k + 2) with (S (S k)) in Hk2 by lia.
+  assert (Hb : toks_at (S (S (S k))) (render_stmt c ++ [tf])).
+  { replace (S (S (S k))) with (k + 3) by lia. apply (toks_at_shift k 3 [tWhile; tI; tDo]); [exact Ht|reflexivity]. }
+  assert (Hkn : tokfin (k)) by tokfin_tac.
+  assert (Hkn2 : tokfin (S (S k))) by tokfin_tac.
+  assert (Ml : length M = length L) by (destruct H as (_ & _ & Ml & _); exact Ml).
   destruct f as [|[|[|[|f]]]]; try lia.
-  rewrite (with_ctx_structures _ (cStk bk) s (ST_err stk _ _ _ _ _ _ _ _ _ _ H) eq_refl).
-  pose proof (finish_empty_ST stk _ _ _ _ _ _ _ _ _ H) as H0.
-  pose proof (push_ctx_ST stk (cStk bk) _ _ _ _ _ _ _ _ _ _ H0) as H1.
-  rewrite (run_S _ C_structures _ (ST_err stk _ _ _ _ _ _ _ _ _ _ H1)).
-  unfold arm_structures. rewrite (ST_cur_tt stk _ _ _ _ _ _ _ _ _ _ _ H1 Hk). cbn [tWhile].
-  rewrite (ending_St_SB stk bk _ _ _ _ _ _ _ _ _ _ _ H1 Hk). cbn [tWhile is_term sarm_of].
+  assert (E0 : ending_ctx pass s = None) by (rewrite (pos_ending stk _ _ _ _ _ _ _ _ _ _ _ _ P0 H Hk); apply (pos_start _ _ P0); reflexivity).
+  rewrite (run_S _ C_structures _ (ST_err stk _ _ _ _ _ _ _ _ _ _ H)).
+  unfold arm_structures. rewrite (ST_cur_tt stk _ _ _ _ _ _ _ _ _ _ _ H Hk), E0. cbn [tWhile sarm_of].
   unfold sa_do, s_loop.
-  rewrite (run_S _ (C_do false) _ (ST_err stk _ _ _ _ _ _ _ _ _ _ H1)). unfold arm_do.
+  rewrite (run_S _ (C_do false) _ (ST_err stk _ _ _ _ _ _ _ _ _ _ H)). unfold arm_do.
   change (ctx CT_Utility true P_kw_do (ParserGrammar.L 0)) with (cUtp HDo).
-  pose proof (next_token_ST stk _ _ _ _ _ _ _ _ _ _ H1 Hkn) as H2. cbn [app] in H2.
+  pose proof (next_token_ST stk _ _ _ _ _ _ _ _ _ _ H Hkn) as H2. cbn [app] in H2.
   pose proof (set_line_type_ST stk LLT_Unknown _ _ _ _ _ _ _ _ _ _ H2) as H2'. cbn [lm_parent lm_level] in H2'.
-  pose proof (line_section_run stk HDo (S f) _ _ _ _ _ _ _ _ _ _ H2' Hk1 Hk2 ltac:(lia)) as H3. cbn [app] in H3.
+  pose proof (line_section_run stk HDo (S (S f)) _ _ _ _ _ _ _ _ _ _ H2' Hk1 Hk2 ltac:(lia)) as H3. cbn [app] in H3.
   match type of H3 with ST _ ?x _ _ _ _ _ _ _ _ _ => set (s3 := x) in * end.
   cbv zeta.
   assert (CK : cur_kk pass s3 = Some KK_Do) by (unfold cur_kk; rewrite (ST_cur_tt stk _ _ _ _ _ _ _ _ _ _ _ H3 Hk2); reflexivity).
   rewrite CK.
-  assert (LP : line_parent_of_current pass s3 = Some (length Ls, S (S k))).
-  { unfold line_parent_of_current. rewrite (ST_cur_index stk _ _ _ _ _ _ _ _ _ _ H3 Hkn2), (ST_cur_ref stk _ _ _ _ _ _ _ _ _ _ H3). reflexivity. }
+  assert (LP : line_parent_of_current pass s3 = Some (length L, S (S k))).
+  { unfold line_parent_of_current. rewrite (ST_cur_index stk _ _ _ _ _ _ _ _ _ _ H3 (tokfin_lt _ Hkn2)), (ST_cur_ref stk _ _ _ _ _ _ _ _ _ _ H3). reflexivity. }
   rewrite LP.
   pose proof (next_token_ST stk _ _ _ _ _ _ _ _ _ _ H3 Hkn2) as H4. cbn [app] in H4.
-  change (ctx (CT_Statement SK_Normal) false P_never (CL_Parent (length Ls, S (S k)) 1%N)) with (cCh false (length Ls, S (S k))).
+  change (ctx (CT_Statement SK_Normal) false P_never (CL_Parent (length L, S (S k)) 1%N)) with (cCh false (length L, S (S k))).
   pose proof (ST_GS stk _ _ _ _ _ _ _ _ _ _ H4) as G4.
   set (s4 := next_token pass s3) in *.
-  pose proof (child_final stk bk false (CL_Parent (length Ls, S (S k)) 1%N) _ c (S f) (S f) _ _ _ _ _ _ _ _ _ t' (S (length Ls)) IHc G4
-                ltac:(rewrite app_length; cbn [length]; lia)) as CF.
-  rewrite nth_app_last in CF. specialize (CF ltac:(discriminate) ltac:(rewrite app_length; cbn [length]; lia) Hb He1 Hne HnE ltac:(lia)).
-  cbv zeta in CF. fold e in CF. fold pb in CF.
-  rewrite <- Ml, upd_nth_app_last in CF. cbn [lm_type] in CF. rewrite HC in CF.
-  rewrite Ml in CF.
-  eapply ST_lists; [exact CF| |]; repeat (progress (cbn [app]; rewrite <- ?app_assoc)); reflexivity.
+  assert (Hn' : tf = tSemi -> nth_error T (S (S (S (S k)) + length (render_stmt c))) = Some t2 /\ t2 <> tSemi /\ t2 <> RTT_Eof).
+  { intros Etf. destruct (Hn Etf) as (Ht2 & N2 & N3).
+    replace (S (S (S (S k)) + length (render_stmt c))) with (S (k + S (S (S (length (render_stmt c)))))) by lia. repeat split; assumption. }
+  pose proof (child_final stk false (CL_Parent (length L, S (S k)) 1%N) (length L, S (S k)) c X E pp (S (S f)) (S (S f)) _ _ _ _ _ _ _ _ tf j t2
+                IH HP Hl G4) as CF.
+  rewrite nth_app_last in CF.
+  specialize (CF ltac:(discriminate) ltac:(rewrite app_length; cbn [length]; lia) Hwf Hcl Hb Htf Ej ltac:(discriminate) Hn'
+                ltac:(unfold need_stmt; lia)).
+  cbv zeta in CF.
+  rewrite <- Ml, upd_nth_app_last in CF. cbn [lm_type] in CF. rewrite Ml in CF.
+  exists (length L). split; [|discriminate].
+  subst cons SL. cbn [selfterm andb sexpected].
+  replace (k + 1) with (S k) by lia. replace (k + 2) with (S (S k)) by lia. replace (k + 3) with (S (S (S k))) by lia.
+  replace (length L + 1) with (length (L ++ [[k; S k; S (S k)]])) by (rewrite app_length; reflexivity).
+  replace e with (S (S (S k)) + length (render_stmt c)) by (unfold e; lia).
+  eapply (ST_lists stk); [exact CF| |].
+  - cbn [map ll_toks]. rewrite map_app. cbn [map ll_toks stray]. repeat (progress (cbn [app]; rewrite <- ?app_assoc)). reflexivity.
+  - cbn [map meta_of ll_parent ll_level ll_type]. rewrite map_app. cbn [map meta_of stray ll_parent ll_level ll_type].
+    repeat (progress (cbn [app]; rewrite <- ?app_assoc)). reflexivity.
 Qed.
 
-(* ---------------- if Identifier then body else body ; *)
-Lemma iter_ifelse stk par bk c1 c2 f s k Ls M mc last C lv a t' el :
-  el = S (S (S k)) + length (render_body c1) ->
-  (forall b, c1 = TBlock b -> IHfor (length Ls :: stk) (Some (length Ls, S (S k))) KBegin b (Xc bk true (length Ls, S (S k)) C)) ->
-  (forall b, c2 = TBlock b -> IHfor (length Ls :: stk) (Some (length Ls, el)) KBegin b (Xc bk false (length Ls, el) C)) ->
-  ST stk s k Ls [] M mc last ((cBlk bk, false) :: C) lv a -> first_parent C = par ->
-  nth_error T k = Some tIf -> nth_error T (S k) = Some tI -> nth_error T (S (S k)) = Some tThen ->
-  toks_at (S (S (S k))) (render_body c1 ++ [tElse]) -> toks_at (S el) (render_body c2 ++ [tSemi]) ->
-  nth_error T (S (S el + length (render_body c2))) = Some t' -> t' <> tSemi -> t' <> RTT_Eof ->
-  40 + 10 * length (render_body c1) + 10 * length (render_body c2) <= f ->
-  let e := S el + length (render_body c2) in
-  let l1 := pexpected_body (Some (length Ls, S (S k))) (S (S (S k))) (S (length Ls)) None c1 in
-  let l2 := pexpected_body (Some (length Ls, el)) (S el) (S (length Ls) + length l1) (Some e) c2 in
-  ST stk (take_separators_on_last_line pass (CL_Level 0%Z) (finish_logical_line pass (RUN f (C_with_ctx (cStk bk) A_structures) s)))
-     (S e) (Ls ++ [k; S k; S (S k); el] :: map ll_toks l1 ++ map ll_toks l2) []
-     (M ++ mkLM par (lvl (1 + plain_sum C)) LLT_Unknown :: map meta_of l1 ++ map meta_of l2)
-     (mkLM None (lvl (1 + plain_sum C)) LLT_Unknown) (length Ls) ((cBlk bk, false) :: C) lv a.
+(* ---------------- if Identifier then c1 else c2 *)
+Lemma Pcore_ifelse c1 c2 : Pcore c1 -> Pcore c2 -> Pcore (TIfElse c1 c2).
 Proof.
-  intros Hel IH1 IH2 H HC Hk Hk1 Hk2 Hb1 Hb2 He1 Hne HnE Hf e l1 l2.
-  assert (Hkn : k < n) by (apply nth_error_Some; congruence).
-  assert (Hkn1 : S k < n) by (apply nth_error_Some; congruence).
-  assert (Hkn2 : S (S k) < n) by (apply nth_error_Some; congruence).
-  assert (Ml : length M = length Ls) by (destruct H as (_ & _ & Ml & _); exact Ml).
+  intros IH1 IH2 stk X E pp f s k L M mc last lv a tf j t2 HP Hl H Hty Hwf Hcl Ht Htf Ej Hn Hf cons e SL.
+  cbn [wf_stmt] in Hwf. apply andb_prop in Hwf. destruct Hwf as [Hwf Hwf2]. apply andb_prop in Hwf. destruct Hwf as [Hc1 Hwf1].
+  cbn [closed] in Hcl.
+  pose proof HP as [P0 (x0 & r0 & EX & _)].
+  cbn [render_stmt] in Ht. unfold need_stmt in Hf. cbn [render_stmt length] in Hf, e.
+  rewrite app_length in Hf. cbn [length] in Hf.
+  assert (Eq : (tIf :: tI :: tThen :: render_stmt c1 ++ tElse :: render_stmt c2) ++ [tf]
+               = [tIf; tI; tThen] ++ (render_stmt c1 ++ [tElse]) ++ (render_stmt c2 ++ [tf])).
+  { cbn [app]. rewrite <- !app_assoc. reflexivity. }
+  rewrite Eq in Ht.
+  pose proof (Ht 0 _ eq_refl) as Hk. rewrite Nat.add_0_r in Hk.
+  pose proof (Ht 1 _ eq_refl) as Hk1. replace (k + 1) with (S k) in Hk1 by lia.
+  pose proof (Ht 2 _ eq_refl) as Hk2. replace (k + 2) with (S (S k)) in Hk2 by lia.
+  assert (Ht3 : toks_at (S (S (S k))) ((render_stmt c1 ++ [tElse]) ++ render_stmt c2 ++ [tf])).
+  { replace (S (S (S k))) with (k + 3) by lia. apply (toks_at_shift k 3 [tIf; tI; tThen]); [exact Ht|reflexivity]. }
+  assert (Hb1 : toks_at (S (S (S k))) (render_stmt c1 ++ [tElse])) by (eapply toks_at_prefix; exact Ht3).
+  set (el := S (S (S k)) + length (render_stmt c1)).
+  assert (Hb2 : toks_at (S el) (render_stmt c2 ++ [tf])).
+  { replace (S el) with (S (S (S k)) + length (render_stmt c1 ++ [tElse])) by (rewrite app_length; cbn [length]; unfold el; lia).
+    apply (toks_at_shift _ _ (render_stmt c1 ++ [tElse])); [exact Ht3|reflexivity]. }
   assert (Hte : nth_error T el = Some tElse).
-  { specialize (Hb1 (length (render_body c1)) tElse). rewrite nth_error_app2, Nat.sub_diag in Hb1 by lia. rewrite Hel. exact (Hb1 eq_refl). }
-  assert (Heln : el < n) by (apply nth_error_Some; congruence).
+  { specialize (Hb1 (length (render_stmt c1)) tElse). rewrite nth_error_app2, Nat.sub_diag in Hb1 by lia. exact (Hb1 eq_refl). }
+  assert (Heln : tokfin (el)) by tokfin_tac.
+  assert (Hkn : tokfin (k)) by tokfin_tac.
+  assert (Hkn2 : tokfin (S (S k))) by tokfin_tac.
+  assert (Ml : length M = length L) by (destruct H as (_ & _ & Ml & _); exact Ml).
   destruct f as [|[|[|[|f]]]]; try lia.
-  rewrite (with_ctx_structures _ (cStk bk) s (ST_err stk _ _ _ _ _ _ _ _ _ _ H) eq_refl).
-  pose proof (finish_empty_ST stk _ _ _ _ _ _ _ _ _ H) as H0.
-  pose proof (push_ctx_ST stk (cStk bk) _ _ _ _ _ _ _ _ _ _ H0) as H1.
-  rewrite (run_S _ C_structures _ (ST_err stk _ _ _ _ _ _ _ _ _ _ H1)).
-  unfold arm_structures. rewrite (ST_cur_tt stk _ _ _ _ _ _ _ _ _ _ _ H1 Hk). cbn [tIf].
-  rewrite (ending_St_SB stk bk _ _ _ _ _ _ _ _ _ _ _ H1 Hk). cbn [tIf is_term sarm_of].
+  assert (E0 : ending_ctx pass s = None) by (rewrite (pos_ending stk _ _ _ _ _ _ _ _ _ _ _ _ P0 H Hk); apply (pos_start _ _ P0); reflexivity).
+  rewrite (run_S _ C_structures _ (ST_err stk _ _ _ _ _ _ _ _ _ _ H)).
+  unfold arm_structures. rewrite (ST_cur_tt stk _ _ _ _ _ _ _ _ _ _ _ H Hk), E0. cbn [tIf sarm_of].
   unfold sa_if, s_loop.
-  rewrite (run_S _ C_if_then _ (ST_err stk _ _ _ _ _ _ _ _ _ _ H1)). unfold arm_if_then.
+  rewrite (run_S _ C_if_then _ (ST_err stk _ _ _ _ _ _ _ _ _ _ H)). unfold arm_if_then.
   change (ctx CT_Utility true P_then (ParserGrammar.L 0)) with (cUtp HThen).
-  pose proof (next_token_ST stk _ _ _ _ _ _ _ _ _ _ H1 Hkn) as H2. cbn [app] in H2.
-  pose proof (line_section_run stk HThen (S f) _ _ _ _ _ _ _ _ _ _ H2 Hk1 Hk2 ltac:(lia)) as H3. cbn [app] in H3.
+  pose proof (next_token_ST stk _ _ _ _ _ _ _ _ _ _ H Hkn) as H2. cbn [app] in H2.
+  pose proof (line_section_run stk HThen (S (S f)) _ _ _ _ _ _ _ _ _ _ H2 Hk1 Hk2 ltac:(lia)) as H3. cbn [app] in H3.
   match type of H3 with ST _ ?x _ _ _ _ _ _ _ _ _ => set (s3 := x) in * end.
   cbv zeta.
   assert (CK : cur_kk pass s3 = Some KK_Then) by (unfold cur_kk; rewrite (ST_cur_tt stk _ _ _ _ _ _ _ _ _ _ _ H3 Hk2); reflexivity).
   rewrite CK.
-  assert (LP : line_parent_of_current pass s3 = Some (length Ls, S (S k))).
-  { unfold line_parent_of_current. rewrite (ST_cur_index stk _ _ _ _ _ _ _ _ _ _ H3 Hkn2), (ST_cur_ref stk _ _ _ _ _ _ _ _ _ _ H3). reflexivity. }
+  assert (LP : line_parent_of_current pass s3 = Some (length L, S (S k))).
+  { unfold line_parent_of_current. rewrite (ST_cur_index stk _ _ _ _ _ _ _ _ _ _ H3 (tokfin_lt _ Hkn2)), (ST_cur_ref stk _ _ _ _ _ _ _ _ _ _ H3). reflexivity. }
   rewrite LP.
   pose proof (next_token_ST stk _ _ _ _ _ _ _ _ _ _ H3 Hkn2) as H4. cbn [app] in H4.
-  change (ctx (CT_Statement SK_Normal) false P_else (CL_Parent (length Ls, S (S k)) 1%N)) with (cCh true (length Ls, S (S k))).
+  change (ctx (CT_Statement SK_Normal) false P_else (CL_Parent (length L, S (S k)) 1%N)) with (cCh true (length L, S (S k))).
   pose proof (ST_GS stk _ _ _ _ _ _ _ _ _ _ H4) as G4.
   set (s4 := next_token pass s3) in *.
-  (* the then branch stops in front of `else`; the statement context has not ended *)
-  assert (Ht1 : toks_at (S (S (S k))) (render_body c1 ++ [tFol true])) by exact Hb1.
-  pose proof (child_run stk bk true true _ c1 (S f) _ _ _ _ _ _ _ _ _ (S (length Ls)) IH1 G4
-                ltac:(rewrite app_length; cbn [length]; lia) ltac:(reflexivity) Ht1 ltac:(lia)) as G5.
-  rewrite <- Hel in G5. cbn [negb] in G5.
+  (* the then branch stops in front of `else`; the context of the statement has not ended *)
+  destruct (child_run stk true (length L, S (S k)) c1 X E (S (S f)) _ _ _ _ _ _ _ _ tElse 0 t2 IH1 P0 G4 Hwf1 (fun _ => Hc1) Hb1 (or_intror eq_refl)
+              ltac:(reflexivity) ltac:(discriminate) ltac:(unfold need_stmt; lia)) as (lastc & G5 & _).
+  cbv zeta in G5. cbn [is_semi tElse] in G5. rewrite andb_false_r in G5. cbn [mark_ended] in G5. fold el in G5.
   match type of G5 with GS ?x _ _ _ _ _ _ _ _ => set (s5 := x) in * end.
-  rewrite (GS_last_is_ended _ _ _ _ _ _ _ _ _ _ _ G5).
+  pose proof G5 as G5'. rewrite EX in G5'. rewrite (GS_last_is_ended _ _ _ _ _ _ _ _ _ _ _ G5'). clear G5'.
   assert (CK5 : cur_kk pass s5 = Some KK_Else) by (unfold cur_kk; rewrite (GS_cur_tt _ _ _ _ _ _ _ _ _ _ G5 Hte); reflexivity).
   rewrite CK5.
-  assert (LP5 : line_parent_of_current pass s5 = Some (length Ls, el)).
-  { unfold line_parent_of_current. rewrite (cur_index_G s5 el (GS_pidx _ _ _ _ _ _ _ _ _ G5) Heln), (GS_cur_ref _ _ _ _ _ _ _ _ _ _ G5). reflexivity. }
+  assert (LP5 : line_parent_of_current pass s5 = Some (length L, el)).
+  { unfold line_parent_of_current. rewrite (cur_index_G s5 el (GS_pidx _ _ _ _ _ _ _ _ _ G5) (tokfin_lt _ Heln)), (GS_cur_ref _ _ _ _ _ _ _ _ _ _ G5). reflexivity. }
   rewrite LP5.
   pose proof (next_token_GS _ _ _ _ _ _ _ _ _ _ G5 Heln) as G6.
-  change (ctx (CT_Statement SK_Normal) false P_never (CL_Parent (length Ls, el) 1%N)) with (cCh false (length Ls, el)).
-  set (BI1 := body_init (Some (length Ls, S (S k))) (S (S (S k))) (S (length Ls)) c1) in *.
-  rewrite (upd_nth_mid_eq _ _ _ Ls [k; S k; S (S k)] (map ll_toks BI1 ++ [body_last (S (S (S k))) c1; []])) in G6
+  change (ctx (CT_Statement SK_Normal) false P_never (CL_Parent (length L, el) 1%N)) with (cCh false (length L, el)).
+  set (SL1 := sexpected (Some (length L, S (S k))) 1 (S (S (S k))) (length (L ++ [[k; S k; S (S k)]])) [] c1) in *.
+  rewrite (upd_nth_mid_eq _ _ _ L [k; S k; S (S k)] (map ll_toks SL1 ++ [[]])) in G6
     by (try reflexivity; rewrite <- app_assoc; reflexivity).
   cbn [app] in G6.
-  assert (L1 : map ll_toks l1 = map ll_toks BI1 ++ [body_last (S (S (S k))) c1; []]).
-  { unfold l1. rewrite pexpected_body_eq. fold BI1. rewrite map_app, app_nil_r. reflexivity. }
-  assert (M1 : map meta_of l1 = map meta_of BI1 ++ [mkLM (Some (length Ls, S (S k))) (lvl 1) (body_ty c1); mkLM None (lvl 1) LLT_Unknown]).
-  { unfold l1. rewrite pexpected_body_eq. fold BI1. rewrite map_app. reflexivity. }
-  rewrite <- L1 in G6. rewrite <- M1 in G6.
   set (s6 := next_token pass s5) in *.
-  pose proof (child_final stk bk false (CL_Parent (length Ls, el) 1%N) _ c2 (S f) (S f) _ _ _ _ _ _ _ _ _ t' (S (length Ls) + length l1) IH2 G6
-                ltac:(rewrite app_length; cbn [length]; rewrite map_length; lia)) as CF.
-  rewrite (nth_mid_eq _ _ Ls [k; S k; S (S k); el] (map ll_toks l1)) in CF by reflexivity.
-  specialize (CF ltac:(discriminate) ltac:(rewrite app_length; cbn [length]; lia) Hb2 He1 Hne HnE ltac:(lia)).
-  cbv zeta in CF. fold e in CF. fold l2 in CF.
+  assert (Hn' : tf = tSemi -> nth_error T (S (S el + length (render_stmt c2))) = Some t2 /\ t2 <> tSemi /\ t2 <> RTT_Eof).
+  { intros Etf. destruct (Hn Etf) as (Ht2 & N2 & N3). cbn [render_stmt length] in Ht2. rewrite app_length in Ht2. cbn [length] in Ht2.
+    replace (S (S el + length (render_stmt c2))) with (S (k + S (S (S (length (render_stmt c1) + S (length (render_stmt c2))))))) by (unfold el; lia).
+    repeat split; assumption. }
+  pose proof (child_final stk false (CL_Parent (length L, el) 1%N) (length L, el) c2 X E pp (S (S f)) (S (S f)) _ _ _ _ _ _ _ _ tf j t2
+                IH2 HP Hl G6) as CF.
+  rewrite (nth_mid_eq _ _ L [k; S k; S (S k); el] (map ll_toks SL1 ++ [[]])) in CF by reflexivity.
+  specialize (CF ltac:(discriminate) ltac:(rewrite app_length; cbn [length]; lia) Hwf2 Hcl Hb2 Htf Ej ltac:(discriminate) Hn'
+                ltac:(unfold need_stmt; lia)).
+  cbv zeta in CF.
   rewrite upd_nth_app_l in CF by (rewrite app_length; cbn [length]; lia).
-  rewrite <- Ml, upd_nth_app_last in CF. cbn [lm_type] in CF. rewrite HC in CF.
-  rewrite Ml in CF.
-  eapply ST_lists; [exact CF| |]; repeat (progress (cbn [app]; rewrite <- ?app_assoc)); reflexivity.
+  rewrite <- Ml, upd_nth_app_last in CF. cbn [lm_type] in CF. rewrite Ml in CF.
+  exists (length L). split; [|discriminate].
+  subst cons SL. cbn [selfterm andb sexpected]. cbv zeta.
+  replace (k + 1) with (S k) by lia. replace (k + 2) with (S (S k)) by lia. replace (k + 3) with (S (S (S k))) by lia.
+  fold el. replace (el + 1) with (S el) by lia.
+  replace (length L + 1) with (length (L ++ [[k; S k; S (S k)]])) by (rewrite app_length; reflexivity).
+  fold SL1.
+  replace e with (S el + length (render_stmt c2)) by (unfold e, el; rewrite app_length; cbn [length]; lia).
+  match goal with |- context [sexpected (Some (length L, el)) 1 (S el) ?li _ c2] =>
+    replace li with (length (L ++ [k; S k; S (S k); el] :: map ll_toks SL1 ++ [[]])) by (rewrite !app_length; cbn [length]; rewrite !app_length, map_length; cbn [length]; lia) end.
+  eapply (ST_lists stk); [exact CF| |].
+  - cbn [map ll_toks]. rewrite !map_app. cbn [map ll_toks stray]. repeat (progress (cbn [app]; rewrite <- ?app_assoc)). reflexivity.
+  - cbn [map meta_of ll_parent ll_level ll_type]. rewrite !map_app. cbn [map meta_of stray ll_parent ll_level ll_type].
+    rewrite Hty. repeat (progress (cbn [app]; rewrite <- ?app_assoc)). reflexivity.
 Qed.
 
-(* ---------------- one arm of a case statement: `Identifier : body ;` *)
-Lemma iter_arm stk par bkc bk c f s k L0 PL M0 mcur MP last C lv a t' :
-  sk_of bkc = SK_Case ->
-  (forall b, c = TBlock b ->
-     IHfor (length (L0 ++ [k; S k] :: PL) :: stk) (Some (length L0, S k)) KBegin b
-           (Xc bkc false (length L0, S k) ((cStk bk, false) :: (cBlk bk, false) :: C))) ->
-  GS s k (L0 ++ [] :: PL) (length L0 :: stk) (M0 ++ mcur :: MP) last ((cBlk bkc, false) :: (cStk bk, false) :: (cBlk bk, false) :: C) lv a ->
-  length M0 = length L0 -> first_parent C = par ->
-  nth_error T k = Some tI -> nth_error T (S k) = Some tColon -> toks_at (S (S k)) (render_body c ++ [tSemi]) ->
-  nth_error T (S (S (S k) + length (render_body c))) = Some t' -> t' <> tSemi -> t' <> RTT_Eof ->
-  30 + 10 * length (render_body c) <= f ->
-  let e := S (S k) + length (render_body c) in
+
+(* ---------------- one arm of a case statement: `Identifier : c ;` *)
+Lemma iter_arm stk bkc c X E f s k L0 PL M0 mcur MP last lv a t' :
+  sk_of bkc = SK_Case -> Pcore c -> Pos0 X E ->
+  GS s k (L0 ++ [] :: PL) (length L0 :: stk) (M0 ++ mcur :: MP) last ((cBlk bkc, false) :: X) lv a ->
+  length M0 = length L0 -> wf_stmt c = true ->
+  nth_error T k = Some tI -> nth_error T (S k) = Some tColon -> toks_at (S (S k)) (render_stmt c ++ [tSemi]) ->
+  nth_error T (S (S (S k) + length (render_stmt c))) = Some t' -> t' <> tSemi -> t' <> RTT_Eof ->
+  30 + need_stmt c <= f ->
+  let e := S (S k) + length (render_stmt c) in
   let h := length (L0 ++ [k; S k] :: PL) in
-  let pb := pexpected_body (Some (length L0, S k)) (S (S k)) (S h) (Some e) c in
+  let pb := sexpected (Some (length L0, S k)) 1 (S (S k)) (S h) [e] c ++ [stray] in
   exists last',
   GS (take_separators_on_last_line pass (CL_Level 0%Z) (finish_logical_line pass (RUN f (C_with_ctx (cStk bkc) A_structures) s)))
      (S e) ((L0 ++ [k; S k] :: PL) ++ [] :: map ll_toks pb) (h :: stk)
-     ((M0 ++ mkLM par (lvl (1 + plain_sum C + 1)) LLT_CaseArm :: MP) ++ mkLM None (lvl (1 + plain_sum C + 1)) LLT_Unknown :: map meta_of pb)
-     last' ((cBlk bkc, false) :: (cStk bk, false) :: (cBlk bk, false) :: C) lv a.
+     ((M0 ++ mkLM (first_parent X) (lvl (plain_sum X + 1)) LLT_CaseArm :: MP) ++ mkLM None (lvl (plain_sum X + 1)) LLT_Unknown :: map meta_of pb)
+     last' ((cBlk bkc, false) :: X) lv a.
 Proof.
-  intros Hskc IHc H Hm0 HC Hk Hk1 Hb He1 Hne HnE Hf e h pb.
-  set (C0 := (cStk bk, false) :: (cBlk bk, false) :: C) in *.
-  assert (Hkn : k < n) by (apply nth_error_Some; congruence).
-  assert (Hkn1 : S k < n) by (apply nth_error_Some; congruence).
+  intros Hskc IHc P0 H Hm0 Hwf Hk Hk1 Hb He1 Hne HnE Hf e h pb.
+  assert (Hkn : tokfin (k)) by tokfin_tac.
+  assert (Hkn1 : tokfin (S k)) by tokfin_tac.
   assert (Pk : plain tI) by exact I. assert (Pc : plain tColon) by exact I.
-  assert (Pt' : plain t') by exact (plain_nth _ _ He1).
-  assert (He : nth_error T e = Some tSemi).
-  { specialize (Hb (length (render_body c)) tSemi). rewrite nth_error_app2, Nat.sub_diag in Hb by lia. exact (Hb eq_refl). }
+  assert (Hnd : notd X) by exact (pos_notd _ _ P0).
+  pose proof (pos0_list bkc X Hnd) as PA.
   destruct f as [|[|[|[|[|[|f]]]]]]; try lia.
   rewrite (with_ctx_structures _ (cStk bkc) s (GS_err _ _ _ _ _ _ _ _ _ H) eq_refl).
   (* the empty current line; the statement context of the arm *)
@@ -2026,7 +1905,8 @@ Proof.
   pose proof (push_ctx_GS (cStk bkc) _ _ _ _ _ _ _ _ _ G0) as G1.
   match type of G1 with GS ?x _ _ _ _ _ _ _ _ => set (s1 := x) in * end.
   assert (En1 : ending_ctx pass s1 = None).
-  { rewrite (ending_G_St bkc s1 false _ tI (GS_ctx _ _ _ _ _ _ _ _ _ G1) eq_refl (GS_cur_is _ _ _ _ _ _ _ _ _ _ G1 Hk) Pk). destruct bkc; reflexivity. }
+  { unfold ending_ctx. rewrite (GS_ctx _ _ _ _ _ _ _ _ _ G1). fold (Xl bkc X).
+    rewrite (pos_ends _ _ PA s1 tI (GS_cur_is _ _ _ _ _ _ _ _ _ _ G1 Hk) Pk). apply (pos_start _ _ PA). reflexivity. }
   rewrite (run_S _ C_structures _ (GS_err _ _ _ _ _ _ _ _ _ G1)).
   unfold arm_structures. rewrite (GS_cur_tt _ _ _ _ _ _ _ _ _ _ G1 Hk), En1. cbn [tI sarm_of].
   unfold sa_other, s_other, s_loop.
@@ -2050,7 +1930,8 @@ Proof.
   match type of G2 with GS ?x _ _ _ _ _ _ _ _ => set (s2 := x) in * end.
   (* the colon: the arm line is finished, then the body is a child line context *)
   assert (En2 : ending_ctx pass s2 = None).
-  { rewrite (ending_G_St bkc s2 false _ tColon (GS_ctx _ _ _ _ _ _ _ _ _ G2) eq_refl (GS_cur_is _ _ _ _ _ _ _ _ _ _ G2 Hk1) Pc). destruct bkc; reflexivity. }
+  { unfold ending_ctx. rewrite (GS_ctx _ _ _ _ _ _ _ _ _ G2). fold (Xl bkc X).
+    rewrite (pos_ends _ _ PA s2 tColon (GS_cur_is _ _ _ _ _ _ _ _ _ _ G2 Hk1) Pc). unfold El. destruct bkc; reflexivity. }
   rewrite (run_S _ C_statement _ (GS_err _ _ _ _ _ _ _ _ _ G2)).
   unfold arm_statement. rewrite (GS_cur_tt _ _ _ _ _ _ _ _ _ _ G2 Hk1). cbn [tColon].
   assert (Pr2 : statement_prelude pass s2 = (s2, true)).
@@ -2058,7 +1939,7 @@ Proof.
     rewrite (GS_at_start _ _ _ _ _ _ _ _ _ _ G2), (nth_mid_eq _ _ L0 [k] PL [] eq_refl eq_refl). reflexivity. }
   rewrite Pr2. cbn [negb starm_of tColon]. unfold st_colon.
   assert (LP : line_parent_of_current pass s2 = Some (length L0, S k)).
-  { unfold line_parent_of_current. rewrite (cur_index_G s2 (S k) (GS_pidx _ _ _ _ _ _ _ _ _ G2) Hkn1), (GS_cur_ref _ _ _ _ _ _ _ _ _ _ G2). reflexivity. }
+  { unfold line_parent_of_current. rewrite (cur_index_G s2 (S k) (GS_pidx _ _ _ _ _ _ _ _ _ G2) (tokfin_lt _ Hkn1)), (GS_cur_ref _ _ _ _ _ _ _ _ _ _ G2). reflexivity. }
   rewrite LP.
   pose proof (next_token_GS _ _ _ _ _ _ _ _ _ _ G2 Hkn1) as G3.
   rewrite (upd_nth_mid_eq _ _ _ L0 [k] PL eq_refl eq_refl) in G3. cbn [app] in G3.
@@ -2070,40 +1951,32 @@ Proof.
   rewrite (nth_mid_eq _ _ L0 [k; S k] PL [] eq_refl eq_refl) in G4. specialize (G4 ltac:(discriminate)).
   rewrite (upd_nth_mid_eq _ _ _ M0 _ MP eq_refl Hm0) in G4. cbn [lm_type] in G4.
   fold h in G4.
-  assert (FP : first_parent ((cStk bkc, false) :: (cBlk bkc, false) :: C0) = par).
-  { unfold C0. rewrite (first_parent_St_blk bkc), (first_parent_St_blk bk). exact HC. }
-  assert (PS : clamp_u16 (plain_sum ((cStk bkc, false) :: (cBlk bkc, false) :: C0)) = lvl (1 + plain_sum C + 1)).
-  { unfold C0. rewrite (plain_sum_St_blk bkc), (plain_sum_St_blk bk). unfold lvl. f_equal. lia. }
-  rewrite FP, PS in G4.
+  rewrite (first_parent_St_blk bkc), (plain_sum_St_blk bkc) in G4.
+  replace (clamp_u16 (0 + (1 + plain_sum X))) with (lvl (plain_sum X + 1)) in G4 by (unfold lvl; f_equal; lia).
   match type of G4 with GS ?x _ _ _ _ _ _ _ _ => set (s4 := x) in * end.
-  (* the body *)
+  (* the body; the `;` joins its last line *)
   rewrite (run_S _ (C_case_arm _) _ (GS_err _ _ _ _ _ _ _ _ _ G4)). unfold arm_case_arm.
   change (ctx (CT_Statement SK_Normal) false P_never (CL_Parent (length L0, S k) 1%N)) with (cCh false (length L0, S k)).
-  assert (Ht0 : toks_at (S (S k)) (render_body c ++ [tFol false])) by exact Hb.
-  pose proof (child_run stk bkc false false (length L0, S k) c (S f) _ _ _ _ _ _ _ _ _ (S h) IHc G4
-                ltac:(rewrite app_length; cbn [length]; unfold h; lia) ltac:(discriminate) Ht0 ltac:(lia)) as G5.
-  fold e in G5. cbn [negb] in G5.
-  set (BI := body_init (Some (length L0, S k)) (S (S k)) (S h) c) in *.
+  fold (Xl bkc X) in G4.
+  destruct (child_sep stk false (CL_Parent (length L0, S k) 1%N) (length L0, S k) c (Xl bkc X) (El bkc) (S f) _ _ _ _ _ _ _ _ tSemi 1 t'
+              IHc PA G4 Hwf ltac:(discriminate) Hb (or_introl eq_refl) eq_refl (fun _ => conj He1 (conj Hne HnE)) ltac:(lia)) as (last5 & G5).
+  cbv zeta in G5. cbn [is_semi tSemi] in G5. fold e in G5.
+  replace (length ((L0 ++ [k; S k] :: PL) ++ [[]])) with (S h) in G5 by (unfold h; rewrite !app_length; cbn [length]; lia).
+  unfold Xl in G5. cbn [mark_ended] in G5.
+  set (SL := sexpected (Some (length L0, S k)) 1 (S (S k)) (S h) [e] c) in *.
   match type of G5 with GS ?x _ _ _ _ _ _ _ _ => set (s5 := x) in * end.
-  pose proof (take_separators_GS (CL_Parent (length L0, S k) 1%N) _ _ _ _ _ _ _ _ _ _ t' G5 He He1 Hne) as G6.
-  rewrite (nth_mid_eq _ _ (((L0 ++ [k; S k] :: PL) ++ [[]]) ++ map ll_toks BI) (body_last (S (S k)) c) [[]] []) in G6
-    by (try (rewrite <- !app_assoc; reflexivity); unfold h; rewrite !app_length, map_length; cbn [length]; lia).
-  specialize (G6 (body_last_ne _ _)).
-  rewrite (upd_nth_mid_eq _ _ _ (((L0 ++ [k; S k] :: PL) ++ [[]]) ++ map ll_toks BI) (body_last (S (S k)) c) [[]]) in G6
-    by (try (rewrite <- !app_assoc; reflexivity); unfold h; rewrite !app_length, map_length; cbn [length]; lia).
-  match type of G6 with GS ?x _ _ _ _ _ _ _ _ => set (s6 := x) in * end.
-  pose proof (finish_empty_GS _ _ _ _ _ _ _ _ _ _ G6) as G7.
-  rewrite (nth_mid_eq _ _ (L0 ++ [k; S k] :: PL) [] (map ll_toks BI ++ [body_last (S (S k)) c ++ [e]; []]) []) in G7
+  pose proof (finish_empty_GS _ _ _ _ _ _ _ _ _ _ G5) as G7.
+  rewrite (nth_mid_eq _ _ (L0 ++ [k; S k] :: PL) [] (map ll_toks SL ++ [[]]) []) in G7
     by (try reflexivity; rewrite <- !app_assoc; reflexivity).
   specialize (G7 eq_refl).
-  assert (Hlen : length ((M0 ++ mkLM par (lvl (1 + plain_sum C + 1)) LLT_CaseArm :: MP)) = h).
+  assert (Hlen : length ((M0 ++ mkLM (first_parent X) (lvl (plain_sum X + 1)) LLT_CaseArm :: MP)) = h).
   { destruct H as (_ & _ & Ml & _). unfold h. rewrite !app_length in *. cbn [length] in *. lia. }
-  rewrite (upd_nth_mid_eq _ h _ (M0 ++ mkLM par (lvl (1 + plain_sum C + 1)) LLT_CaseArm :: MP) (mkLM None (lvl (1 + plain_sum C + 1)) LLT_Unknown)
-             (map meta_of BI ++ [mkLM (Some (length L0, S k)) (lvl 1) (body_ty c); mkLM None (lvl 1) LLT_Unknown])) in G7
+  rewrite (upd_nth_mid_eq _ h _ (M0 ++ mkLM (first_parent X) (lvl (plain_sum X + 1)) LLT_CaseArm :: MP) (mkLM None (lvl (plain_sum X + 1)) LLT_Unknown)
+             (map meta_of SL ++ [mkLM None (lvl 1) LLT_Unknown])) in G7
     by (try exact Hlen; repeat (progress (cbn [app]; rewrite <- ?app_assoc)); reflexivity).
   cbn [lm_parent lm_level] in G7.
   match type of G7 with GS ?x _ _ _ _ _ _ _ _ => set (s7 := x) in * end.
-  rewrite (caret_noop_G s7 (GS_toks _ _ _ _ _ _ _ _ _ G7)). unfold t_loop.
+  rewrite (caret_noop_G s7 (toks_plain_G s7 _ (GS_toks _ _ _ _ _ _ _ _ _ G7))). unfold t_loop.
   (* back in parse_statement and parse_structures: the statement context has ended *)
   rewrite (statement_stop_G _ s7 t' _ _ _ 1 (GS_err _ _ _ _ _ _ _ _ _ G7) (GS_cur_is _ _ _ _ _ _ _ _ _ _ G7 He1) HnE
              (GS_ctx _ _ _ _ _ _ _ _ _ G7) (ending_G_ended s7 _ _ (GS_ctx _ _ _ _ _ _ _ _ _ G7))).
@@ -2114,63 +1987,42 @@ Proof.
   pose proof (update_statuses_GS 1 _ _ _ _ _ _ _ _ _ G8) as G9. cbn [mark_ended] in G9.
   pose proof (pop_ctx_GS _ _ _ _ _ _ _ _ _ _ G9) as G10.
   pose proof (finish_empty_GS _ _ _ _ _ _ _ _ _ _ G10) as G11.
-  rewrite (nth_mid_eq _ _ (L0 ++ [k; S k] :: PL) [] (map ll_toks BI ++ [body_last (S (S k)) c ++ [e]; []]) []) in G11
+  rewrite (nth_mid_eq _ _ (L0 ++ [k; S k] :: PL) [] (map ll_toks SL ++ [[]]) []) in G11
     by (try reflexivity; rewrite <- !app_assoc; reflexivity).
   specialize (G11 eq_refl).
-  rewrite (upd_nth_mid_eq _ h _ (M0 ++ mkLM par (lvl (1 + plain_sum C + 1)) LLT_CaseArm :: MP) (mkLM None (lvl (1 + plain_sum C + 1)) LLT_Unknown)
-             (map meta_of BI ++ [mkLM (Some (length L0, S k)) (lvl 1) (body_ty c); mkLM None (lvl 1) LLT_Unknown])) in G11
+  rewrite (upd_nth_mid_eq _ h _ (M0 ++ mkLM (first_parent X) (lvl (plain_sum X + 1)) LLT_CaseArm :: MP) (mkLM None (lvl (plain_sum X + 1)) LLT_Unknown)
+             (map meta_of SL ++ [mkLM None (lvl 1) LLT_Unknown])) in G11
     by (try exact Hlen; repeat (progress (cbn [app]; rewrite <- ?app_assoc)); reflexivity).
   cbn [lm_parent lm_level] in G11.
   match type of G11 with GS ?x _ _ _ _ _ _ _ _ => set (s11 := x) in * end.
   rewrite (take_separators_noop_G _ s11).
   2: { rewrite (GS_cur_tt _ _ _ _ _ _ _ _ _ _ G11 He1). destruct t' as [o| | | | | | | | | |]; try reflexivity. destruct o; try reflexivity. exfalso. apply Hne. reflexivity. }
   eexists. eapply GS_lists; [exact G11| |].
-  - unfold pb. rewrite pexpected_body_eq. fold BI. rewrite map_app. cbn [map ll_toks].
-    repeat (progress (cbn [app]; rewrite <- ?app_assoc)). reflexivity.
-  - unfold pb. rewrite pexpected_body_eq. fold BI.
-    rewrite map_app. cbn [map meta_of ll_parent ll_level ll_type].
-    repeat (progress (cbn [app]; rewrite <- ?app_assoc)). reflexivity.
+  - unfold pb. fold SL. rewrite map_app. cbn [map ll_toks stray]. repeat (progress (cbn [app]; rewrite <- ?app_assoc)). reflexivity.
+  - unfold pb. fold SL. rewrite map_app. cbn [map meta_of stray ll_parent ll_level ll_type]. repeat (progress (cbn [app]; rewrite <- ?app_assoc)). reflexivity.
 Qed.
 
-(* no type declaration context below (parse_structures asks for it at `case`) *)
-Definition notd (C : list (pctx * bool)) : Prop :=
-  existsb (fun c => match c_type (fst c) with CT_TypeDeclaration => true | _ => false end) C = false.
-Lemma notd_St_blk bk f1 f2 C : notd C -> notd ((cStk bk, f1) :: (cBlk bk, f2) :: C).
-Proof. unfold notd. intros H. destruct bk; cbn; exact H. Qed.
-Lemma notd_Xc bk pe p C : notd C -> notd (Xc bk pe p C).
-Proof. unfold notd, Xc. intros H. destruct bk; cbn; exact H. Qed.
-
-Lemma head_tok_ne_eof bk r t' : nth_error (render r ++ [tTerm bk]) 0 = Some t' -> t' <> RTT_Eof.
-Proof. destruct r; cbn; intros [= <-]; try discriminate. destruct bk; discriminate. Qed.
-
-Ltac fix_li r H4 :=
-  match type of H4 with context [pexpected _ _ _ ?li1 r] =>
-    match goal with |- context [pexpected _ _ _ ?li2 r] => replace li1 with li2 in H4 by len_tac end end.
-
 (* ---------------- the arms of a case statement: the statement-list loop of the case block *)
-Definition need_arms (a : arms) : nat := 10 + 10 * length (render_arms a).
-Definition Qbody (c : tbody) : Prop :=
-  forall b, c = TBlock b -> forall stk par bk C, sk_of bk <> SK_Case -> notd C -> first_parent C = par -> IHfor stk par bk b C.
+Definition need_arms (a : arms) : nat := 20 + 10 * length (render_arms a).
 Definition Parms (a : arms) : Prop :=
-  forall stk par bkc bk C f s k L0 PL M0 mcur MP last lv a0 pend,
-  sk_of bkc = SK_Case -> notd C -> first_parent C = par ->
-  GS s k (L0 ++ [] :: PL) (length L0 :: stk) (M0 ++ mcur :: MP) last ((cBlk bkc, false) :: (cStk bk, false) :: (cBlk bk, false) :: C) lv a0 ->
+  forall stk bkc X E f s k L0 PL M0 mcur MP last lv a0 pend,
+  sk_of bkc = SK_Case -> Pos0 X E ->
+  GS s k (L0 ++ [] :: PL) (length L0 :: stk) (M0 ++ mcur :: MP) last ((cBlk bkc, false) :: X) lv a0 ->
   length M0 = length L0 -> PL = map ll_toks (pend (length L0 + 1)) -> MP = map meta_of (pend (length L0 + 1)) ->
-  toks_at k (render_arms a ++ [tTerm bkc]) -> need_arms a <= f ->
-  let d := (1 + plain_sum C)%Z in
+  wf_arms a = true -> toks_at k (render_arms a ++ [tTerm bkc]) -> need_arms a <= f ->
+  let par := first_parent X in
+  let d := plain_sum X in
   let j := arms_li k (length L0) a pend in
   exists mc' last' fl, lm_type mc' = LLT_Unknown /\
     GS (RUN f (slc bkc) s) (k + length (render_arms a))
        (L0 ++ map ll_toks (arms_pre par d k (length L0) a pend) ++ [] :: map ll_toks (arms_pend k (length L0) a pend (j + 1)))
        (j :: stk)
        (M0 ++ map meta_of (arms_pre par d k (length L0) a pend) ++ mc' :: map meta_of (arms_pend k (length L0) a pend (j + 1)))
-       last' ((cBlk bkc, fl) :: (cStk bk, false) :: (cBlk bk, false) :: C) lv a0.
-Lemma GS_cs s k Ls cs cs' M last cx lv a : GS s k Ls cs M last cx lv a -> cs = cs' -> GS s k Ls cs' M last cx lv a.
-Proof. intros H <-. exact H. Qed.
-
+       last' ((cBlk bkc, fl) :: X) lv a0.
 Lemma arms_nil_run : Parms ANil.
 Proof.
-  intros stk par bkc bk C f s k L0 PL M0 mcur MP last lv a0 pend Hskc Hnd HC H Hm0 HPL HMP Ht Hf d j.
+  intros stk bkc X E f s k L0 PL M0 mcur MP last lv a0 pend Hskc P0 H Hm0 HPL HMP Hwf Ht Hf par d j.
+  pose proof (pos0_list bkc X (pos_notd _ _ P0)) as PA.
   unfold need_arms in Hf. cbn [render_arms length app] in *. subst j. cbn [arms_li arms_pre arms_pend map app].
   pose proof (toks_at_0 _ _ _ Ht eq_refl) as Hk.
   assert (Pt : plain (tTerm bkc)) by exact (plain_nth _ _ Hk).
@@ -2184,7 +2036,8 @@ Proof.
   pose proof (push_ctx_GS (cStk bkc) _ _ _ _ _ _ _ _ _ G0) as G1.
   match type of G1 with GS ?x _ _ _ _ _ _ _ _ => set (s1 := x) in * end.
   assert (En1 : ending_ctx pass s1 = Some 2).
-  { rewrite (ending_G_St bkc s1 false _ (tTerm bkc) (GS_ctx _ _ _ _ _ _ _ _ _ G1) eq_refl (GS_cur_is _ _ _ _ _ _ _ _ _ _ G1 Hk) Pt). destruct bkc; reflexivity. }
+  { unfold ending_ctx. rewrite (GS_ctx _ _ _ _ _ _ _ _ _ G1). fold (Xl bkc X).
+    rewrite (pos_ends _ _ PA s1 (tTerm bkc) (GS_cur_is _ _ _ _ _ _ _ _ _ _ G1 Hk) Pt). unfold El. destruct bkc; reflexivity. }
   rewrite (structures_stop_G _ s1 (tTerm bkc) 2 (GS_err _ _ _ _ _ _ _ _ _ G1) (GS_cur_is _ _ _ _ _ _ _ _ _ _ G1 Hk) HnE En1).
   pose proof (update_statuses_GS 2 _ _ _ _ _ _ _ _ _ G1) as G2. cbn [mark_ended] in G2.
   pose proof (pop_ctx_GS _ _ _ _ _ _ _ _ _ _ G2) as G3.
@@ -2199,24 +2052,25 @@ Proof.
   reflexivity.
 Qed.
 
-Lemma arms_cons_run c a' : Qbody c -> Parms a' -> Parms (ACons c a').
+Lemma arms_cons_run c a' : Pcore c -> Parms a' -> Parms (ACons c a').
 Proof.
-  intros Qc IHa stk par bkc bk C f s k L0 PL M0 mcur MP last lv a0 pend Hskc Hnd HC H Hm0 HPL HMP Ht Hf d j.
+  intros Qc IHa stk bkc X E f s k L0 PL M0 mcur MP last lv a0 pend Hskc P0 H Hm0 HPL HMP Hwf Ht Hf par d j.
+  cbn [wf_arms] in Hwf. apply andb_prop in Hwf. destruct Hwf as [Hwc Hwa].
   unfold need_arms in Hf. cbn [render_arms length] in Hf. rewrite !app_length in Hf. cbn [length] in Hf.
   cbn [render_arms] in Ht.
-  assert (Eq : (tI :: tColon :: render_body c ++ tSemi :: render_arms a') ++ [tTerm bkc]
-               = [tI; tColon] ++ (render_body c ++ [tSemi]) ++ (render_arms a' ++ [tTerm bkc])).
+  assert (Eq : (tI :: tColon :: render_stmt c ++ tSemi :: render_arms a') ++ [tTerm bkc]
+               = [tI; tColon] ++ (render_stmt c ++ [tSemi]) ++ (render_arms a' ++ [tTerm bkc])).
   { cbn [app]. rewrite <- !app_assoc. reflexivity. }
   rewrite Eq in Ht.
   pose proof (Ht 0 _ eq_refl) as Hk. rewrite Nat.add_0_r in Hk.
   pose proof (Ht 1 _ eq_refl) as Hk1.
-  assert (Ht2 : toks_at (k + 2) ((render_body c ++ [tSemi]) ++ render_arms a' ++ [tTerm bkc])).
+  assert (Ht2 : toks_at (k + 2) ((render_stmt c ++ [tSemi]) ++ render_arms a' ++ [tTerm bkc])).
   { apply (toks_at_shift k 2 [tI; tColon]); [exact Ht|reflexivity]. }
-  assert (Hb : toks_at (k + 2) (render_body c ++ [tSemi])) by (eapply toks_at_prefix; exact Ht2).
-  set (e := k + 2 + length (render_body c)).
+  assert (Hb : toks_at (k + 2) (render_stmt c ++ [tSemi])) by (eapply toks_at_prefix; exact Ht2).
+  set (e := k + 2 + length (render_stmt c)).
   assert (Htr : toks_at (e + 1) (render_arms a' ++ [tTerm bkc])).
-  { replace (e + 1) with (k + 2 + length (render_body c ++ [tSemi])) by (rewrite app_length; cbn [length]; unfold e; lia).
-    apply (toks_at_shift _ _ (render_body c ++ [tSemi])); [exact Ht2|reflexivity]. }
+  { replace (e + 1) with (k + 2 + length (render_stmt c ++ [tSemi])) by (rewrite app_length; cbn [length]; unfold e; lia).
+    apply (toks_at_shift _ _ (render_stmt c ++ [tSemi])); [exact Ht2|reflexivity]. }
   assert (Ht' : exists t', nth_error (render_arms a' ++ [tTerm bkc]) 0 = Some t' /\ t' <> tSemi /\ t' <> RTT_Eof
                 /\ ((a' = ANil /\ t' = tTerm bkc) \/ (a' <> ANil /\ t' = tI))).
   { destruct a' as [|c2 a2]; cbn; eexists; (split; [reflexivity|]); repeat split; try discriminate; try (destruct bkc; discriminate).
@@ -2228,16 +2082,13 @@ Proof.
   unfold slc. rewrite (stmt_list_unfold _ _ _ _ _ (GS_err _ _ _ _ _ _ _ _ _ H)). cbv zeta.
   change (ctx (CT_Statement (sk_of bkc)) false P_semicolon (ParserGrammar.L 0)) with (cStk bkc).
   change (ParserGrammar.L 0) with (CL_Level 0%Z).
-  assert (Hnd0 : notd ((cStk bk, false) :: (cBlk bk, false) :: C)) by (apply notd_St_blk, Hnd).
   replace (k + 1) with (S k) in Hk1 by lia. replace (k + 2) with (S (S k)) in Hb by lia.
-  replace (e + 1) with (S (S (S k) + length (render_body c))) in He1 by (unfold e; lia).
-  destruct (iter_arm stk par bkc bk c f _ _ _ _ _ _ _ _ _ _ _ t' Hskc
-              (fun b Hb0 => Qc b Hb0 _ _ KBegin _ ltac:(discriminate) (notd_Xc _ _ _ _ Hnd0) eq_refl)
-              H Hm0 HC Hk Hk1 Hb He1 N1 NE ltac:(lia)) as (last1 & G).
+  replace (e + 1) with (S (S (S k) + length (render_stmt c))) in He1 by (unfold e; lia).
+  destruct (iter_arm stk bkc c X E f _ _ _ _ _ _ _ _ _ _ t' Hskc Qc P0 H Hm0 Hwc Hk Hk1 Hb He1 N1 NE ltac:(unfold need_stmt; lia)) as (last1 & G).
   cbv zeta in G.
   (* the forms of Fragment.arms_lines *)
-  replace (S (S (S k) + length (render_body c))) with (e + 1) in G by (unfold e; lia).
-  replace (S (S k) + length (render_body c)) with e in G by (unfold e; lia).
+  replace (S (S (S k) + length (render_stmt c))) with (e + 1) in G by (unfold e; lia).
+  replace (S (S k) + length (render_stmt c)) with e in G by (unfold e; lia).
   replace (S (S k)) with (k + 2) in G by lia. replace (S k) with (k + 1) in G by lia.
   replace (S (length (L0 ++ [k; k + 1] :: PL))) with (length (L0 ++ [k; k + 1] :: PL) + 1) in G by lia.
   set (h := length (L0 ++ [k; k + 1] :: PL)) in *.
@@ -2246,228 +2097,424 @@ Proof.
   match type of G with GS ?x _ _ _ _ _ _ _ _ => set (s3 := x) in * end.
   assert (IE : is_ending pass s3 = is_term bkc t').
   { apply (is_ending_G_blk bkc s3 _ t' (GS_ctx _ _ _ _ _ _ _ _ _ G)); [|exact (plain_nth _ _ He1)].
-    apply (GS_cur_is _ _ _ _ _ _ _ _ _ _ G). replace (e + 1) with (S (S (S k) + length (render_body c))) by (unfold e; lia). exact He1. }
+    apply (GS_cur_is _ _ _ _ _ _ _ _ _ _ G). replace (e + 1) with (S (S (S k) + length (render_stmt c))) by (unfold e; lia). exact He1. }
   rewrite IE.
-  subst j d. cbn [arms_li arms_pre arms_pend]. cbv zeta. fold e. rewrite <- Hh.
+  subst j d par. cbn [arms_li arms_pre arms_pend]. cbv zeta. fold e. rewrite <- Hh.
   destruct Hcase as [[Ea Et]|[Ea Et]].
   - (* the last arm *)
     subst a' t'. rewrite is_term_term. cbn [orb arms_li arms_pre arms_pend render_arms].
-    replace (k + length (tI :: tColon :: render_body c ++ [tSemi])) with (e + 1) by (cbn [length]; rewrite app_length; cbn [length]; unfold e; lia).
+    replace (k + length (tI :: tColon :: render_stmt c ++ [tSemi])) with (e + 1) by (cbn [length]; rewrite app_length; cbn [length]; unfold e; lia).
     eexists _, _, _. split; [|eapply GS_lists; [exact G| |]]; cycle 1.
-    + rewrite HPL. cbn [map ll_toks]. rewrite map_app. cbn [map]. repeat (progress (cbn [app]; rewrite <- ?app_assoc)). reflexivity.
-    + rewrite HMP. cbn [map meta_of ll_parent ll_level ll_type]. rewrite map_app. cbn [map].
-      replace (1 + plain_sum C + 1)%Z with (1 + plain_sum C + 1)%Z by reflexivity.
+    + rewrite HPL. cbn [map ll_toks]. rewrite ?app_nil_r, ?map_app. cbn [map]. repeat (progress (cbn [app]; rewrite <- ?app_assoc)). reflexivity.
+    + rewrite HMP. cbn [map meta_of ll_parent ll_level ll_type]. rewrite ?app_nil_r, ?map_app. cbn [map].
       repeat (progress (cbn [app]; rewrite <- ?app_assoc)). reflexivity.
     + reflexivity.
   - (* another arm follows *)
-    subst t'. assert (X : is_term bkc tI = false) by (destruct bkc; reflexivity). rewrite X. clear X.
+    subst t'. assert (X0 : is_term bkc tI = false) by (destruct bkc; reflexivity). rewrite X0. clear X0.
     assert (Ct : cur_tt pass s3 = Some tI).
-    { refine (GS_cur_tt _ _ _ _ _ _ _ _ _ tI G _). replace (e + 1) with (S (S (S k) + length (render_body c))) by (unfold e; lia). exact He1. }
+    { refine (GS_cur_tt _ _ _ _ _ _ _ _ _ tI G _). replace (e + 1) with (S (S (S k) + length (render_stmt c))) by (unfold e; lia). exact He1. }
     rewrite Ct. cbn [orb].
-    set (pend' := fun i : nat => pexpected_body (Some (length L0, k + 1)) (k + 2) i (Some e) c).
-    assert (Hlen : length (M0 ++ mkLM par (lvl (1 + plain_sum C + 1)) LLT_CaseArm :: MP) = length (L0 ++ [k; k + 1] :: PL)).
+    set (pend' := fun i : nat => sexpected (Some (length L0, k + 1)) 1 (k + 2) i [e] c ++ [stray]).
+    assert (Hlen : length (M0 ++ mkLM (first_parent X) (lvl (plain_sum X + 1)) LLT_CaseArm :: MP) = length (L0 ++ [k; k + 1] :: PL)).
     { rewrite !app_length. cbn [length]. rewrite HPL, HMP, !map_length. lia. }
-    destruct (IHa stk par bkc bk C f s3 (e + 1) (L0 ++ [k; k + 1] :: PL) (map ll_toks (pend' (h + 1)))
-                (M0 ++ mkLM par (lvl (1 + plain_sum C + 1)) LLT_CaseArm :: MP) _ (map meta_of (pend' (h + 1))) _ _ _ pend'
-                Hskc Hnd HC G Hlen eq_refl eq_refl Htr ltac:(unfold need_arms; lia))
+    destruct (IHa stk bkc X E f s3 (e + 1) (L0 ++ [k; k + 1] :: PL) (map ll_toks (pend' (h + 1)))
+                (M0 ++ mkLM (first_parent X) (lvl (plain_sum X + 1)) LLT_CaseArm :: MP) _ (map meta_of (pend' (h + 1))) _ _ _ pend'
+                Hskc P0 G Hlen eq_refl eq_refl Hwa Htr ltac:(unfold need_arms; lia))
       as (mc' & last' & fl & Ty & G').
     cbv zeta in G'. fold h in G'.
     exists mc', last', fl. split; [exact Ty|].
     cbn [render_arms].
-    replace (k + length (tI :: tColon :: render_body c ++ tSemi :: render_arms a')) with (e + 1 + length (render_arms a'))
+    replace (k + length (tI :: tColon :: render_stmt c ++ tSemi :: render_arms a')) with (e + 1 + length (render_arms a'))
       by (cbn [length]; rewrite app_length; cbn [length]; unfold e; lia).
     eapply GS_lists; [exact G'| |].
     + rewrite HPL. cbn [map ll_toks]. rewrite !map_app. repeat (progress (cbn [app]; rewrite <- ?app_assoc)). reflexivity.
     + rewrite HMP. cbn [map meta_of ll_parent ll_level ll_type]. rewrite !map_app. repeat (progress (cbn [app]; rewrite <- ?app_assoc)). reflexivity.
 Qed.
-(* ---------------- case Identifier of arms end ; *)
-Lemma in_type_decl_false stk bk s k L c M mc last C lv a :
-  ST stk s k L c M mc last ((cStk bk, false) :: (cBlk bk, false) :: C) lv a -> notd C -> is_in_type_decl pass s = false.
-Proof. intros H Hnd. unfold is_in_type_decl, any_ctype. rewrite (ST_ctx stk _ _ _ _ _ _ _ _ _ _ H). exact (notd_St_blk bk false false C Hnd). Qed.
 
-Lemma iter_case stk par bk a f s k Ls M mc last C lv a0 t' :
-  Parms a -> notd C ->
-  ST stk s k Ls [] M mc last ((cBlk bk, false) :: C) lv a0 -> first_parent C = par ->
-  nth_error T k = Some tCase -> nth_error T (S k) = Some tI -> nth_error T (S (S k)) = Some tOf ->
-  toks_at (S (S (S k))) (render_arms a ++ [tEnd]) ->
-  nth_error T (S (S (S (S k)) + length (render_arms a))) = Some tSemi ->
-  nth_error T (S (S (S (S (S k)) + length (render_arms a)))) = Some t' -> t' <> tSemi ->
-  20 + need_arms a <= f ->
-  let d := (1 + plain_sum C)%Z in
-  let ke := S (S (S k)) + length (render_arms a) in
-  let pre := arms_pre par d (S (S (S k))) (length Ls + 1) a (fun _ => []) in
-  let j := arms_li (S (S (S k))) (length Ls + 1) a (fun _ => []) in
-  let pl := arms_pend (S (S (S k))) (length Ls + 1) a (fun _ => []) (j + 1) in
-  exists mc3 last3, lm_type mc3 = LLT_Unknown /\
-  ST stk (take_separators_on_last_line pass (CL_Level 0%Z) (finish_logical_line pass (RUN f (C_with_ctx (cStk bk) A_structures) s)))
-     (S (S ke)) (Ls ++ [k; S k; S (S k)] :: map ll_toks pre ++ [ke; S ke] :: map ll_toks pl) []
-     (M ++ mkLM par (lvl d) LLT_CaseHeader :: map meta_of pre ++ mkLM par (lvl d) LLT_Unknown :: map meta_of pl)
-     mc3 last3 ((cBlk bk, false) :: C) lv a0.
+
+(* ---------------- the statements without child lines as instances of Pcore *)
+Definition Plist (ss : stmts) : Prop :=
+  forall stk par bk C, sk_of bk <> SK_Case -> notd C -> first_parent C = par -> wf ss = true -> IHfor stk par bk ss C.
+Lemma tf_not_eof tf : tf = tSemi \/ tf = tElse -> tf <> RTT_Eof /\ o_colon (Some tf) = false /\ o_dot (Some tf) = false.
+Proof. intros [-> | ->]; repeat split; discriminate. Qed.
+Lemma sk_normal_not_case bk : sk_of bk = SK_Normal -> sk_of bk <> SK_Case. Proof. intros ->. discriminate. Qed.
+
+Lemma Pcore_simple : Pcore TSimple.
 Proof.
-  intros IHa Hnd H HC Hk Hk1 Hk2 Hb Hse Hse1 Hne Hf d ke pre j pl.
-  assert (Hkn : k < n) by (apply nth_error_Some; congruence).
-  assert (Hkn2 : S (S k) < n) by (apply nth_error_Some; congruence).
-  assert (Ml : length M = length Ls) by (destruct H as (_ & _ & Ml & _); exact Ml).
+  intros stk X E pp f s k L M mc last lv a tf j t2 HP Hl H Hty Hwf Hcl Ht Htf Ej Hn Hf cons e SL.
+  destruct (tf_not_eof tf Htf) as (NE & Oc & _).
+  pose proof (Ht 0 _ eq_refl) as Hk. rewrite Nat.add_0_r in Hk.
+  pose proof (Ht 1 _ eq_refl) as Hk1. replace (k + 1) with (S k) in Hk1 by lia.
+  unfold need_stmt in Hf. cbn [render_stmt length] in Hf.
+  pose proof (core_simple stk X E pp f _ _ _ _ _ _ _ _ tf j HP Hl H Hk Hk1 Ej NE Oc ltac:(lia)) as H1. rewrite Hty in H1.
+  exists (length L). subst cons e SL. cbn [selfterm andb render_stmt length sexpected map ll_toks meta_of ll_parent ll_level ll_type].
+  replace (k + 1) with (S k) by lia. split; [exact H1|].
+  intros _. exists [], LLT_Unknown, [k], []. split; [discriminate|]. split; [reflexivity|]. cbn [length]. lia.
+Qed.
+Lemma Pcore_assign : Pcore TAssign.
+Proof.
+  intros stk X E pp f s k L M mc last lv a tf j t2 HP Hl H Hty Hwf Hcl Ht Htf Ej Hn Hf cons e SL.
+  destruct (tf_not_eof tf Htf) as (NE & Oc & _).
+  pose proof (Ht 0 _ eq_refl) as Hk. rewrite Nat.add_0_r in Hk.
+  pose proof (Ht 1 _ eq_refl) as Hk1. replace (k + 1) with (S k) in Hk1 by lia.
+  pose proof (Ht 2 _ eq_refl) as Hk2. replace (k + 2) with (S (S k)) in Hk2 by lia.
+  pose proof (Ht 3 _ eq_refl) as Hk3. replace (k + 3) with (S (S (S k))) in Hk3 by lia.
+  unfold need_stmt in Hf. cbn [render_stmt length] in Hf.
+  pose proof (core_assign stk X E pp f _ _ _ _ _ _ _ _ tf j HP Hl H Hty Hk Hk1 Hk2 Hk3 Ej NE Oc ltac:(lia)) as H1.
+  exists (length L). subst cons e SL. cbn [selfterm andb render_stmt length sexpected map ll_toks meta_of ll_parent ll_level ll_type app].
+  replace (k + 1) with (S k) by lia. replace (k + 2) with (S (S k)) by lia. replace (k + 3) with (S (S (S k))) by lia.
+  split; [exact H1|].
+  intros _. exists [], LLT_Assignment, [k; S k; S (S k)], []. split; [discriminate|]. split; [|cbn [length]; lia].
+  intros sm. cbn [sexpected app]. replace (k + 1) with (S k) by lia. replace (k + 2) with (S (S k)) by lia. reflexivity.
+Qed.
+Lemma Pcore_block b : Plist b -> Pcore (TBlock b).
+Proof.
+  intros IHb stk X E pp f s k L M mc last lv a tf j t2 HP Hl H Hty Hwf Hcl Ht Htf Ej Hn Hf cons e SL.
+  destruct (tf_not_eof tf Htf) as (NE & _ & Od).
+  cbn [render_stmt wf_stmt] in *. unfold need_stmt in Hf. cbn [render_stmt length] in Hf. rewrite app_length in Hf. cbn [length] in Hf.
+  assert (Eq : (tBegin :: render b ++ [tEnd]) ++ [tf] = [tBegin] ++ (render b ++ [tEnd]) ++ [tf]) by (cbn [app]; rewrite <- !app_assoc; reflexivity).
+  rewrite Eq in Ht.
+  pose proof (Ht 0 _ eq_refl) as Hk. rewrite Nat.add_0_r in Hk.
+  assert (Htb : toks_at (S k) (render b ++ [tEnd])).
+  { replace (S k) with (k + 1) by lia. eapply toks_at_prefix. apply (toks_at_shift k 1 [tBegin]); [exact Ht|reflexivity]. }
+  assert (Hts : toks_at (S (S k + length (render b))) [tf]).
+  { replace (S (S k + length (render b))) with (k + 1 + length (render b ++ [tEnd])) by (rewrite app_length; cbn [length]; lia).
+    apply (toks_at_shift (k + 1) _ (render b ++ [tEnd])); [|reflexivity]. apply (toks_at_shift k 1 [tBegin]); [exact Ht|reflexivity]. }
+  pose proof (toks_at_0 _ _ _ Hts eq_refl) as Hfo.
+  pose proof HP as [P0 _].
+  pose proof (core_block stk (first_parent X) X E pp b f _ _ _ _ _ _ _ _ tf j HP Hl
+                (IHb stk _ KBegin X ltac:(discriminate) (pos_notd _ _ P0) eq_refl Hwf) eq_refl H Hty Hk Htb Hfo Ej NE Od ltac:(unfold need; lia)) as H1.
+  cbv zeta in H1.
+  eexists. subst cons e SL. cbn [selfterm andb sexpected render_stmt length]. cbv zeta. split.
+  - replace (k + 1) with (S k) by lia. replace (length L + 1) with (S (length L)) by lia.
+    replace (plain_sum X + 1)%Z with (1 + plain_sum X)%Z by lia.
+    replace (k + S (length (render b ++ [tEnd]))) with (S (S k + length (render b))) by (rewrite app_length; cbn [length]; lia).
+    eapply (ST_lists stk); [exact H1| |]; cbn [map]; repeat (rewrite map_app; cbn [map]); cbn [map app ll_toks];
+      repeat (progress (cbn [app]; rewrite <- ?app_assoc)); reflexivity.
+  - intros _. exists (mkLine LLT_Unknown (lvl (plain_sum X)) (first_parent X) [k] :: pexpected (first_parent X) (plain_sum X + 1) (k + 1) (length L + 1) b),
+      LLT_Unknown, [k + 1 + length (render b)], []. split; [discriminate|]. split; [intros sm; reflexivity|].
+    cbn [length]. rewrite ?app_length. replace (k + 1) with (S k) by lia. replace (length L + 1) with (S (length L)) by lia.
+    replace (plain_sum X + 1)%Z with (1 + plain_sum X)%Z by lia. lia.
+Qed.
+Lemma Pcore_repeat b : Plist b -> Pcore (TRepeat b).
+Proof.
+  intros IHb stk X E pp f s k L M mc last lv a tf j t2 HP Hl H Hty Hwf Hcl Ht Htf Ej Hn Hf cons e SL.
+  destruct (tf_not_eof tf Htf) as (NE & Oc & _).
+  cbn [render_stmt wf_stmt] in *. unfold need_stmt in Hf. cbn [render_stmt length] in Hf. rewrite app_length in Hf. cbn [length] in Hf.
+  assert (Eq : (tRepeat :: render b ++ [tUntil; tI]) ++ [tf] = [tRepeat] ++ (render b ++ [tUntil]) ++ [tI; tf]) by (cbn [app]; rewrite <- !app_assoc; reflexivity).
+  rewrite Eq in Ht.
+  pose proof (Ht 0 _ eq_refl) as Hk. rewrite Nat.add_0_r in Hk.
+  assert (Htb : toks_at (S k) (render b ++ [tUntil])).
+  { replace (S k) with (k + 1) by lia. eapply toks_at_prefix. apply (toks_at_shift k 1 [tRepeat]); [exact Ht|reflexivity]. }
+  assert (Hts : toks_at (S (S k + length (render b))) [tI; tf]).
+  { replace (S (S k + length (render b))) with (k + 1 + length (render b ++ [tUntil])) by (rewrite app_length; cbn [length]; lia).
+    apply (toks_at_shift (k + 1) _ (render b ++ [tUntil])); [|reflexivity]. apply (toks_at_shift k 1 [tRepeat]); [exact Ht|reflexivity]. }
+  pose proof (toks_at_0 _ _ _ Hts eq_refl) as Hi.
+  pose proof (Hts 1 _ eq_refl) as Hfo. replace (S (S k + length (render b)) + 1) with (S (S (S k + length (render b)))) in Hfo by lia.
+  pose proof HP as [P0 _].
+  pose proof (core_repeat stk (first_parent X) X E pp b f _ _ _ _ _ _ _ _ tf j HP Hl
+                (IHb stk _ KRepeat X ltac:(discriminate) (pos_notd _ _ P0) eq_refl Hwf) eq_refl H Hty Hk Htb Hi Hfo Ej NE Oc ltac:(unfold need; lia)) as H1.
+  cbv zeta in H1.
+  eexists. subst cons e SL. cbn [selfterm andb sexpected render_stmt length]. cbv zeta. split.
+  - replace (k + 1) with (S k) by lia. replace (length L + 1) with (S (length L)) by lia.
+    replace (plain_sum X + 1)%Z with (1 + plain_sum X)%Z by lia.
+    replace (S k + length (render b) + 1) with (S (S k + length (render b))) by lia.
+    replace (k + S (length (render b ++ [tUntil; tI]))) with (S (S (S k + length (render b)))) by (rewrite app_length; cbn [length]; lia).
+    eapply (ST_lists stk); [exact H1| |]; cbn [map]; repeat (rewrite map_app; cbn [map]); cbn [map app ll_toks];
+      repeat (progress (cbn [app]; rewrite <- ?app_assoc)); reflexivity.
+  - intros _. exists (mkLine LLT_Unknown (lvl (plain_sum X)) (first_parent X) [k] :: pexpected (first_parent X) (plain_sum X + 1) (k + 1) (length L + 1) b),
+      LLT_Unknown, [k + 1 + length (render b); k + 1 + length (render b) + 1], []. split; [discriminate|]. split; [intros sm; reflexivity|].
+    cbn [length]. rewrite ?app_length. replace (k + 1) with (S k) by lia. replace (length L + 1) with (S (length L)) by lia.
+    replace (plain_sum X + 1)%Z with (1 + plain_sum X)%Z by lia. lia.
+Qed.
+Lemma Pcore_try (ex : bool) b c : Plist b -> Plist c -> Pcore (if ex then TTryExcept b c else TTry b c).
+Proof.
+  intros IHb IHc stk X E pp f s k L M mc last lv a tf j t2 HP Hl H Hty Hwf Hcl Ht Htf Ej Hn Hf cons e SL.
+  destruct (tf_not_eof tf Htf) as (NE & _ & _).
+  set (tm := if ex then tExcept else tFinally).
+  assert (Er : render_stmt (if ex then TTryExcept b c else TTry b c) = tTry :: render b ++ tm :: render c ++ [tEnd]) by (destruct ex; reflexivity).
+  assert (Ew : wf b = true /\ wf c = true) by (destruct ex; cbn [wf_stmt] in Hwf; apply andb_prop in Hwf; exact Hwf).
+  destruct Ew as [Hwb Hwc].
+  unfold need_stmt in Hf. rewrite Er in Ht, Hf. cbn [length] in Hf. rewrite !app_length in Hf. cbn [length] in Hf. rewrite app_length in Hf. cbn [length] in Hf.
+  assert (Eq : (tTry :: render b ++ tm :: render c ++ [tEnd]) ++ [tf] = [tTry] ++ (render b ++ [tm]) ++ (render c ++ [tEnd]) ++ [tf]).
+  { cbn [app]. rewrite <- !app_assoc. cbn [app]. rewrite <- !app_assoc. reflexivity. }
+  rewrite Eq in Ht.
+  pose proof (Ht 0 _ eq_refl) as Hk. rewrite Nat.add_0_r in Hk.
+  assert (Htb : toks_at (S k) (render b ++ [tm])).
+  { replace (S k) with (k + 1) by lia. eapply toks_at_prefix. apply (toks_at_shift k 1 [tTry]); [exact Ht|reflexivity]. }
+  set (m := S k + length (render b)).
+  assert (Ht2 : toks_at (S m) ((render c ++ [tEnd]) ++ [tf])).
+  { replace (S m) with (k + 1 + length (render b ++ [tm])) by (rewrite app_length; cbn [length]; unfold m; lia).
+    apply (toks_at_shift (k + 1) _ (render b ++ [tm])); [|reflexivity]. apply (toks_at_shift k 1 [tTry]); [exact Ht|reflexivity]. }
+  assert (Htc : toks_at (S m) (render c ++ [tEnd])) by (eapply toks_at_prefix; exact Ht2).
+  assert (Hts : toks_at (S (S m + length (render c))) [tf]).
+  { replace (S (S m + length (render c))) with (S m + length (render c ++ [tEnd])) by (rewrite app_length; cbn [length]; lia).
+    apply (toks_at_shift (S m) _ (render c ++ [tEnd])); [exact Ht2|reflexivity]. }
+  pose proof (toks_at_0 _ _ _ Hts eq_refl) as Hfo.
+  pose proof HP as [P0 _].
+  assert (Tm : tTerm (if ex then KTryE else KTry) = tm) by (destruct ex; reflexivity).
+  pose proof (core_try stk (first_parent X) ex X E pp b (render c) (need c) (fun k li => pexpected (first_parent X) (1 + plain_sum X) k li c) f _ _ _ _ _ _ _ _ tf j HP Hl
+                (IHb stk _ (if ex then KTryE else KTry) X ltac:(destruct ex; discriminate) (pos_notd _ _ P0) eq_refl Hwb)
+                (IHc stk _ (if ex then KExcept else KFinally) X ltac:(destruct ex; discriminate) (pos_notd _ _ P0) eq_refl Hwc) eq_refl H Hty Hk) as H1.
+  cbv zeta in H1. rewrite Tm in H1. specialize (H1 Htb Htc Hfo Ej NE ltac:(unfold need; lia)). fold m in H1.
+  assert (Es : forall sm, sexpected (first_parent X) (plain_sum X) k (length L) sm (if ex then TTryExcept b c else TTry b c)
+               = sexpected (first_parent X) (plain_sum X) k (length L) sm (TTry b c)) by (destruct ex; reflexivity).
+  eexists. subst cons e SL.
+  assert (Sf : selfterm (if ex then TTryExcept b c else TTry b c) = false) by (destruct ex; reflexivity). rewrite Sf. cbn [andb].
+  rewrite Es, Er. cbn [sexpected]. cbv zeta. split.
+  - replace (k + 1) with (S k) by lia. replace (length L + 1) with (S (length L)) by lia.
+    replace (plain_sum X + 1)%Z with (1 + plain_sum X)%Z by lia. fold m. replace (m + 1) with (S m) by lia.
+    replace (k + length (tTry :: render b ++ tm :: render c ++ [tEnd])) with (S (S m + length (render c)))
+      by (cbn [length]; rewrite !app_length; cbn [length]; rewrite app_length; cbn [length]; unfold m; lia).
+    eapply (ST_lists stk); [exact H1| |]; cbn [map]; repeat (rewrite map_app; cbn [map]); cbn [map app ll_toks];
+      repeat (progress (cbn [app]; rewrite <- ?app_assoc)); reflexivity.
+  - intros _.
+    exists (mkLine LLT_Unknown (lvl (plain_sum X)) (first_parent X) [k] :: pexpected (first_parent X) (plain_sum X + 1) (k + 1) (length L + 1) b
+            ++ mkLine LLT_Unknown (lvl (plain_sum X)) (first_parent X) [k + 1 + length (render b)]
+            :: pexpected (first_parent X) (plain_sum X + 1) (k + 1 + length (render b) + 1)
+                 (length L + 1 + length (pexpected (first_parent X) (plain_sum X + 1) (k + 1) (length L + 1) b) + 1) c),
+      LLT_Unknown, [k + 1 + length (render b) + 1 + length (render c)], []. split; [discriminate|]. split.
+    + intros sm. rewrite Es. cbn [sexpected]. cbv zeta. cbn [app]. rewrite <- app_assoc. cbn [app]. reflexivity.
+    + cbn [length]. rewrite ?app_length. cbn [length]. replace (k + 1) with (S k) by lia. replace (length L + 1) with (S (length L)) by lia.
+      replace (plain_sum X + 1)%Z with (1 + plain_sum X)%Z by lia. fold m. replace (m + 1) with (S m) by lia. lia.
+Qed.
+
+
+(* ---------------- case Identifier of arms [else stmts] end *)
+Lemma in_type_decl_false stk s k L c M mc last X lv a :
+  ST stk s k L c M mc last X lv a -> notd X -> is_in_type_decl pass s = false.
+Proof. intros H Hnd. unfold is_in_type_decl, any_ctype. rewrite (ST_ctx stk _ _ _ _ _ _ _ _ _ _ H). exact Hnd. Qed.
+(* finishing a non-empty current line that need not be the last line, after an optional pop *)
+Lemma fin_gs pp X j (s : pstate) k Ls h cs M last lv a : (pp = true -> lvl0 X) ->
+  GS s k Ls (h :: cs) M last (mark_ended j X) lv a -> nth h Ls [] <> [] ->
+  GS (finish_logical_line pass (optpop pp s)) k (Ls ++ [[]]) (length Ls :: cs)
+     (upd_nth h (fun m => mkLM (first_parent X) (clamp_u16 (plain_sum X)) (lm_type m)) M ++ [mkLM None (clamp_u16 (plain_sum X)) LLT_Unknown])
+     h (optpopc pp (mark_ended j X)) lv a.
+Proof.
+  intros Hl H Hn. destruct (optpop_level pp j X Hl) as [E1 E2]. rewrite <- E1, <- E2.
+  destruct pp; cbn [optpop optpopc] in *.
+  - destruct (Hl eq_refl) as (x & fl & r & -> & _). destruct j; cbn [mark_ended] in H |- *;
+      exact (finish_GS _ _ _ _ _ _ _ _ _ _ (pop_ctx_GS _ _ _ _ _ _ _ _ _ _ H) Hn).
+  - exact (finish_GS _ _ _ _ _ _ _ _ _ _ H Hn).
+Qed.
+
+(* the header line, the case block and its arms: the state in front of `end`/`else` *)
+Lemma case_head stk bkc a X E f s k L M mc last lv a0 :
+  bkc = KCase \/ bkc = KCaseE -> Parms a -> Pos X E ->
+  ST stk s k L [] M mc last X lv a0 -> wf_arms a = true ->
+  nth_error T k = Some tCase -> nth_error T (S k) = Some tI -> nth_error T (S (S k)) = Some tOf ->
+  toks_at (S (S (S k))) (render_arms a ++ [tTerm bkc]) -> 10 + need_arms a <= f ->
+  let par := first_parent X in let d := plain_sum X in
+  let ke := S (S (S k)) + length (render_arms a) in
+  let pre := arms_pre par d (S (S (S k))) (length L + 1) a (fun _ => []) in
+  let j := arms_li (S (S (S k))) (length L + 1) a (fun _ => []) in
+  let pl := arms_pend (S (S (S k))) (length L + 1) a (fun _ => []) (j + 1) in
+  let s5 := finish_logical_line pass (next_token pass (RUN (S f) (C_line_section (cUtp HOf)) (set_line_type pass LLT_CaseHeader (next_token pass s)))) in
+  exists mc' last',  lm_type mc' = LLT_Unknown /\
+    cur_tt pass (RUN (S f) (C_line_section (cUtp HOf)) (set_line_type pass LLT_CaseHeader (next_token pass s))) = Some tOf /\
+    GS (RUN (S f) (C_stmt_block (cBlk KCase) SK_Case) s5) ke
+       (L ++ [k; S k; S (S k)] :: map ll_toks pre ++ [] :: map ll_toks pl) (j :: stk)
+       (M ++ mkLM par (lvl d) LLT_CaseHeader :: map meta_of pre ++ mc' :: map meta_of pl) last' X lv a0
+    /\ j = length L + 1 + length pre.
+Proof.
+  intros Hbk IHa [P0 _] H Hwf Hk Hk1 Hk2 Hb Hf par d ke pre j pl s5.
+  assert (Hkn : tokfin (k)) by tokfin_tac.
+  assert (Hkn2 : tokfin (S (S k))) by tokfin_tac.
+  assert (Ml : length M = length L) by (destruct H as (_ & _ & Ml & _); exact Ml).
+  destruct f as [|[|[|f]]]; try lia.
+  destruct Hbk as [-> | ->].
+  {
+    pose proof (next_token_ST stk _ _ _ _ _ _ _ _ _ _ H Hkn) as H2. cbn [app] in H2.
+    pose proof (set_line_type_ST stk LLT_CaseHeader _ _ _ _ _ _ _ _ _ _ H2) as H2'. cbn [lm_parent lm_level] in H2'.
+    pose proof (line_section_run stk HOf (S (S (S (S f)))) _ _ _ _ _ _ _ _ _ _ H2' Hk1 Hk2 ltac:(lia)) as H3. cbn [app] in H3.
+    match type of H3 with ST _ ?x _ _ _ _ _ _ _ _ _ => set (s3 := x) in * end.
+    pose proof (next_token_ST stk _ _ _ _ _ _ _ _ _ _ H3 Hkn2) as H4. cbn [app] in H4.
+    pose proof (finish_ST stk _ _ _ _ _ _ _ _ _ _ H4 ltac:(discriminate)) as H5. cbn [lm_type] in H5.
+    fold par in H5. change (clamp_u16 (plain_sum X)) with (lvl d) in H5.
+    change (cBlk KCase) with (cBlk KCase).
+    rewrite (run_S _ (C_stmt_block (cBlk KCase) SK_Case) _ (ST_err stk _ _ _ _ _ _ _ _ _ _ H5)). unfold arm_stmt_block.
+    rewrite (with_ctx_stmt_list _ (cBlk KCase) _ _ (ST_err stk _ _ _ _ _ _ _ _ _ _ H5) eq_refl).
+    change (C_stmt_list (CT_Statement SK_Case) false P_semicolon) with (slc KCase).
+    pose proof (finish_empty_ST stk _ _ _ _ _ _ _ _ _ H5) as H6. cbn [lm_parent lm_level] in H6.
+    pose proof (push_ctx_ST stk (cBlk KCase) _ _ _ _ _ _ _ _ _ _ H6) as H7.
+    pose proof (ST_GS stk _ _ _ _ _ _ _ _ _ _ H7) as G7.
+    assert (Hl0 : length (M ++ [mkLM par (lvl d) LLT_CaseHeader]) = length (L ++ [[k; S k; S (S k)]])) by (rewrite !app_length, Ml; reflexivity).
+    destruct (IHa stk KCase X E (S (S f)) _ (S (S (S k))) (L ++ [[k; S k; S (S k)]]) [] (M ++ [mkLM par (lvl d) LLT_CaseHeader]) _ [] _ _ _
+                (fun _ => []) eq_refl P0 G7 Hl0 eq_refl eq_refl Hwf Hb ltac:(lia)) as (mc' & last' & fl & Ty & G8).
+    cbv zeta in G8. fold ke in G8.
+    replace (length (L ++ [[k; S k; S (S k)]])) with (length L + 1) in G8 by (rewrite app_length; reflexivity).
+    fold par d in G8. fold pre in G8. fold j in G8. fold pl in G8.
+    pose proof (pop_ctx_GS _ _ _ _ _ _ _ _ _ _ G8) as G9.
+    exists mc', last'. split; [exact Ty|]. split; [rewrite (ST_cur_tt stk _ _ _ _ _ _ _ _ _ _ _ H3 Hk2); reflexivity|]. split.
+    - eapply GS_lists; [exact G9| |]; repeat (progress (cbn [app]; rewrite <- ?app_assoc)); reflexivity.
+    - unfold j, pre. rewrite (arms_li_eq a par d). lia.
+  }
+  {
+    pose proof (next_token_ST stk _ _ _ _ _ _ _ _ _ _ H Hkn) as H2. cbn [app] in H2.
+    pose proof (set_line_type_ST stk LLT_CaseHeader _ _ _ _ _ _ _ _ _ _ H2) as H2'. cbn [lm_parent lm_level] in H2'.
+    pose proof (line_section_run stk HOf (S (S (S (S f)))) _ _ _ _ _ _ _ _ _ _ H2' Hk1 Hk2 ltac:(lia)) as H3. cbn [app] in H3.
+    match type of H3 with ST _ ?x _ _ _ _ _ _ _ _ _ => set (s3 := x) in * end.
+    pose proof (next_token_ST stk _ _ _ _ _ _ _ _ _ _ H3 Hkn2) as H4. cbn [app] in H4.
+    pose proof (finish_ST stk _ _ _ _ _ _ _ _ _ _ H4 ltac:(discriminate)) as H5. cbn [lm_type] in H5.
+    fold par in H5. change (clamp_u16 (plain_sum X)) with (lvl d) in H5.
+    change (cBlk KCase) with (cBlk KCaseE).
+    rewrite (run_S _ (C_stmt_block (cBlk KCaseE) SK_Case) _ (ST_err stk _ _ _ _ _ _ _ _ _ _ H5)). unfold arm_stmt_block.
+    rewrite (with_ctx_stmt_list _ (cBlk KCaseE) _ _ (ST_err stk _ _ _ _ _ _ _ _ _ _ H5) eq_refl).
+    change (C_stmt_list (CT_Statement SK_Case) false P_semicolon) with (slc KCaseE).
+    pose proof (finish_empty_ST stk _ _ _ _ _ _ _ _ _ H5) as H6. cbn [lm_parent lm_level] in H6.
+    pose proof (push_ctx_ST stk (cBlk KCaseE) _ _ _ _ _ _ _ _ _ _ H6) as H7.
+    pose proof (ST_GS stk _ _ _ _ _ _ _ _ _ _ H7) as G7.
+    assert (Hl0 : length (M ++ [mkLM par (lvl d) LLT_CaseHeader]) = length (L ++ [[k; S k; S (S k)]])) by (rewrite !app_length, Ml; reflexivity).
+    destruct (IHa stk KCaseE X E (S (S f)) _ (S (S (S k))) (L ++ [[k; S k; S (S k)]]) [] (M ++ [mkLM par (lvl d) LLT_CaseHeader]) _ [] _ _ _
+                (fun _ => []) eq_refl P0 G7 Hl0 eq_refl eq_refl Hwf Hb ltac:(lia)) as (mc' & last' & fl & Ty & G8).
+    cbv zeta in G8. fold ke in G8.
+    replace (length (L ++ [[k; S k; S (S k)]])) with (length L + 1) in G8 by (rewrite app_length; reflexivity).
+    fold par d in G8. fold pre in G8. fold j in G8. fold pl in G8.
+    pose proof (pop_ctx_GS _ _ _ _ _ _ _ _ _ _ G8) as G9.
+    exists mc', last'. split; [exact Ty|]. split; [rewrite (ST_cur_tt stk _ _ _ _ _ _ _ _ _ _ _ H3 Hk2); reflexivity|]. split.
+    - eapply GS_lists; [exact G9| |]; repeat (progress (cbn [app]; rewrite <- ?app_assoc)); reflexivity.
+    - unfold j, pre. rewrite (arms_li_eq a par d). lia.
+  }
+Qed.
+
+Lemma Pcore_case a : Parms a -> Pcore (TCase a).
+Proof.
+  intros IHa stk X E pp f s k L M mc last lv a0 tf j0 t2 HP Hl H Hty Hwf Hcl Ht Htf Ej Hn Hf cons e SL.
+  destruct (tf_not_eof tf Htf) as (NE & _ & _).
+  pose proof HP as [P0 _].
+  cbn [render_stmt wf_stmt] in *. unfold need_stmt in Hf. cbn [render_stmt length] in Hf. rewrite app_length in Hf. cbn [length] in Hf.
+  assert (Eq : (tCase :: tI :: tOf :: render_arms a ++ [tEnd]) ++ [tf] = [tCase; tI; tOf] ++ (render_arms a ++ [tEnd]) ++ [tf])
+    by (cbn [app]; rewrite <- !app_assoc; reflexivity).
+  rewrite Eq in Ht.
+  pose proof (Ht 0 _ eq_refl) as Hk. rewrite Nat.add_0_r in Hk.
+  pose proof (Ht 1 _ eq_refl) as Hk1. replace (k + 1) with (S k) in Hk1 by lia.
+  pose proof (Ht 2 _ eq_refl) as Hk2. replace (k + 2) with (S (S k)) in Hk2 by lia.
+  assert (Ht3 : toks_at (S (S (S k))) ((render_arms a ++ [tEnd]) ++ [tf])).
+  { replace (S (S (S k))) with (k + 3) by lia. apply (toks_at_shift k 3 [tCase; tI; tOf]); [exact Ht|reflexivity]. }
+  assert (Hb : toks_at (S (S (S k))) (render_arms a ++ [tTerm KCase])) by (eapply toks_at_prefix; exact Ht3).
+  set (ke := S (S (S k)) + length (render_arms a)).
+  assert (Hts : toks_at (S ke) [tf]).
+  { replace (S ke) with (S (S (S k)) + length (render_arms a ++ [tEnd])) by (rewrite app_length; cbn [length]; unfold ke; lia).
+    apply (toks_at_shift _ _ (render_arms a ++ [tEnd])); [exact Ht3|reflexivity]. }
+  pose proof (toks_at_0 _ _ _ Hts eq_refl) as Hfo.
   assert (Hke : nth_error T ke = Some tEnd).
   { specialize (Hb (length (render_arms a)) tEnd). rewrite nth_error_app2, Nat.sub_diag in Hb by lia. exact (Hb eq_refl). }
-  assert (Hken : ke < n) by (apply nth_error_Some; congruence).
-  destruct f as [|[|[|[|[|[|f]]]]]]; try lia.
-  rewrite (with_ctx_structures _ (cStk bk) s (ST_err stk _ _ _ _ _ _ _ _ _ _ H) eq_refl).
-  pose proof (finish_empty_ST stk _ _ _ _ _ _ _ _ _ H) as H0.
-  pose proof (push_ctx_ST stk (cStk bk) _ _ _ _ _ _ _ _ _ _ H0) as H1.
-  rewrite (run_S _ C_structures _ (ST_err stk _ _ _ _ _ _ _ _ _ _ H1)).
-  unfold arm_structures. rewrite (ST_cur_tt stk _ _ _ _ _ _ _ _ _ _ _ H1 Hk). cbn [tCase].
-  rewrite (ending_St_SB stk bk _ _ _ _ _ _ _ _ _ _ _ H1 Hk). cbn [tCase is_term sarm_of].
-  unfold sa_case. rewrite (in_type_decl_false stk bk _ _ _ _ _ _ _ _ _ _ H1 Hnd). unfold s_loop.
-  rewrite (run_S _ C_case_statement _ (ST_err stk _ _ _ _ _ _ _ _ _ _ H1)). unfold arm_case_statement.
+  assert (Hken : tokfin (ke)) by tokfin_tac.
+  destruct f as [|[|[|f]]]; try lia.
+  assert (E0 : ending_ctx pass s = None) by (rewrite (pos_ending stk _ _ _ _ _ _ _ _ _ _ _ _ P0 H Hk); apply (pos_start _ _ P0); reflexivity).
+  rewrite (run_S _ C_structures _ (ST_err stk _ _ _ _ _ _ _ _ _ _ H)).
+  unfold arm_structures. rewrite (ST_cur_tt stk _ _ _ _ _ _ _ _ _ _ _ H Hk), E0. cbn [tCase sarm_of].
+  unfold sa_case. rewrite (in_type_decl_false stk _ _ _ _ _ _ _ _ _ _ H (pos_notd _ _ P0)). unfold s_loop.
+  rewrite (run_S _ C_case_statement _ (ST_err stk _ _ _ _ _ _ _ _ _ _ H)). unfold arm_case_statement.
   change (ctx CT_Utility true P_of (ParserGrammar.L 0)) with (cUtp HOf).
-  pose proof (next_token_ST stk _ _ _ _ _ _ _ _ _ _ H1 Hkn) as H2. cbn [app] in H2.
-  pose proof (set_line_type_ST stk LLT_CaseHeader _ _ _ _ _ _ _ _ _ _ H2) as H2'. cbn [lm_parent lm_level] in H2'.
-  pose proof (line_section_run stk HOf (S (S (S f))) _ _ _ _ _ _ _ _ _ _ H2' Hk1 Hk2 ltac:(lia)) as H3. cbn [app] in H3.
-  match type of H3 with ST _ ?x _ _ _ _ _ _ _ _ _ => set (s3 := x) in * end.
-  cbv zeta. rewrite (ST_cur_tt stk _ _ _ _ _ _ _ _ _ _ _ H3 Hk2). cbn [tOf o_kw_of].
-  pose proof (next_token_ST stk _ _ _ _ _ _ _ _ _ _ H3 Hkn2) as H4. cbn [app] in H4.
-  pose proof (finish_ST stk _ _ _ _ _ _ _ _ _ _ H4 ltac:(discriminate)) as H5. cbn [lm_type] in H5.
-  rewrite (first_parent_St_blk bk), (plain_sum_St_blk bk), HC in H5.
-  replace (clamp_u16 (0 + (1 + plain_sum C))) with (lvl d) in H5 by (unfold lvl, d; f_equal; lia).
-  match type of H5 with ST _ ?x _ _ _ _ _ _ _ _ _ => set (s5 := x) in * end.
-  (* the case block and its arms *)
-  cbv delta [stmt_block] beta.
+  destruct (case_head stk KCase a X E f _ _ _ _ _ _ _ _ (or_introl eq_refl) IHa HP H Hwf Hk Hk1 Hk2 Hb ltac:(unfold need_arms; lia)) as (mc' & last' & Ty & Cof & G9 & Hj).
+  cbv zeta in G9. cbv zeta. rewrite Cof. cbn [tOf o_kw_of]. cbv delta [stmt_block] beta.
   change (ctx (CT_Statement SK_Case) true P_else_end (ParserGrammar.L 1)) with (cBlk KCase).
-  rewrite (run_S _ (C_stmt_block (cBlk KCase) SK_Case) _ (ST_err stk _ _ _ _ _ _ _ _ _ _ H5)). unfold arm_stmt_block.
-  rewrite (with_ctx_stmt_list _ (cBlk KCase) _ _ (ST_err stk _ _ _ _ _ _ _ _ _ _ H5) eq_refl).
-  change (C_stmt_list (CT_Statement SK_Case) false P_semicolon) with (slc KCase).
-  pose proof (finish_empty_ST stk _ _ _ _ _ _ _ _ _ H5) as H6. cbn [lm_parent lm_level] in H6.
-  pose proof (push_ctx_ST stk (cBlk KCase) _ _ _ _ _ _ _ _ _ _ H6) as H7.
-  pose proof (ST_GS stk _ _ _ _ _ _ _ _ _ _ H7) as G7.
-  assert (Hl0 : length (M ++ [mkLM par (lvl d) LLT_CaseHeader]) = length (Ls ++ [[k; S k; S (S k)]])) by (rewrite !app_length, Ml; reflexivity).
-  destruct (IHa stk par KCase bk C (S f) _ (S (S (S k))) (Ls ++ [[k; S k; S (S k)]]) [] (M ++ [mkLM par (lvl d) LLT_CaseHeader]) _ [] _ _ _
-              (fun _ => []) eq_refl Hnd HC G7 Hl0 eq_refl eq_refl Hb ltac:(lia)) as (mc' & last' & fl & Ty & G8).
-  cbv zeta in G8. fold ke in G8.
-  replace (length (Ls ++ [[k; S k; S (S k)]])) with (length Ls + 1) in G8 by (rewrite app_length; reflexivity).
-  fold d in G8. fold pre in G8. fold j in G8. fold pl in G8.
-  pose proof (pop_ctx_GS _ _ _ _ _ _ _ _ _ _ G8) as G9.
+  fold ke in G9.
+  set (pre := arms_pre (first_parent X) (plain_sum X) (S (S (S k))) (length L + 1) a (fun _ => [])) in *.
+  set (j := arms_li (S (S (S k))) (length L + 1) a (fun _ => [])) in *.
+  set (pl := arms_pend (S (S (S k))) (length L + 1) a (fun _ => []) (j + 1)) in *.
   match type of G9 with GS ?x _ _ _ _ _ _ _ _ => set (s9 := x) in * end.
   rewrite (GS_cur_tt _ _ _ _ _ _ _ _ _ _ G9 Hke). cbn [tEnd o_kw_else].
   rewrite (GS_cur_tt _ _ _ _ _ _ _ _ _ _ G9 Hke). cbn [tEnd o_kw_end].
-  (* `end` joins the line that is current after the last arm; the `;` too *)
-  assert (Hj : j = length (Ls ++ [[k; S k; S (S k)]]) + length pre).
-  { unfold j, pre. rewrite (arms_li_eq a par d), app_length. reflexivity. }
+  (* `end` joins the line that is current after the last arm *)
   pose proof (next_token_GS _ _ _ _ _ _ _ _ _ _ G9 Hken) as G10.
-  rewrite (upd_nth_mid_eq _ _ _ ((Ls ++ [[k; S k; S (S k)]]) ++ map ll_toks pre) [] (map ll_toks pl)) in G10
-    by (try (rewrite <- !app_assoc; reflexivity); rewrite app_length, map_length; lia).
+  rewrite (upd_nth_mid_eq _ _ _ (L ++ [k; S k; S (S k)] :: map ll_toks pre) [] (map ll_toks pl)) in G10
+    by (try (repeat (progress (cbn [app]; rewrite <- ?app_assoc)); reflexivity); rewrite app_length; cbn [length]; rewrite map_length; lia).
   cbn [app] in G10.
   match type of G10 with GS ?x _ _ _ _ _ _ _ _ => set (s10 := x) in * end.
-  assert (En10 : ending_ctx pass s10 = Some 1).
-  { rewrite (ending_G_St bk s10 false _ tSemi (GS_ctx _ _ _ _ _ _ _ _ _ G10) eq_refl (GS_cur_is _ _ _ _ _ _ _ _ _ _ G10 Hse) I). reflexivity. }
-  rewrite (structures_stop_G _ s10 tSemi 1 (GS_err _ _ _ _ _ _ _ _ _ G10) (GS_cur_is _ _ _ _ _ _ _ _ _ _ G10 Hse) ltac:(discriminate) En10).
-  pose proof (update_statuses_GS 1 _ _ _ _ _ _ _ _ _ G10) as G11. cbn [mark_ended] in G11.
-  pose proof (pop_ctx_GS _ _ _ _ _ _ _ _ _ _ G11) as G12.
-  pose proof (finish_GS _ _ _ _ _ _ _ _ _ _ G12) as G13.
-  rewrite (nth_mid_eq _ _ ((Ls ++ [[k; S k; S (S k)]]) ++ map ll_toks pre) [ke] (map ll_toks pl) []) in G13
-    by (try reflexivity; rewrite app_length, map_length; lia).
+  assert (En10 : ending_ctx pass s10 = Some (S j0)).
+  { unfold ending_ctx. rewrite (GS_ctx _ _ _ _ _ _ _ _ _ G10).
+    rewrite (pos_ends _ _ P0 s10 tf (GS_cur_is _ _ _ _ _ _ _ _ _ _ G10 Hfo) (plain_nth _ _ Hfo)). exact Ej. }
+  rewrite (structures_stop_G _ s10 tf (S j0) (GS_err _ _ _ _ _ _ _ _ _ G10) (GS_cur_is _ _ _ _ _ _ _ _ _ _ G10 Hfo) NE En10).
+  pose proof (update_statuses_GS (S j0) _ _ _ _ _ _ _ _ _ G10) as G11.
+  pose proof (fin_gs pp X (S j0) _ _ _ _ _ _ _ _ _ Hl G11) as G13.
+  rewrite (nth_mid_eq _ _ (L ++ [k; S k; S (S k)] :: map ll_toks pre) [ke] (map ll_toks pl) []) in G13
+    by (try (repeat (progress (cbn [app]; rewrite <- ?app_assoc)); reflexivity); rewrite app_length; cbn [length]; rewrite map_length; lia).
   specialize (G13 ltac:(discriminate)).
-  rewrite (upd_nth_mid_eq _ _ _ ((M ++ [mkLM par (lvl d) LLT_CaseHeader]) ++ map meta_of pre) mc' (map meta_of pl)) in G13
-    by (try (rewrite <- !app_assoc; reflexivity); rewrite app_length, map_length, Hl0; lia).
-  rewrite first_parent_blk, plain_sum_blk, HC, Ty in G13. fold d in G13.
+  rewrite (upd_nth_mid_eq _ _ _ (M ++ mkLM (first_parent X) (lvl (plain_sum X)) LLT_CaseHeader :: map meta_of pre) mc' (map meta_of pl)) in G13
+    by (try (repeat (progress (cbn [app]; rewrite <- ?app_assoc)); reflexivity); rewrite app_length; cbn [length]; rewrite map_length;
+        destruct H as (_ & _ & Ml & _); lia).
+  rewrite Ty in G13.
   pose proof (GS_ST stk _ _ _ _ _ _ _ _ _ _ _ _ _ G13 eq_refl eq_refl eq_refl) as S13.
-  pose proof (take_separators_ST stk (CL_Level 0%Z) _ _ _ _ _ _ _ _ _ t' S13 Hse Hse1 Hne) as S14.
-  rewrite (nth_mid_eq _ _ ((Ls ++ [[k; S k; S (S k)]]) ++ map ll_toks pre) [ke] (map ll_toks pl) []) in S14
-    by (try reflexivity; rewrite app_length, map_length; lia).
-  specialize (S14 ltac:(rewrite Hj; len_tac) ltac:(discriminate)).
-  rewrite (upd_nth_mid_eq _ _ _ ((Ls ++ [[k; S k; S (S k)]]) ++ map ll_toks pre) [ke] (map ll_toks pl)) in S14
-    by (try reflexivity; rewrite app_length, map_length; lia).
-  cbn [app] in S14.
-  eexists _, _. split; [|eapply (ST_lists stk); [exact S14| |]]; cycle 1.
-  - repeat (progress (cbn [app]; rewrite <- ?app_assoc)). reflexivity.
-  - repeat (progress (cbn [app]; rewrite <- ?app_assoc)). reflexivity.
-  - reflexivity.
+  exists j. subst cons e SL. cbn [selfterm andb sexpected render_stmt length]. rewrite arms_lines_eq. cbv beta. split.
+  - replace (k + 1) with (S k) by lia. replace (k + 2) with (S (S k)) by lia. replace (k + 3) with (S (S (S k))) by lia.
+    fold pre j pl ke.
+    replace (k + S (S (S (length (render_arms a ++ [tEnd]))))) with (S ke) by (rewrite app_length; cbn [length]; unfold ke; lia).
+    eapply (ST_lists stk); [exact S13| |]; cbn [map]; repeat (rewrite map_app; cbn [map]); cbn [map app ll_toks meta_of ll_parent ll_level ll_type];
+      repeat (progress (cbn [app]; rewrite <- ?app_assoc)); reflexivity.
+  - intros _.
+    exists (mkLine LLT_CaseHeader (lvl (plain_sum X)) (first_parent X) [k; k + 1; k + 2] :: arms_pre (first_parent X) (plain_sum X) (k + 3) (length L + 1) a (fun _ => [])),
+      LLT_Unknown, [k + 3 + length (render_arms a)],
+      (arms_pend (k + 3) (length L + 1) a (fun _ => []) (arms_li (k + 3) (length L + 1) a (fun _ => []) + 1)).
+    split; [discriminate|]. split.
+    + intros sm. cbn [sexpected]. rewrite arms_lines_eq. reflexivity.
+    + cbn [length]. replace (k + 3) with (S (S (S k))) by lia. fold pre. lia.
 Qed.
 
-(* ---------------- case Identifier of arms else stmts end ; *)
-Lemma iter_caseelse stk par bk a e f s k Ls M mc last C lv a0 t' :
-  Parms a -> IHfor stk par KElse e ((cStk bk, false) :: (cBlk bk, false) :: C) -> notd C ->
-  ST stk s k Ls [] M mc last ((cBlk bk, false) :: C) lv a0 -> first_parent C = par ->
-  nth_error T k = Some tCase -> nth_error T (S k) = Some tI -> nth_error T (S (S k)) = Some tOf ->
-  toks_at (S (S (S k))) (render_arms a ++ [tElse]) ->
-  toks_at (S (S (S (S k)) + length (render_arms a))) (render e ++ [tEnd]) ->
-  nth_error T (S (S (S (S (S k)) + length (render_arms a)) + length (render e))) = Some tSemi ->
-  nth_error T (S (S (S (S (S (S k)) + length (render_arms a)) + length (render e)))) = Some t' -> t' <> tSemi ->
-  20 + need_arms a + need e <= f ->
-  let d := (1 + plain_sum C)%Z in
-  let ke := S (S (S k)) + length (render_arms a) in
-  let kee := S ke + length (render e) in
-  let pre := arms_pre par d (S (S (S k))) (length Ls + 1) a (fun _ => []) in
-  let j := arms_li (S (S (S k))) (length Ls + 1) a (fun _ => []) in
-  let pl := arms_pend (S (S (S k))) (length Ls + 1) a (fun _ => []) (j + 1) in
-  let le := pexpected par (d + 1) (S ke) (j + 1 + length pl) e in
-  exists mc3 last3, lm_type mc3 = LLT_Unknown /\
-  ST stk (take_separators_on_last_line pass (CL_Level 0%Z) (finish_logical_line pass (RUN f (C_with_ctx (cStk bk) A_structures) s)))
-     (S (S kee)) (Ls ++ [k; S k; S (S k)] :: map ll_toks pre ++ [ke] :: map ll_toks pl ++ map ll_toks le ++ [[kee; S kee]]) []
-     (M ++ mkLM par (lvl d) LLT_CaseHeader :: map meta_of pre ++ mkLM par (lvl d) LLT_Unknown :: map meta_of pl ++ map meta_of le
-        ++ [mkLM par (lvl d) LLT_Unknown])
-     mc3 last3 ((cBlk bk, false) :: C) lv a0.
+
+Lemma Pcore_caseelse a el : Parms a -> Plist el -> Pcore (TCaseElse a el).
 Proof.
-  intros IHa IHe Hnd H HC Hk Hk1 Hk2 Hb Hbe Hse Hse1 Hne Hf d ke kee pre j pl le.
-  assert (Hkn : k < n) by (apply nth_error_Some; congruence).
-  assert (Hkn2 : S (S k) < n) by (apply nth_error_Some; congruence).
-  assert (Ml : length M = length Ls) by (destruct H as (_ & _ & Ml & _); exact Ml).
+  intros IHa IHe stk X E pp f s k L M mc last lv a0 tf j0 t2 HP Hl H Hty Hwf Hcl Ht Htf Ej Hn Hf cons e SL.
+  destruct (tf_not_eof tf Htf) as (NE & _ & _).
+  pose proof HP as [P0 _].
+  cbn [render_stmt wf_stmt] in *. apply andb_prop in Hwf. destruct Hwf as [Hwa Hwe].
+  unfold need_stmt in Hf. cbn [render_stmt length] in Hf. rewrite !app_length in Hf. cbn [length] in Hf. rewrite app_length in Hf. cbn [length] in Hf.
+  assert (Eq : (tCase :: tI :: tOf :: render_arms a ++ tElse :: render el ++ [tEnd]) ++ [tf]
+               = [tCase; tI; tOf] ++ (render_arms a ++ [tElse]) ++ (render el ++ [tEnd]) ++ [tf]).
+  { cbn [app]. rewrite <- !app_assoc. cbn [app]. rewrite <- !app_assoc. reflexivity. }
+  rewrite Eq in Ht.
+  pose proof (Ht 0 _ eq_refl) as Hk. rewrite Nat.add_0_r in Hk.
+  pose proof (Ht 1 _ eq_refl) as Hk1. replace (k + 1) with (S k) in Hk1 by lia.
+  pose proof (Ht 2 _ eq_refl) as Hk2. replace (k + 2) with (S (S k)) in Hk2 by lia.
+  assert (Ht3 : toks_at (S (S (S k))) ((render_arms a ++ [tElse]) ++ (render el ++ [tEnd]) ++ [tf])).
+  { replace (S (S (S k))) with (k + 3) by lia. apply (toks_at_shift k 3 [tCase; tI; tOf]); [exact Ht|reflexivity]. }
+  assert (Hb : toks_at (S (S (S k))) (render_arms a ++ [tTerm KCaseE])) by (eapply toks_at_prefix; exact Ht3).
+  set (ke := S (S (S k)) + length (render_arms a)).
+  assert (Ht4 : toks_at (S ke) ((render el ++ [tEnd]) ++ [tf])).
+  { replace (S ke) with (S (S (S k)) + length (render_arms a ++ [tElse])) by (rewrite app_length; cbn [length]; unfold ke; lia).
+    apply (toks_at_shift _ _ (render_arms a ++ [tElse])); [exact Ht3|reflexivity]. }
+  assert (Hbe : toks_at (S ke) (render el ++ [tTerm KElse])) by (eapply toks_at_prefix; exact Ht4).
+  set (kee := S ke + length (render el)).
+  assert (Hts : toks_at (S kee) [tf]).
+  { replace (S kee) with (S ke + length (render el ++ [tEnd])) by (rewrite app_length; cbn [length]; unfold kee; lia).
+    apply (toks_at_shift _ _ (render el ++ [tEnd])); [exact Ht4|reflexivity]. }
+  pose proof (toks_at_0 _ _ _ Hts eq_refl) as Hfo.
   assert (Hke : nth_error T ke = Some tElse).
   { specialize (Hb (length (render_arms a)) tElse). rewrite nth_error_app2, Nat.sub_diag in Hb by lia. exact (Hb eq_refl). }
-  assert (Hken : ke < n) by (apply nth_error_Some; congruence).
-  destruct f as [|[|[|[|[|[|f]]]]]]; try lia.
-  rewrite (with_ctx_structures _ (cStk bk) s (ST_err stk _ _ _ _ _ _ _ _ _ _ H) eq_refl).
-  pose proof (finish_empty_ST stk _ _ _ _ _ _ _ _ _ H) as H0.
-  pose proof (push_ctx_ST stk (cStk bk) _ _ _ _ _ _ _ _ _ _ H0) as H1.
-  rewrite (run_S _ C_structures _ (ST_err stk _ _ _ _ _ _ _ _ _ _ H1)).
-  unfold arm_structures. rewrite (ST_cur_tt stk _ _ _ _ _ _ _ _ _ _ _ H1 Hk). cbn [tCase].
-  rewrite (ending_St_SB stk bk _ _ _ _ _ _ _ _ _ _ _ H1 Hk). cbn [tCase is_term sarm_of].
-  unfold sa_case. rewrite (in_type_decl_false stk bk _ _ _ _ _ _ _ _ _ _ H1 Hnd). unfold s_loop.
-  rewrite (run_S _ C_case_statement _ (ST_err stk _ _ _ _ _ _ _ _ _ _ H1)). unfold arm_case_statement.
+  assert (Hken : tokfin (ke)) by tokfin_tac.
+  assert (Hkee : nth_error T kee = Some tEnd).
+  { specialize (Hbe (length (render el)) tEnd). rewrite nth_error_app2, Nat.sub_diag in Hbe by lia. exact (Hbe eq_refl). }
+  assert (Hkeen : tokfin (kee)) by tokfin_tac.
+  assert (Ml : length M = length L) by (destruct H as (_ & _ & Ml & _); exact Ml).
+  destruct f as [|[|[|[|f]]]]; try lia.
+  assert (E0 : ending_ctx pass s = None) by (rewrite (pos_ending stk _ _ _ _ _ _ _ _ _ _ _ _ P0 H Hk); apply (pos_start _ _ P0); reflexivity).
+  rewrite (run_S _ C_structures _ (ST_err stk _ _ _ _ _ _ _ _ _ _ H)).
+  unfold arm_structures. rewrite (ST_cur_tt stk _ _ _ _ _ _ _ _ _ _ _ H Hk), E0. cbn [tCase sarm_of].
+  unfold sa_case. rewrite (in_type_decl_false stk _ _ _ _ _ _ _ _ _ _ H (pos_notd _ _ P0)). unfold s_loop.
+  rewrite (run_S _ C_case_statement _ (ST_err stk _ _ _ _ _ _ _ _ _ _ H)). unfold arm_case_statement.
   change (ctx CT_Utility true P_of (ParserGrammar.L 0)) with (cUtp HOf).
-  pose proof (next_token_ST stk _ _ _ _ _ _ _ _ _ _ H1 Hkn) as H2. cbn [app] in H2.
-  pose proof (set_line_type_ST stk LLT_CaseHeader _ _ _ _ _ _ _ _ _ _ H2) as H2'. cbn [lm_parent lm_level] in H2'.
-  pose proof (line_section_run stk HOf (S (S (S f))) _ _ _ _ _ _ _ _ _ _ H2' Hk1 Hk2 ltac:(lia)) as H3. cbn [app] in H3.
-  match type of H3 with ST _ ?x _ _ _ _ _ _ _ _ _ => set (s3 := x) in * end.
-  cbv zeta. rewrite (ST_cur_tt stk _ _ _ _ _ _ _ _ _ _ _ H3 Hk2). cbn [tOf o_kw_of].
-  pose proof (next_token_ST stk _ _ _ _ _ _ _ _ _ _ H3 Hkn2) as H4. cbn [app] in H4.
-  pose proof (finish_ST stk _ _ _ _ _ _ _ _ _ _ H4 ltac:(discriminate)) as H5. cbn [lm_type] in H5.
-  rewrite (first_parent_St_blk bk), (plain_sum_St_blk bk), HC in H5.
-  replace (clamp_u16 (0 + (1 + plain_sum C))) with (lvl d) in H5 by (unfold lvl, d; f_equal; lia).
-  match type of H5 with ST _ ?x _ _ _ _ _ _ _ _ _ => set (s5 := x) in * end.
-  (* the case block and its arms *)
-  cbv delta [stmt_block] beta.
-  change (ctx (CT_Statement SK_Case) true P_else_end (ParserGrammar.L 1)) with (cBlk KCaseE).
-  rewrite (run_S _ (C_stmt_block (cBlk KCaseE) SK_Case) _ (ST_err stk _ _ _ _ _ _ _ _ _ _ H5)). unfold arm_stmt_block.
-  rewrite (with_ctx_stmt_list _ (cBlk KCaseE) _ _ (ST_err stk _ _ _ _ _ _ _ _ _ _ H5) eq_refl).
-  change (C_stmt_list (CT_Statement SK_Case) false P_semicolon) with (slc KCaseE).
-  pose proof (finish_empty_ST stk _ _ _ _ _ _ _ _ _ H5) as H6. cbn [lm_parent lm_level] in H6.
-  pose proof (push_ctx_ST stk (cBlk KCaseE) _ _ _ _ _ _ _ _ _ _ H6) as H7.
-  pose proof (ST_GS stk _ _ _ _ _ _ _ _ _ _ H7) as G7.
-  assert (Hl0 : length (M ++ [mkLM par (lvl d) LLT_CaseHeader]) = length (Ls ++ [[k; S k; S (S k)]])) by (rewrite !app_length, Ml; reflexivity).
-  destruct (IHa stk par KCaseE bk C (S f) _ (S (S (S k))) (Ls ++ [[k; S k; S (S k)]]) [] (M ++ [mkLM par (lvl d) LLT_CaseHeader]) _ [] _ _ _
-              (fun _ => []) eq_refl Hnd HC G7 Hl0 eq_refl eq_refl Hb ltac:(lia)) as (mc' & last' & fl & Ty & G8).
-  cbv zeta in G8. fold ke in G8.
-  replace (length (Ls ++ [[k; S k; S (S k)]])) with (length Ls + 1) in G8 by (rewrite app_length; reflexivity).
-  fold d in G8. fold pre in G8. fold j in G8. fold pl in G8.
-  pose proof (pop_ctx_GS _ _ _ _ _ _ _ _ _ _ G8) as G9.
+  destruct (case_head stk KCaseE a X E (S f) _ _ _ _ _ _ _ _ (or_intror eq_refl) IHa HP H Hwa Hk Hk1 Hk2 Hb ltac:(unfold need_arms; lia)) as (mc' & last' & Ty & Cof & G9 & Hj).
+  cbv zeta in G9. cbv zeta. rewrite Cof. cbn [tOf o_kw_of]. cbv delta [stmt_block] beta.
+  change (ctx (CT_Statement SK_Case) true P_else_end (ParserGrammar.L 1)) with (cBlk KCase).
+  fold ke in G9.
+  set (pre := arms_pre (first_parent X) (plain_sum X) (S (S (S k))) (length L + 1) a (fun _ => [])) in *.
+  set (j := arms_li (S (S (S k))) (length L + 1) a (fun _ => [])) in *.
+  set (pl := arms_pend (S (S (S k))) (length L + 1) a (fun _ => []) (j + 1)) in *.
   match type of G9 with GS ?x _ _ _ _ _ _ _ _ => set (s9 := x) in * end.
   rewrite (GS_cur_tt _ _ _ _ _ _ _ _ _ _ G9 Hke). cbn [tElse o_kw_else].
-  assert (Hj : j = length (Ls ++ [[k; S k; S (S k)]]) + length pre).
-  { unfold j, pre. rewrite (arms_li_eq a par d), app_length. reflexivity. }
   (* `else` joins the line that is current after the last arm; the else block *)
   pose proof (next_token_GS _ _ _ _ _ _ _ _ _ _ G9 Hken) as G10.
-  rewrite (upd_nth_mid_eq _ _ _ ((Ls ++ [[k; S k; S (S k)]]) ++ map ll_toks pre) [] (map ll_toks pl)) in G10
-    by (try (rewrite <- !app_assoc; reflexivity); rewrite app_length, map_length; lia).
+  rewrite (upd_nth_mid_eq _ _ _ (L ++ [k; S k; S (S k)] :: map ll_toks pre) [] (map ll_toks pl)) in G10
+    by (try (repeat (progress (cbn [app]; rewrite <- ?app_assoc)); reflexivity); rewrite app_length; cbn [length]; rewrite map_length; lia).
   cbn [app] in G10.
   pose proof (finish_GS _ _ _ _ _ _ _ _ _ _ G10) as G11.
-  rewrite (nth_mid_eq _ _ ((Ls ++ [[k; S k; S (S k)]]) ++ map ll_toks pre) [ke] (map ll_toks pl) []) in G11
-    by (try reflexivity; rewrite app_length, map_length; lia).
+  rewrite (nth_mid_eq _ _ (L ++ [k; S k; S (S k)] :: map ll_toks pre) [ke] (map ll_toks pl) []) in G11
+    by (try (repeat (progress (cbn [app]; rewrite <- ?app_assoc)); reflexivity); rewrite app_length; cbn [length]; rewrite map_length; lia).
   specialize (G11 ltac:(discriminate)).
-  rewrite (upd_nth_mid_eq _ _ _ ((M ++ [mkLM par (lvl d) LLT_CaseHeader]) ++ map meta_of pre) mc' (map meta_of pl)) in G11
-    by (try (rewrite <- !app_assoc; reflexivity); rewrite app_length, map_length, Hl0; lia).
-  rewrite (first_parent_St_blk bk), (plain_sum_St_blk bk), HC, Ty in G11.
-  replace (clamp_u16 (0 + (1 + plain_sum C))) with (lvl d) in G11 by (unfold lvl, d; f_equal; lia).
+  rewrite (upd_nth_mid_eq _ _ _ (M ++ mkLM (first_parent X) (lvl (plain_sum X)) LLT_CaseHeader :: map meta_of pre) mc' (map meta_of pl)) in G11
+    by (try (repeat (progress (cbn [app]; rewrite <- ?app_assoc)); reflexivity); rewrite app_length; cbn [length]; rewrite map_length; lia).
+  rewrite Ty in G11.
   pose proof (GS_ST stk _ _ _ _ _ _ _ _ _ _ _ _ _ G11 eq_refl eq_refl eq_refl) as S11.
   match type of S11 with ST _ ?x _ _ _ _ _ _ _ _ _ => set (s11 := x) in * end.
   change (ctx (CT_StatementBlock BK_Else) true P_end (ParserGrammar.L 1)) with (cBlk KElse).
@@ -2476,38 +2523,49 @@ Proof.
   change (C_stmt_list (CT_Statement SK_Normal) false P_semicolon) with (slc KElse).
   pose proof (finish_empty_ST stk _ _ _ _ _ _ _ _ _ S11) as S12. cbn [lm_parent lm_level] in S12.
   pose proof (push_ctx_ST stk (cBlk KElse) _ _ _ _ _ _ _ _ _ _ S12) as S13.
-  pose proof (fun Hli => IHe (S f) _ _ _ _ _ _ _ _ (j + 1 + length pl) ltac:(lia) Hli S13 Hbe) as IHe'.
+  pose proof (fun Hli => IHe stk _ KElse X ltac:(discriminate) (pos_notd _ _ P0) eq_refl Hwe f _ _ _ _ _ _ _ _ (j + 1 + length pl) ltac:(unfold need; lia) Hli S13 Hbe) as IHe'.
   destruct (IHe' ltac:(rewrite Hj; len_tac)) as (mcb & lastb & flb & Tyb & S14).
-  rewrite (plain_sum_St_blk bk) in S14. replace (1 + (0 + (1 + plain_sum C)))%Z with (d + 1)%Z in S14 by (unfold d; lia).
-  fold le in S14. fold kee in S14.
+  set (le := pexpected (first_parent X) (1 + plain_sum X) (S ke) (j + 1 + length pl) el) in *. fold kee in S14.
   pose proof (pop_ctx_ST stk _ _ _ _ _ _ _ _ _ _ _ S14) as S15.
   match type of S15 with ST _ ?x _ _ _ _ _ _ _ _ _ => set (s15 := x) in * end.
-  assert (Hkee : nth_error T kee = Some tEnd).
-  { specialize (Hbe (length (render e)) tEnd). rewrite nth_error_app2, Nat.sub_diag in Hbe by lia. exact (Hbe eq_refl). }
-  assert (Hkeen : kee < n) by (apply nth_error_Some; congruence).
   rewrite (ST_cur_tt stk _ _ _ _ _ _ _ _ _ _ _ S15 Hkee). cbn [tEnd o_kw_end].
   pose proof (next_token_ST stk _ _ _ _ _ _ _ _ _ _ S15 Hkeen) as S16. cbn [app] in S16.
-  rewrite (structures_stop stk _ _ _ _ _ _ _ _ _ _ _ _ _ S16 Hse ltac:(discriminate) (ending_St_SB stk bk _ _ _ _ _ _ _ _ _ _ _ S16 Hse)).
-  pose proof (update_statuses_ST stk 1 _ _ _ _ _ _ _ _ _ _ S16) as S17. cbn [mark_ended] in S17.
-  pose proof (pop_ctx_ST stk _ _ _ _ _ _ _ _ _ _ _ S17) as S18.
-  pose proof (finish_ST stk _ _ _ _ _ _ _ _ _ _ S18 ltac:(discriminate)) as S19.
-  rewrite first_parent_blk, plain_sum_blk, HC, Tyb in S19. fold d in S19.
-  pose proof (take_separators_ST stk (CL_Level 0%Z) _ _ _ _ _ _ _ _ _ t' S19 Hse Hse1 Hne) as S20.
-  specialize (S20 ltac:(rewrite last_length; lia)). rewrite nth_app_last in S20.
-  specialize (S20 ltac:(discriminate)). rewrite upd_nth_app_last in S20. cbn [app] in S20.
-  eexists _, _. split; [|eapply (ST_lists stk); [exact S20| |]]; cycle 1.
-  - repeat (progress (cbn [app]; rewrite <- ?app_assoc)). reflexivity.
-  - repeat (progress (cbn [app]; rewrite <- ?app_assoc)). reflexivity.
-  - reflexivity.
+  assert (E16 : ending_ctx pass (next_token pass s15) = Some (S j0)) by (rewrite (pos_ending stk _ _ _ _ _ _ _ _ _ _ _ _ P0 S16 Hfo); exact Ej).
+  rewrite (structures_stop stk _ _ _ _ _ _ _ _ _ _ _ _ _ S16 Hfo NE E16).
+  pose proof (update_statuses_ST stk (S j0) _ _ _ _ _ _ _ _ _ _ S16) as S17.
+  pose proof (fin_open stk pp _ _ _ _ _ _ _ _ _ _ _ Hl S17 ltac:(discriminate)) as S18. rewrite Tyb in S18.
+  eexists. subst cons e SL. cbn [selfterm andb sexpected render_stmt length]. rewrite arms_lines_eq. cbv beta zeta. split.
+  - replace (k + 1) with (S k) by lia. replace (k + 2) with (S (S k)) by lia. replace (k + 3) with (S (S (S k))) by lia.
+    fold pre j pl ke. replace (ke + 1) with (S ke) by lia. replace (plain_sum X + 1)%Z with (1 + plain_sum X)%Z by lia. fold le kee.
+    replace (k + S (S (S (length (render_arms a ++ tElse :: render el ++ [tEnd]))))) with (S kee)
+      by (rewrite !app_length; cbn [length]; rewrite app_length; cbn [length]; unfold kee, ke; lia).
+    eapply (ST_lists stk); [exact S18| |]; cbn [map]; repeat (rewrite map_app; cbn [map]); cbn [map app ll_toks meta_of ll_parent ll_level ll_type];
+      repeat (progress (cbn [app]; rewrite <- ?app_assoc)); reflexivity.
+  - intros _.
+    set (pre' := arms_pre (first_parent X) (plain_sum X) (k + 3) (length L + 1) a (fun _ => [])).
+    set (j' := arms_li (k + 3) (length L + 1) a (fun _ => [])).
+    set (pl' := arms_pend (k + 3) (length L + 1) a (fun _ => []) (j' + 1)).
+    set (le' := pexpected (first_parent X) (plain_sum X + 1) (k + 3 + length (render_arms a) + 1) (j' + 1 + length pl') el).
+    exists (mkLine LLT_CaseHeader (lvl (plain_sum X)) (first_parent X) [k; k + 1; k + 2] :: pre'
+            ++ mkLine LLT_Unknown (lvl (plain_sum X)) (first_parent X) [k + 3 + length (render_arms a)] :: pl' ++ le'),
+      LLT_Unknown, [k + 3 + length (render_arms a) + 1 + length (render el)], [].
+    split; [discriminate|]. split.
+    + intros sm. cbn [sexpected]. rewrite arms_lines_eq. cbv beta zeta. fold pre' j' pl' le'.
+      repeat (progress (cbn [app]; rewrite <- ?app_assoc)). reflexivity.
+    + subst pre' j' pl' le'. replace (k + 3) with (S (S (S k))) by lia. fold pre j pl ke. replace (ke + 1) with (S ke) by lia.
+      replace (plain_sum X + 1)%Z with (1 + plain_sum X)%Z by lia. fold le.
+      len_tac.
 Qed.
 
-(* ---------------- the statement-list loop on any statement list of the fragment *)
-Theorem stmts_run : forall ss stk par bk C, sk_of bk <> SK_Case -> notd C -> first_parent C = par -> IHfor stk par bk ss C.
+
+(* ---------------- the statement-list loop: one statement and its `;` *)
+Ltac fix_li r H4 :=
+  match type of H4 with context [pexpected _ _ _ ?li1 r] =>
+    match goal with |- context [pexpected _ _ _ ?li2 r] => replace li1 with li2 in H4 by len_tac end end.
+
+Lemma plist_nil : Plist SNil.
 Proof.
-  apply (stmts_mut (fun ss => forall stk par bk C, sk_of bk <> SK_Case -> notd C -> first_parent C = par -> IHfor stk par bk ss C)
-                   Qbody Parms).
-  - (* no statement: the loop runs once, in front of `end` *)
-    intros stk par bk C Hsk Hnd HC f s k Ls M mc last lv a li Hf Hli H Ht; subst li; unfold Post.
+  intros stk par bk C Hsk Hnd HC Hwf f s k Ls M mc last lv a li Hf Hli H Ht; subst li; unfold Post.
     unfold need in Hf. cbn [render length] in *. destruct f as [|[|[|f]]]; try lia.
     pose proof (toks_at_0 _ _ _ Ht eq_refl) as Hk.
     assert (Hnt : tTerm bk <> tSemi) by (destruct bk; discriminate).
@@ -2529,423 +2587,421 @@ Proof.
     assert (IE : is_ending pass (finish_logical_line pass (pop_ctx pass (update_statuses pass 2 (push_ctx pass (cStk bk) (finish_logical_line pass s))))) = true).
     { unfold is_ending, ending_ctx. rewrite (ST_ctx stk _ _ _ _ _ _ _ _ _ _ H4). reflexivity. }
     rewrite IE. cbn [orb pexpected map]. rewrite !app_nil_r, Nat.add_0_r. eexists _, _, _. split; [|exact H4]. reflexivity.
-  - (* Identifier ; *)
-    intros r IHr stk par bk C Hsk Hnd HC f s k Ls M mc last lv a li Hf Hli H Ht; subst li; unfold Post.
-    unfold need in Hf. cbn [render length] in *. destruct f as [|f]; [lia|].
-    pose proof (Ht 0 _ eq_refl) as Hk. rewrite Nat.add_0_r in Hk.
-    pose proof (Ht 1 _ eq_refl) as Hk1. replace (k + 1) with (S k) in Hk1 by lia.
-    assert (Htr : toks_at (S (S k)) (render r ++ [tTerm bk])).
-    { replace (S (S k)) with (k + 2) by lia. apply (toks_at_shift k 2 [tI; tSemi]); [exact Ht|reflexivity]. }
-    destruct (head_tok bk r) as (t' & H0 & N1 & _). pose proof (toks_at_0 _ _ _ Htr H0) as Hk2.
-    unfold slc. rewrite (stmt_list_unfold _ _ _ _ _ (ST_err stk _ _ _ _ _ _ _ _ _ _ H)). cbv zeta.
-    change (ctx (CT_Statement (sk_of bk)) false P_semicolon (ParserGrammar.L 0)) with (cStk bk).
-    pose proof (iter_simple stk par bk f _ _ _ _ _ _ _ _ _ t' Hsk H HC Hk Hk1 Hk2 N1 ltac:(lia)) as H3.
-    assert (Hn : need r <= f) by (unfold need; lia).
-    pose proof (fun Hty => loop_tail stk par bk r C (IHr stk par bk C Hsk Hnd HC) f _ _ _ _ _ _ _ _ _ Hn eq_refl Hty H3 Htr) as LT.
-    destruct (LT eq_refl) as (mc' & last' & fl & Ty & H4).
-    exists mc', last', fl. split; [exact Ty|].
-    cbn [pexpected map]. replace (k + 1) with (S k) by lia. replace (k + 2) with (S (S k)) by lia.
-    replace (k + S (S (length (render r)))) with (S (S k) + length (render r)) by lia.
-    fix_li r H4. rewrite <- !app_assoc in H4. cbn [app] in H4. exact H4.
-  - (* Identifier := Identifier ; *)
-    intros r IHr stk par bk C Hsk Hnd HC f s k Ls M mc last lv a li Hf Hli H Ht; subst li; unfold Post.
-    unfold need in Hf. cbn [render length] in *. destruct f as [|f]; [lia|].
-    pose proof (Ht 0 _ eq_refl) as Hk. rewrite Nat.add_0_r in Hk.
-    pose proof (Ht 1 _ eq_refl) as Hk1. replace (k + 1) with (S k) in Hk1 by lia.
-    pose proof (Ht 2 _ eq_refl) as Hk2. replace (k + 2) with (S (S k)) in Hk2 by lia.
-    pose proof (Ht 3 _ eq_refl) as Hk3. replace (k + 3) with (S (S (S k))) in Hk3 by lia.
-    assert (Htr : toks_at (S (S (S (S k)))) (render r ++ [tTerm bk])).
-    { replace (S (S (S (S k)))) with (k + 4) by lia. apply (toks_at_shift k 4 [tI; tAssign; tI; tSemi]); [exact Ht|reflexivity]. }
-    destruct (head_tok bk r) as (t' & H0 & N1 & _). pose proof (toks_at_0 _ _ _ Htr H0) as Hk4.
-    unfold slc. rewrite (stmt_list_unfold _ _ _ _ _ (ST_err stk _ _ _ _ _ _ _ _ _ _ H)). cbv zeta.
-    change (ctx (CT_Statement (sk_of bk)) false P_semicolon (ParserGrammar.L 0)) with (cStk bk).
-    pose proof (iter_assign stk par bk f _ _ _ _ _ _ _ _ _ t' Hsk H HC Hk Hk1 Hk2 Hk3 Hk4 N1 ltac:(lia)) as H3.
-    assert (Hn : need r <= f) by (unfold need; lia).
-    pose proof (fun Hty => loop_tail stk par bk r C (IHr stk par bk C Hsk Hnd HC) f _ _ _ _ _ _ _ _ _ Hn eq_refl Hty H3 Htr) as LT.
-    destruct (LT eq_refl) as (mc' & last' & fl & Ty & H4).
-    exists mc', last', fl. split; [exact Ty|].
-    cbn [pexpected map]. replace (k + 1) with (S k) by lia. replace (k + 2) with (S (S k)) by lia.
-    replace (k + 3) with (S (S (S k))) by lia. replace (k + 4) with (S (S (S (S k)))) by lia.
-    replace (k + S (S (S (S (length (render r)))))) with (S (S (S (S k))) + length (render r)) by lia.
-    fix_li r H4. rewrite <- !app_assoc in H4. cbn [app] in H4. exact H4.
-  - (* begin b end ; *)
-    intros b IHb r IHr stk par bk C Hsk Hnd HC f s k Ls M mc last lv a li Hf Hli H Ht; subst li; unfold Post.
-    unfold need in Hf. cbn [render length] in *. rewrite app_length in Hf. cbn [length] in Hf. destruct f as [|f]; [lia|].
-    assert (Eq : (tBegin :: render b ++ tEnd :: tSemi :: render r) ++ [tTerm bk]
-                 = [tBegin] ++ (render b ++ [tEnd]) ++ [tSemi] ++ (render r ++ [tTerm bk])).
-    { cbn [app]. rewrite <- !app_assoc. reflexivity. }
-    rewrite Eq in Ht.
-    pose proof (Ht 0 _ eq_refl) as Hk. rewrite Nat.add_0_r in Hk.
-    assert (Htb : toks_at (S k) (render b ++ [tEnd])).
-    { replace (S k) with (k + 1) by lia. eapply toks_at_prefix. apply (toks_at_shift k 1 [tBegin]); [exact Ht|reflexivity]. }
-    set (e := S k + length (render b)).
-    assert (Hts : toks_at (S e) ([tSemi] ++ render r ++ [tTerm bk])).
-    { replace (S e) with (k + 1 + length (render b ++ [tEnd])) by (rewrite app_length; cbn [length]; unfold e; lia).
-      apply (toks_at_shift (k + 1) _ (render b ++ [tEnd])); [|reflexivity]. apply (toks_at_shift k 1 [tBegin]); [exact Ht|reflexivity]. }
-    pose proof (toks_at_0 _ _ _ Hts eq_refl) as Hse.
-    assert (Htr : toks_at (S (S e)) (render r ++ [tTerm bk])).
-    { replace (S (S e)) with (S e + 1) by lia. apply (toks_at_shift (S e) 1 [tSemi]); [exact Hts|reflexivity]. }
-    destruct (head_tok bk r) as (t' & H0 & N1 & _). pose proof (toks_at_0 _ _ _ Htr H0) as Hse1.
-    unfold slc. rewrite (stmt_list_unfold _ _ _ _ _ (ST_err stk _ _ _ _ _ _ _ _ _ _ H)). cbv zeta.
-    change (ctx (CT_Statement (sk_of bk)) false P_semicolon (ParserGrammar.L 0)) with (cStk bk).
-    assert (HC' : first_parent (((cStk bk), false) :: (cBlk bk, false) :: C) = par) by (rewrite first_parent_St_blk; exact HC).
-    assert (Hnd' : notd ((cStk bk, false) :: (cBlk bk, false) :: C)) by (apply notd_St_blk, Hnd).
-    destruct (iter_block stk par bk b f _ _ _ _ _ _ _ _ _ t' (IHb stk par KBegin _ ltac:(discriminate) Hnd' HC') H HC Hk Htb Hse Hse1 N1 ltac:(unfold need; lia)) as (mc3 & Ty3 & H3).
-    fold e in H3.
-    destruct (loop_tail stk par bk r C (IHr stk par bk C Hsk Hnd HC) f _ _ _ _ _ _ _ _ _ ltac:(unfold need; lia) eq_refl Ty3 H3 Htr) as (mc' & last' & fl & Ty & H4).
-    exists mc', last', fl. split; [exact Ty|].
-    cbn [pexpected]. cbv zeta. replace (k + 1) with (S k) by lia. fold e.
-    replace (e + 1) with (S e) by lia. replace (e + 2) with (S (S e)) by lia.
-    replace (k + S (length (render b ++ tEnd :: tSemi :: render r))) with (S (S e) + length (render r))
-      by (rewrite app_length; cbn [length]; unfold e; lia).
-    replace (length Ls + 1) with (S (length Ls)) by lia. fix_li r H4.
-    eapply (ST_lists stk); [exact H4| |]; cbn [map]; repeat (rewrite map_app; cbn [map]); cbn [map app ll_toks]; repeat (progress (cbn [app]; rewrite <- ?app_assoc)); reflexivity.
-  - (* repeat b until Identifier ; *)
-    intros b IHb r IHr stk par bk C Hsk Hnd HC f s k Ls M mc last lv a li Hf Hli H Ht; subst li; unfold Post.
-    unfold need in Hf. cbn [render length] in *. rewrite app_length in Hf. cbn [length] in Hf. destruct f as [|f]; [lia|].
-    assert (Eq : (tRepeat :: render b ++ tUntil :: tI :: tSemi :: render r) ++ [tTerm bk]
-                 = [tRepeat] ++ (render b ++ [tUntil]) ++ [tI; tSemi] ++ (render r ++ [tTerm bk])).
-    { cbn [app]. rewrite <- !app_assoc. reflexivity. }
-    rewrite Eq in Ht.
-    pose proof (Ht 0 _ eq_refl) as Hk. rewrite Nat.add_0_r in Hk.
-    assert (Htb : toks_at (S k) (render b ++ [tUntil])).
-    { replace (S k) with (k + 1) by lia. eapply toks_at_prefix. apply (toks_at_shift k 1 [tRepeat]); [exact Ht|reflexivity]. }
-    set (e := S k + length (render b)).
-    assert (Hts : toks_at (S e) ([tI; tSemi] ++ render r ++ [tTerm bk])).
-    { replace (S e) with (k + 1 + length (render b ++ [tUntil])) by (rewrite app_length; cbn [length]; unfold e; lia).
-      apply (toks_at_shift (k + 1) _ (render b ++ [tUntil])); [|reflexivity]. apply (toks_at_shift k 1 [tRepeat]); [exact Ht|reflexivity]. }
-    pose proof (toks_at_0 _ _ _ Hts eq_refl) as Hi.
-    pose proof (Hts 1 _ eq_refl) as Hse. replace (S e + 1) with (S (S e)) in Hse by lia.
-    assert (Htr : toks_at (S (S (S e))) (render r ++ [tTerm bk])).
-    { replace (S (S (S e))) with (S e + 2) by lia. apply (toks_at_shift (S e) 2 [tI; tSemi]); [exact Hts|reflexivity]. }
-    destruct (head_tok bk r) as (t' & H0 & N1 & _). pose proof (toks_at_0 _ _ _ Htr H0) as Hse1.
-    unfold slc. rewrite (stmt_list_unfold _ _ _ _ _ (ST_err stk _ _ _ _ _ _ _ _ _ _ H)). cbv zeta.
-    change (ctx (CT_Statement (sk_of bk)) false P_semicolon (ParserGrammar.L 0)) with (cStk bk).
-    assert (HC' : first_parent (((cStk bk), false) :: (cBlk bk, false) :: C) = par) by (rewrite first_parent_St_blk; exact HC).
-    assert (Hnd' : notd ((cStk bk, false) :: (cBlk bk, false) :: C)) by (apply notd_St_blk, Hnd).
-    destruct (iter_repeat stk par bk b f _ _ _ _ _ _ _ _ _ t' (IHb stk par KRepeat _ ltac:(discriminate) Hnd' HC') H HC Hk Htb Hi Hse Hse1 N1 ltac:(unfold need; lia)) as (mc3 & last3 & Ty3 & H3).
-    fold e in H3.
-    destruct (loop_tail stk par bk r C (IHr stk par bk C Hsk Hnd HC) f _ _ _ _ _ _ _ _ _ ltac:(unfold need; lia) eq_refl Ty3 H3 Htr) as (mc' & last' & fl & Ty & H4).
-    exists mc', last', fl. split; [exact Ty|].
-    cbn [pexpected]. cbv zeta. replace (k + 1) with (S k) by lia. fold e.
-    replace (e + 1) with (S e) by lia. replace (e + 2) with (S (S e)) by lia. replace (e + 3) with (S (S (S e))) by lia.
-    replace (k + S (length (render b ++ tUntil :: tI :: tSemi :: render r))) with (S (S (S e)) + length (render r))
-      by (rewrite app_length; cbn [length]; unfold e; lia).
-    replace (length Ls + 1) with (S (length Ls)) by lia. fix_li r H4.
-    eapply (ST_lists stk); [exact H4| |]; cbn [map]; repeat (rewrite map_app; cbn [map]); cbn [map app ll_toks]; repeat (progress (cbn [app]; rewrite <- ?app_assoc)); reflexivity.
-  - (* try b finally c end ; *)
-    intros b IHb c IHc r IHr stk par bk C Hsk Hnd HC f s k Ls M mc last lv a li Hf Hli H Ht; subst li; unfold Post.
-    unfold need in Hf. cbn [render length] in *. rewrite !app_length in Hf. cbn [length] in Hf. rewrite app_length in Hf. cbn [length] in Hf.
-    destruct f as [|f]; [lia|].
-    assert (Eq : (tTry :: render b ++ tFinally :: render c ++ tEnd :: tSemi :: render r) ++ [tTerm bk]
-                 = [tTry] ++ (render b ++ [tFinally]) ++ (render c ++ [tEnd]) ++ [tSemi] ++ (render r ++ [tTerm bk])).
-    { cbn [app]. rewrite <- !app_assoc. cbn [app]. rewrite <- !app_assoc. reflexivity. }
-    rewrite Eq in Ht.
-    pose proof (Ht 0 _ eq_refl) as Hk. rewrite Nat.add_0_r in Hk.
-    assert (Htb : toks_at (S k) (render b ++ [tFinally])).
-    { replace (S k) with (k + 1) by lia. eapply toks_at_prefix. apply (toks_at_shift k 1 [tTry]); [exact Ht|reflexivity]. }
-    set (m := S k + length (render b)).
-    assert (Ht2 : toks_at (S m) ((render c ++ [tEnd]) ++ [tSemi] ++ render r ++ [tTerm bk])).
-    { replace (S m) with (k + 1 + length (render b ++ [tFinally])) by (rewrite app_length; cbn [length]; unfold m; lia).
-      apply (toks_at_shift (k + 1) _ (render b ++ [tFinally])); [|reflexivity]. apply (toks_at_shift k 1 [tTry]); [exact Ht|reflexivity]. }
-    assert (Htc : toks_at (S m) (render c ++ [tEnd])) by (eapply toks_at_prefix; exact Ht2).
-    set (e := S m + length (render c)).
-    assert (Hts : toks_at (S e) ([tSemi] ++ render r ++ [tTerm bk])).
-    { replace (S e) with (S m + length (render c ++ [tEnd])) by (rewrite app_length; cbn [length]; unfold e; lia).
-      apply (toks_at_shift (S m) _ (render c ++ [tEnd])); [exact Ht2|reflexivity]. }
-    pose proof (toks_at_0 _ _ _ Hts eq_refl) as Hse.
-    assert (Htr : toks_at (S (S e)) (render r ++ [tTerm bk])).
-    { replace (S (S e)) with (S e + 1) by lia. apply (toks_at_shift (S e) 1 [tSemi]); [exact Hts|reflexivity]. }
-    destruct (head_tok bk r) as (t' & H0 & N1 & _). pose proof (toks_at_0 _ _ _ Htr H0) as Hse1.
-    unfold slc. rewrite (stmt_list_unfold _ _ _ _ _ (ST_err stk _ _ _ _ _ _ _ _ _ _ H)). cbv zeta.
-    change (ctx (CT_Statement (sk_of bk)) false P_semicolon (ParserGrammar.L 0)) with (cStk bk).
-    assert (HC' : first_parent (((cStk bk), false) :: (cBlk bk, false) :: C) = par) by (rewrite first_parent_St_blk; exact HC).
-    assert (Hnd' : notd ((cStk bk, false) :: (cBlk bk, false) :: C)) by (apply notd_St_blk, Hnd).
-    destruct (iter_try stk par bk b c f _ _ _ _ _ _ _ _ _ t' (IHb stk par KTry _ ltac:(discriminate) Hnd' HC') (IHc stk par KFinally _ ltac:(discriminate) Hnd' HC') H HC Hk Htb Htc Hse Hse1 N1 ltac:(unfold need; lia)) as (mc3 & last3 & Ty3 & H3).
-    fold m in H3. fold e in H3.
-    destruct (loop_tail stk par bk r C (IHr stk par bk C Hsk Hnd HC) f _ _ _ _ _ _ _ _ _ ltac:(unfold need; lia) eq_refl Ty3 H3 Htr) as (mc' & last' & fl & Ty & H4).
-    exists mc', last', fl. split; [exact Ty|].
-    cbn [pexpected]. cbv zeta. replace (k + 1) with (S k) by lia. fold m. replace (m + 1) with (S m) by lia. fold e.
-    replace (e + 1) with (S e) by lia. replace (e + 2) with (S (S e)) by lia.
-    replace (k + S (length (render b ++ tFinally :: render c ++ tEnd :: tSemi :: render r))) with (S (S e) + length (render r))
-      by (rewrite !app_length; cbn [length]; rewrite app_length; cbn [length]; unfold e, m; lia).
-    replace (length Ls + 1) with (S (length Ls)) by lia. fix_li r H4.
-    eapply (ST_lists stk); [exact H4| |]; cbn [map]; repeat (rewrite map_app; cbn [map]); cbn [map app ll_toks]; repeat (progress (cbn [app]; rewrite <- ?app_assoc)); reflexivity.
-  - (* try b except c end ; *)
-    intros b IHb c IHc r IHr stk par bk C Hsk Hnd HC f s k Ls M mc last lv a li Hf Hli H Ht; subst li; unfold Post.
-    unfold need in Hf. cbn [render length] in *. rewrite !app_length in Hf. cbn [length] in Hf. rewrite app_length in Hf. cbn [length] in Hf.
-    destruct f as [|f]; [lia|].
-    assert (Eq : (tTry :: render b ++ tExcept :: render c ++ tEnd :: tSemi :: render r) ++ [tTerm bk]
-                 = [tTry] ++ (render b ++ [tExcept]) ++ (render c ++ [tEnd]) ++ [tSemi] ++ (render r ++ [tTerm bk])).
-    { cbn [app]. rewrite <- !app_assoc. cbn [app]. rewrite <- !app_assoc. reflexivity. }
-    rewrite Eq in Ht.
-    pose proof (Ht 0 _ eq_refl) as Hk. rewrite Nat.add_0_r in Hk.
-    assert (Htb : toks_at (S k) (render b ++ [tExcept])).
-    { replace (S k) with (k + 1) by lia. eapply toks_at_prefix. apply (toks_at_shift k 1 [tTry]); [exact Ht|reflexivity]. }
-    set (m := S k + length (render b)).
-    assert (Ht2 : toks_at (S m) ((render c ++ [tEnd]) ++ [tSemi] ++ render r ++ [tTerm bk])).
-    { replace (S m) with (k + 1 + length (render b ++ [tExcept])) by (rewrite app_length; cbn [length]; unfold m; lia).
-      apply (toks_at_shift (k + 1) _ (render b ++ [tExcept])); [|reflexivity]. apply (toks_at_shift k 1 [tTry]); [exact Ht|reflexivity]. }
-    assert (Htc : toks_at (S m) (render c ++ [tEnd])) by (eapply toks_at_prefix; exact Ht2).
-    set (e := S m + length (render c)).
-    assert (Hts : toks_at (S e) ([tSemi] ++ render r ++ [tTerm bk])).
-    { replace (S e) with (S m + length (render c ++ [tEnd])) by (rewrite app_length; cbn [length]; unfold e; lia).
-      apply (toks_at_shift (S m) _ (render c ++ [tEnd])); [exact Ht2|reflexivity]. }
-    pose proof (toks_at_0 _ _ _ Hts eq_refl) as Hse.
-    assert (Htr : toks_at (S (S e)) (render r ++ [tTerm bk])).
-    { replace (S (S e)) with (S e + 1) by lia. apply (toks_at_shift (S e) 1 [tSemi]); [exact Hts|reflexivity]. }
-    destruct (head_tok bk r) as (t' & H0 & N1 & _). pose proof (toks_at_0 _ _ _ Htr H0) as Hse1.
-    unfold slc. rewrite (stmt_list_unfold _ _ _ _ _ (ST_err stk _ _ _ _ _ _ _ _ _ _ H)). cbv zeta.
-    change (ctx (CT_Statement (sk_of bk)) false P_semicolon (ParserGrammar.L 0)) with (cStk bk).
-    assert (HC' : first_parent (((cStk bk), false) :: (cBlk bk, false) :: C) = par) by (rewrite first_parent_St_blk; exact HC).
-    assert (Hnd' : notd ((cStk bk, false) :: (cBlk bk, false) :: C)) by (apply notd_St_blk, Hnd).
-    destruct (iter_tryexcept stk par bk b c f _ _ _ _ _ _ _ _ _ t' (IHb stk par KTryE _ ltac:(discriminate) Hnd' HC') (IHc stk par KExcept _ ltac:(discriminate) Hnd' HC') H HC Hk Htb Htc Hse Hse1 N1 ltac:(unfold need; lia)) as (mc3 & last3 & Ty3 & H3).
-    fold m in H3. fold e in H3.
-    destruct (loop_tail stk par bk r C (IHr stk par bk C Hsk Hnd HC) f _ _ _ _ _ _ _ _ _ ltac:(unfold need; lia) eq_refl Ty3 H3 Htr) as (mc' & last' & fl & Ty & H4).
-    exists mc', last', fl. split; [exact Ty|].
-    cbn [pexpected]. cbv zeta. replace (k + 1) with (S k) by lia. fold m. replace (m + 1) with (S m) by lia. fold e.
-    replace (e + 1) with (S e) by lia. replace (e + 2) with (S (S e)) by lia.
-    replace (k + S (length (render b ++ tExcept :: render c ++ tEnd :: tSemi :: render r))) with (S (S e) + length (render r))
-      by (rewrite !app_length; cbn [length]; rewrite app_length; cbn [length]; unfold e, m; lia).
-    replace (length Ls + 1) with (S (length Ls)) by lia. fix_li r H4.
-    eapply (ST_lists stk); [exact H4| |]; cbn [map]; repeat (rewrite map_app; cbn [map]); cbn [map app ll_toks]; repeat (progress (cbn [app]; rewrite <- ?app_assoc)); reflexivity.
-  - (* if Identifier then c ; *)
-    intros c IHc r IHr stk par bk C Hsk Hnd HC f s k Ls M mc last lv a li Hf Hli H Ht; subst li; unfold Post.
-    unfold need in Hf. cbn [render length] in *. rewrite app_length in Hf. cbn [length] in Hf. destruct f as [|f]; [lia|].
-    assert (Eq : (tIf :: tI :: tThen :: render_body c ++ tSemi :: render r) ++ [tTerm bk]
-                 = [tIf; tI; tThen] ++ (render_body c ++ [tSemi]) ++ (render r ++ [tTerm bk])).
-    { cbn [app]. rewrite <- !app_assoc. reflexivity. }
-    rewrite Eq in Ht.
-    pose proof (Ht 0 _ eq_refl) as Hk. rewrite Nat.add_0_r in Hk.
-    pose proof (Ht 1 _ eq_refl) as Hk1. replace (k + 1) with (S k) in Hk1 by lia.
-    pose proof (Ht 2 _ eq_refl) as Hk2. replace (k + 2) with (S (S k)) in Hk2 by lia.
-    assert (Ht3 : toks_at (S (S (S k))) ((render_body c ++ [tSemi]) ++ render r ++ [tTerm bk])).
-    { replace (S (S (S k))) with (k + 3) by lia. apply (toks_at_shift k 3 [tIf; tI; tThen]); [exact Ht|reflexivity]. }
-    assert (Htb : toks_at (S (S (S k))) (render_body c ++ [tSemi])) by (eapply toks_at_prefix; exact Ht3).
-    set (e := S (S (S k)) + length (render_body c)).
-    assert (Htr : toks_at (S e) (render r ++ [tTerm bk])).
-    { replace (S e) with (S (S (S k)) + length (render_body c ++ [tSemi])) by (rewrite app_length; cbn [length]; unfold e; lia).
-      apply (toks_at_shift _ _ (render_body c ++ [tSemi])); [exact Ht3|reflexivity]. }
-    destruct (head_tok bk r) as (t' & H0 & N1 & _). pose proof (toks_at_0 _ _ _ Htr H0) as Hse1.
-    pose proof (head_tok_ne_eof bk r t' H0) as NE.
-    unfold slc. rewrite (stmt_list_unfold _ _ _ _ _ (ST_err stk _ _ _ _ _ _ _ _ _ _ H)). cbv zeta.
-    change (ctx (CT_Statement (sk_of bk)) false P_semicolon (ParserGrammar.L 0)) with (cStk bk).
-    pose proof (iter_if stk par bk c f _ _ _ _ _ _ _ _ _ t' (fun b Hb => IHc b Hb _ _ KBegin _ ltac:(discriminate) (notd_Xc _ _ _ _ Hnd) eq_refl) H HC Hk Hk1 Hk2 Htb Hse1 N1 NE ltac:(lia)) as H3.
-    cbv zeta in H3. fold e in H3.
-    pose proof (fun Hty => loop_tail stk par bk r C (IHr stk par bk C Hsk Hnd HC) f _ _ _ _ _ _ _ _ _ ltac:(unfold need; lia) eq_refl Hty H3 Htr) as LT.
-    destruct (LT eq_refl) as (mc' & last' & fl & Ty & H4).
-    exists mc', last', fl. split; [exact Ty|].
-    cbn [pexpected]. cbv zeta. replace (k + 1) with (S k) by lia. replace (k + 2) with (S (S k)) by lia. replace (k + 3) with (S (S (S k))) by lia.
-    fold e. replace (e + 1) with (S e) by lia. replace (length Ls + 1) with (S (length Ls)) by lia.
-    replace (k + S (S (S (length (render_body c ++ tSemi :: render r))))) with (S e + length (render r))
-      by (rewrite app_length; cbn [length]; unfold e; lia).
-    fix_li r H4.
-    eapply (ST_lists stk); [exact H4| |]; cbn [map]; repeat (rewrite map_app; cbn [map]); cbn [map app ll_toks]; repeat (progress (cbn [app]; rewrite <- ?app_assoc)); reflexivity.
-  - (* if Identifier then c1 else c2 ; *)
-    intros c1 IHc1 c2 IHc2 r IHr stk par bk C Hsk Hnd HC f s k Ls M mc last lv a li Hf Hli H Ht; subst li; unfold Post.
-    unfold need in Hf. cbn [render length] in *. rewrite !app_length in Hf. cbn [length] in Hf. rewrite app_length in Hf. cbn [length] in Hf.
-    destruct f as [|f]; [lia|].
-    assert (Eq : (tIf :: tI :: tThen :: render_body c1 ++ tElse :: render_body c2 ++ tSemi :: render r) ++ [tTerm bk]
-                 = [tIf; tI; tThen] ++ (render_body c1 ++ [tElse]) ++ (render_body c2 ++ [tSemi]) ++ (render r ++ [tTerm bk])).
-    { cbn [app]. rewrite <- !app_assoc. cbn [app]. rewrite <- !app_assoc. reflexivity. }
-    rewrite Eq in Ht.
-    pose proof (Ht 0 _ eq_refl) as Hk. rewrite Nat.add_0_r in Hk.
-    pose proof (Ht 1 _ eq_refl) as Hk1. replace (k + 1) with (S k) in Hk1 by lia.
-    pose proof (Ht 2 _ eq_refl) as Hk2. replace (k + 2) with (S (S k)) in Hk2 by lia.
-    assert (Ht3 : toks_at (S (S (S k))) ((render_body c1 ++ [tElse]) ++ (render_body c2 ++ [tSemi]) ++ render r ++ [tTerm bk])).
-    { replace (S (S (S k))) with (k + 3) by lia. apply (toks_at_shift k 3 [tIf; tI; tThen]); [exact Ht|reflexivity]. }
-    assert (Htb1 : toks_at (S (S (S k))) (render_body c1 ++ [tElse])) by (eapply toks_at_prefix; exact Ht3).
-    set (el := S (S (S k)) + length (render_body c1)).
-    assert (Ht4 : toks_at (S el) ((render_body c2 ++ [tSemi]) ++ render r ++ [tTerm bk])).
-    { replace (S el) with (S (S (S k)) + length (render_body c1 ++ [tElse])) by (rewrite app_length; cbn [length]; unfold el; lia).
-      apply (toks_at_shift _ _ (render_body c1 ++ [tElse])); [exact Ht3|reflexivity]. }
-    assert (Htb2 : toks_at (S el) (render_body c2 ++ [tSemi])) by (eapply toks_at_prefix; exact Ht4).
-    set (e := S el + length (render_body c2)).
-    assert (Htr : toks_at (S e) (render r ++ [tTerm bk])).
-    { replace (S e) with (S el + length (render_body c2 ++ [tSemi])) by (rewrite app_length; cbn [length]; unfold e; lia).
-      apply (toks_at_shift _ _ (render_body c2 ++ [tSemi])); [exact Ht4|reflexivity]. }
-    destruct (head_tok bk r) as (t' & H0 & N1 & _). pose proof (toks_at_0 _ _ _ Htr H0) as Hse1.
-    pose proof (head_tok_ne_eof bk r t' H0) as NE.
-    unfold slc. rewrite (stmt_list_unfold _ _ _ _ _ (ST_err stk _ _ _ _ _ _ _ _ _ _ H)). cbv zeta.
-    change (ctx (CT_Statement (sk_of bk)) false P_semicolon (ParserGrammar.L 0)) with (cStk bk).
-    pose proof (iter_ifelse stk par bk c1 c2 f _ _ _ _ _ _ _ _ _ t' el eq_refl (fun b Hb => IHc1 b Hb _ _ KBegin _ ltac:(discriminate) (notd_Xc _ _ _ _ Hnd) eq_refl)
-                  (fun b Hb => IHc2 b Hb _ _ KBegin _ ltac:(discriminate) (notd_Xc _ _ _ _ Hnd) eq_refl) H HC Hk Hk1 Hk2 Htb1 Htb2 Hse1 N1 NE ltac:(lia)) as H3.
-    cbv zeta in H3. fold e in H3.
-    pose proof (fun Hty => loop_tail stk par bk r C (IHr stk par bk C Hsk Hnd HC) f _ _ _ _ _ _ _ _ _ ltac:(unfold need; lia) eq_refl Hty H3 Htr) as LT.
-    destruct (LT eq_refl) as (mc' & last' & fl & Ty & H4).
-    exists mc', last', fl. split; [exact Ty|].
-    cbn [pexpected]. cbv zeta. replace (k + 1) with (S k) by lia. replace (k + 2) with (S (S k)) by lia. replace (k + 3) with (S (S (S k))) by lia.
-    fold el. replace (el + 1) with (S el) by lia. fold e. replace (e + 1) with (S e) by lia. replace (length Ls + 1) with (S (length Ls)) by lia.
-    replace (k + S (S (S (length (render_body c1 ++ tElse :: render_body c2 ++ tSemi :: render r))))) with (S e + length (render r))
-      by (rewrite !app_length; cbn [length]; rewrite app_length; cbn [length]; unfold e, el; lia).
-    fix_li r H4.
-    eapply (ST_lists stk); [exact H4| |]; cbn [map]; repeat (rewrite map_app; cbn [map]); cbn [map app ll_toks]; repeat (progress (cbn [app]; rewrite <- ?app_assoc)); reflexivity.
-  - (* while Identifier do c ; *)
-    intros c IHc r IHr stk par bk C Hsk Hnd HC f s k Ls M mc last lv a li Hf Hli H Ht; subst li; unfold Post.
-    unfold need in Hf. cbn [render length] in *. rewrite app_length in Hf. cbn [length] in Hf. destruct f as [|f]; [lia|].
-    assert (Eq : (tWhile :: tI :: tDo :: render_body c ++ tSemi :: render r) ++ [tTerm bk]
-                 = [tWhile; tI; tDo] ++ (render_body c ++ [tSemi]) ++ (render r ++ [tTerm bk])).
-    { cbn [app]. rewrite <- !app_assoc. reflexivity. }
-    rewrite Eq in Ht.
-    pose proof (Ht 0 _ eq_refl) as Hk. rewrite Nat.add_0_r in Hk.
-    pose proof (Ht 1 _ eq_refl) as Hk1. replace (k + 1) with (S k) in Hk1 by lia.
-    pose proof (Ht 2 _ eq_refl) as Hk2. replace (k + 2) with (S (S k)) in Hk2 by lia.
-    assert (Ht3 : toks_at (S (S (S k))) ((render_body c ++ [tSemi]) ++ render r ++ [tTerm bk])).
-    { replace (S (S (S k))) with (k + 3) by lia. apply (toks_at_shift k 3 [tWhile; tI; tDo]); [exact Ht|reflexivity]. }
-    assert (Htb : toks_at (S (S (S k))) (render_body c ++ [tSemi])) by (eapply toks_at_prefix; exact Ht3).
-    set (e := S (S (S k)) + length (render_body c)).
-    assert (Htr : toks_at (S e) (render r ++ [tTerm bk])).
-    { replace (S e) with (S (S (S k)) + length (render_body c ++ [tSemi])) by (rewrite app_length; cbn [length]; unfold e; lia).
-      apply (toks_at_shift _ _ (render_body c ++ [tSemi])); [exact Ht3|reflexivity]. }
-    destruct (head_tok bk r) as (t' & H0 & N1 & _). pose proof (toks_at_0 _ _ _ Htr H0) as Hse1.
-    pose proof (head_tok_ne_eof bk r t' H0) as NE.
-    unfold slc. rewrite (stmt_list_unfold _ _ _ _ _ (ST_err stk _ _ _ _ _ _ _ _ _ _ H)). cbv zeta.
-    change (ctx (CT_Statement (sk_of bk)) false P_semicolon (ParserGrammar.L 0)) with (cStk bk).
-    pose proof (iter_while stk par bk c f _ _ _ _ _ _ _ _ _ t' (fun b Hb => IHc b Hb _ _ KBegin _ ltac:(discriminate) (notd_Xc _ _ _ _ Hnd) eq_refl) H HC Hk Hk1 Hk2 Htb Hse1 N1 NE ltac:(lia)) as H3.
-    cbv zeta in H3. fold e in H3.
-    pose proof (fun Hty => loop_tail stk par bk r C (IHr stk par bk C Hsk Hnd HC) f _ _ _ _ _ _ _ _ _ ltac:(unfold need; lia) eq_refl Hty H3 Htr) as LT.
-    destruct (LT eq_refl) as (mc' & last' & fl & Ty & H4).
-    exists mc', last', fl. split; [exact Ty|].
-    cbn [pexpected]. cbv zeta. replace (k + 1) with (S k) by lia. replace (k + 2) with (S (S k)) by lia. replace (k + 3) with (S (S (S k))) by lia.
-    fold e. replace (e + 1) with (S e) by lia. replace (length Ls + 1) with (S (length Ls)) by lia.
-    replace (k + S (S (S (length (render_body c ++ tSemi :: render r))))) with (S e + length (render r))
-      by (rewrite app_length; cbn [length]; unfold e; lia).
-    fix_li r H4.
-    eapply (ST_lists stk); [exact H4| |]; cbn [map]; repeat (rewrite map_app; cbn [map]); cbn [map app ll_toks]; repeat (progress (cbn [app]; rewrite <- ?app_assoc)); reflexivity.
-  - (* case Identifier of a end ; *)
-    intros a IHa r IHr stk par bk C Hsk Hnd HC f s k Ls M mc last lv a0 li Hf Hli H Ht; subst li; unfold Post.
-    unfold need in Hf. cbn [render length] in *. rewrite app_length in Hf. cbn [length] in Hf. destruct f as [|f]; [lia|].
-    assert (Eq : (tCase :: tI :: tOf :: render_arms a ++ tEnd :: tSemi :: render r) ++ [tTerm bk]
-                 = [tCase; tI; tOf] ++ (render_arms a ++ [tEnd]) ++ [tSemi] ++ (render r ++ [tTerm bk])).
-    { cbn [app]. rewrite <- !app_assoc. reflexivity. }
-    rewrite Eq in Ht.
-    pose proof (Ht 0 _ eq_refl) as Hk. rewrite Nat.add_0_r in Hk.
-    pose proof (Ht 1 _ eq_refl) as Hk1. replace (k + 1) with (S k) in Hk1 by lia.
-    pose proof (Ht 2 _ eq_refl) as Hk2. replace (k + 2) with (S (S k)) in Hk2 by lia.
-    assert (Ht3 : toks_at (S (S (S k))) ((render_arms a ++ [tEnd]) ++ [tSemi] ++ render r ++ [tTerm bk])).
-    { replace (S (S (S k))) with (k + 3) by lia. apply (toks_at_shift k 3 [tCase; tI; tOf]); [exact Ht|reflexivity]. }
-    assert (Hb : toks_at (S (S (S k))) (render_arms a ++ [tEnd])) by (eapply toks_at_prefix; exact Ht3).
-    set (ke := S (S (S k)) + length (render_arms a)).
-    assert (Hts : toks_at (S ke) ([tSemi] ++ render r ++ [tTerm bk])).
-    { replace (S ke) with (S (S (S k)) + length (render_arms a ++ [tEnd])) by (rewrite app_length; cbn [length]; unfold ke; lia).
-      apply (toks_at_shift _ _ (render_arms a ++ [tEnd])); [exact Ht3|reflexivity]. }
-    pose proof (toks_at_0 _ _ _ Hts eq_refl) as Hse.
-    assert (Htr : toks_at (S (S ke)) (render r ++ [tTerm bk])).
-    { replace (S (S ke)) with (S ke + 1) by lia. apply (toks_at_shift (S ke) 1 [tSemi]); [exact Hts|reflexivity]. }
-    destruct (head_tok bk r) as (t' & H0 & N1 & _). pose proof (toks_at_0 _ _ _ Htr H0) as Hse1.
-    unfold slc. rewrite (stmt_list_unfold _ _ _ _ _ (ST_err stk _ _ _ _ _ _ _ _ _ _ H)). cbv zeta.
-    change (ctx (CT_Statement (sk_of bk)) false P_semicolon (ParserGrammar.L 0)) with (cStk bk).
-    destruct (iter_case stk par bk a f _ _ _ _ _ _ _ _ _ t' IHa Hnd H HC Hk Hk1 Hk2 Hb Hse Hse1 N1 ltac:(unfold need_arms; lia)) as (mc3 & last3 & Ty3 & H3).
-    cbv zeta in H3. fold ke in H3.
-    destruct (loop_tail stk par bk r C (IHr stk par bk C Hsk Hnd HC) f _ _ _ _ _ _ _ _ _ ltac:(unfold need; lia) eq_refl Ty3 H3 Htr) as (mc' & last' & fl & Ty & H4).
-    exists mc', last', fl. split; [exact Ty|].
-    cbn [pexpected]. rewrite arms_lines_eq. cbv beta.
-    replace (k + 1) with (S k) by lia. replace (k + 2) with (S (S k)) by lia. replace (k + 3) with (S (S (S k))) by lia.
-    fold ke. replace (ke + 1) with (S ke) by lia. replace (ke + 2) with (S (S ke)) by lia.
-    replace (k + S (S (S (length (render_arms a ++ tEnd :: tSemi :: render r))))) with (S (S ke) + length (render r))
-      by (rewrite app_length; cbn [length]; unfold ke; lia).
-    rewrite !(arms_li_eq a par (1 + plain_sum C)) in *.
-    fix_li r H4.
-    eapply (ST_lists stk); [exact H4| |]; cbn [map]; repeat (rewrite map_app; cbn [map]); cbn [map app ll_toks]; repeat (progress (cbn [app]; rewrite <- ?app_assoc)); reflexivity.
-  - (* case Identifier of a else e end ; *)
-    intros a IHa e IHe r IHr stk par bk C Hsk Hnd HC f s k Ls M mc last lv a0 li Hf Hli H Ht; subst li; unfold Post.
-    unfold need in Hf. cbn [render length] in *. rewrite !app_length in Hf. cbn [length] in Hf. rewrite app_length in Hf. cbn [length] in Hf.
-    destruct f as [|f]; [lia|].
-    assert (Eq : (tCase :: tI :: tOf :: render_arms a ++ tElse :: render e ++ tEnd :: tSemi :: render r) ++ [tTerm bk]
-                 = [tCase; tI; tOf] ++ (render_arms a ++ [tElse]) ++ (render e ++ [tEnd]) ++ [tSemi] ++ (render r ++ [tTerm bk])).
-    { cbn [app]. rewrite <- !app_assoc. cbn [app]. rewrite <- !app_assoc. reflexivity. }
-    rewrite Eq in Ht.
-    pose proof (Ht 0 _ eq_refl) as Hk. rewrite Nat.add_0_r in Hk.
-    pose proof (Ht 1 _ eq_refl) as Hk1. replace (k + 1) with (S k) in Hk1 by lia.
-    pose proof (Ht 2 _ eq_refl) as Hk2. replace (k + 2) with (S (S k)) in Hk2 by lia.
-    assert (Ht3 : toks_at (S (S (S k))) ((render_arms a ++ [tElse]) ++ (render e ++ [tEnd]) ++ [tSemi] ++ render r ++ [tTerm bk])).
-    { replace (S (S (S k))) with (k + 3) by lia. apply (toks_at_shift k 3 [tCase; tI; tOf]); [exact Ht|reflexivity]. }
-    assert (Hb : toks_at (S (S (S k))) (render_arms a ++ [tElse])) by (eapply toks_at_prefix; exact Ht3).
-    set (ke := S (S (S k)) + length (render_arms a)).
-    assert (Ht4 : toks_at (S ke) ((render e ++ [tEnd]) ++ [tSemi] ++ render r ++ [tTerm bk])).
-    { replace (S ke) with (S (S (S k)) + length (render_arms a ++ [tElse])) by (rewrite app_length; cbn [length]; unfold ke; lia).
-      apply (toks_at_shift _ _ (render_arms a ++ [tElse])); [exact Ht3|reflexivity]. }
-    assert (Hbe : toks_at (S ke) (render e ++ [tEnd])) by (eapply toks_at_prefix; exact Ht4).
-    set (kee := S ke + length (render e)).
-    assert (Hts : toks_at (S kee) ([tSemi] ++ render r ++ [tTerm bk])).
-    { replace (S kee) with (S ke + length (render e ++ [tEnd])) by (rewrite app_length; cbn [length]; unfold kee; lia).
-      apply (toks_at_shift _ _ (render e ++ [tEnd])); [exact Ht4|reflexivity]. }
-    pose proof (toks_at_0 _ _ _ Hts eq_refl) as Hse.
-    assert (Htr : toks_at (S (S kee)) (render r ++ [tTerm bk])).
-    { replace (S (S kee)) with (S kee + 1) by lia. apply (toks_at_shift (S kee) 1 [tSemi]); [exact Hts|reflexivity]. }
-    destruct (head_tok bk r) as (t' & H0 & N1 & _). pose proof (toks_at_0 _ _ _ Htr H0) as Hse1.
-    unfold slc. rewrite (stmt_list_unfold _ _ _ _ _ (ST_err stk _ _ _ _ _ _ _ _ _ _ H)). cbv zeta.
-    change (ctx (CT_Statement (sk_of bk)) false P_semicolon (ParserGrammar.L 0)) with (cStk bk).
-    assert (HC' : first_parent ((cStk bk, false) :: (cBlk bk, false) :: C) = par) by (rewrite first_parent_St_blk; exact HC).
-    assert (Hnd' : notd ((cStk bk, false) :: (cBlk bk, false) :: C)) by (apply notd_St_blk, Hnd).
-    destruct (iter_caseelse stk par bk a e f _ _ _ _ _ _ _ _ _ t' IHa (IHe stk par KElse _ ltac:(discriminate) Hnd' HC') Hnd H HC Hk Hk1 Hk2 Hb Hbe Hse Hse1 N1
-                ltac:(unfold need_arms, need; lia)) as (mc3 & last3 & Ty3 & H3).
-    cbv zeta in H3. fold ke in H3. fold kee in H3.
-    destruct (loop_tail stk par bk r C (IHr stk par bk C Hsk Hnd HC) f _ _ _ _ _ _ _ _ _ ltac:(unfold need; lia) eq_refl Ty3 H3 Htr) as (mc' & last' & fl & Ty & H4).
-    exists mc', last', fl. split; [exact Ty|].
-    cbn [pexpected]. rewrite arms_lines_eq. cbv beta zeta.
-    replace (k + 1) with (S k) by lia. replace (k + 2) with (S (S k)) by lia. replace (k + 3) with (S (S (S k))) by lia.
-    fold ke. replace (ke + 1) with (S ke) by lia. fold kee. replace (kee + 1) with (S kee) by lia. replace (kee + 2) with (S (S kee)) by lia.
-    replace (k + S (S (S (length (render_arms a ++ tElse :: render e ++ tEnd :: tSemi :: render r))))) with (S (S kee) + length (render r))
-      by (rewrite !app_length; cbn [length]; rewrite app_length; cbn [length]; unfold kee, ke; lia).
-    rewrite !(arms_li_eq a par (1 + plain_sum C)) in *.
-    fix_li r H4.
-    eapply (ST_lists stk); [exact H4| |]; cbn [map]; repeat (rewrite map_app; cbn [map]); cbn [map app ll_toks]; repeat (progress (cbn [app]; rewrite <- ?app_assoc)); reflexivity.
-  - intros b Hb. discriminate.
-  - intros b Hb. discriminate.
-  - intros b IHb b' Hb'. injection Hb' as <-. exact IHb.
-  - exact arms_nil_run.
-  - intros c Qc a' IHa. exact (arms_cons_run c a' Qc IHa).
 Qed.
-(* ---------------- a whole program: `begin` ss `end` `.` Eof *)
-Theorem prog_run ss f s0 mc0 last0 lv a :
-  ST [] s0 0 [] [] [] mc0 last0 [] lv a ->
-  nth_error T 0 = Some tBegin -> toks_at 1 (render ss ++ [tEnd]) ->
-  nth_error T (S (S (length (render ss)))) = Some tDot ->
-  nth_error T (S (S (S (length (render ss))))) = Some RTT_Eof ->
-  n = S (S (S (S (length (render ss))))) ->
-  8 + need ss <= f ->
-  let e := S (length (render ss)) in
-  exists mc' last',
-    ST [] (RUN f C_top s0) n
-       ([0] :: map ll_toks (pexpected None 1 1 1 ss) ++ [[e; S e]; [S (S e)]]) []
-       (mkLM None 0%N LLT_Unknown :: map meta_of (pexpected None 1 1 1 ss) ++ [mkLM None 0%N LLT_Unknown; mkLM None 0%N LLT_Eof])
-       mc' last' [] lv a.
+
+Lemma plist_cons c r : Pcore c -> Plist r -> Plist (SCons c r).
 Proof.
-  intros H Ht0 Htb HtD HtE Hn Hf e.
-  destruct f as [|[|[|[|[|[|[|f]]]]]]]; try lia.
-  assert (H0n : 0 < n) by lia.
-  rewrite (run_S _ C_top _ (ST_err (@nil nat) _ _ _ _ _ _ _ _ _ _ H)). unfold arm_top. cbv zeta.
-  (* the top-level loop: one iteration *)
-  rewrite (stmt_list_unfold _ _ _ _ _ (ST_err (@nil nat) _ _ _ _ _ _ _ _ _ _ H)). cbv zeta.
+  intros Pc IHr stk par bk C Hsk Hnd HC Hwf f s k Ls M mc last lv a li Hf Hli H Ht; subst li; unfold Post.
+  cbn [wf] in Hwf. apply andb_prop in Hwf. destruct Hwf as [Hwc Hwr].
+  unfold need in Hf. cbn [render length] in *. rewrite app_length in Hf. cbn [length] in Hf. destruct f as [|[|f]]; try lia.
+  assert (Eq : (render_stmt c ++ tSemi :: render r) ++ [tTerm bk] = (render_stmt c ++ [tSemi]) ++ (render r ++ [tTerm bk])).
+  { rewrite <- !app_assoc. reflexivity. }
+  rewrite Eq in Ht.
+  assert (Hb : toks_at k (render_stmt c ++ [tSemi])) by (eapply toks_at_prefix; exact Ht).
+  set (e := k + length (render_stmt c)).
+  assert (Htr : toks_at (S e) (render r ++ [tTerm bk])).
+  { replace (S e) with (k + length (render_stmt c ++ [tSemi])) by (rewrite app_length; cbn [length]; unfold e; lia).
+    apply (toks_at_shift _ _ (render_stmt c ++ [tSemi])); [exact Ht|reflexivity]. }
+  assert (He : nth_error T e = Some tSemi).
+  { specialize (Hb (length (render_stmt c)) tSemi). rewrite nth_error_app2, Nat.sub_diag in Hb by lia. exact (Hb eq_refl). }
+  destruct (head_tok bk r) as (t2 & H0 & N1 & NE & _). pose proof (toks_at_0 _ _ _ Htr H0) as Ht2.
+  unfold slc. rewrite (stmt_list_unfold _ _ _ _ _ (ST_err stk _ _ _ _ _ _ _ _ _ _ H)). cbv zeta.
+  change (ctx (CT_Statement (sk_of bk)) false P_semicolon (ParserGrammar.L 0)) with (cStk bk).
+  rewrite (with_ctx_structures _ (cStk bk) s (ST_err stk _ _ _ _ _ _ _ _ _ _ H) eq_refl).
+  pose proof (finish_empty_ST stk _ _ _ _ _ _ _ _ _ H) as H0'.
+  pose proof (push_ctx_ST stk (cStk bk) _ _ _ _ _ _ _ _ _ _ H0') as H1. fold (Xl bk C) in H1.
+  destruct (Pc stk (Xl bk C) (El bk) true f _ _ _ _ _ _ _ _ tSemi 0 t2 (pos_list bk C Hsk Hnd) (fun _ => lvl0_list bk C) H1 eq_refl Hwc
+              ltac:(discriminate) Hb (or_introl eq_refl) eq_refl (fun _ => conj Ht2 (conj N1 NE)) ltac:(unfold need_stmt; lia)) as (lastf & S1 & Hsp).
+  cbv zeta in S1. fold e in S1. cbn [optpop optpopc mark_ended Xl tl is_semi tSemi] in S1.
+  unfold Xl in S1, Hsp. rewrite (first_parent_St_blk bk), (plain_sum_St_blk bk), HC in S1, Hsp.
+  replace (0 + (1 + plain_sum C))%Z with (1 + plain_sum C)%Z in S1, Hsp by lia.
+  set (d := (1 + plain_sum C)%Z) in *.
+  (* the `;` *)
+  assert (S2 : ST stk (take_separators_on_last_line pass (CL_Level 0%Z) (finish_logical_line pass (pop_ctx pass (RUN f C_structures
+                  (push_ctx pass (cStk bk) (finish_logical_line pass s)))))) (S e)
+                 (Ls ++ map ll_toks (sexpected par d k (length Ls) [e] c)) [] (M ++ map meta_of (sexpected par d k (length Ls) [e] c))
+                 (mkLM None (lvl d) LLT_Unknown) lastf ((cBlk bk, false) :: C) lv a).
+  { destruct (selfterm c) eqn:Sf; cbn [andb] in S1.
+    - rewrite (take_separators_noop stk _ _ _ _ _ _ _ _ _ _ _ t2 S1 Ht2 N1). exact S1.
+    - destruct (splits_upd _ _ _ _ _ _ Ls [] e (Hsp eq_refl)) as (U1 & U2 & U3). rewrite !app_nil_r in U1, U2.
+      pose proof (take_separators_ST stk (CL_Level 0%Z) _ _ _ _ _ _ _ _ _ t2 S1 He Ht2 N1) as S2.
+      assert (Hlt : lastf < length (Ls ++ map ll_toks (sexpected par d k (length Ls) [] c))).
+      { destruct (Hsp eq_refl) as (init & ty & l & post & _ & Hs & ->). rewrite (Hs []), app_length, map_length, app_length. cbn [length]. lia. }
+      specialize (S2 Hlt U2). rewrite U1, U3 in S2. rewrite ?app_nil_r in S2. exact S2. }
+  clear S1.
+  pose proof (fun Hty => loop_tail stk par bk r C (IHr stk par bk C Hsk Hnd HC Hwr) (S f) _ _ _ _ _ _ _ _ _ ltac:(unfold need; lia) eq_refl Hty S2 Htr) as LT.
+  destruct (LT eq_refl) as (mc' & last' & fl & Ty & H4).
+  exists mc', last', fl. split; [exact Ty|].
+  cbn [pexpected]. cbv zeta. fold e. replace (e + 1) with (S e) by lia.
+  replace (k + length (render_stmt c ++ tSemi :: render r)) with (S e + length (render r)) by (rewrite app_length; cbn [length]; unfold e; lia).
+  change (CL_Level 0%Z) with (ParserGrammar.L 0) in H4.
+  fix_li r H4.
+  eapply (ST_lists stk); [exact H4| |]; rewrite !map_app; repeat (progress (cbn [app]; rewrite <- ?app_assoc)); reflexivity.
+Qed.
+
+
+(* ================================================================== *)
+(* exception handlers: `on Identifier : Identifier do c ;` in an except block; `on` is re-typed *)
+Lemma mix_retype k t : nth_error T k = Some t -> mix (S k) = upd_nth k (fun _ => fin t) (mix k).
+Proof.
+  intros Ht. unfold mix. revert k Ht. generalize T as l.
+  induction l as [|a l IH]; intros [|k] Ht; cbn in Ht; try discriminate.
+  - injection Ht as ->. reflexivity.
+  - cbn [firstn skipn map app upd_nth]. f_equal. apply IH, Ht.
+Qed.
+Lemma retype_next_ST stk s k L c M mc last cx lv a kw :
+  ST stk s k L c M mc last cx lv a -> nth_error T k = Some (RTT_IdentifierOrKeyword kw) ->
+  fin (RTT_IdentifierOrKeyword kw) = RTT_Keyword kw ->
+  has_err pass (consolidate_current_keyword pass s) = false /\
+  ST stk (next_token pass (consolidate_current_keyword pass s)) (S k) L (c ++ [k]) M mc last cx lv a.
+Proof.
+  intros H Hk Hf. pose proof (ST_err stk _ _ _ _ _ _ _ _ _ _ H) as E.
+  assert (Hkn : k < n) by (apply nth_error_Some; congruence).
+  assert (Tk : ps_toks pass s = mix k) by exact (ST_toks stk _ _ _ _ _ _ _ _ _ _ H).
+  assert (Ec : consolidate_current_keyword pass s = set_toks pass (mix (S k)) s).
+  { unfold consolidate_current_keyword, upd_cur, idx0. rewrite (ST_cur_index stk _ _ _ _ _ _ _ _ _ _ H Hkn).
+    unfold tt_at. rewrite Tk, (mix_nth_ge k k (le_n k)), Hk. cbn [bind]. rewrite (mix_nth_ge k k (le_n k)), Hk. cbn [bind].
+    unfold set_tok, guard. rewrite E, Tk, (mix_retype k _ Hk), Hf. reflexivity. }
+  rewrite Ec. set (s' := set_toks pass (mix (S k)) s).
+  assert (E' : has_err pass s' = false) by exact E.
+  split; [exact E'|].
+  destruct (next_token_G s' (mix (S k)) k E' eq_refl (mix_plain (S k)) (ST_pidx stk _ _ _ _ _ _ _ _ _ _ H) Hkn (mix_length (S k))) as (K1 & M1 & R1).
+  destruct H as (K & Mt & Ml & R). split; [|split; [|split]].
+  - rewrite K1. change (kst pass s') with (kst pass s). rewrite K. cbn [k_step k_pi k_lines k_cur k_last k_top hd].
+    rewrite (nth_error_seq0 _ _ Hkn). rewrite upd_nth_app_last. reflexivity.
+  - rewrite M1. exact Mt.
+  - exact Ml.
+  - rewrite R1. unfold restv in *. subst s'. cbn. injection R as R1' R2 R3 R4 R5 R6 R7. rewrite R2, R3, R4, R5, R6, R7. reflexivity.
+Qed.
+
+(* the line section `Identifier : Identifier do` of a handler header *)
+Lemma line_section_on stk f s k L c M mc last r lv a :
+  ST stk s k L c M mc last r lv a -> c <> [] -> lm_type mc = LLT_Unknown ->
+  nth_error T k = Some tI -> nth_error T (S k) = Some tColon -> nth_error T (S (S k)) = Some tI -> nth_error T (S (S (S k))) = Some tDo ->
+  6 <= f ->
+  ST stk (RUN f (C_line_section (cUtp HDo)) s) (S (S (S k))) L (c ++ [k; S k; S (S k)]) M mc last r lv a.
+Proof.
+  intros H Hc Hty Hk Hk1 Hk2 Hk3 Hf. destruct f as [|[|[|[|[|[|f]]]]]]; try lia.
+  assert (Hkn : tokfin k) by tokfin_tac. assert (Hkn1 : tokfin (S k)) by tokfin_tac. assert (Hkn2 : tokfin (S (S k))) by tokfin_tac.
+  rewrite (run_S _ (C_line_section _) _ (ST_err stk _ _ _ _ _ _ _ _ _ _ H)). unfold arm_line_section.
+  pose proof (push_ctx_ST stk (cUtp HDo) _ _ _ _ _ _ _ _ _ _ H) as H1.
+  match type of H1 with ST _ ?x _ _ _ _ _ _ _ _ _ => set (s1 := x) in * end.
+  assert (E1 : ending_ctx pass s1 = None) by (rewrite (ending_Ut stk _ _ _ _ _ _ _ _ _ _ _ _ H1 Hk); reflexivity).
+  (* Identifier (not at the start of the line) *)
+  rewrite (run_S _ C_statement _ (ST_err stk _ _ _ _ _ _ _ _ _ _ H1)).
+  unfold arm_statement. rewrite (ST_cur_tt stk _ _ _ _ _ _ _ _ _ _ _ H1 Hk). cbn [tI].
+  rewrite (prelude_none stk _ _ _ _ _ _ _ _ _ _ _ _ H1 E1 I). cbn [negb starm_of tI].
+  unfold st_label_cand, label_or_other. rewrite (ST_at_start stk _ _ _ _ _ _ _ _ _ _ H1).
+  destruct c as [|c0 cr]; [contradiction|]. cbn [andb]. unfold t_other, t_loop.
+  pose proof (next_token_ST stk _ _ _ _ _ _ _ _ _ _ H1 Hkn) as H2.
+  match type of H2 with ST _ ?x _ _ _ _ _ _ _ _ _ => set (s2 := x) in * end.
+  (* the colon *)
+  assert (E2 : ending_ctx pass s2 = None) by (rewrite (ending_Ut stk _ _ _ _ _ _ _ _ _ _ _ _ H2 Hk1); reflexivity).
+  rewrite (run_S _ C_statement _ (ST_err stk _ _ _ _ _ _ _ _ _ _ H2)).
+  unfold arm_statement. rewrite (ST_cur_tt stk _ _ _ _ _ _ _ _ _ _ _ H2 Hk1). cbn [tColon].
+  rewrite (prelude_none stk _ _ _ _ _ _ _ _ _ _ _ _ H2 E2 I). cbn [negb starm_of tColon]. unfold st_colon.
+  assert (LP : line_parent_of_current pass s2 = Some (length L, S k)).
+  { unfold line_parent_of_current. rewrite (ST_cur_index stk _ _ _ _ _ _ _ _ _ _ H2 (tokfin_lt _ Hkn1)), (ST_cur_ref stk _ _ _ _ _ _ _ _ _ _ H2). reflexivity. }
+  rewrite LP.
+  pose proof (next_token_ST stk _ _ _ _ _ _ _ _ _ _ H2 Hkn1) as H3.
+  match type of H3 with ST _ ?x _ _ _ _ _ _ _ _ _ => set (s3 := x) in * end.
+  rewrite (ST_cur_type stk _ _ _ _ _ _ _ _ _ _ H3), Hty. cbn [llt_is LogicalLineType_eqb LogicalLineType_idx Nat.eqb].
+  assert (LC : last_ctype pass s3 = Some CT_Utility) by (unfold last_ctype; rewrite (last_ctx_ST stk _ _ _ _ _ _ _ _ _ _ _ _ H3); reflexivity).
+  rewrite LC. unfold t_loop.
+  rewrite (caret_noop_G s3 (toks_plain_G s3 _ (ST_toks stk _ _ _ _ _ _ _ _ _ _ H3))).
+  (* Identifier, then `do` ends the section *)
+  assert (E3 : ending_ctx pass s3 = None) by (rewrite (ending_Ut stk _ _ _ _ _ _ _ _ _ _ _ _ H3 Hk2); reflexivity).
+  rewrite (statement_ident stk _ _ _ _ _ _ _ _ _ _ _ _ _ _ H3 Hk2 Hk3 ltac:(discriminate) eq_refl E3 I).
+  pose proof (next_token_ST stk _ _ _ _ _ _ _ _ _ _ H3 Hkn2) as H4.
+  assert (E4 : ending_ctx pass (next_token pass s3) = Some 1) by (rewrite (ending_Ut stk _ _ _ _ _ _ _ _ _ _ _ _ H4 Hk3); reflexivity).
+  rewrite (statement_stop stk _ _ _ _ _ _ _ _ _ _ _ _ _ _ _ H4 Hk3 ltac:(discriminate) E4).
+  pose proof (update_statuses_ST stk 1 _ _ _ _ _ _ _ _ _ _ H4) as H5. cbn [mark_ended] in H5.
+  pose proof (pop_ctx_ST stk _ _ _ _ _ _ _ _ _ _ _ H5) as H6.
+  rewrite <- !app_assoc in H6. cbn [app] in H6. exact H6.
+Qed.
+
+(* one handler in the statement-list loop of an except block *)
+Lemma iter_on stk par c C f s k Ls M mc last lv a t2 :
+  Pcore c -> notd C -> first_parent C = par ->
+  ST stk s k Ls [] M mc last ((cBlk KExcept, false) :: C) lv a -> wf_stmt c = true ->
+  toks_at k ([tOn; tI; tColon; tI; tDo] ++ (render_stmt c ++ [tSemi])) ->
+  nth_error T (S (k + 5 + length (render_stmt c))) = Some t2 -> t2 <> tSemi -> t2 <> RTT_Eof ->
+  30 + need_stmt c <= f ->
+  let d := (1 + plain_sum C)%Z in
+  let e := k + 5 + length (render_stmt c) in
+  let SL := mkLine LLT_Unknown (lvl d) par [k; k + 1; k + 2; k + 3; k + 4]
+            :: sexpected (Some (length Ls, k + 4)) 1 (k + 5) (length Ls + 1) [e] c ++ [stray] in
+  ST stk (take_separators_on_last_line pass (CL_Level 0%Z) (finish_logical_line pass (RUN f (C_with_ctx (cStk KExcept) A_structures) s)))
+     (S e) (Ls ++ map ll_toks SL) [] (M ++ map meta_of SL) (mkLM None (lvl d) LLT_Unknown) (length Ls) ((cBlk KExcept, false) :: C) lv a.
+Proof.
+  intros IH Hnd HC H Hwf Ht Ht2 N2 N3 Hf d e SL.
+  pose proof (Ht 0 _ eq_refl) as Hk. rewrite Nat.add_0_r in Hk.
+  pose proof (Ht 1 _ eq_refl) as Hk1. replace (k + 1) with (S k) in Hk1 by lia.
+  pose proof (Ht 2 _ eq_refl) as Hk2. replace (k + 2) with (S (S k)) in Hk2 by lia.
+  pose proof (Ht 3 _ eq_refl) as Hk3. replace (k + 3) with (S (S (S k))) in Hk3 by lia.
+  pose proof (Ht 4 _ eq_refl) as Hk4. replace (k + 4) with (S (S (S (S k)))) in Hk4 by lia.
+  assert (Hb : toks_at (S (S (S (S (S k))))) (render_stmt c ++ [tSemi])).
+  { replace (S (S (S (S (S k))))) with (k + 5) by lia. apply (toks_at_shift k 5 [tOn; tI; tColon; tI; tDo]); [exact Ht|reflexivity]. }
+  assert (Hkn4 : tokfin (S (S (S (S k))))) by tokfin_tac.
+  assert (Ml : length M = length Ls) by (destruct H as (_ & _ & Ml & _); exact Ml).
+  pose proof (pos_list KExcept C ltac:(discriminate) Hnd) as HP. pose proof HP as [P0 _].
+  destruct f as [|[|[|[|[|f]]]]]; try lia.
+  rewrite (with_ctx_structures _ (cStk KExcept) s (ST_err stk _ _ _ _ _ _ _ _ _ _ H) eq_refl).
+  pose proof (finish_empty_ST stk _ _ _ _ _ _ _ _ _ H) as H0.
+  pose proof (push_ctx_ST stk (cStk KExcept) _ _ _ _ _ _ _ _ _ _ H0) as H1. fold (Xl KExcept C) in H1.
+  match type of H1 with ST _ ?x _ _ _ _ _ _ _ _ _ => set (s1 := x) in * end.
+  assert (E0 : ending_ctx pass s1 = None) by (rewrite (pos_ending stk _ _ _ _ _ _ _ _ _ _ _ _ P0 H1 Hk); reflexivity).
+  rewrite (run_S _ C_structures _ (ST_err stk _ _ _ _ _ _ _ _ _ _ H1)).
+  unfold arm_structures. rewrite (ST_cur_tt stk _ _ _ _ _ _ _ _ _ _ _ H1 Hk), E0. cbn [tOn sarm_of].
+  unfold sa_on. assert (LC : last_ctype pass s1 = Some (CT_Statement SK_Except)) by (unfold last_ctype; rewrite (last_ctx_ST stk _ _ _ _ _ _ _ _ _ _ _ _ H1); reflexivity).
+  rewrite LC. unfold s_loop.
+  destruct (retype_next_ST stk _ _ _ _ _ _ _ _ _ _ KK_On H1 Hk eq_refl) as [Ec H2]. cbn [app] in H2.
+  rewrite (run_S _ (C_do false) _ Ec). unfold arm_do.
+  change (ctx CT_Utility true P_kw_do (ParserGrammar.L 0)) with (cUtp HDo).
+  pose proof (set_line_type_ST stk LLT_Unknown _ _ _ _ _ _ _ _ _ _ H2) as H2'. cbn [lm_parent lm_level] in H2'.
+  pose proof (line_section_on stk (S (S f)) _ _ _ _ _ _ _ _ _ _ H2' ltac:(discriminate) eq_refl Hk1 Hk2 Hk3 Hk4 ltac:(lia)) as H3. cbn [app] in H3.
+  match type of H3 with ST _ ?x _ _ _ _ _ _ _ _ _ => set (s3 := x) in * end.
+  cbv zeta.
+  assert (CK : cur_kk pass s3 = Some KK_Do) by (unfold cur_kk; rewrite (ST_cur_tt stk _ _ _ _ _ _ _ _ _ _ _ H3 Hk4); reflexivity).
+  rewrite CK.
+  assert (LP : line_parent_of_current pass s3 = Some (length Ls, S (S (S (S k))))).
+  { unfold line_parent_of_current. rewrite (ST_cur_index stk _ _ _ _ _ _ _ _ _ _ H3 (tokfin_lt _ Hkn4)), (ST_cur_ref stk _ _ _ _ _ _ _ _ _ _ H3). reflexivity. }
+  rewrite LP.
+  pose proof (next_token_ST stk _ _ _ _ _ _ _ _ _ _ H3 Hkn4) as H4. cbn [app] in H4.
+  change (ctx (CT_Statement SK_Normal) false P_never (CL_Parent (length Ls, S (S (S (S k)))) 1%N)) with (cCh false (length Ls, S (S (S (S k))))).
+  pose proof (ST_GS stk _ _ _ _ _ _ _ _ _ _ H4) as G4.
+  set (s4 := next_token pass s3) in *.
+  assert (Hn' : tSemi = tSemi -> nth_error T (S (S (S (S (S (S k)))) + length (render_stmt c))) = Some t2 /\ t2 <> tSemi /\ t2 <> RTT_Eof).
+  { intros _. replace (S (S (S (S (S (S k)))) + length (render_stmt c))) with (S (k + 5 + length (render_stmt c))) by lia. repeat split; assumption. }
+  pose proof (child_final stk false (CL_Parent (length Ls, S (S (S (S k)))) 1%N) (length Ls, S (S (S (S k)))) c (Xl KExcept C) (El KExcept) true
+                (S (S f)) (S (S f)) _ _ _ _ _ _ _ _ tSemi 0 t2 IH HP (fun _ => lvl0_list KExcept C) G4) as CF.
+  rewrite nth_app_last in CF.
+  specialize (CF ltac:(discriminate) ltac:(rewrite app_length; cbn [length]; lia) Hwf ltac:(discriminate) Hb (or_introl eq_refl) eq_refl ltac:(discriminate) Hn'
+                ltac:(lia)).
+  cbv zeta in CF. cbn [is_semi tSemi optpop optpopc mark_ended Xl tl] in CF.
+  rewrite <- Ml, upd_nth_app_last in CF. cbn [lm_type] in CF. rewrite Ml in CF.
+  unfold Xl in CF. rewrite (first_parent_St_blk KExcept), (plain_sum_St_blk KExcept), HC in CF.
+  replace (0 + (1 + plain_sum C))%Z with d in CF by (unfold d; lia).
+  match type of CF with ST _ ?x _ _ _ _ _ _ _ _ _ => set (s9 := x) in * end.
+  rewrite (take_separators_noop stk _ _ _ _ _ _ _ _ _ _ _ t2 CF).
+  2: { replace (S (S (S (S (S (S k)))) + length (render_stmt c))) with (S (k + 5 + length (render_stmt c))) by lia. exact Ht2. }
+  2: exact N2.
+  subst SL. replace (k + 1) with (S k) by lia. replace (k + 2) with (S (S k)) by lia. replace (k + 3) with (S (S (S k))) by lia.
+  replace (k + 4) with (S (S (S (S k)))) by lia. replace (k + 5) with (S (S (S (S (S k))))) by lia.
+  replace (length Ls + 1) with (length (Ls ++ [[k; S k; S (S k); S (S (S k)); S (S (S (S k)))]])) by (rewrite app_length; reflexivity).
+  replace (S e) with (S (S (S (S (S (S k)))) + length (render_stmt c))) by (unfold e; lia).
+  replace e with (S (S (S (S (S k)))) + length (render_stmt c)) by (unfold e; lia).
+  eapply (ST_lists stk); [exact CF| |].
+  - cbn [map ll_toks]. rewrite map_app. cbn [map ll_toks stray]. repeat (progress (cbn [app]; rewrite <- ?app_assoc)). reflexivity.
+  - cbn [map meta_of ll_parent ll_level ll_type]. rewrite map_app. cbn [map meta_of stray ll_parent ll_level ll_type].
+    repeat (progress (cbn [app]; rewrite <- ?app_assoc)). reflexivity.
+Qed.
+
+(* the statement-list loop of an except block over its handlers *)
+Definition needh (h : handlers) : nat := 10 + 10 * length (render_handlers h).
+Definition IHforH stk par (h : handlers) (C : list (pctx * bool)) : Prop :=
+  forall f s k Ls M mc last lv a li, needh h <= f -> li = length Ls -> ST stk s k Ls [] M mc last ((cBlk KExcept, false) :: C) lv a ->
+  toks_at k (render_handlers h ++ [tTerm KExcept]) ->
+  exists mc' last' fl, lm_type mc' = LLT_Unknown /\
+    ST stk (RUN f (slc KExcept) s) (k + length (render_handlers h))
+       (Ls ++ map ll_toks (hexpected par (1 + plain_sum C) k li h)) [] (M ++ map meta_of (hexpected par (1 + plain_sum C) k li h))
+       mc' last' ((cBlk KExcept, fl) :: C) lv a.
+Definition Phand (h : handlers) : Prop :=
+  forall stk par C, notd C -> first_parent C = par -> wf_handlers h = true -> IHforH stk par h C.
+Lemma phand_nil : Phand HNil.
+Proof.
+  intros stk par C Hnd HC Hwf f s k Ls M mc last lv a li Hf Hli H Ht.
+  exact (plist_nil stk par KExcept C ltac:(discriminate) Hnd HC eq_refl f s k Ls M mc last lv a li Hf Hli H Ht).
+Qed.
+Lemma phand_cons c r : Pcore c -> Phand r -> Phand (HCons c r).
+Proof.
+  intros Pc IHr stk par C Hnd HC Hwf f s k Ls M mc last lv a li Hf Hli H Ht; subst li.
+  cbn [wf_handlers] in Hwf. apply andb_prop in Hwf. destruct Hwf as [Hwc Hwr].
+  unfold needh in Hf. cbn [render_handlers length] in *. rewrite app_length in Hf. cbn [length] in Hf. destruct f as [|f]; try lia.
+  assert (Eq : (tOn :: tI :: tColon :: tI :: tDo :: render_stmt c ++ tSemi :: render_handlers r) ++ [tEnd]
+               = ([tOn; tI; tColon; tI; tDo] ++ (render_stmt c ++ [tSemi])) ++ (render_handlers r ++ [tEnd])).
+  { cbn [app]. rewrite <- !app_assoc. reflexivity. }
+  cbn [tTerm] in Ht. rewrite Eq in Ht.
+  assert (Hb : toks_at k ([tOn; tI; tColon; tI; tDo] ++ (render_stmt c ++ [tSemi]))) by (eapply toks_at_prefix; exact Ht).
+  set (e := k + 5 + length (render_stmt c)).
+  assert (Htr : toks_at (S e) (render_handlers r ++ [tEnd])).
+  { replace (S e) with (k + length ([tOn; tI; tColon; tI; tDo] ++ (render_stmt c ++ [tSemi]))) by (cbn [app length]; rewrite app_length; cbn [length]; unfold e; lia).
+    apply (toks_at_shift _ _ ([tOn; tI; tColon; tI; tDo] ++ (render_stmt c ++ [tSemi]))); [exact Ht|reflexivity]. }
+  assert (Ht' : exists t2, nth_error (render_handlers r ++ [tEnd]) 0 = Some t2 /\ t2 <> tSemi /\ t2 <> RTT_Eof
+                /\ ((r = HNil /\ t2 = tEnd) \/ (r <> HNil /\ t2 = tOn))).
+  { destruct r as [|c2 r2]; cbn; eexists; (split; [reflexivity|]); repeat split; try discriminate.
+    - left. split; reflexivity.
+    - right. split; [discriminate|reflexivity]. }
+  destruct Ht' as (t2 & H0 & N1 & NE & Hcase).
+  pose proof (toks_at_0 _ _ _ Htr H0) as Ht2.
+  unfold slc. rewrite (stmt_list_unfold _ _ _ _ _ (ST_err stk _ _ _ _ _ _ _ _ _ _ H)). cbv zeta.
+  change (ctx (CT_Statement (sk_of KExcept)) false P_semicolon (ParserGrammar.L 0)) with (cStk KExcept).
+  change (ParserGrammar.L 0) with (CL_Level 0%Z).
+  pose proof (iter_on stk par c C f _ _ _ _ _ _ _ _ t2 Pc Hnd HC H Hwc Hb Ht2 N1 NE ltac:(unfold need_stmt; lia)) as S2.
+  cbv zeta in S2. fold e in S2.
+  match type of S2 with ST _ ?x _ _ _ _ _ _ _ _ _ => set (s3 := x) in * end.
+  rewrite (is_ending_SB stk KExcept _ _ _ _ _ _ _ _ _ _ _ S2 Ht2).
+  cbn [hexpected]. cbv zeta. fold e.
+  set (SL := mkLine LLT_Unknown (lvl (1 + plain_sum C)) par [k; k + 1; k + 2; k + 3; k + 4]
+             :: sexpected (Some (length Ls, k + 4)) 1 (k + 5) (length Ls + 1) [e] c ++ [stray]) in *.
+  replace (k + S (S (S (S (S (length (render_stmt c ++ tSemi :: render_handlers r))))))) with (S e + length (render_handlers r))
+    by (rewrite app_length; cbn [length]; unfold e; lia).
+  replace (e + 1) with (S e) by lia.
+  destruct Hcase as [[-> ->]|[Hr ->]].
+  - (* the last handler *)
+    cbn [is_term tEnd orb hexpected map render_handlers length]. rewrite !app_nil_r, Nat.add_0_r.
+    eexists _, _, _. split; [|exact S2]. reflexivity.
+  - cbn [is_term tOn]. rewrite (ST_cur_tt stk _ _ _ _ _ _ _ _ _ _ _ S2 Ht2). cbn [tOn orb].
+    pose proof (fun Hli => IHr stk par C Hnd HC Hwr f _ _ _ _ _ _ _ _ (length Ls + length SL) ltac:(unfold needh; lia) Hli S2 Htr) as IH'.
+    destruct (IH' ltac:(rewrite app_length, map_length; reflexivity)) as (mc' & last' & fl & Ty & H4).
+    exists mc', last', fl. split; [exact Ty|].
+    eapply (ST_lists stk); [exact H4| |]; rewrite !map_app; repeat (progress (cbn [app]; rewrite <- ?app_assoc)); reflexivity.
+Qed.
+
+Lemma Pcore_tryon b h : Plist b -> Phand h -> Pcore (TTryOn b h).
+Proof.
+  intros IHb IHh stk X E pp f s k L M mc last lv a tf j t2 HP Hl H Hty Hwf Hcl Ht Htf Ej Hn Hf cons e SL.
+  destruct (tf_not_eof tf Htf) as (NE & _ & _).
+  cbn [render_stmt wf_stmt] in *. apply andb_prop in Hwf. destruct Hwf as [Hwb Hwh].
+  unfold need_stmt in Hf. cbn [render_stmt length] in Hf. rewrite !app_length in Hf. cbn [length] in Hf. rewrite app_length in Hf. cbn [length] in Hf.
+  assert (Eq : (tTry :: render b ++ tExcept :: render_handlers h ++ [tEnd]) ++ [tf] = [tTry] ++ (render b ++ [tExcept]) ++ (render_handlers h ++ [tEnd]) ++ [tf]).
+  { cbn [app]. rewrite <- !app_assoc. cbn [app]. rewrite <- !app_assoc. reflexivity. }
+  rewrite Eq in Ht.
+  pose proof (Ht 0 _ eq_refl) as Hk. rewrite Nat.add_0_r in Hk.
+  assert (Htb : toks_at (S k) (render b ++ [tExcept])).
+  { replace (S k) with (k + 1) by lia. eapply toks_at_prefix. apply (toks_at_shift k 1 [tTry]); [exact Ht|reflexivity]. }
+  set (m := S k + length (render b)).
+  assert (Ht2 : toks_at (S m) ((render_handlers h ++ [tEnd]) ++ [tf])).
+  { replace (S m) with (k + 1 + length (render b ++ [tExcept])) by (rewrite app_length; cbn [length]; unfold m; lia).
+    apply (toks_at_shift (k + 1) _ (render b ++ [tExcept])); [|reflexivity]. apply (toks_at_shift k 1 [tTry]); [exact Ht|reflexivity]. }
+  assert (Htc : toks_at (S m) (render_handlers h ++ [tEnd])) by (eapply toks_at_prefix; exact Ht2).
+  assert (Hts : toks_at (S (S m + length (render_handlers h))) [tf]).
+  { replace (S (S m + length (render_handlers h))) with (S m + length (render_handlers h ++ [tEnd])) by (rewrite app_length; cbn [length]; lia).
+    apply (toks_at_shift (S m) _ (render_handlers h ++ [tEnd])); [exact Ht2|reflexivity]. }
+  pose proof (toks_at_0 _ _ _ Hts eq_refl) as Hfo.
+  pose proof HP as [P0 _].
+  pose proof (core_try stk (first_parent X) true X E pp b (render_handlers h) (needh h) (fun k li => hexpected (first_parent X) (1 + plain_sum X) k li h)
+                f _ _ _ _ _ _ _ _ tf j HP Hl
+                (IHb stk _ KTryE X ltac:(discriminate) (pos_notd _ _ P0) eq_refl Hwb)
+                (IHh stk _ X (pos_notd _ _ P0) eq_refl Hwh) eq_refl H Hty Hk) as H1.
+  cbv zeta in H1. cbn [tTerm] in H1. specialize (H1 Htb Htc Hfo Ej NE ltac:(unfold need, needh; lia)). fold m in H1.
+  eexists. subst cons e SL. cbn [selfterm andb sexpected render_stmt length]. cbv zeta. split.
+  - replace (k + 1) with (S k) by lia. replace (length L + 1) with (S (length L)) by lia.
+    replace (plain_sum X + 1)%Z with (1 + plain_sum X)%Z by lia. fold m. replace (m + 1) with (S m) by lia.
+    replace (k + S (length (render b ++ tExcept :: render_handlers h ++ [tEnd]))) with (S (S m + length (render_handlers h)))
+      by (rewrite !app_length; cbn [length]; rewrite app_length; cbn [length]; unfold m; lia).
+    eapply (ST_lists stk); [exact H1| |]; cbn [map]; repeat (rewrite map_app; cbn [map]); cbn [map app ll_toks];
+      repeat (progress (cbn [app]; rewrite <- ?app_assoc)); reflexivity.
+  - intros _.
+    exists (mkLine LLT_Unknown (lvl (plain_sum X)) (first_parent X) [k] :: pexpected (first_parent X) (plain_sum X + 1) (k + 1) (length L + 1) b
+            ++ mkLine LLT_Unknown (lvl (plain_sum X)) (first_parent X) [k + 1 + length (render b)]
+            :: hexpected (first_parent X) (plain_sum X + 1) (k + 1 + length (render b) + 1)
+                 (length L + 1 + length (pexpected (first_parent X) (plain_sum X + 1) (k + 1) (length L + 1) b) + 1) h),
+      LLT_Unknown, [k + 1 + length (render b) + 1 + length (render_handlers h)], []. split; [discriminate|]. split.
+    + intros sm. cbn [sexpected]. cbv zeta. cbn [app]. rewrite <- app_assoc. cbn [app]. reflexivity.
+    + cbn [length]. rewrite ?app_length. cbn [length]. replace (k + 1) with (S k) by lia. replace (length L + 1) with (S (length L)) by lia.
+      replace (plain_sum X + 1)%Z with (1 + plain_sum X)%Z by lia. fold m. replace (m + 1) with (S m) by lia. lia.
+Qed.
+
+(* ---------------- every statement list of the fragment *)
+Theorem stmts_run : forall ss, Plist ss.
+Proof.
+  apply (stmts_mut Pcore Plist Parms Phand).
+  - exact Pcore_simple.
+  - exact Pcore_assign.
+  - exact Pcore_block.
+  - exact Pcore_repeat.
+  - intros b IHb c IHc. exact (Pcore_try false b c IHb IHc).
+  - intros b IHb c IHc. exact (Pcore_try true b c IHb IHc).
+  - intros b IHb h IHh. exact (Pcore_tryon b h IHb IHh).
+  - exact Pcore_if.
+  - intros c1 H1 c2 H2. exact (Pcore_ifelse c1 c2 H1 H2).
+  - exact Pcore_while.
+  - exact Pcore_case.
+  - intros a Ha e He. exact (Pcore_caseelse a e Ha He).
+  - exact plist_nil.
+  - intros c Hc r Hr. exact (plist_cons c r Hc Hr).
+  - exact arms_nil_run.
+  - intros c Hc r Hr. exact (arms_cons_run c r Hc Hr).
+  - exact phand_nil.
+  - intros c Hc r Hr. exact (phand_cons c r Hc Hr).
+Qed.
+
+(* ---------------- a whole program: [declarations] `begin` ss `end` `.` Eof *)
+(* the top level: parse_file's outer loop around the one top-level parse_structures call *)
+Definition top_tail (f : nat) (sX : pstate) : pstate :=
+  let s3 := take_separators_on_last_line pass (ParserGrammar.L 0) (finish_logical_line pass (pop_ctx pass sX)) in
+  let s4 := if is_ending pass s3 || match cur_tt pass s3 with None => true | Some _ => false end then s3
+            else RUN f (C_stmt_list CT_TopLevelStatement true P_top_semicolon) s3 in
+  finish_logical_line pass (set_line_type pass LLT_Eof (next_token pass (finish_logical_line pass s4))).
+Lemma top_head f s0 : has_err pass s0 = false ->
+  RUN (S (S (S f))) C_top s0 = top_tail (S f) (RUN f C_structures (push_ctx pass cTop (finish_logical_line pass s0))).
+Proof.
+  intros E. rewrite (run_S _ C_top _ E). unfold arm_top. cbv zeta.
+  rewrite (stmt_list_unfold _ _ _ _ _ E). cbv zeta.
   change (ctx CT_TopLevelStatement true P_top_semicolon (ParserGrammar.L 0)) with cTop.
-  rewrite (with_ctx_structures _ cTop s0 (ST_err (@nil nat) _ _ _ _ _ _ _ _ _ _ H) eq_refl).
-  pose proof (finish_empty_ST (@nil nat) _ _ _ _ _ _ _ _ _ H) as H0.
-  pose proof (push_ctx_ST (@nil nat) cTop _ _ _ _ _ _ _ _ _ _ H0) as H1.
+  rewrite (with_ctx_structures _ cTop s0 E eq_refl). reflexivity.
+Qed.
+(* the end of the file: parse_structures has returned in front of Eof *)
+Lemma top_tail_run f sX k L M mc last lv a :
+  ST [] sX k L [] M mc last [(cTop, false)] lv a -> nth_error T k = Some RTT_Eof -> n = S k ->
+  exists mc' last',
+  ST [] (top_tail f sX) n (L ++ [[k]]) [] (M ++ [mkLM None 0%N LLT_Eof]) mc' last' [] lv a.
+Proof.
+  intros H9 HtE Hn. unfold top_tail. cbv zeta.
+  assert (Hen2 : tokfin k) by (exists RTT_Eof; split; [exact HtE|reflexivity]).
+  pose proof (pop_ctx_ST (@nil nat) _ _ _ _ _ _ _ _ _ _ _ H9) as H10.
+  pose proof (finish_empty_ST (@nil nat) _ _ _ _ _ _ _ _ _ H10) as H11.
+  rewrite (take_separators_noop (@nil nat) _ _ _ _ _ _ _ _ _ _ _ RTT_Eof H11 HtE) by discriminate.
+  rewrite (ST_cur_tt (@nil nat) _ _ _ _ _ _ _ _ _ _ _ H11 HtE). rewrite orb_true_r.
+  pose proof (finish_empty_ST (@nil nat) _ _ _ _ _ _ _ _ _ H11) as H12.
+  pose proof (next_token_ST (@nil nat) _ _ _ _ _ _ _ _ _ _ H12 Hen2) as H13. cbn [app] in H13.
+  pose proof (set_line_type_ST (@nil nat) LLT_Eof _ _ _ _ _ _ _ _ _ _ H13) as H14.
+  pose proof (finish_ST (@nil nat) _ _ _ _ _ _ _ _ _ _ H14 ltac:(discriminate)) as H15.
+  cbn [first_parent plain_sum lm_type] in H15. change (clamp_u16 0) with 0%N in H15.
+  rewrite <- Hn in H15. eexists _, _. exact H15.
+Qed.
+(* the main block `begin` ss `end` `.` inside the top-level parse_structures loop *)
+Lemma main_core ss f s1 K Ls M mc last lv a :
+  wf ss = true -> ST [] s1 K Ls [] M mc last [(cTop, false)] lv a -> lm_type mc = LLT_Unknown ->
+  nth_error T K = Some tBegin -> toks_at (S K) (render ss ++ [tEnd]) ->
+  nth_error T (S (S K + length (render ss))) = Some tDot ->
+  nth_error T (S (S (S K + length (render ss)))) = Some RTT_Eof ->
+  8 + need ss <= f ->
+  let e := S K + length (render ss) in
+  exists last',
+    ST [] (RUN f C_structures s1) (S (S e))
+       (Ls ++ [K] :: map ll_toks (pexpected None 1 (S K) (S (length Ls)) ss) ++ [[e; S e]]) []
+       (M ++ mkLM None 0%N LLT_Unknown :: map meta_of (pexpected None 1 (S K) (S (length Ls)) ss) ++ [mkLM None 0%N LLT_Unknown])
+       (mkLM None 0%N LLT_Unknown) last' [(cTop, false)] lv a.
+Proof.
+  intros Hwf H1 Hty Ht0 Htb HtD HtE Hf e.
+  destruct f as [|[|[|f]]]; try lia.
+  assert (H0n : tokfin K) by tokfin_tac.
   rewrite (run_S _ C_structures _ (ST_err (@nil nat) _ _ _ _ _ _ _ _ _ _ H1)).
   unfold arm_structures. rewrite (ST_cur_tt (@nil nat) _ _ _ _ _ _ _ _ _ _ _ H1 Ht0). cbn [tBegin].
-  assert (E1 : ending_ctx pass (push_ctx pass cTop (finish_logical_line pass s0)) = None).
+  assert (E1 : ending_ctx pass s1 = None).
   { unfold ending_ctx. rewrite (ST_ctx (@nil nat) _ _ _ _ _ _ _ _ _ _ H1). cbn [ending_go cTop ctx c_pred c_opaque eval_pred].
     rewrite (ST_cur_tt (@nil nat) _ _ _ _ _ _ _ _ _ _ _ H1 Ht0). reflexivity. }
-  rewrite E1. cbn [sarm_of]. cbv delta [sa_begin stmt_block] beta.
+  rewrite E1. cbn [sarm_of tBegin]. cbv delta [sa_begin stmt_block] beta.
   pose proof (next_token_ST (@nil nat) _ _ _ _ _ _ _ _ _ _ H1 H0n) as H2. cbn [app] in H2.
   change (ctx (CT_StatementBlock BK_Begin) true P_end (ParserGrammar.L 1)) with (cBlk KBegin).
   rewrite (run_S _ (C_stmt_block (cBlk KBegin) SK_Normal) _ (ST_err (@nil nat) _ _ _ _ _ _ _ _ _ _ H2)). unfold arm_stmt_block.
   rewrite (with_ctx_stmt_list _ (cBlk KBegin) _ _ (ST_err (@nil nat) _ _ _ _ _ _ _ _ _ _ H2) eq_refl).
   pose proof (finish_ST (@nil nat) _ _ _ _ _ _ _ _ _ _ H2 ltac:(discriminate)) as H3.
-  cbn [first_parent plain_sum cTop ctx c_level ParserGrammar.L lm_type app length] in H3.
+  cbn [first_parent plain_sum cTop ctx c_level ParserGrammar.L app length] in H3. rewrite Hty in H3.
   change (clamp_u16 (0 + 0)) with 0%N in H3.
   pose proof (push_ctx_ST (@nil nat) (cBlk KBegin) _ _ _ _ _ _ _ _ _ _ H3) as H4.
-  pose proof (fun Hli => stmts_run ss [] None KBegin [(cTop, false)] ltac:(discriminate) eq_refl eq_refl (S f) _ _ _ _ _ _ _ _ 1 ltac:(lia) Hli H4 Htb) as SRn.
-  destruct (SRn eq_refl) as (mcb & lastb & flb & Tyb & H5).
+  pose proof (fun Hli => stmts_run ss [] None KBegin [(cTop, false)] ltac:(discriminate) eq_refl eq_refl Hwf f _ _ _ _ _ _ _ _ (S (length Ls)) ltac:(lia) Hli H4 Htb) as SRn.
+  destruct (SRn ltac:(rewrite app_length; cbn [length]; lia)) as (mcb & lastb & flb & Tyb & H5).
   change (C_stmt_list (CT_Statement SK_Normal) false P_semicolon) with (slc KBegin).
   cbn [plain_sum cTop ctx c_level ParserGrammar.L] in H5. change (1 + (0 + 0))%Z with 1%Z in H5.
   pose proof (pop_ctx_ST (@nil nat) _ _ _ _ _ _ _ _ _ _ _ H5) as H6.
-  change (1 + length (render ss)) with e in H6.
-  set (sB := pop_ctx pass (RUN (S f) (slc KBegin) (push_ctx pass (cBlk KBegin) (finish_logical_line pass (next_token pass (push_ctx pass cTop (finish_logical_line pass s0))))))) in *.
+  fold e in H6.
+  match type of H6 with ST _ ?x _ _ _ _ _ _ _ _ _ => set (sB := x) in * end.
   assert (He : nth_error T e = Some tEnd).
   { specialize (Htb (length (render ss)) tEnd). rewrite nth_error_app2, Nat.sub_diag in Htb by lia. exact (Htb eq_refl). }
-  assert (Hen : e < n) by (unfold e; lia). assert (Hen1 : S e < n) by (unfold e; lia). assert (Hen2 : S (S e) < n) by (unfold e; lia).
+  assert (Hen : tokfin e) by tokfin_tac. assert (Hen1 : tokfin (S e)) by (exists tDot; split; [exact HtD|reflexivity]).
   rewrite (ST_cur_tt (@nil nat) _ _ _ _ _ _ _ _ _ _ _ H6 He). cbn [tEnd o_kw_end].
   pose proof (next_token_ST (@nil nat) _ _ _ _ _ _ _ _ _ _ H6 Hen) as H7. cbn [app] in H7.
   rewrite (ST_cur_tt (@nil nat) _ _ _ _ _ _ _ _ _ _ _ H7 HtD). cbn [tDot o_dot].
@@ -2956,33 +3012,446 @@ Proof.
   unfold s_loop.
   rewrite (run_S _ C_structures _ (ST_err (@nil nat) _ _ _ _ _ _ _ _ _ _ H9)).
   unfold arm_structures. rewrite (ST_cur_tt (@nil nat) _ _ _ _ _ _ _ _ _ _ _ H9 HtE).
-  pose proof (pop_ctx_ST (@nil nat) _ _ _ _ _ _ _ _ _ _ _ H9) as H10.
-  pose proof (finish_empty_ST (@nil nat) _ _ _ _ _ _ _ _ _ H10) as H11.
-  rewrite (take_separators_noop (@nil nat) _ _ _ _ _ _ _ _ _ _ _ RTT_Eof H11 HtE) by discriminate.
-  rewrite (ST_cur_tt (@nil nat) _ _ _ _ _ _ _ _ _ _ _ H11 HtE). rewrite orb_true_r.
-  (* the Eof line *)
-  pose proof (finish_empty_ST (@nil nat) _ _ _ _ _ _ _ _ _ H11) as H12.
-  pose proof (next_token_ST (@nil nat) _ _ _ _ _ _ _ _ _ _ H12 Hen2) as H13. cbn [app] in H13.
-  pose proof (set_line_type_ST (@nil nat) LLT_Eof _ _ _ _ _ _ _ _ _ _ H13) as H14.
-  pose proof (finish_ST (@nil nat) _ _ _ _ _ _ _ _ _ _ H14 ltac:(discriminate)) as H15.
-  cbn [first_parent plain_sum lm_type] in H15. change (clamp_u16 0) with 0%N in H15.
-  assert (Hn' : S (S (S e)) = n) by (unfold e; lia). rewrite Hn' in H15.
-  eexists _, _. eapply (ST_lists []).
-  - exact H15.
+  eexists. eapply (ST_lists []).
+  - exact H9.
   - cbn [app]. repeat (progress (cbn [app]; rewrite <- ?app_assoc)). reflexivity.
   - cbn [app]. repeat (progress (cbn [app]; rewrite <- ?app_assoc)). reflexivity.
 Qed.
+Theorem prog_run ss f s0 mc0 last0 lv a :
+  wf ss = true -> ST [] s0 0 [] [] [] mc0 last0 [] lv a ->
+  nth_error T 0 = Some tBegin -> toks_at 1 (render ss ++ [tEnd]) ->
+  nth_error T (S (S (length (render ss)))) = Some tDot ->
+  nth_error T (S (S (S (length (render ss))))) = Some RTT_Eof ->
+  n = S (S (S (S (length (render ss))))) ->
+  12 + need ss <= f ->
+  let e := S (length (render ss)) in
+  exists mc' last',
+    ST [] (RUN f C_top s0) n
+       ([0] :: map ll_toks (pexpected None 1 1 1 ss) ++ [[e; S e]; [S (S e)]]) []
+       (mkLM None 0%N LLT_Unknown :: map meta_of (pexpected None 1 1 1 ss) ++ [mkLM None 0%N LLT_Unknown; mkLM None 0%N LLT_Eof])
+       mc' last' [] lv a.
+Proof.
+  intros Hwf H Ht0 Htb HtD HtE Hn Hf e.
+  destruct f as [|[|[|f]]]; try lia.
+  rewrite (top_head f s0 (ST_err (@nil nat) _ _ _ _ _ _ _ _ _ _ H)).
+  pose proof (finish_empty_ST (@nil nat) _ _ _ _ _ _ _ _ _ H) as H0.
+  pose proof (push_ctx_ST (@nil nat) cTop _ _ _ _ _ _ _ _ _ _ H0) as H1.
+  destruct (main_core ss f _ 0 [] [] _ _ _ _ Hwf H1 eq_refl Ht0 Htb HtD HtE ltac:(lia)) as (last1 & H9).
+  cbv zeta in H9. fold e in H9.
+  destruct (top_tail_run (S f) _ _ _ _ _ _ _ _ H9 HtE ltac:(unfold e; lia)) as (mc' & last' & H15).
+  exists mc', last'. eapply (ST_lists []); [exact H15| |]; repeat (progress (cbn [app]; rewrite <- ?app_assoc)); reflexivity.
+Qed.
+
+(* ================================================================== *)
+(* declaration sections in front of the main block: `var` (x : T ;)*, `const` (c = d ;)* *)
+(* re-typing the current token and consuming it *)
+Lemma upd_cur_next_ST stk g s k L c M mc last cx lv a t :
+  ST stk s k L c M mc last cx lv a -> nth_error T k = Some t -> t <> RTT_Eof -> g t = Some (fin t) ->
+  has_err pass (upd_cur pass g s) = false /\
+  ST stk (next_token pass (upd_cur pass g s)) (S k) L (c ++ [k]) M mc last cx lv a.
+Proof.
+  intros H Hk HnE Hg. pose proof (ST_err stk _ _ _ _ _ _ _ _ _ _ H) as E.
+  assert (Hkn : k < n) by (apply nth_error_Some; congruence).
+  assert (Tk : ps_toks pass s = mix k) by exact (ST_toks stk _ _ _ _ _ _ _ _ _ _ H).
+  assert (Ec : upd_cur pass g s = set_toks pass (mix (S k)) s).
+  { unfold upd_cur, idx0. rewrite (ST_cur_index stk _ _ _ _ _ _ _ _ _ _ H Hkn).
+    unfold tt_at. rewrite Tk, (mix_nth_ge k k (le_n k)), Hk.
+    assert (X : match t with RTT_Eof => @None nat | _ => Some k end = Some k) by (destruct t; try reflexivity; contradiction HnE; reflexivity).
+    rewrite X. rewrite (mix_nth_ge k k (le_n k)), Hk. cbn [bind]. rewrite Hg.
+    unfold set_tok, guard. rewrite E, Tk, (mix_retype k _ Hk). reflexivity. }
+  rewrite Ec. set (s' := set_toks pass (mix (S k)) s).
+  assert (E' : has_err pass s' = false) by exact E.
+  split; [exact E'|].
+  destruct (next_token_G s' (mix (S k)) k E' eq_refl (mix_plain (S k)) (ST_pidx stk _ _ _ _ _ _ _ _ _ _ H) Hkn (mix_length (S k))) as (K1 & M1 & R1).
+  destruct H as (K & Mt & Ml & R). split; [|split; [|split]].
+  - rewrite K1. change (kst pass s') with (kst pass s). rewrite K. cbn [k_step k_pi k_lines k_cur k_last k_top hd].
+    rewrite (nth_error_seq0 _ _ Hkn). rewrite upd_nth_app_last. reflexivity.
+  - rewrite M1. exact Mt.
+  - exact Ml.
+  - rewrite R1. unfold restv in *. subst s'. cbn. injection R as R1' R2 R3 R4 R5 R6 R7. rewrite R2, R3, R4, R5, R6, R7. reflexivity.
+Qed.
+(* take_until no_more_separators in front of one `;` that does not end a context: the `;` is consumed *)
+Lemma take_until_semi stk s k L c M mc last cx lv a t' :
+  ST stk s k L c M mc last cx lv a -> nth_error T k = Some tSemi -> nth_error T (S k) = Some t' -> t' <> tSemi ->
+  ending_ctx pass s = None ->
+  take_until pass (no_more_separators pass) s = next_token pass s.
+Proof.
+  intros H Hk Hk1 Hne En. pose proof (ST_err stk _ _ _ _ _ _ _ _ _ _ H) as E.
+  pose proof (next_token_ST stk _ _ _ _ _ _ _ _ _ _ H (tokfin_semi k Hk)) as H1.
+  unfold take_until, simple_op_until, op_until.
+  assert (Hrem : remaining pass s + 2 = S (S (remaining pass s))) by lia. rewrite Hrem.
+  cbn [op_until_go]. rewrite E, (ST_cur_tt stk _ _ _ _ _ _ _ _ _ _ _ H Hk). cbn [tSemi].
+  unfold no_more_separators at 1. rewrite (ST_cur_tt stk _ _ _ _ _ _ _ _ _ _ _ H Hk). cbn [tSemi o_semicolon negb].
+  unfold is_ending. rewrite En.
+  rewrite (ST_err stk _ _ _ _ _ _ _ _ _ _ H1), (ST_cur_tt stk _ _ _ _ _ _ _ _ _ _ _ H1 Hk1).
+  destruct t' as [o| |k0|k0| | | | | | |]; try reflexivity;
+    unfold no_more_separators; rewrite (ST_cur_tt stk _ _ _ _ _ _ _ _ _ _ _ H1 Hk1); try reflexivity.
+  destruct o; try reflexivity. exfalso. apply Hne. reflexivity.
+Qed.
+
+(* the members of a declaration block *)
+Definition cDecl : pctx := ctx CT_DeclarationBlock true P_declaration_section (ParserGrammar.L 1).
+Definition Xd : list (pctx * bool) := [(cDecl, false); (cTop, false)].
+Definition is_sect (t : RawTokenType) : bool :=
+  match t with RTT_Keyword (KK_Var _ | KK_Const _ | KK_Begin) => true | _ => false end.
+Lemma declsec_eq (s : pstate) t : cur_tt pass s = Some t -> t <> RTT_Keyword KK_Class ->
+  declaration_section pass s =
+  match t with
+  | RTT_Keyword kk | RTT_IdentifierOrKeyword kk =>
+      match kk with
+      | KK_Exports | KK_Begin | KK_Asm | KK_Class | KK_Property | KK_Function | KK_Procedure | KK_Constructor
+      | KK_Destructor | KK_End | KK_Implementation | KK_Initialization | KK_Finalization => true
+      | KK_Strict | KK_Private | KK_Protected | KK_Public | KK_Published | KK_Automated => is_in_type_decl pass s
+      | _ => KeywordKind_is_decl_section kk
+      end
+  | _ => false
+  end.
+Proof.
+  intros Hc Hn. unfold declaration_section. rewrite Hc.
+  destruct (prev_tt pass s) as [[o| |k0|k0| | | | | | |]|]; try reflexivity.
+  - destruct o; try reflexivity. destruct t as [o| |k1|k1| | | | | | |]; try reflexivity. destruct k1; try reflexivity. contradiction Hn; reflexivity.
+  - destruct k0; try reflexivity. destruct t as [o| |k1|k1| | | | | | |]; try reflexivity. destruct k1; try reflexivity. contradiction Hn; reflexivity.
+Qed.
+Lemma ending_Xd stk s k L c M mc last lv a t :
+  ST stk s k L c M mc last Xd lv a -> nth_error T k = Some t -> (is_sect t = true \/ t = tI \/ t = tColon \/ t = tEq \/ t = tSemi) ->
+  ending_ctx pass s = if is_sect t then Some 1 else None.
+Proof.
+  intros H Ht Hc. unfold ending_ctx. rewrite (ST_ctx stk _ _ _ _ _ _ _ _ _ _ H). unfold Xd. cbn [ending_go cDecl ctx c_pred c_opaque eval_pred].
+  assert (HnE : t <> RTT_Eof) by (destruct Hc as [Hc|[->|[->|[->| ->]]]]; try discriminate; intros ->; discriminate).
+  assert (Ct : cur_tt pass s = Some t).
+  { rewrite (ST_cur_tt stk _ _ _ _ _ _ _ _ _ _ _ H Ht). destruct t; try reflexivity. contradiction HnE; reflexivity. }
+  rewrite (declsec_eq s t Ct) by (destruct Hc as [Hc|[->|[->|[->| ->]]]]; try discriminate; intros ->; discriminate).
+  destruct Hc as [Hc|[->|[->|[->| ->]]]]; try reflexivity.
+  destruct t as [o| |k0|k0| | | | | | |]; try discriminate. destruct k0; try discriminate; reflexivity.
+Qed.
+
+Lemma mix_nth_lt r i : i < r -> nth_error (mix r) i = option_map fin (nth_error T i).
+Proof.
+  intros H. unfold mix. destruct (Nat.lt_ge_cases i n) as [Hi|Hi].
+  - rewrite nth_error_app1 by (rewrite map_length, firstn_length; lia).
+    rewrite nth_error_map. f_equal. rewrite <- (firstn_skipn r T) at 2. rewrite nth_error_app1 by (rewrite firstn_length; lia). reflexivity.
+  - rewrite (proj2 (nth_error_None T i) Hi). cbn. apply nth_error_None. rewrite app_length, map_length, <- app_length, firstn_skipn. exact Hi.
+Qed.
+Lemma prelude_ns stk s k L c M mc last x fl r lv a :
+  ST stk s k L c M mc last ((x, fl) :: r) lv a -> ending_ctx pass s = None -> c <> [] -> statement_prelude pass s = (s, true).
+Proof.
+  intros H E Hc. unfold statement_prelude. rewrite (last_ctx_ST stk _ _ _ _ _ _ _ _ _ _ _ _ H), E, (ST_at_start stk _ _ _ _ _ _ _ _ _ _ H).
+  destruct c; [contradiction|reflexivity].
+Qed.
+Lemma Xd_ctype stk s k L c M mc last lv a : ST stk s k L c M mc last Xd lv a -> last_ctype pass s = Some CT_DeclarationBlock.
+Proof. intros H. unfold last_ctype. rewrite (last_ctx_ST stk _ _ _ _ _ _ _ _ _ _ _ _ H). reflexivity. Qed.
+Lemma Xd_none stk s k L c M mc last lv a t :
+  ST stk s k L c M mc last Xd lv a -> nth_error T k = Some t -> (t = tI \/ t = tColon \/ t = tEq \/ t = tSemi) -> ending_ctx pass s = None.
+Proof. intros H Hk Ht. rewrite (ending_Xd stk _ _ _ _ _ _ _ _ _ _ H Hk (or_intror Ht)). destruct Ht as [->|[->|[->| ->]]]; reflexivity. Qed.
+
+(* the name that starts a member: the line becomes a Declaration line *)
+Lemma decl_name stk f s k L M mc last lv a :
+  ST stk s k L [] M mc last Xd lv a -> nth_error T k = Some tI ->
+  RUN (S f) C_statement s = RUN f C_statement (next_token pass (set_line_type pass LLT_Declaration s)).
+Proof.
+  intros H Hk. pose proof (Xd_none stk _ _ _ _ _ _ _ _ _ _ H Hk ltac:(left; reflexivity)) as E0.
+  rewrite (run_S _ C_statement _ (ST_err stk _ _ _ _ _ _ _ _ _ _ H)).
+  unfold arm_statement. rewrite (ST_cur_tt stk _ _ _ _ _ _ _ _ _ _ _ H Hk). cbn [tI].
+  assert (Pr : statement_prelude pass s = (set_line_type pass LLT_Declaration s, true)).
+  { unfold statement_prelude. rewrite (last_ctx_ST stk _ _ _ _ _ _ _ _ _ _ _ _ H), E0, (ST_at_start stk _ _ _ _ _ _ _ _ _ _ H). reflexivity. }
+  rewrite Pr. cbn [negb starm_of tI].
+  pose proof (set_line_type_ST stk LLT_Declaration _ _ _ _ _ _ _ _ _ _ H) as H0.
+  unfold st_label_cand, label_or_other.
+  assert (Lx : is_label_ctx_excluded pass (set_line_type pass LLT_Declaration s) = true).
+  { unfold is_label_ctx_excluded. rewrite (Xd_ctype stk _ _ _ _ _ _ _ _ _ H0). reflexivity. }
+  rewrite Lx, andb_false_r. reflexivity.
+Qed.
+Lemma decl_ident stk f s k L c M mc last lv a :
+  ST stk s k L c M mc last Xd lv a -> c <> [] -> nth_error T k = Some tI ->
+  RUN (S f) C_statement s = RUN f C_statement (next_token pass s).
+Proof.
+  intros H Hc Hk. pose proof (Xd_none stk _ _ _ _ _ _ _ _ _ _ H Hk ltac:(left; reflexivity)) as E0.
+  rewrite (run_S _ C_statement _ (ST_err stk _ _ _ _ _ _ _ _ _ _ H)).
+  unfold arm_statement. rewrite (ST_cur_tt stk _ _ _ _ _ _ _ _ _ _ _ H Hk). cbn [tI].
+  rewrite (prelude_ns stk _ _ _ _ _ _ _ _ _ _ _ _ H E0 Hc). cbn [negb starm_of tI].
+  unfold st_label_cand, label_or_other.
+  rewrite (ST_at_start stk _ _ _ _ _ _ _ _ _ _ H). destruct c; [contradiction|reflexivity].
+Qed.
+Lemma decl_colon stk f s k L c M mc last lv a :
+  ST stk s k L c M mc last Xd lv a -> c <> [] -> lm_type mc = LLT_Declaration -> nth_error T k = Some tColon -> nth_error T (S k) = Some tI ->
+  RUN (S f) C_statement s = RUN f C_statement (next_token pass s).
+Proof.
+  intros H Hc Hty Hk Hk1. pose proof (Xd_none stk _ _ _ _ _ _ _ _ _ _ H Hk ltac:(right; left; reflexivity)) as E0.
+  rewrite (run_S _ C_statement _ (ST_err stk _ _ _ _ _ _ _ _ _ _ H)).
+  unfold arm_statement. rewrite (ST_cur_tt stk _ _ _ _ _ _ _ _ _ _ _ H Hk). cbn [tColon].
+  rewrite (prelude_ns stk _ _ _ _ _ _ _ _ _ _ _ _ H E0 Hc). cbn [negb starm_of tColon].
+  unfold st_colon.
+  assert (LP : line_parent_of_current pass s = Some (length L, k)).
+  { unfold line_parent_of_current. rewrite (ST_cur_index stk _ _ _ _ _ _ _ _ _ _ H ltac:(apply nth_error_Some; congruence)), (ST_cur_ref stk _ _ _ _ _ _ _ _ _ _ H). reflexivity. }
+  rewrite LP.
+  pose proof (next_token_ST stk _ _ _ _ _ _ _ _ _ _ H ltac:(exists tColon; split; [exact Hk|reflexivity])) as H2.
+  rewrite (ST_cur_type stk _ _ _ _ _ _ _ _ _ _ H2), Hty. cbn [llt_is LogicalLineType_eqb LogicalLineType_idx Nat.eqb].
+  rewrite (Xd_ctype stk _ _ _ _ _ _ _ _ _ H2), (ST_cur_tt stk _ _ _ _ _ _ _ _ _ _ _ H2 Hk1). cbn [tI]. unfold t_loop.
+  rewrite (caret_noop_G _ (toks_plain_G _ _ (ST_toks stk _ _ _ _ _ _ _ _ _ _ H2))). reflexivity.
+Qed.
+(* the `=` of a constant: re-typed to a declaration `=` *)
+Lemma decl_eq stk f s k k0 L M mc last lv a :
+  ST stk s k L [k0] M mc last Xd lv a -> k0 < k -> nth_error T k0 = Some tI -> nth_error T k = Some tEq ->
+  exists s', RUN (S f) C_statement s = RUN f C_statement s' /\ ST stk s' (S k) L [k0; k] M mc last Xd lv a.
+Proof.
+  intros H Hlt Hk0 Hk. pose proof (Xd_none stk _ _ _ _ _ _ _ _ _ _ H Hk ltac:(right; right; left; reflexivity)) as E0.
+  rewrite (run_S _ C_statement _ (ST_err stk _ _ _ _ _ _ _ _ _ _ H)).
+  unfold arm_statement. rewrite (ST_cur_tt stk _ _ _ _ _ _ _ _ _ _ _ H Hk). cbn [tEq].
+  rewrite (prelude_ns stk _ _ _ _ _ _ _ _ _ _ _ _ H E0 ltac:(discriminate)). cbn [negb starm_of].
+  unfold st_equal. rewrite (Xd_ctype stk _ _ _ _ _ _ _ _ _ H).
+  assert (CL : cur_line_tts pass s = [tI]).
+  { unfold cur_line_tts. rewrite (ST_cur_toks stk _ _ _ _ _ _ _ _ _ _ H). cbn [flat_map]. unfold tt_at.
+    rewrite (ST_toks stk _ _ _ _ _ _ _ _ _ _ H), (mix_nth_lt k k0 Hlt), Hk0. reflexivity. }
+  rewrite CL. cbn [existsb tI negb andb orb].
+  destruct (upd_cur_next_ST stk (fun _ => Some (RTT_Op (OK_Equal EK_Decl))) _ _ _ _ _ _ _ _ _ _ tEq H Hk ltac:(discriminate) eq_refl) as [Eu H2].
+  cbn [app] in H2. unfold set_current_token_type.
+  rewrite (Xd_ctype stk _ _ _ _ _ _ _ _ _ H2). unfold t_loop. eexists. split; [reflexivity|exact H2].
+Qed.
+Lemma decl_semi stk f s k L c M mc last lv a t' :
+  ST stk s k L c M mc last Xd lv a -> c <> [] -> nth_error T k = Some tSemi -> nth_error T (S k) = Some t' -> t' <> tSemi ->
+  RUN (S f) C_statement s = finish_logical_line pass (next_token pass s).
+Proof.
+  intros H Hc Hk Hk1 Hne. pose proof (Xd_none stk _ _ _ _ _ _ _ _ _ _ H Hk ltac:(right; right; right; reflexivity)) as E0.
+  rewrite (run_S _ C_statement _ (ST_err stk _ _ _ _ _ _ _ _ _ _ H)).
+  unfold arm_statement. rewrite (ST_cur_tt stk _ _ _ _ _ _ _ _ _ _ _ H Hk). cbn [tSemi].
+  rewrite (prelude_ns stk _ _ _ _ _ _ _ _ _ _ _ _ H E0 Hc). cbn [negb starm_of].
+  unfold st_semicolon. rewrite (take_until_semi stk _ _ _ _ _ _ _ _ _ _ _ H Hk Hk1 Hne E0). reflexivity.
+Qed.
+(* one member `Identifier : Identifier ;` or `Identifier = Identifier ;` *)
+Lemma member_run (cst : bool) stk f s k L M mc last lv a t' :
+  ST stk s k L [] M mc last Xd lv a ->
+  nth_error T k = Some tI -> nth_error T (S k) = Some (if cst then tEq else tColon) -> nth_error T (S (S k)) = Some tI ->
+  nth_error T (S (S (S k))) = Some tSemi -> nth_error T (S (S (S (S k)))) = Some t' -> t' <> tSemi -> 4 <= f ->
+  ST stk (RUN f C_statement s) (S (S (S (S k)))) (L ++ [[k; S k; S (S k); S (S (S k))]]) []
+     (M ++ [mkLM None 1%N LLT_Declaration]) (mkLM None 1%N LLT_Unknown) (length L) Xd lv a.
+Proof.
+  intros H Hk Hk1 Hk2 Hk3 Hk4 Hne Hf. destruct f as [|[|[|[|f]]]]; try lia.
+  assert (Hkn : tokfin k) by tokfin_tac. assert (Hkn2 : tokfin (S (S k))) by tokfin_tac.
+  rewrite (decl_name stk _ _ _ _ _ _ _ _ _ H Hk).
+  pose proof (set_line_type_ST stk LLT_Declaration _ _ _ _ _ _ _ _ _ _ H) as H0.
+  pose proof (next_token_ST stk _ _ _ _ _ _ _ _ _ _ H0 Hkn) as H1. cbn [app] in H1.
+  assert (S2 : exists s2, RUN (S (S (S f))) C_statement (next_token pass (set_line_type pass LLT_Declaration s)) = RUN (S (S f)) C_statement s2 /\
+               ST stk s2 (S (S k)) L [k; S k] M (mkLM (lm_parent mc) (lm_level mc) LLT_Declaration) last Xd lv a).
+  { destruct cst.
+    - exact (decl_eq stk _ _ _ _ _ _ _ _ _ _ H1 (Nat.lt_succ_diag_r k) Hk Hk1).
+    - eexists. split; [exact (decl_colon stk _ _ _ _ _ _ _ _ _ _ H1 ltac:(discriminate) eq_refl Hk1 Hk2)|].
+      exact (next_token_ST stk _ _ _ _ _ _ _ _ _ _ H1 ltac:(exists tColon; split; [exact Hk1|reflexivity])). }
+  destruct S2 as (s2 & -> & H2).
+  rewrite (decl_ident stk _ _ _ _ _ _ _ _ _ _ H2 ltac:(discriminate) Hk2).
+  pose proof (next_token_ST stk _ _ _ _ _ _ _ _ _ _ H2 Hkn2) as H3. cbn [app] in H3.
+  rewrite (decl_semi stk _ _ _ _ _ _ _ _ _ _ _ H3 ltac:(discriminate) Hk3 Hk4 Hne).
+  pose proof (next_token_ST stk _ _ _ _ _ _ _ _ _ _ H3 (tokfin_semi _ Hk3)) as H4. cbn [app] in H4.
+  pose proof (finish_ST stk _ _ _ _ _ _ _ _ _ _ H4 ltac:(discriminate)) as H5.
+  exact H5.
+Qed.
+
+(* the members of one section, up to the keyword that starts the next section or the main block *)
+Lemma is_sect_ne t : is_sect t = true -> t <> RTT_Eof /\ t <> tSemi.
+Proof. intros H. split; intros ->; discriminate. Qed.
+Lemma members_run (cst : bool) stk n : forall f s k L M mc last lv a t',
+  ST stk s k L [] M mc last Xd lv a -> lm_type mc = LLT_Unknown ->
+  toks_at k (render_members [tI; (if cst then tEq else tColon); tI; tSemi] n ++ [t']) -> is_sect t' = true -> n + 5 <= f ->
+  exists mc' last', lm_type mc' = LLT_Unknown /\
+  ST stk (RUN f C_structures s) (k + 4 * n) (L ++ map ll_toks (member_lines k n)) []
+     (M ++ map meta_of (member_lines k n)) mc' last' (mark_ended 1 Xd) lv a.
+Proof.
+  induction n as [|n IH]; intros f s k L M mc last lv a t' H Hty Ht Hs Hf.
+  - destruct f as [|f]; [lia|]. cbn [render_members app] in Ht. pose proof (toks_at_0 _ _ _ Ht eq_refl) as Hk.
+    destruct (is_sect_ne _ Hs) as [HnE _].
+    pose proof (ending_Xd stk _ _ _ _ _ _ _ _ _ _ H Hk (or_introl Hs)) as E. rewrite Hs in E.
+    rewrite (structures_stop stk _ _ _ _ _ _ _ _ _ _ _ _ _ H Hk HnE E).
+    cbn [member_lines map Nat.mul]. rewrite !app_nil_r, Nat.add_0_r.
+    exists mc, last. split; [exact Hty|]. exact (update_statuses_ST stk 1 _ _ _ _ _ _ _ _ _ _ H).
+  - destruct f as [|f]; [lia|]. cbn [render_members] in Ht.
+    assert (Hk : nth_error T k = Some tI) by exact (toks_at_0 _ _ _ Ht eq_refl).
+    assert (Hk1 : nth_error T (S k) = Some (if cst then tEq else tColon)) by (rewrite <- Nat.add_1_r; exact (Ht 1 _ eq_refl)).
+    assert (Hk2 : nth_error T (S (S k)) = Some tI) by (replace (S (S k)) with (k + 2) by lia; exact (Ht 2 _ eq_refl)).
+    assert (Hk3 : nth_error T (S (S (S k))) = Some tSemi) by (replace (S (S (S k))) with (k + 3) by lia; exact (Ht 3 _ eq_refl)).
+    assert (Hk4 : exists t4, nth_error T (S (S (S (S k)))) = Some t4 /\ t4 <> tSemi).
+    { replace (S (S (S (S k)))) with (k + 4) by lia. destruct n as [|n'].
+      - exists t'. split; [exact (Ht 4 _ eq_refl)|exact (proj2 (is_sect_ne _ Hs))].
+      - exists tI. split; [exact (Ht 4 _ eq_refl)|discriminate]. }
+    destruct Hk4 as (t4 & Hk4 & Hne4).
+    pose proof (Xd_none stk _ _ _ _ _ _ _ _ _ _ H Hk ltac:(left; reflexivity)) as E0.
+    rewrite (structures_ident stk _ _ _ _ _ _ _ _ _ _ _ H Hk E0).
+    pose proof (member_run cst stk f _ _ _ _ _ _ _ _ _ H Hk Hk1 Hk2 Hk3 Hk4 Hne4 ltac:(lia)) as H1.
+    assert (Ht' : toks_at (k + 4) (render_members [tI; (if cst then tEq else tColon); tI; tSemi] n ++ [t'])).
+    { apply (toks_at_shift k 4 [tI; (if cst then tEq else tColon); tI; tSemi]); [exact Ht|reflexivity]. }
+    replace (S (S (S (S k)))) with (k + 4) in H1 by lia.
+    destruct (IH f _ _ _ _ _ _ _ _ t' H1 eq_refl Ht' Hs ltac:(lia)) as (mc' & last' & Ty' & H2).
+    exists mc', last'. split; [exact Ty'|].
+    cbn [member_lines map ll_toks meta_of].
+    replace (k + 4 * S n) with (k + 4 + 4 * n) by lia.
+    replace (k + 1) with (S k) by lia. replace (k + 2) with (S (S k)) by lia. replace (k + 3) with (S (S (S k))) by lia.
+    rewrite <- !app_assoc in H2. cbn [app] in H2. exact H2.
+Qed.
+
+Lemma with_ctx_block f cx s : has_err pass s = false -> clevel_parent (c_level cx) = None ->
+  RUN (S (S f)) (C_block cx) s
+  = pop_ctx pass (finish_logical_line pass (RUN f C_structures (push_ctx pass cx (finish_logical_line pass s)))).
+Proof.
+  intros E P. rewrite (run_S _ _ _ E). unfold arm_block. rewrite (run_S _ _ _ E). unfold arm_with_ctx. rewrite P. reflexivity.
+Qed.
+Lemma cTop_ctype s k L c M mc last lv a : ST [] s k L c M mc last [(cTop, false)] lv a -> last_ctype pass s = Some CT_TopLevelStatement.
+Proof. intros H. unfold last_ctype. rewrite (last_ctx_ST [] _ _ _ _ _ _ _ _ _ _ _ _ H). reflexivity. Qed.
+(* one section: its keyword on a line of level 0, its members on lines of level 1 *)
+Lemma section_run (cst : bool) n f s K L M mc last lv a t' :
+  ST [] s K L [] M mc last [(cTop, false)] lv a -> lm_type mc = LLT_Unknown ->
+  nth_error T K = Some (if cst then tConst else tVar) ->
+  toks_at (S K) (render_members [tI; (if cst then tEq else tColon); tI; tSemi] n ++ [t']) -> is_sect t' = true -> n + 7 <= f ->
+  exists s' mc' last', RUN (S f) C_structures s = RUN f C_structures s' /\ lm_type mc' = LLT_Unknown /\
+    ST [] s' (S K + 4 * n) (L ++ [K] :: map ll_toks (member_lines (S K) n)) []
+       (M ++ mkLM None 0%N LLT_Unknown :: map meta_of (member_lines (S K) n)) mc' last' [(cTop, false)] lv a.
+Proof.
+  intros H Hty HK Ht Hs Hf. destruct f as [|[|f]]; try lia.
+  assert (HnE : (if cst then tConst else tVar) <> RTT_Eof) by (destruct cst; discriminate).
+  rewrite (run_S _ C_structures _ (ST_err [] _ _ _ _ _ _ _ _ _ _ H)).
+  unfold arm_structures. rewrite (ST_cur_tt [] _ _ _ _ _ _ _ _ _ _ _ H HK).
+  assert (E1 : ending_ctx pass s = None).
+  { unfold ending_ctx. rewrite (ST_ctx [] _ _ _ _ _ _ _ _ _ _ H). cbn [ending_go cTop ctx c_pred c_opaque eval_pred].
+    rewrite (ST_cur_tt [] _ _ _ _ _ _ _ _ _ _ _ H HK). destruct cst; reflexivity. }
+  assert (Ea : match (if cst then tConst else tVar) with RTT_Eof => None | _ => Some (if cst then tConst else tVar) end
+               = Some (if cst then tConst else tVar)) by (destruct cst; reflexivity).
+  rewrite Ea, E1.
+  assert (Sa : sarm_of (if cst then tConst else tVar) = SA_decl (if cst then KK_Const DK_Other else KK_Var DK_Other)) by (destruct cst; reflexivity).
+  rewrite Sa. unfold sa_decl. rewrite (cTop_ctype _ _ _ _ _ _ _ _ _ H).
+  destruct (upd_cur_next_ST [] (fun t => match t with
+                    | RTT_Keyword (KK_Const _) => Some (RTT_Keyword (KK_Const DK_Section))
+                    | RTT_Keyword (KK_Var _) => Some (RTT_Keyword (KK_Var DK_Section))
+                    | _ => None end) _ _ _ _ _ _ _ _ _ _ _ H HK HnE ltac:(destruct cst; reflexivity)) as [Eu H2].
+  cbn [app] in H2. unfold set_current_decl_kind. cbv zeta.
+  match type of H2 with ST _ ?x _ _ _ _ _ _ _ _ _ => set (s2 := x) in * end.
+  rewrite (cTop_ctype _ _ _ _ _ _ _ _ _ H2).
+  pose proof (finish_ST [] _ _ _ _ _ _ _ _ _ _ H2 ltac:(discriminate)) as H3.
+  cbn [first_parent plain_sum cTop ctx c_level ParserGrammar.L app length] in H3. rewrite Hty in H3.
+  change (clamp_u16 (0 + 0)) with 0%N in H3.
+  assert (Ct : ctx (match (if cst then KK_Const DK_Other else KK_Var DK_Other) with KK_Type => CT_TypeBlock | _ => CT_DeclarationBlock end)
+                   true P_declaration_section (ParserGrammar.L 1) = cDecl) by (destruct cst; reflexivity).
+  rewrite Ct.
+  rewrite (with_ctx_block f cDecl _ (ST_err [] _ _ _ _ _ _ _ _ _ _ H3) eq_refl).
+  pose proof (finish_empty_ST [] _ _ _ _ _ _ _ _ _ H3) as H4.
+  pose proof (push_ctx_ST [] cDecl _ _ _ _ _ _ _ _ _ _ H4) as H5. fold Xd in H5.
+  destruct (members_run cst [] n f _ _ _ _ _ _ _ _ t' H5 eq_refl Ht Hs ltac:(lia)) as (mc' & last' & Ty' & H6).
+  pose proof (finish_empty_ST [] _ _ _ _ _ _ _ _ _ H6) as H7.
+  pose proof (pop_ctx_ST [] _ _ _ _ _ _ _ _ _ _ _ H7) as H8.
+  eexists _, _, _. split; [reflexivity|]. split; [|eapply (ST_lists []); [exact H8| |]].
+  - reflexivity.
+  - rewrite <- app_assoc. reflexivity.
+  - rewrite <- app_assoc. reflexivity.
+Qed.
+
+(* all the sections in front of the main block *)
+Fixpoint dneed (ds : list decl) : nat := match ds with [] => 0 | dc :: r => Nat.max (decl_n dc) (dneed r) end.
+Lemma render_members_length m j : length (render_members m j) = j * length m.
+Proof. induction j as [|j IH]; cbn [render_members Nat.mul]; [reflexivity|]. rewrite app_length, IH. reflexivity. Qed.
+Lemma render_decl_length dc : length (render_decl dc) = 1 + 4 * decl_n dc.
+Proof. destruct dc; cbn [render_decl decl_n length]; rewrite render_members_length; cbn [length]; lia. Qed.
+Lemma decls_head r t' : is_sect t' = true -> exists t'' rest, render_decls r ++ [t'] = t'' :: rest /\ is_sect t'' = true.
+Proof.
+  intros H. destruct r as [|[j|j] r]; cbn [render_decls render_decl app].
+  - exists t', []. split; [reflexivity|exact H].
+  - eexists _, _. split; [reflexivity|reflexivity].
+  - eexists _, _. split; [reflexivity|reflexivity].
+Qed.
+Lemma decls_run ds : forall f s K L M mc last lv a t',
+  ST [] s K L [] M mc last [(cTop, false)] lv a -> lm_type mc = LLT_Unknown ->
+  toks_at K (render_decls ds ++ [t']) -> is_sect t' = true -> dneed ds + 7 <= f ->
+  exists s' mc' last', RUN (length ds + f) C_structures s = RUN f C_structures s' /\ lm_type mc' = LLT_Unknown /\
+    ST [] s' (K + length (render_decls ds)) (L ++ map ll_toks (decl_lines K ds)) []
+       (M ++ map meta_of (decl_lines K ds)) mc' last' [(cTop, false)] lv a.
+Proof.
+  induction ds as [|dc r IH]; intros f s K L M mc last lv a t' H Hty Ht Hs Hf.
+  - exists s, mc, last. split; [reflexivity|]. split; [exact Hty|]. cbn [render_decls decl_lines map length]. rewrite !app_nil_r, Nat.add_0_r. exact H.
+  - cbn [dneed] in Hf. cbn [render_decls] in Ht. rewrite <- app_assoc in Ht.
+    destruct (decls_head r t' Hs) as (t'' & rest & Er & Hs'').
+    set (cst := match dc with DVar _ => false | DConst _ => true end).
+    assert (Erd : render_decl dc = (if cst then tConst else tVar) :: render_members [tI; (if cst then tEq else tColon); tI; tSemi] (decl_n dc))
+      by (destruct dc; reflexivity).
+    rewrite Erd in Ht. cbn [app] in Ht.
+    assert (HK : nth_error T K = Some (if cst then tConst else tVar)) by exact (toks_at_0 _ _ _ Ht eq_refl).
+    assert (Ht1 : toks_at (S K) (render_members [tI; (if cst then tEq else tColon); tI; tSemi] (decl_n dc) ++ [t''])).
+    { rewrite <- Nat.add_1_r. rewrite Er in Ht.
+      apply (toks_at_prefix _ _ rest).
+      apply (toks_at_shift K 1 [if cst then tConst else tVar]); [|reflexivity]. cbn [app]. rewrite <- app_assoc. exact Ht. }
+    assert (Ht2 : toks_at (S K + 4 * decl_n dc) (render_decls r ++ [t'])).
+    { replace (S K + 4 * decl_n dc) with (K + (1 + 4 * decl_n dc)) by lia.
+      apply (toks_at_shift K _ ((if cst then tConst else tVar) :: render_members [tI; (if cst then tEq else tColon); tI; tSemi] (decl_n dc))); [exact Ht|].
+      cbn [length]. rewrite render_members_length. cbn [length]. lia. }
+    cbn [length]. replace (S (length r) + f) with (S (length r + f)) by lia.
+    destruct (section_run cst (decl_n dc) (length r + f) _ _ _ _ _ _ _ _ t'' H Hty HK Ht1 Hs'' ltac:(lia)) as (s1 & mc1 & last1 & Eq1 & Ty1 & H1).
+    rewrite Eq1.
+    destruct (IH f _ _ _ _ _ _ _ _ t' H1 Ty1 Ht2 Hs ltac:(lia)) as (s2 & mc2 & last2 & Eq2 & Ty2 & H2).
+    exists s2, mc2, last2. split; [exact Eq2|]. split; [exact Ty2|].
+    replace (K + length (render_decls (dc :: r))) with (S K + 4 * decl_n dc + length (render_decls r))
+      by (cbn [render_decls]; rewrite app_length, render_decl_length; lia).
+    eapply (ST_lists []); [exact H2| |].
+    + cbn [decl_lines map ll_toks]. rewrite map_app, <- !app_assoc. cbn [app].
+      replace (K + 1) with (S K) by lia. replace (S K + 4 * decl_n dc) with (K + 1 + 4 * decl_n dc) by lia. reflexivity.
+    + cbn [decl_lines map meta_of ll_parent ll_level ll_type]. rewrite map_app, <- !app_assoc. cbn [app].
+      replace (K + 1) with (S K) by lia. replace (S K + 4 * decl_n dc) with (K + 1 + 4 * decl_n dc) by lia. reflexivity.
+Qed.
+
+Lemma prog_toks K ss : toks_at K (render_prog ss) ->
+  nth_error T K = Some tBegin /\ toks_at (S K) (render ss ++ [tEnd]) /\
+  nth_error T (S (S K + length (render ss))) = Some tDot /\ nth_error T (S (S (S K + length (render ss)))) = Some RTT_Eof.
+Proof.
+  intros H. unfold render_prog in H. split; [exact (toks_at_0 _ _ _ H eq_refl)|].
+  assert (H1 : toks_at (S K) (render ss ++ [tEnd; tDot; RTT_Eof])).
+  { rewrite <- Nat.add_1_r. apply (toks_at_shift K 1 [tBegin]); [exact H|reflexivity]. }
+  split; [|split].
+  - apply (toks_at_prefix _ _ [tDot; RTT_Eof]). rewrite <- app_assoc. exact H1.
+  - replace (S (S K + length (render ss))) with (S K + S (length (render ss))) by lia. apply H1.
+    rewrite nth_error_app2 by lia. replace (S (length (render ss)) - length (render ss)) with 1 by lia. reflexivity.
+  - replace (S (S (S K + length (render ss)))) with (S K + S (S (length (render ss)))) by lia. apply H1.
+    rewrite nth_error_app2 by lia. replace (S (S (length (render ss))) - length (render ss)) with 2 by lia. reflexivity.
+Qed.
+Lemma decl_lines_toks_length K ds : length (map ll_toks (decl_lines K ds)) = length (decl_lines K ds).
+Proof. apply map_length. Qed.
+(* a unit: the sections, then the main block *)
+Theorem unit_run ds ss f s0 mc0 last0 lv a :
+  wf ss = true -> ST [] s0 0 [] [] [] mc0 last0 [] lv a ->
+  toks_at 0 (render_unit ds ss) -> n = length (render_unit ds ss) ->
+  dneed ds + 7 <= f -> 8 + need ss <= f ->
+  exists mc' last',
+    ST [] (RUN (S (S (S (length ds + f)))) C_top s0) n (map ll_toks (pexpected_unit ds ss)) []
+       (map meta_of (pexpected_unit ds ss)) mc' last' [] lv a.
+Proof.
+  intros Hwf H Ht Hn Hfd Hfs.
+  rewrite (top_head (length ds + f) s0 (ST_err (@nil nat) _ _ _ _ _ _ _ _ _ _ H)).
+  pose proof (finish_empty_ST (@nil nat) _ _ _ _ _ _ _ _ _ H) as H0.
+  pose proof (push_ctx_ST (@nil nat) cTop _ _ _ _ _ _ _ _ _ _ H0) as H1.
+  unfold render_unit in Ht.
+  assert (Htp : toks_at (length (render_decls ds)) (render_prog ss)) by exact (toks_at_shift 0 _ _ _ Ht eq_refl).
+  destruct (prog_toks _ _ Htp) as (Ht0 & Htb & HtD & HtE).
+  assert (Htd : toks_at 0 (render_decls ds ++ [tBegin])).
+  { apply (toks_at_prefix _ _ (render ss ++ [tEnd; tDot; RTT_Eof])). rewrite <- app_assoc. exact Ht. }
+  destruct (decls_run ds f _ 0 [] [] _ _ _ _ tBegin H1 eq_refl Htd eq_refl Hfd) as (s2 & mc2 & last2 & Eq2 & Ty2 & H2).
+  rewrite Eq2. cbn [app Nat.add] in H2.
+  destruct (main_core ss f _ _ _ _ _ _ _ _ Hwf H2 Ty2 Ht0 Htb HtD HtE Hfs) as (last3 & H9).
+  cbv zeta in H9.
+  destruct (top_tail_run (S (length ds + f)) _ _ _ _ _ _ _ _ H9 HtE
+              ltac:(rewrite Hn; unfold render_unit; rewrite app_length; unfold render_prog; cbn [length]; rewrite app_length; cbn [length]; lia)) as (mc' & last' & H15).
+  exists mc', last'. eapply (ST_lists []); [exact H15| |].
+  - unfold pexpected_unit, main_lines. cbv zeta. rewrite map_length. rewrite !map_app. cbn [map ll_toks]. rewrite map_app. cbn [map ll_toks].
+    rewrite <- !app_assoc. cbn [app]. rewrite <- !app_assoc. cbn [app]. rewrite !Nat.add_1_r.
+    replace (S (length (render_decls ds)) + length (render ss) + 2) with (S (S (S (length (render_decls ds)) + length (render ss)))) by lia.
+    reflexivity.
+  - unfold pexpected_unit, main_lines. cbv zeta. rewrite map_length. rewrite !map_app. cbn [map meta_of ll_parent ll_level ll_type]. rewrite map_app.
+    cbn [map meta_of ll_parent ll_level ll_type].
+    rewrite <- !app_assoc. cbn [app]. rewrite <- !app_assoc. cbn [app]. rewrite !Nat.add_1_r. reflexivity.
+Qed.
+
 
 End Frag.
 
-(* ================================================================== *)
-(* instantiation: T := render_prog ss *)
 Lemma render_plain ss : Forall plain (render ss).
 Proof.
-  apply (stmts_mut (fun ss => Forall plain (render ss)) (fun c => Forall plain (render_body c)) (fun a => Forall plain (render_arms a)));
-    cbn [render render_body render_arms]; intros.
+  revert ss. apply (stmts_mut (fun c => Forall plain (render_stmt c)) (fun ss => Forall plain (render ss)) (fun a => Forall plain (render_arms a))
+                            (fun h => Forall plain (render_handlers h)));
+    cbn [render render_stmt render_arms render_handlers]; intros.
   all: repeat (first [ exact I | assumption | apply Forall_nil | apply Forall_cons | (apply Forall_app; split) ]).
 Qed.
+
 Lemma render_prog_plain ss : Forall plain (render_prog ss).
 Proof.
   unfold render_prog. constructor; [exact I|]. apply Forall_app. split; [apply render_plain|]. repeat (constructor; [exact I|]). constructor.
@@ -3015,14 +3484,14 @@ Qed.
 
 (* the pass of a program of the fragment: no error, consumed, exactly the expected lines (followed by
    the empty line that is current at the end) *)
-Theorem fragment_parse_pass ss :
+Theorem fragment_parse_pass ss : wf ss = true ->
   let T := render_prog ss in
   let pass := seq 0 (length T) in
   ps_err pass (parse_pass pass [] T []) = None /\ pidx pass (parse_pass pass [] T []) = length pass
-  /\ ps_toks pass (parse_pass pass [] T []) = T
+  /\ ps_toks pass (parse_pass pass [] T []) = map fin T
   /\ exists el, ll_toks el = [] /\ pass_lines pass (parse_pass pass [] T []) = pexpected_prog ss ++ [el].
 Proof.
-  intros T pass.
+  intros Hwf T pass.
   pose proof (render_prog_plain ss) as P. pose proof (render_prog_length ss) as Ln. fold T in P, Ln.
   assert (H0 : ST T [] (ps_init pass T []) 0 [] [] [] lm0 0 [] (0%N, 0%N, 0%N) []).
   { split; [reflexivity|]. split; [reflexivity|]. split; reflexivity. }
@@ -3037,12 +3506,12 @@ Proof.
   assert (HtE : nth_error T (S (S (S (length (render ss))))) = Some RTT_Eof).
   { change (nth_error (render ss ++ [tEnd; tDot; RTT_Eof]) (S (S (length (render ss)))) = Some RTT_Eof).
     rewrite nth_error_app2 by lia. replace (S (S (length (render ss))) - length (render ss)) with 2 by lia. reflexivity. }
-  assert (Hf : 8 + need ss <= run_fuel pass).
+  assert (Hf : 12 + need ss <= run_fuel pass).
   { unfold run_fuel, need, pass. rewrite seq_length, Ln. lia. }
   unfold parse_pass. set (f := run_fuel pass) in *. clearbody f.
-  destruct (prog_run T P ss f _ _ _ _ _ H0 Ht0 Htb HtD HtE Ln Hf) as (mc' & last' & H).
+  destruct (prog_run T P ss f _ _ _ _ _ Hwf H0 Ht0 Htb HtD HtE Ln Hf) as (mc' & last' & H).
   fold pass in H. set (s := run pass [] f C_top (ps_init pass T [])) in *.
-  split; [exact (ST_err_none T [] _ _ _ _ _ _ _ _ _ _ H)|]. split; [|split; [exact (ST_toks T [] _ _ _ _ _ _ _ _ _ _ H)|]].
+  split; [exact (ST_err_none T [] _ _ _ _ _ _ _ _ _ _ H)|]. split; [|split; [transitivity (mix T (length T)); [exact (ST_toks T [] _ _ _ _ _ _ _ _ _ _ H)|apply mix_all]|]].
   - transitivity (length T); [exact (ST_pidx T [] _ _ _ _ _ _ _ _ _ _ H)|unfold pass; rewrite seq_length; reflexivity].
   - exists (mkLine (lm_type mc') (lm_level mc') (lm_parent mc') []). split; [reflexivity|].
     etransitivity; [exact (pass_lines_ST T [] _ _ _ _ _ _ _ _ _ _ H)|]. f_equal.
@@ -3182,63 +3651,67 @@ Definition Rarms (a : arms) : Prop :=
   (forall pre1, ext pre pre1 -> seg_ok pre1 (pend (length pre1))) ->
   seg_ok pre (arms_pre par d k li a pend)
   /\ (forall pre1, ext (pre ++ arms_pre par d k li a pend) pre1 -> seg_ok pre1 (arms_pend k li a pend (length pre1))).
+Lemma seg_ok_stray pre : seg_ok pre [stray].
+Proof. apply seg_ok_cons; [discriminate|apply seg_ok_nil]. Qed.
+Lemma par_in_hdr pre li ty lv par toks t : length pre = li -> In t toks -> toks <> [] -> par_in (pre ++ [mkLine ty lv par toks]) (Some (li, t)).
+Proof.
+  intros Hl Hin Hne. eexists. split; [rewrite nth_error_app2, Hl, Nat.sub_diag by lia; reflexivity|]. split; [|exact Hin].
+  unfold nonempty_line. cbn [ll_toks]. destruct toks; [contradiction|reflexivity].
+Qed.
 (* the expected pass lines: every parent is an earlier non-empty line holding the parent token *)
 Lemma pexpected_seg_ok : forall ss par d k li pre, length pre = li -> par_in pre par -> seg_ok pre (pexpected par d k li ss).
 Proof.
-  apply (stmts_mut (fun ss => forall par d k li pre, length pre = li -> par_in pre par -> seg_ok pre (pexpected par d k li ss))
-                   (fun c => forall p k li semi pre, length pre = li -> par_in pre p -> seg_ok pre (pexpected_body p k li semi c))
-                   Rarms);
-    cbn [pexpected pexpected_body]; cbv zeta.
-  - intros. apply seg_ok_nil.
-  - intros r IHr par d k li pre Hl Hp. apply seg_ok_cons; [intros _; exact Hp|]. apply IHr; [len_tac|apply par_in_app, Hp].
-  - intros r IHr par d k li pre Hl Hp. apply seg_ok_cons; [intros _; exact Hp|]. apply IHr; [len_tac|apply par_in_app, Hp].
-  - intros b IHb r IHr par d k li pre Hl Hp. apply seg_ok_cons; [intros _; exact Hp|].
+  apply (stmts_mut (fun c => forall par d k li sm pre, length pre = li -> par_in pre par -> seg_ok pre (sexpected par d k li sm c))
+                   (fun ss => forall par d k li pre, length pre = li -> par_in pre par -> seg_ok pre (pexpected par d k li ss))
+                   Rarms
+                   (fun h => forall par d k li pre, length pre = li -> par_in pre par -> seg_ok pre (hexpected par d k li h)));
+    cbn [sexpected pexpected hexpected]; cbv zeta.
+  - intros par d k li sm pre Hl Hp. apply seg_ok_cons; [intros _; exact Hp|apply seg_ok_nil].
+  - intros par d k li sm pre Hl Hp. apply seg_ok_cons; [intros _; exact Hp|apply seg_ok_nil].
+  - intros b IHb par d k li sm pre Hl Hp. apply seg_ok_cons; [intros _; exact Hp|].
     apply seg_ok_app; [apply IHb; [len_tac|apply par_in_app, Hp]|].
-    apply seg_ok_cons; [intros _; do 2 apply par_in_app; exact Hp|]. apply IHr; [len_tac|do 3 apply par_in_app; exact Hp].
-  - intros b IHb r IHr par d k li pre Hl Hp. apply seg_ok_cons; [intros _; exact Hp|].
+    apply seg_ok_cons; [intros _; do 2 apply par_in_app; exact Hp|apply seg_ok_nil].
+  - intros b IHb par d k li sm pre Hl Hp. apply seg_ok_cons; [intros _; exact Hp|].
     apply seg_ok_app; [apply IHb; [len_tac|apply par_in_app, Hp]|].
-    apply seg_ok_cons; [intros _; do 2 apply par_in_app; exact Hp|]. apply IHr; [len_tac|do 3 apply par_in_app; exact Hp].
-  - intros b IHb c IHc r IHr par d k li pre Hl Hp. apply seg_ok_cons; [intros _; exact Hp|].
-    apply seg_ok_app; [apply IHb; [len_tac|apply par_in_app, Hp]|].
-    apply seg_ok_cons; [intros _; do 2 apply par_in_app; exact Hp|].
-    apply seg_ok_app; [apply IHc; [len_tac|do 3 apply par_in_app; exact Hp]|].
-    apply seg_ok_cons; [intros _; do 4 apply par_in_app; exact Hp|]. apply IHr; [len_tac|do 5 apply par_in_app; exact Hp].
-  - intros b IHb c IHc r IHr par d k li pre Hl Hp. apply seg_ok_cons; [intros _; exact Hp|].
+    apply seg_ok_cons; [intros _; do 2 apply par_in_app; exact Hp|apply seg_ok_nil].
+  - intros b IHb c IHc par d k li sm pre Hl Hp. apply seg_ok_cons; [intros _; exact Hp|].
     apply seg_ok_app; [apply IHb; [len_tac|apply par_in_app, Hp]|].
     apply seg_ok_cons; [intros _; do 2 apply par_in_app; exact Hp|].
     apply seg_ok_app; [apply IHc; [len_tac|do 3 apply par_in_app; exact Hp]|].
-    apply seg_ok_cons; [intros _; do 4 apply par_in_app; exact Hp|]. apply IHr; [len_tac|do 5 apply par_in_app; exact Hp].
-  - intros c IHc r IHr par d k li pre Hl Hp. apply seg_ok_cons; [intros _; exact Hp|].
+    apply seg_ok_cons; [intros _; do 4 apply par_in_app; exact Hp|apply seg_ok_nil].
+  - intros b IHb c IHc par d k li sm pre Hl Hp. apply seg_ok_cons; [intros _; exact Hp|].
+    apply seg_ok_app; [apply IHb; [len_tac|apply par_in_app, Hp]|].
+    apply seg_ok_cons; [intros _; do 2 apply par_in_app; exact Hp|].
+    apply seg_ok_app; [apply IHc; [len_tac|do 3 apply par_in_app; exact Hp]|].
+    apply seg_ok_cons; [intros _; do 4 apply par_in_app; exact Hp|apply seg_ok_nil].
+  - intros b IHb h IHh par d k li sm pre Hl Hp. apply seg_ok_cons; [intros _; exact Hp|].
+    apply seg_ok_app; [apply IHb; [len_tac|apply par_in_app, Hp]|].
+    apply seg_ok_cons; [intros _; do 2 apply par_in_app; exact Hp|].
+    apply seg_ok_app; [apply IHh; [len_tac|do 3 apply par_in_app; exact Hp]|].
+    apply seg_ok_cons; [intros _; do 4 apply par_in_app; exact Hp|apply seg_ok_nil].
+  - (* if *) intros c IHc par d k li sm pre Hl Hp. apply seg_ok_cons; [intros _; exact Hp|].
+    apply seg_ok_app; [|apply seg_ok_stray].
+    apply IHc; [len_tac|]. apply par_in_hdr; [exact Hl|right; right; left; reflexivity|discriminate].
+  - (* if else *) intros c1 IH1 c2 IH2 par d k li sm pre Hl Hp. apply seg_ok_cons; [intros _; exact Hp|].
     apply seg_ok_app.
-    + apply IHc; [len_tac|]. eexists. split; [rewrite nth_error_app2, Hl, Nat.sub_diag by lia; reflexivity|].
-      split; [reflexivity|]. cbn [ll_toks]. right. right. left. reflexivity.
-    + apply IHr; [len_tac|do 2 apply par_in_app; exact Hp].
-  - intros c1 IHc1 c2 IHc2 r IHr par d k li pre Hl Hp. apply seg_ok_cons; [intros _; exact Hp|].
-    apply seg_ok_app.
-    + apply IHc1; [len_tac|]. eexists. split; [rewrite nth_error_app2, Hl, Nat.sub_diag by lia; reflexivity|].
-      split; [reflexivity|]. cbn [ll_toks]. right. right. left. reflexivity.
-    + apply seg_ok_app.
-      * apply IHc2; [len_tac|]. apply par_in_app. eexists. split; [rewrite nth_error_app2, Hl, Nat.sub_diag by lia; reflexivity|].
-        split; [reflexivity|]. cbn [ll_toks]. right. right. right. left. reflexivity.
-      * apply IHr; [len_tac|do 3 apply par_in_app; exact Hp].
-  - intros c IHc r IHr par d k li pre Hl Hp. apply seg_ok_cons; [intros _; exact Hp|].
-    apply seg_ok_app.
-    + apply IHc; [len_tac|]. eexists. split; [rewrite nth_error_app2, Hl, Nat.sub_diag by lia; reflexivity|].
-      split; [reflexivity|]. cbn [ll_toks]. right. right. left. reflexivity.
-    + apply IHr; [len_tac|do 2 apply par_in_app; exact Hp].
+    + apply seg_ok_app; [|apply seg_ok_stray].
+      apply IH1; [len_tac|]. apply par_in_hdr; [exact Hl|right; right; left; reflexivity|discriminate].
+    + apply seg_ok_app; [|apply seg_ok_stray].
+      apply IH2; [len_tac|]. apply par_in_app. apply par_in_hdr; [exact Hl|right; right; right; left; reflexivity|discriminate].
+  - (* while *) intros c IHc par d k li sm pre Hl Hp. apply seg_ok_cons; [intros _; exact Hp|].
+    apply seg_ok_app; [|apply seg_ok_stray].
+    apply IHc; [len_tac|]. apply par_in_hdr; [exact Hl|right; right; left; reflexivity|discriminate].
   - (* case … end *)
-    intros a IHa r IHr par d k li pre Hl Hp. rewrite arms_lines_eq. cbv beta.
+    intros a IHa par d k li sm pre Hl Hp. rewrite arms_lines_eq. cbv beta.
     apply seg_ok_cons; [intros _; exact Hp|].
     destruct (IHa par d (k + 3) (li + 1) (pre ++ [mkLine LLT_CaseHeader (lvl d) par [k; k + 1; k + 2]]) (fun _ => [])
                 ltac:(len_tac) (par_in_app _ _ _ Hp) (fun _ _ => seg_ok_nil _)) as [A1 A2].
     apply seg_ok_app; [exact A1|].
     apply seg_ok_cons; [intros _; do 2 apply par_in_app; exact Hp|].
-    apply seg_ok_app.
-    + match goal with |- seg_ok ?p (arms_pend _ _ _ _ ?i) => replace i with (length p) by (rewrite (arms_li_eq a par d); len_tac) end.
-      apply A2. rewrite <- app_assoc. apply ext_app.
-    + apply IHr; [rewrite (arms_li_eq a par d); len_tac|do 4 apply par_in_app; exact Hp].
+    match goal with |- seg_ok ?p (arms_pend _ _ _ _ ?i) => replace i with (length p) by (rewrite (arms_li_eq a par d); len_tac) end.
+    apply A2. rewrite <- app_assoc. apply ext_app.
   - (* case … else … end *)
-    intros a IHa e IHe r IHr par d k li pre Hl Hp. rewrite arms_lines_eq. cbv beta zeta.
+    intros a IHa e IHe par d k li sm pre Hl Hp. rewrite arms_lines_eq. cbv beta zeta.
     apply seg_ok_cons; [intros _; exact Hp|].
     destruct (IHa par d (k + 3) (li + 1) (pre ++ [mkLine LLT_CaseHeader (lvl d) par [k; k + 1; k + 2]]) (fun _ => [])
                 ltac:(len_tac) (par_in_app _ _ _ Hp) (fun _ _ => seg_ok_nil _)) as [A1 A2].
@@ -3248,32 +3721,36 @@ Proof.
     + match goal with |- seg_ok ?p (arms_pend _ _ _ _ ?i) => replace i with (length p) by (rewrite (arms_li_eq a par d); len_tac) end.
       apply A2. rewrite <- app_assoc. apply ext_app.
     + apply seg_ok_app; [apply IHe; [rewrite (arms_li_eq a par d); len_tac|do 4 apply par_in_app; exact Hp]|].
-      apply seg_ok_cons; [intros _; do 5 apply par_in_app; exact Hp|].
-      apply IHr; [rewrite (arms_li_eq a par d); len_tac|do 6 apply par_in_app; exact Hp].
-  - intros p k li semi pre Hl Hp. apply seg_ok_cons; [intros _; exact Hp|]. apply seg_ok_cons; [discriminate|apply seg_ok_nil].
-  - intros p k li semi pre Hl Hp. apply seg_ok_cons; [intros _; exact Hp|]. apply seg_ok_cons; [discriminate|apply seg_ok_nil].
-  - intros b IHb p k li semi pre Hl Hp. apply seg_ok_cons; [intros _; exact Hp|].
-    apply seg_ok_app; [apply IHb; [len_tac|apply par_in_app, Hp]|].
-    apply seg_ok_cons; [intros _; do 2 apply par_in_app; exact Hp|]. apply seg_ok_cons; [discriminate|apply seg_ok_nil].
+      apply seg_ok_cons; [intros _; do 5 apply par_in_app; exact Hp|apply seg_ok_nil].
+  - intros. apply seg_ok_nil.
+  - intros c IHc r IHr par d k li pre Hl Hp.
+    apply seg_ok_app; [apply IHc; [exact Hl|exact Hp]|]. apply IHr; [len_tac|apply par_in_app, Hp].
   - (* no arm *)
     intros par d k li pre pend Hl Hp Hpend. cbn [arms_pre arms_pend]. split; [apply seg_ok_nil|].
     intros pre1 He. apply Hpend. rewrite app_nil_r in He. exact He.
   - (* an arm *)
     intros c IHc a' IHa par d k li pre pend Hl Hp Hpend. cbn [arms_pre arms_pend]. cbv zeta.
     set (A := mkLine LLT_CaseArm (lvl (d + 1)) par [k; k + 1]).
-    set (e := k + 2 + length (render_body c)).
+    set (e := k + 2 + length (render_stmt c)).
     assert (Hl1 : length (pre ++ [A]) = li + 1) by len_tac.
     assert (P1 : seg_ok (pre ++ [A]) (pend (li + 1))) by (rewrite <- Hl1; apply Hpend, ext_app).
     destruct (IHa par d (e + 1) (li + 1 + length (pend (li + 1))) ((pre ++ [A]) ++ pend (li + 1))
-                (fun i => pexpected_body (Some (li, k + 1)) (k + 2) i (Some e) c)
+                (fun i => sexpected (Some (li, k + 1)) 1 (k + 2) i [e] c ++ [stray])
                 ltac:(len_tac) ltac:(do 2 apply par_in_app; exact Hp)) as [B1 B2].
-    { intros pre1 He. apply IHc; [reflexivity|].
+    { intros pre1 He. apply seg_ok_app; [|apply seg_ok_stray]. apply IHc; [reflexivity|].
       apply (par_in_ext ((pre ++ [A]) ++ pend (li + 1)) pre1 _ He). apply par_in_app.
-      exists A. split; [rewrite nth_error_app2, Hl, Nat.sub_diag by lia; reflexivity|]. split; [reflexivity|]. right. left. reflexivity. }
+      apply par_in_hdr; [exact Hl|right; left; reflexivity|discriminate]. }
     split.
     + apply seg_ok_cons; [intros _; exact Hp|]. apply seg_ok_app; [exact P1|exact B1].
     + intros pre1 He. apply B2. destruct He as [x ->]. exists x. repeat (progress (cbn [app]; rewrite <- ?app_assoc)). reflexivity.
+  - intros. apply seg_ok_nil.
+  - intros c IHc r IHr par d k li pre Hl Hp.
+    apply seg_ok_app.
+    + apply seg_ok_cons; [intros _; exact Hp|]. apply seg_ok_app; [|apply seg_ok_stray].
+      apply IHc; [len_tac|]. apply par_in_hdr; [exact Hl|do 4 right; left; reflexivity|discriminate].
+    + apply IHr; [len_tac|apply par_in_app, Hp].
 Qed.
+
 Lemma pexpected_prog_seg_ok ss : seg_ok [] (pexpected_prog ss).
 Proof.
   unfold pexpected_prog. cbv zeta. apply seg_ok_cons; [intros _; exact I|].
@@ -3283,18 +3760,23 @@ Qed.
 Lemma filter_all {A} (p : A -> bool) l : Forall (fun x => p x = true) l -> filter p l = l.
 Proof. induction 1 as [|x l Hx _ IH]; cbn; [reflexivity|]. rewrite Hx, IH. reflexivity. Qed.
 
-Lemma cement_plain t : plain t -> cement t = t.
-Proof. destruct t; cbn; try reflexivity; contradiction. Qed.
+Lemma cement_fin t : plain t -> cement (fin t) = fin t.
+Proof.
+  destruct t as [o| |k0|k0| | | | | | |]; try (cbn; reflexivity); try contradiction.
+  - destruct o; try (cbn; reflexivity); try contradiction. destruct k; cbn; reflexivity.
+  - destruct k0; try contradiction. cbn. reflexivity.
+  - destruct k0; try (cbn; reflexivity); try contradiction; match goal with d : DeclKind |- _ => destruct d; cbn; reflexivity end.
+Qed.
 Lemma upd_nth_id {A} (f : A -> A) i : forall l, (forall x, In x l -> f x = x) -> upd_nth i f l = l.
 Proof.
   revert i. induction i as [|i IH]; intros [|a l] H; cbn; try reflexivity.
   - rewrite H by (left; reflexivity). reflexivity.
   - rewrite IH; [reflexivity|]. intros x Hx. apply H. right. exact Hx.
 Qed.
-Lemma cement_fold_plain T : Forall plain T -> forall pass, fold_left (fun ts p => upd_nth p cement ts) pass T = T.
+Lemma cement_fold_plain T : Forall (fun t => cement t = t) T -> forall pass, fold_left (fun ts p => upd_nth p cement ts) pass T = T.
 Proof.
   intros P. induction pass as [|p r IH]; cbn [fold_left]; [reflexivity|].
-  rewrite upd_nth_id; [exact IH|]. intros x Hx. apply cement_plain. exact (proj1 (Forall_forall _ _) P x Hx).
+  rewrite upd_nth_id; [exact IH|]. intros x Hx. exact (proj1 (Forall_forall _ _) P x Hx).
 Qed.
 Lemma directive_lines_plain : forall T k attr lv, Forall plain T -> directive_lines T k attr lv = [].
 Proof.
@@ -3313,21 +3795,24 @@ Proof. reflexivity. Qed.
 (* THE THEOREM: for every program of the fragment — any nesting depth, any number of statements — the
    closed model of parse_file ends without error and returns EXACTLY the expected lines: every statement on
    its own line one level deeper than the `begin` line of its block, `end ;` at the level of its `begin`,
-   the body of an `if`/`while` as child lines (level 1, parent = the header line and its then/else/do token),
+   the body of an `if`/`while`/case arm (any statement) as child lines (levels from 1, parent = the header line and its
+   then/else/do/colon token),
    `end .` and the single Eof line (holding only the Eof token) at level 0 *)
-Theorem fragment_parse_file ss :
+Theorem fragment_parse_file ss : wf ss = true ->
   let r := parse_file_model (render_prog ss) [] in
-  r_err r = None /\ r_lines r = expected_prog ss /\ r_toks r = render_prog ss.
+  r_err r = None /\ r_lines r = expected_prog ss /\ r_toks r = map fin (render_prog ss).
 Proof.
-  set (T := render_prog ss). pose proof (render_prog_plain ss) as P. fold T in P.
+  intros Hwf. set (T := render_prog ss). pose proof (render_prog_plain ss) as P. fold T in P.
   unfold parse_file_model. rewrite (no_directives_single_identity_pass T (plain_no_directive T P)).
   unfold parse_file_with. cbn [parse_passes].
-  destruct (fragment_parse_pass ss) as (He & Hpi & Htoks & el & Hel & Hpl). fold T in He, Hpi, Htoks, Hpl.
+  destruct (fragment_parse_pass ss Hwf) as (He & Hpi & Htoks & el & Hel & Hpl). fold T in He, Hpi, Htoks, Hpl.
   set (pass := seq 0 (length T)) in *.
   pose proof (parse_pass_lines_wf pass [] T [] (increasing_seq 0 (length T))) as (_ & Hnd & _).
   set (s := parse_pass pass [] T []) in *. clearbody s.
   rewrite He.
-  rewrite Htoks, (cement_fold_plain T P pass), (directive_lines_plain T 0 _ 0%N P).
+  assert (PF : Forall plain (map fin T)) by (apply Forall_map; eapply Forall_impl; [intros a Ha; apply fin_plain, Ha|exact P]).
+  assert (PC : Forall (fun t => cement t = t) (map fin T)) by (apply Forall_map; eapply Forall_impl; [intros a Ha; apply cement_fin, Ha|exact P]).
+  rewrite Htoks, (cement_fold_plain (map fin T) PC pass), (directive_lines_plain (map fin T) 0 _ 0%N PF).
   cbn [r_err r_lines r_toks]. split; [reflexivity|]. split; [|reflexivity].
   rewrite consolidate_nil_r. rewrite Hpl in *. clear Hpl.
   assert (E1 : consolidate_pass_lines [] (pexpected_prog ss ++ [el]) = consolidate_pass_lines [] (pexpected_prog ss)).
@@ -3336,34 +3821,35 @@ Proof.
   rewrite E1. apply consolidate_parents0; [|apply pexpected_prog_seg_ok].
   rewrite map_app, concat_app in Hnd. cbn [map concat] in Hnd. rewrite Hel, app_nil_r in Hnd. exact Hnd.
 Qed.
-
 (* ---------------- the well-formedness clauses, read off the expected lines *)
 Lemma pexpected_no_eof : forall ss par d k li, Forall (fun l => ll_type l <> LLT_Eof) (pexpected par d k li ss).
 Proof.
-  apply (stmts_mut (fun ss => forall par d k li, Forall (fun l => ll_type l <> LLT_Eof) (pexpected par d k li ss))
-                   (fun c => forall p k li semi, Forall (fun l => ll_type l <> LLT_Eof) (pexpected_body p k li semi c))
+  apply (stmts_mut (fun c => forall par d k li sm, Forall (fun l => ll_type l <> LLT_Eof) (sexpected par d k li sm c))
+                   (fun ss => forall par d k li, Forall (fun l => ll_type l <> LLT_Eof) (pexpected par d k li ss))
                    (fun a => forall par d k li pend, (forall i, Forall (fun l => ll_type l <> LLT_Eof) (pend i)) ->
                              Forall (fun l => ll_type l <> LLT_Eof) (arms_pre par d k li a pend)
-                             /\ forall i, Forall (fun l => ll_type l <> LLT_Eof) (arms_pend k li a pend i)));
-    cbn [pexpected pexpected_body arms_pre arms_pend]; cbv zeta; intros; rewrite ?arms_lines_eq.
+                             /\ forall i, Forall (fun l => ll_type l <> LLT_Eof) (arms_pend k li a pend i))
+                   (fun h => forall par d k li, Forall (fun l => ll_type l <> LLT_Eof) (hexpected par d k li h)));
+    cbn [sexpected pexpected arms_pre arms_pend hexpected]; cbv zeta; intros; rewrite ?arms_lines_eq.
   all: try match goal with IHa : forall par d k li pend, _ -> _ /\ _ |- Forall _ (_ :: arms_pre ?par ?d ?k ?li ?a ?pend ++ _) =>
              destruct (IHa par d k li pend (fun _ => Forall_nil _)) as [A1 A2] end.
   all: try match goal with IHa : forall par d k li pend, _ -> _ /\ _, Hp : forall i, Forall _ (?pend i) |- _ /\ _ =>
-             split; [apply Forall_cons; [discriminate|]; apply Forall_app; split; [apply Hp|]; apply IHa; intros; auto | apply IHa; intros; auto] end.
+             split; [apply Forall_cons; [discriminate|]; apply Forall_app; split; [apply Hp|]; apply IHa; intros | apply IHa; intros] end.
   all: try (split; [apply Forall_nil|assumption]).
   all: repeat (first [ apply Forall_nil | (apply Forall_cons; [discriminate|]) | (apply Forall_app; split) | solve [auto] ]).
 Qed.
+
 Lemma remap_type pl l : ll_type (remap pl l) = ll_type l. Proof. reflexivity. Qed.
 Lemma remap_toks pl l : ll_toks (remap pl l) = ll_toks l. Proof. reflexivity. Qed.
 
-Corollary fragment_single_eof_line ss :
+Corollary fragment_single_eof_line ss : wf ss = true ->
   let r := parse_file_model (render_prog ss) [] in
   exists pre, r_lines r = pre ++ [mkLine LLT_Eof 0%N None [S (S (S (length (render ss))))]]
     /\ Forall (fun l => ll_type l <> LLT_Eof) pre
     /\ nth_error (render_prog ss) (S (S (S (length (render ss))))) = Some RTT_Eof
     /\ length (render_prog ss) = S (S (S (S (length (render ss))))).
 Proof.
-  intros r. destruct (fragment_parse_file ss) as (_ & Hl & _). fold r in Hl.
+  intros Hwf r. destruct (fragment_parse_file ss Hwf) as (_ & Hl & _). fold r in Hl.
   set (A := mkLine LLT_Unknown 0%N None [0] :: pexpected None 1 1 1 ss
           ++ [mkLine LLT_Unknown 0%N None [1 + length (render ss); 1 + length (render ss) + 1]]).
   set (x := mkLine LLT_Eof 0%N None [1 + length (render ss) + 2]).
@@ -3422,34 +3908,32 @@ Lemma parents_ok_finalize pl : seg_ok [] pl -> parents_ok (finalize pl) = true.
 Proof. intros H. unfold parents_ok. rewrite finalize_eq at 2. exact (parents_ok_finalize_go pl pl [] eq_refl H). Qed.
 
 (* the parents are well-formed: the parent line comes earlier and holds the parent token *)
-Theorem fragment_parents_ok ss : parents_ok (r_lines (parse_file_model (render_prog ss) [])) = true.
+Theorem fragment_parents_ok ss : wf ss = true -> parents_ok (r_lines (parse_file_model (render_prog ss) [])) = true.
 Proof.
-  destruct (fragment_parse_file ss) as (_ & Hl & _). rewrite Hl. apply parents_ok_finalize, pexpected_prog_seg_ok.
+  intros Hwf. destruct (fragment_parse_file ss Hwf) as (_ & Hl & _). rewrite Hl. apply parents_ok_finalize, pexpected_prog_seg_ok.
 Qed.
-
-(* without `if`/`while` there are no child lines: no line has a parent *)
+(* without `if`/`while`/`case` there are no child lines: no line has a parent *)
 Lemma pexpected_child_free : forall ss d k li, child_free ss = true -> Forall (fun l => ll_parent l = None) (pexpected None d k li ss).
 Proof.
-  induction ss as [|r IH|r IH|b IHb r IHr|b IHb r IHr|b IHb c IHc r IHr|b IHb c IHc r IHr| | | | |]; intros d k li Hc; cbn [pexpected child_free] in *; cbv zeta;
-    try discriminate.
-  - constructor.
-  - constructor; [reflexivity|apply IH, Hc].
-  - constructor; [reflexivity|apply IH, Hc].
-  - apply andb_prop in Hc. destruct Hc as [H1 H2].
-    constructor; [reflexivity|]. apply Forall_app. split; [apply IHb, H1|]. constructor; [reflexivity|apply IHr, H2].
-  - apply andb_prop in Hc. destruct Hc as [H1 H2].
-    constructor; [reflexivity|]. apply Forall_app. split; [apply IHb, H1|]. constructor; [reflexivity|apply IHr, H2].
-  - apply andb_prop in Hc. destruct Hc as [H1 H3]. apply andb_prop in H1. destruct H1 as [H1 H2].
-    constructor; [reflexivity|]. apply Forall_app. split; [apply IHb, H1|]. constructor; [reflexivity|].
-    apply Forall_app. split; [apply IHc, H2|]. constructor; [reflexivity|apply IHr, H3].
-  - apply andb_prop in Hc. destruct Hc as [H1 H3]. apply andb_prop in H1. destruct H1 as [H1 H2].
-    constructor; [reflexivity|]. apply Forall_app. split; [apply IHb, H1|]. constructor; [reflexivity|].
-    apply Forall_app. split; [apply IHc, H2|]. constructor; [reflexivity|apply IHr, H3].
+  apply (stmts_mut (fun c => forall d k li sm, child_free_stmt c = true -> Forall (fun l => ll_parent l = None) (sexpected None d k li sm c))
+                   (fun ss => forall d k li, child_free ss = true -> Forall (fun l => ll_parent l = None) (pexpected None d k li ss))
+                   (fun _ => True) (fun _ => True));
+    cbn [sexpected pexpected child_free_stmt child_free]; cbv zeta; intros; try exact I; try discriminate.
+  all: repeat match goal with H : _ && _ = true |- _ => apply andb_prop in H; destruct H end.
+  all: repeat (first [ apply Forall_nil | (apply Forall_cons; [reflexivity|]) | (apply Forall_app; split) | solve [auto] ]).
 Qed.
+Lemma child_free_wf : forall ss, child_free ss = true -> wf ss = true.
+Proof.
+  apply (stmts_mut (fun c => child_free_stmt c = true -> wf_stmt c = true) (fun ss => child_free ss = true -> wf ss = true) (fun _ => True) (fun _ => True));
+    cbn [child_free_stmt child_free wf_stmt wf]; intros; try exact I; try discriminate; try reflexivity.
+  all: repeat match goal with H : _ && _ = true |- _ => apply andb_prop in H; destruct H end.
+  all: repeat (apply andb_true_intro; split); auto.
+Qed.
+
 Corollary fragment_no_parents ss : child_free ss = true ->
   Forall (fun l => ll_parent l = None) (r_lines (parse_file_model (render_prog ss) [])).
 Proof.
-  intros Hc. destruct (fragment_parse_file ss) as (_ & Hl & _). rewrite Hl. unfold expected_prog. rewrite finalize_eq.
+  intros Hc. destruct (fragment_parse_file ss (child_free_wf ss Hc)) as (_ & Hl & _). rewrite Hl. unfold expected_prog. rewrite finalize_eq.
   apply Forall_map. apply Forall_forall. intros l Hin. apply filter_In in Hin. destruct Hin as [Hin _].
   assert (Hp : Forall (fun l => ll_parent l = None) (pexpected_prog ss)).
   { unfold pexpected_prog. cbv zeta. constructor; [reflexivity|]. apply Forall_app. split; [apply pexpected_child_free, Hc|].
@@ -3458,16 +3942,27 @@ Proof.
 Qed.
 (* ... and a body of an `if`/`while` is a child line of the header line (non-vacuity of the parents) *)
 Example fragment_child_lines :
-  let ss := SIfElse TSimple (TBlock (SWhile TAssign SNil)) (SSimple SNil) in
+  let ss := SCons (TIfElse TSimple (TBlock (SCons (TWhile TAssign) SNil))) (SCons TSimple SNil) in
+  wf ss = true /\
   map (fun l => (ll_level l, ll_parent l, ll_toks l)) (r_lines (parse_file_model (render_prog ss) []))
   = [(0%N, None, [0]); (1%N, None, [1; 2; 3; 5]); (1%N, Some (1, 3), [4]); (1%N, Some (1, 5), [6]);
      (2%N, Some (1, 5), [7; 8; 9]); (1%N, Some (4, 9), [10; 11; 12; 13]); (1%N, Some (1, 5), [14; 15]);
      (1%N, None, [16; 17]); (0%N, None, [18; 19]); (0%N, None, [20])].
-Proof. vm_compute. reflexivity. Qed.
-
+Proof. split; vm_compute; reflexivity. Qed.
+(* bodies that are if/while/case statements themselves: a chain of child lines *)
+Example fragment_nested_bodies :
+  let ss := SCons (TIf (TWhile (TIfElse TSimple (TCase (ACons (TIf TAssign) ANil))))) SNil in
+  wf ss = true /\
+  map (fun l => (ll_type l, ll_level l, ll_parent l, ll_toks l)) (r_lines (parse_file_model (render_prog ss) []))
+  = map (fun l => (ll_type l, ll_level l, ll_parent l, ll_toks l)) (expected_prog ss)
+  /\ map (fun l => (ll_level l, ll_parent l, ll_toks l)) (expected_prog ss)
+  = [(0%N, None, [0]); (1%N, None, [1; 2; 3]); (1%N, Some (1, 3), [4; 5; 6]); (1%N, Some (2, 6), [7; 8; 9; 11]);
+     (1%N, Some (3, 9), [10]); (1%N, Some (3, 11), [12; 13; 14]); (2%N, Some (3, 11), [15; 16]); (1%N, Some (3, 11), [24; 25]);
+     (1%N, Some (6, 16), [17; 18; 19]); (1%N, Some (8, 19), [20; 21; 22; 23]); (0%N, None, [26; 27]); (0%N, None, [28])].
+Proof. repeat split; vm_compute; reflexivity. Qed.
 (* a case statement: the child lines of an arm come after the line that follows the arm line *)
 Example fragment_case_lines :
-  let ss := SCaseElse (ACons TSimple (ACons (TBlock (SSimple SNil)) ANil)) (SAssign SNil) (SCase ANil SNil) in
+  let ss := SCons (TCaseElse (ACons TSimple (ACons (TBlock (SCons TSimple SNil)) ANil)) (SCons TAssign SNil)) (SCons (TCase ANil) SNil) in
   map (fun l => (ll_type l, ll_level l, ll_parent l, ll_toks l)) (r_lines (parse_file_model (render_prog ss) []))
   = [(LLT_Unknown, 0%N, None, [0]); (LLT_CaseHeader, 1%N, None, [1; 2; 3]); (LLT_CaseArm, 2%N, None, [4; 5]);
      (LLT_CaseArm, 2%N, None, [8; 9]); (LLT_Unknown, 1%N, Some (2, 5), [6; 7]); (LLT_Unknown, 1%N, None, [15]);
@@ -3476,16 +3971,29 @@ Example fragment_case_lines :
      (LLT_CaseHeader, 1%N, None, [22; 23; 24]); (LLT_Unknown, 1%N, None, [25; 26]);
      (LLT_Unknown, 0%N, None, [27; 28]); (LLT_Eof, 0%N, None, [29])].
 Proof. vm_compute. reflexivity. Qed.
-
-(* non-vacuity: a program with three nesting levels, all statement forms *)
+(* exception handlers: `on` (lexed as IdentifierOrKeyword) is re-typed to a keyword; the body of a handler is a child line *)
+Example fragment_handlers :
+  let ss := SCons (TTryOn (SCons TSimple SNil) (HCons TSimple (HCons (TIf TAssign) HNil))) SNil in
+  wf ss = true /\
+  map (fun l => (ll_level l, ll_parent l, ll_toks l)) (r_lines (parse_file_model (render_prog ss) []))
+  = [(0%N, None, [0]); (1%N, None, [1]); (2%N, None, [2; 3]); (1%N, None, [4]); (2%N, None, [5; 6; 7; 8; 9]);
+     (1%N, Some (4, 9), [10; 11]); (2%N, None, [12; 13; 14; 15; 16]); (1%N, Some (6, 16), [17; 18; 19]);
+     (1%N, Some (7, 19), [20; 21; 22; 23]); (1%N, None, [24; 25]); (0%N, None, [26; 27]); (0%N, None, [28])]
+  /\ nth_error (render_prog ss) 5 = Some (RTT_IdentifierOrKeyword KK_On)
+  /\ nth_error (r_toks (parse_file_model (render_prog ss) [])) 5 = Some (RTT_Keyword KK_On)
+  /\ r_toks (parse_file_model (render_prog ss) []) = map retype (render_prog ss).
+Proof. repeat split; vm_compute; reflexivity. Qed.
+(* non-vacuity: all statement forms, nested *)
 Example fragment_example :
-  let ss := SSimple (SRepeat (SAssign (STry SNil (SSimple SNil) SNil))
-              (STry (SBlock SNil SNil) (SIf (TBlock (SSimple SNil)) SNil)
-                 (SBlock (SAssign (SWhile TSimple SNil)) (SIfElse TAssign TSimple (STryExcept (SSimple SNil) (SAssign SNil)
-                    (SCaseElse (ACons (TBlock (SCase (ACons TSimple ANil) SNil)) (ACons TAssign ANil)) (SIf TSimple SNil) SNil)))))) in
-  r_lines (parse_file_model (render_prog ss) []) = expected_prog ss
-  /\ child_free ss = false /\ child_free (SSimple (SRepeat SNil SNil)) = true
+  let ss := SCons TSimple (SCons (TRepeat (SCons TAssign (SCons (TTry SNil (SCons TSimple SNil)) SNil)))
+              (SCons (TTry (SCons (TBlock SNil) SNil) (SCons (TIf (TBlock (SCons TSimple SNil))) SNil))
+                 (SCons (TBlock (SCons TAssign (SCons (TWhile TSimple) SNil)))
+                    (SCons (TIfElse TAssign (TTryExcept (SCons TSimple SNil) (SCons TAssign SNil)))
+                       (SCons (TCaseElse (ACons (TBlock (SCons (TCase (ACons TSimple ANil)) SNil)) (ACons (TWhile (TIf TAssign)) ANil)) (SCons (TIf TSimple) SNil)) SNil))))) in
+  wf ss = true /\ r_lines (parse_file_model (render_prog ss) []) = expected_prog ss
+  /\ child_free ss = false /\ child_free (SCons TSimple (SCons (TRepeat SNil) SNil)) = true
   /\ map (fun l => (ll_level l, ll_toks l)) (firstn 9 (expected_prog ss))
      = [(0%N, [0]); (1%N, [1; 2]); (1%N, [3]); (2%N, [4; 5; 6; 7]); (2%N, [8]); (2%N, [9]); (3%N, [10; 11]); (2%N, [12; 13]);
         (1%N, [14; 15; 16])].
 Proof. repeat split; vm_compute; reflexivity. Qed.
+
